@@ -2,19 +2,19 @@ pub fn case_0(vars: &Vars) -> InferredGoal<DU, DE, Goal<DU, DE>> {
     let qa = vars.v[0].clone();
     let qb = vars.v[1].clone();
     let coll0: LT = LT::from_vec(vec![lterm!(2), lterm!([2]), lterm!([1])]);
-    proto_vulcan!([for e in &coll0 { |x| { 2 == qb, qb == [[], qb], [true, _] != qb } }])
+    proto_vulcan!([for e in &coll0 { |x| { [[3 | qa] | qb] == 3, [true, _] != qb, x == 1 } }])
 }
 pub fn case_1(vars: &Vars) -> InferredGoal<DU, DE, Goal<DU, DE>> {
     let qa = vars.v[0].clone();
     let qb = vars.v[1].clone();
     let coll0: Vec<LT> = vec![lterm!([2]), lterm!(2)];
-    proto_vulcan!([|t| { true, [t, []] == qb, qb == _ }, for e in &coll0 { append(qb, qa, [3, 3]) }])
+    proto_vulcan!([|t| { [t, []] == qb, qb == _ }, for e in &coll0 { append(qb, qa, [3, 3]) }])
 }
 pub fn case_2(vars: &Vars) -> InferredGoal<DU, DE, Goal<DU, DE>> {
     let qa = vars.v[0].clone();
     let qb = vars.v[1].clone();
     let coll0: Vec<LT> = vec![lterm!(3), lterm!(2)];
-    proto_vulcan!([[[], qa, 1] == qb, for e in &coll0 { member(qa, [1]), |h| { [1] == qa, |tz| { tz == [3, 3], [1 | tz] != [1, 3, 3] }, qa == [[], 2, 2] } }])
+    proto_vulcan!([for e in &coll0 { member(qa, [1]), |h| { h == [1, 1, []], _ != [[false, []], [3, e, _], 3] } }])
 }
 pub fn case_3(vars: &Vars) -> InferredGoal<DU, DE, Goal<DU, DE>> {
     let qa = vars.v[0].clone();
@@ -26,13 +26,13 @@ pub fn case_4(vars: &Vars) -> InferredGoal<DU, DE, Goal<DU, DE>> {
     let qa = vars.v[0].clone();
     let qb = vars.v[1].clone();
     let coll0: Vec<LT> = vec![];
-    proto_vulcan!([for e in &coll0 { |z| { |tz| { tz == [2, 1], [2, 2, 1] != [2 | tz] }, qa == [[qb, z, false], [], [1, 1, 1]], false } }])
+    proto_vulcan!([qb == [_, 1 | qb], for e in &coll0 { |z| { z == qb, false, qb != qa } }])
 }
 pub fn case_5(vars: &Vars) -> InferredGoal<DU, DE, Goal<DU, DE>> {
     let qa = vars.v[0].clone();
     let qb = vars.v[1].clone();
     let coll0: LT = LT::from_vec(vec![lterm!(3)]);
-    proto_vulcan!([qa != [1, qb], for e in &coll0 { |z, x| { ["a", 1, _] == x, 3 == x }, e == [e, e] }])
+    proto_vulcan!([for e in &coll0 { |z, x| { false, [2, z] != [[3, qb, [] | qb], qb, [qb, x, 'b']] }, qb == [2, 2] }])
 }
 pub fn case_6(vars: &Vars) -> InferredGoal<DU, DE, Goal<DU, DE>> {
     let qa = vars.v[0].clone();
@@ -56,13 +56,13 @@ pub fn case_9(vars: &Vars) -> InferredGoal<DU, DE, Goal<DU, DE>> {
     let qa = vars.v[0].clone();
     let qb = vars.v[1].clone();
     let coll0: LT = LT::from_vec(vec![qb.clone(), lterm!(3), lterm!(1)]);
-    proto_vulcan!([[false, member(qa, [1, 1])], for e in &coll0 { 'b' == [["bc" | _], [e, e] | qb], |t| { [[2, false]] == "bc", e != [_, [], []] } }])
+    proto_vulcan!([[append(qb, qb, [1, 2]), |tz| { tz == [2, 3], [1 | tz] != [1, 2, 3] }, qb == [1, qb, []]], for e in &coll0 { 'b' == [["bc" | _], [e, e] | qb], |t| { [2, [e]] == [3, "a", [] | e], [e, [_, e] | t] == false } }])
 }
 pub fn case_10(vars: &Vars) -> InferredGoal<DU, DE, Goal<DU, DE>> {
     let qa = vars.v[0].clone();
     let qb = vars.v[1].clone();
     let coll0: Vec<LT> = vec![lterm!(3), lterm!(3)];
-    proto_vulcan!([conde { qb == qa, [qb == 1, append(qb, qb, [1])], [false, qa != [2, [qb, 2, 3]]] }, for e in &coll0 { conde { [[2, _, []], [3]] == e, [qa != qb, qb == [1]], qb == [[[], qb] | qa] } }])
+    proto_vulcan!([for e in &coll0 { conde { [qa == [2, _, []], e == [[qa, 2, qb], []]], [e == e, qa == [qb, false, 1]] } }])
 }
 pub fn case_11(vars: &Vars) -> InferredGoal<DU, DE, Goal<DU, DE>> {
     let qa = vars.v[0].clone();
@@ -74,37 +74,37 @@ pub fn case_12(vars: &Vars) -> InferredGoal<DU, DE, Goal<DU, DE>> {
     let qa = vars.v[0].clone();
     let qb = vars.v[1].clone();
     let coll0: Vec<LT> = vec![lterm!([1]), qb.clone()];
-    proto_vulcan!([for e in &coll0 { |t| { e == [[t, []], [qa, 1, 2], [e, 1, 3] | e] } }])
+    proto_vulcan!([conde { [qa == [1], qa == [qb]] }, for e in &coll0 { |t| { [qb | qa] == t, true } }])
 }
 pub fn case_13(vars: &Vars) -> InferredGoal<DU, DE, Goal<DU, DE>> {
     let qa = vars.v[0].clone();
     let qb = vars.v[1].clone();
     let coll0: Vec<LT> = vec![lterm!(2), lterm!(1)];
-    proto_vulcan!([|y| { qa == 1, y != 2, y == 1 }, for e in &coll0 { qb == qb }])
+    proto_vulcan!([|y| { append(qb, qa, [2]), [qb] == qb }, for e in &coll0 { qb == qb }])
 }
 pub fn case_14(vars: &Vars) -> InferredGoal<DU, DE, Goal<DU, DE>> {
     let qa = vars.v[0].clone();
     let qb = vars.v[1].clone();
     let coll0: Vec<LT> = vec![];
-    proto_vulcan!([[true], for e in &coll0 { qa == qa }])
+    proto_vulcan!([[], for e in &coll0 { qa == qa }])
 }
 pub fn case_15(vars: &Vars) -> InferredGoal<DU, DE, Goal<DU, DE>> {
     let qa = vars.v[0].clone();
     let qb = vars.v[1].clone();
     let coll0: Vec<LT> = vec![lterm!(2), qa.clone()];
-    proto_vulcan!([for e in &coll0 { |y| { 2 == qa, _ == [2] } }])
+    proto_vulcan!([for e in &coll0 { |y| { [2, []] == qb, y != 'a' } }])
 }
 pub fn case_16(vars: &Vars) -> InferredGoal<DU, DE, Goal<DU, DE>> {
     let qa = vars.v[0].clone();
     let qb = vars.v[1].clone();
     let coll0: Vec<LT> = vec![];
-    proto_vulcan!([true, for e in &coll0 { |x, t| { true, e == [3, t], [[2], [] | x] != t } }])
+    proto_vulcan!([for e in &coll0 { |x, t| { e == [3, t], [[2], [] | x] != t, member(qa, []) } }])
 }
 pub fn case_17(vars: &Vars) -> InferredGoal<DU, DE, Goal<DU, DE>> {
     let qa = vars.v[0].clone();
     let qb = vars.v[1].clone();
     let coll0: LT = LT::from_vec(vec![qa.clone()]);
-    proto_vulcan!([for e in &coll0 { |z| { qa == z } }])
+    proto_vulcan!([for e in &coll0 { |z| { [[1], [qb | qb], [e]] == [qa, 2] } }])
 }
 pub fn case_18(vars: &Vars) -> InferredGoal<DU, DE, Goal<DU, DE>> {
     let qa = vars.v[0].clone();
@@ -116,13 +116,13 @@ pub fn case_19(vars: &Vars) -> InferredGoal<DU, DE, Goal<DU, DE>> {
     let qa = vars.v[0].clone();
     let qb = vars.v[1].clone();
     let coll0: Vec<LT> = vec![lterm!(2), lterm!(3)];
-    proto_vulcan!([for e in &coll0 { [e == 3] }])
+    proto_vulcan!([for e in &coll0 { [e == [qa, qb, qb], qb != e, [e, 1] == e] }])
 }
 pub fn case_20(vars: &Vars) -> InferredGoal<DU, DE, Goal<DU, DE>> {
     let qa = vars.v[0].clone();
     let qb = vars.v[1].clone();
     let coll0: Vec<LT> = vec![];
-    proto_vulcan!([|t, z| { member(qb, [1, 3]), z == [z, [], z] }, for e in &coll0 { conde { false, [qb | e] != qb, [[[], qa] == qb, append(qa, e, [])] } }])
+    proto_vulcan!(["bc" == qb, for e in &coll0 { conde { [qb | e] != qb, false } }])
 }
 pub fn case_21(vars: &Vars) -> InferredGoal<DU, DE, Goal<DU, DE>> {
     let qa = vars.v[0].clone();
@@ -140,7 +140,7 @@ pub fn case_23(vars: &Vars) -> InferredGoal<DU, DE, Goal<DU, DE>> {
     let qa = vars.v[0].clone();
     let qb = vars.v[1].clone();
     let coll0: Vec<LT> = vec![lterm!(3), lterm!(1)];
-    proto_vulcan!([|x| { x != [qa, [[], qb, []], [qb, 2 | qa]], qb != [] }, for e in &coll0 { |y| { false == e } }])
+    proto_vulcan!([1 != qb, for e in &coll0 { |y| { e != [y] } }])
 }
 pub fn case_24(vars: &Vars) -> InferredGoal<DU, DE, Goal<DU, DE>> {
     let qa = vars.v[0].clone();
@@ -152,7 +152,7 @@ pub fn case_25(vars: &Vars) -> InferredGoal<DU, DE, Goal<DU, DE>> {
     let qa = vars.v[0].clone();
     let qb = vars.v[1].clone();
     let coll0: Vec<LT> = vec![lterm!(1), qa.clone()];
-    proto_vulcan!([for e in &coll0 { |h, t| { t == ['b'] }, |y, t| { ['a', y] == qa, qa == [[2], ['a', [], "bc"], _ | qb] } }])
+    proto_vulcan!([qa != qa, for e in &coll0 { |h, t| { e == [[], []] }, |y, t| { t == 'a' } }])
 }
 pub fn case_26(vars: &Vars) -> InferredGoal<DU, DE, Goal<DU, DE>> {
     let qa = vars.v[0].clone();
@@ -164,7 +164,7 @@ pub fn case_27(vars: &Vars) -> InferredGoal<DU, DE, Goal<DU, DE>> {
     let qa = vars.v[0].clone();
     let qb = vars.v[1].clone();
     let coll0: LT = LT::from_vec(vec![lterm!([2]), lterm!([1]), lterm!(2)]);
-    proto_vulcan!([for e in &coll0 { qa != [qa, [2, qa, e] | 3], conde { true, [true, qb == e] } }])
+    proto_vulcan!([[[qa, 1, qa], 1, 2] == qb, for e in &coll0 { qa != [qa, [2, qa, e] | 3], conde { append(qb, qb, [3, 3]) } }])
 }
 pub fn case_28(vars: &Vars) -> InferredGoal<DU, DE, Goal<DU, DE>> {
     let qa = vars.v[0].clone();
@@ -188,13 +188,13 @@ pub fn case_31(vars: &Vars) -> InferredGoal<DU, DE, Goal<DU, DE>> {
     let qa = vars.v[0].clone();
     let qb = vars.v[1].clone();
     let coll0: LT = LT::from_vec(vec![lterm!([1])]);
-    proto_vulcan!([conde { [true, qa != qa], [[[false, 1, qb | qa], [3, [], 3], [qb, false, 2 | qb] | false] == [1, qa | qb], qa == qb], [2 != qa, qb == qa] }, for e in &coll0 { conde { [e != qb, false], [1, 3, 2] == qb, [member(e, [3]), true] }, e == e }])
+    proto_vulcan!([for e in &coll0 { conde { [2, "a", 2] != qa, [[], e] == qb, [_ == qb, member(qa, [1])] }, e != _ }])
 }
 pub fn case_32(vars: &Vars) -> InferredGoal<DU, DE, Goal<DU, DE>> {
     let qa = vars.v[0].clone();
     let qb = vars.v[1].clone();
     let coll0: LT = LT::from_vec(vec![qb.clone(), qb.clone(), lterm!(1)]);
-    proto_vulcan!([for e in &coll0 { conde { [qb == e, [[], 1] != qb], [|tz| { [2, 2, 2] != [2 | tz], tz == [2, 2] }, [false, qa | qb] == e], [[[]], [1, 'a'], [_]] != [_, 2] } }])
+    proto_vulcan!([qb == qa, for e in &coll0 { conde { qa == qb, |tz| { tz == [1, 2], [2, 1, 2] != [2 | tz] }, [qa == 1, member(e, [2])] } }])
 }
 pub fn case_33(vars: &Vars) -> InferredGoal<DU, DE, Goal<DU, DE>> {
     let qa = vars.v[0].clone();
@@ -206,31 +206,31 @@ pub fn case_34(vars: &Vars) -> InferredGoal<DU, DE, Goal<DU, DE>> {
     let qa = vars.v[0].clone();
     let qb = vars.v[1].clone();
     let coll0: LT = LT::from_vec(vec![qb.clone()]);
-    proto_vulcan!([for e in &coll0 { qa == [[qb, qa, qa], _], conde { qa == [[qb, qb, qb], [false, e, 'a'], [2, _] | e], true, 1 == e } }])
+    proto_vulcan!([for e in &coll0 { qa == [[qb, qa, qa], _], conde { [e, ["bc"], [[] | 'a']] == e, [true, [qb, 2, "a"] == e] } }])
 }
 pub fn case_35(vars: &Vars) -> InferredGoal<DU, DE, Goal<DU, DE>> {
     let qa = vars.v[0].clone();
     let qb = vars.v[1].clone();
     let coll0: Vec<LT> = vec![];
-    proto_vulcan!([[qb, 1] != qb, for e in &coll0 { conde { [qa == [[qa, 3 | qa], [_, qa, qa | e], qb], qb == [qb, qb, e]], [3 == e, [qa] != qb] }, 1 == qa }])
+    proto_vulcan!([for e in &coll0 { conde { [[[qa, 3 | qa], [_, qa, qa | e], qb] == e, true], [e != qb, 3 == e], [[[1], 1, [true, qa]] != [qa], qa == [[], _]] }, true }])
 }
 pub fn case_36(vars: &Vars) -> InferredGoal<DU, DE, Goal<DU, DE>> {
     let qa = vars.v[0].clone();
     let qb = vars.v[1].clone();
     let coll0: LT = LT::from_vec(vec![qa.clone(), qb.clone(), lterm!([2])]);
-    proto_vulcan!([qa == qb, for e in &coll0 { 2 == e, [[_, qa] == qa, true] }])
+    proto_vulcan!([[_, _] == qb, for e in &coll0 { 2 == e, [_ == qa, [2 | qa] == qa, [] == e] }])
 }
 pub fn case_37(vars: &Vars) -> InferredGoal<DU, DE, Goal<DU, DE>> {
     let qa = vars.v[0].clone();
     let qb = vars.v[1].clone();
     let coll0: LT = LT::from_vec(vec![lterm!([1])]);
-    proto_vulcan!([conde { [member(qb, []), |tz| { [3, 1 | tz] != [3, 1, 3, 2], tz == [3, 2] }], ["a", [[], 2, 2]] == [2, true, qa], [member(qb, [2, 1, 2]), qa == [qa, [qb, []] | qb]] }, for e in &coll0 { "a" == qb }])
+    proto_vulcan!([conde { [true, |tz| { [3, 1 | tz] != [3, 1, 3, 2], tz == [3, 2] }], [[qa, 2, 2]] != [1, 2, true], [[qb, qa] != qb, [[]] == qb] }, for e in &coll0 { "a" == qb }])
 }
 pub fn case_38(vars: &Vars) -> InferredGoal<DU, DE, Goal<DU, DE>> {
     let qa = vars.v[0].clone();
     let qb = vars.v[1].clone();
     let coll0: Vec<LT> = vec![qb.clone(), lterm!([2])];
-    proto_vulcan!([for e in &coll0 { |y, x| { [_, 'a', []] != e, false, [qa, e, 3 | y] == y } }])
+    proto_vulcan!([for e in &coll0 { |y, x| { append(x, e, [3]), [[], 1] == e, y == e } }])
 }
 pub fn case_39(vars: &Vars) -> InferredGoal<DU, DE, Goal<DU, DE>> {
     let qa = vars.v[0].clone();
@@ -254,7 +254,7 @@ pub fn case_42(vars: &Vars) -> InferredGoal<DU, DE, Goal<DU, DE>> {
     let qa = vars.v[0].clone();
     let qb = vars.v[1].clone();
     let coll0: LT = LT::from_vec(vec![lterm!([2])]);
-    proto_vulcan!([qb == [2], for e in &coll0 { e == [e, _, 3 | 2], |x| { x != 3 } }])
+    proto_vulcan!([[2 == [[1]], qb == 2], for e in &coll0 { e == [e, _, 3 | 2], |x| { member(e, [3, 1, 1]), |tz| { [1, 1, 2, 1] != [1, 1 | tz], tz == [2, 1] }, [_] == x } }])
 }
 pub fn case_43(vars: &Vars) -> InferredGoal<DU, DE, Goal<DU, DE>> {
     let qa = vars.v[0].clone();
@@ -272,13 +272,13 @@ pub fn case_45(vars: &Vars) -> InferredGoal<DU, DE, Goal<DU, DE>> {
     let qa = vars.v[0].clone();
     let qb = vars.v[1].clone();
     let coll0: LT = LT::from_vec(vec![lterm!(3), lterm!(3), lterm!(3)]);
-    proto_vulcan!([for e in &coll0 { [e == [qa, _, 3], qb == e] }])
+    proto_vulcan!([2 == qa, for e in &coll0 { [qb == [e, 3], qb == e, qa == e] }])
 }
 pub fn case_46(vars: &Vars) -> InferredGoal<DU, DE, Goal<DU, DE>> {
     let qa = vars.v[0].clone();
     let qb = vars.v[1].clone();
     let coll0: Vec<LT> = vec![];
-    proto_vulcan!([|tz| { [1, 1 | tz] != [1, 1, 2, 3], tz == [2, 3] }, for e in &coll0 { conde { qa == [e], [[qa, 1, 'b'] != [1, 1, "a"], qb != [[], [qb, 1, qb | e], [3, e]]] }, [[qa, 2 | 3] | e] == 1 }])
+    proto_vulcan!([for e in &coll0 { conde { qb == e, [] }, [] }])
 }
 pub fn case_47(vars: &Vars) -> InferredGoal<DU, DE, Goal<DU, DE>> {
     let qa = vars.v[0].clone();
@@ -302,7 +302,7 @@ pub fn case_50(vars: &Vars) -> InferredGoal<DU, DE, Goal<DU, DE>> {
     let qa = vars.v[0].clone();
     let qb = vars.v[1].clone();
     let coll0: LT = LT::from_vec(vec![lterm!(2)]);
-    proto_vulcan!([1 == [[qa], [qa, [], _], [2, 2, 'a' | qa]], for e in &coll0 { [3, [], [[], qa] | e] == 'b', |x, t| { qb == qb } }])
+    proto_vulcan!([for e in &coll0 { [3, [], [[], qa] | e] == 'b', |x, t| { [[_], [1], [qb] | qa] == qa, [['a' | qa], 2 | qb] == _ } }])
 }
 pub fn case_51(vars: &Vars) -> InferredGoal<DU, DE, Goal<DU, DE>> {
     let qa = vars.v[0].clone();
@@ -320,13 +320,13 @@ pub fn case_53(vars: &Vars) -> InferredGoal<DU, DE, Goal<DU, DE>> {
     let qa = vars.v[0].clone();
     let qb = vars.v[1].clone();
     let coll0: Vec<LT> = vec![qa.clone(), qa.clone()];
-    proto_vulcan!([[_, _, qa] != qb, for e in &coll0 { [[false, []]] != [[_, "bc" | qb], [_, qb], [_] | e], [true] }])
+    proto_vulcan!([qb == qa, for e in &coll0 { [[false, []]] != [[_, "bc" | qb], [_, qb], [_] | e], [["a", _, qa] != e, [[qa] | qb] != qa, false] }])
 }
 pub fn case_54(vars: &Vars) -> InferredGoal<DU, DE, Goal<DU, DE>> {
     let qa = vars.v[0].clone();
     let qb = vars.v[1].clone();
     let coll0: Vec<LT> = vec![];
-    proto_vulcan!([for e in &coll0 { |t, h| { "a" == t }, |tz| { [1, 2, 1] != [1 | tz], tz == [2, 1] } }])
+    proto_vulcan!([qb == [qb, [], qb | qb], for e in &coll0 { |t, h| { h == [true, qb, 1 | h], 1 == t }, qa == [[]] }])
 }
 pub fn case_55(vars: &Vars) -> InferredGoal<DU, DE, Goal<DU, DE>> {
     let qa = vars.v[0].clone();
@@ -344,7 +344,7 @@ pub fn case_57(vars: &Vars) -> InferredGoal<DU, DE, Goal<DU, DE>> {
     let qa = vars.v[0].clone();
     let qb = vars.v[1].clone();
     let coll0: Vec<LT> = vec![lterm!(2), qb.clone()];
-    proto_vulcan!([for e in &coll0 { conde { [qb == [[], "bc", qb], 1 == qa], [|tz| { [2, 2, 1] != [2, 2 | tz], tz == [1] }, |tz| { [2, 3 | tz] != [2, 3, 2], tz == [2] }], true } }])
+    proto_vulcan!([for e in &coll0 { conde { [e != [[], 1, 2], false], qa == [[2]], [[_, qb, qa] == e, [qb, qb | qb] != qa] } }])
 }
 pub fn case_58(vars: &Vars) -> InferredGoal<DU, DE, Goal<DU, DE>> {
     let qa = vars.v[0].clone();
@@ -356,7 +356,7 @@ pub fn case_59(vars: &Vars) -> InferredGoal<DU, DE, Goal<DU, DE>> {
     let qa = vars.v[0].clone();
     let qb = vars.v[1].clone();
     let coll0: Vec<LT> = vec![];
-    proto_vulcan!([|z| { true, _ != qa, z == z }, for e in &coll0 { 3 != e }])
+    proto_vulcan!([|z| { _ != qa, z == z, [[]] == z }, for e in &coll0 { 3 != e }])
 }
 pub fn case_60(vars: &Vars) -> InferredGoal<DU, DE, Goal<DU, DE>> {
     let qa = vars.v[0].clone();
@@ -368,13 +368,13 @@ pub fn case_61(vars: &Vars) -> InferredGoal<DU, DE, Goal<DU, DE>> {
     let qa = vars.v[0].clone();
     let qb = vars.v[1].clone();
     let coll0: LT = LT::from_vec(vec![qa.clone(), qa.clone(), lterm!(2)]);
-    proto_vulcan!([false, for e in &coll0 { conde { [[[qb], [qb, e | qb], 'b'] == [[2], [e, e], [qa, qa, 2]], [qa, ['b'] | qb] == e], [false, append(e, qb, [2, 2])] } }])
+    proto_vulcan!([for e in &coll0 { conde { [e == qb, true], [true, e != [2]], true } }])
 }
 pub fn case_62(vars: &Vars) -> InferredGoal<DU, DE, Goal<DU, DE>> {
     let qa = vars.v[0].clone();
     let qb = vars.v[1].clone();
     let coll0: LT = LT::from_vec(vec![lterm!(1), lterm!(3), lterm!([1])]);
-    proto_vulcan!([|t| { 3 == qa, 2 == qa, qa == [qb] }, for e in &coll0 { [true, qb != ["bc"], qa == qa], e == [['a', 2, qa], [], [true | qb]] }])
+    proto_vulcan!([qa != [2], for e in &coll0 { [], qb != ["bc"] }])
 }
 pub fn case_63(vars: &Vars) -> InferredGoal<DU, DE, Goal<DU, DE>> {
     let qa = vars.v[0].clone();
@@ -392,7 +392,7 @@ pub fn case_65(vars: &Vars) -> InferredGoal<DU, DE, Goal<DU, DE>> {
     let qa = vars.v[0].clone();
     let qb = vars.v[1].clone();
     let coll0: LT = LT::from_vec(vec![qb.clone()]);
-    proto_vulcan!([for e in &coll0 { [qa == [_, [], qb | qb], false] }])
+    proto_vulcan!([for e in &coll0 { [[[]] == e, qb == [qa, [], qb], qb != [2]] }])
 }
 pub fn case_66(vars: &Vars) -> InferredGoal<DU, DE, Goal<DU, DE>> {
     let qa = vars.v[0].clone();
@@ -404,25 +404,25 @@ pub fn case_67(vars: &Vars) -> InferredGoal<DU, DE, Goal<DU, DE>> {
     let qa = vars.v[0].clone();
     let qb = vars.v[1].clone();
     let coll0: LT = LT::from_vec(vec![qa.clone()]);
-    proto_vulcan!([for e in &coll0 { |z, t| { z == [true, t, "bc"] } }])
+    proto_vulcan!([for e in &coll0 { |z, t| { true != qb, [e, e, qb] == qb } }])
 }
 pub fn case_68(vars: &Vars) -> InferredGoal<DU, DE, Goal<DU, DE>> {
     let qa = vars.v[0].clone();
     let qb = vars.v[1].clone();
     let coll0: Vec<LT> = vec![qb.clone(), qb.clone()];
-    proto_vulcan!([for e in &coll0 { |h| { qb == [qa, 2] } }])
+    proto_vulcan!([for e in &coll0 { |h| { false, append(qb, qb, [2, 2]), true } }])
 }
 pub fn case_69(vars: &Vars) -> InferredGoal<DU, DE, Goal<DU, DE>> {
     let qa = vars.v[0].clone();
     let qb = vars.v[1].clone();
     let coll0: Vec<LT> = vec![lterm!(1), lterm!([1])];
-    proto_vulcan!([for e in &coll0 { [qa == e] }])
+    proto_vulcan!([[[qb, 2, _ | 'a'] | 3] != qb, for e in &coll0 { [[qa, qa, 3] != e, [e, e, _] == e] }])
 }
 pub fn case_70(vars: &Vars) -> InferredGoal<DU, DE, Goal<DU, DE>> {
     let qa = vars.v[0].clone();
     let qb = vars.v[1].clone();
     let coll0: LT = LT::from_vec(vec![lterm!([2])]);
-    proto_vulcan!([[qb != [], append(qa, qb, [2, 2])], for e in &coll0 { qa == [false, [1, "bc"], []] }])
+    proto_vulcan!([[[] == _], for e in &coll0 { qa == [false, [1, "bc"], []] }])
 }
 pub fn case_71(vars: &Vars) -> InferredGoal<DU, DE, Goal<DU, DE>> {
     let qa = vars.v[0].clone();
@@ -434,25 +434,25 @@ pub fn case_72(vars: &Vars) -> InferredGoal<DU, DE, Goal<DU, DE>> {
     let qa = vars.v[0].clone();
     let qb = vars.v[1].clone();
     let coll0: LT = LT::from_vec(vec![qb.clone()]);
-    proto_vulcan!([for e in &coll0 { |y, h| { [e | h] == e, [_, [], y] == qb, false }, qb == [_] }])
+    proto_vulcan!([for e in &coll0 { |y, h| { false }, qa == qa }])
 }
 pub fn case_73(vars: &Vars) -> InferredGoal<DU, DE, Goal<DU, DE>> {
     let qa = vars.v[0].clone();
     let qb = vars.v[1].clone();
     let coll0: Vec<LT> = vec![];
-    proto_vulcan!([qb == [qb, qa, 1], for e in &coll0 { conde { [qa != e, true], [qa == qa, [e, true] == e] } }])
+    proto_vulcan!([for e in &coll0 { conde { [[e] == qb, e == _] } }])
 }
 pub fn case_74(vars: &Vars) -> InferredGoal<DU, DE, Goal<DU, DE>> {
     let qa = vars.v[0].clone();
     let qb = vars.v[1].clone();
     let coll0: LT = LT::from_vec(vec![lterm!([2])]);
-    proto_vulcan!([for e in &coll0 { qb == [qa, [qb | qa], [e, qb | _]], [true, member(qb, [])] }])
+    proto_vulcan!([[[]] != qb, for e in &coll0 { qb == [qa, [qb | qa], [e, qb | _]], [member(qb, []), false] }])
 }
 pub fn case_75(vars: &Vars) -> InferredGoal<DU, DE, Goal<DU, DE>> {
     let qa = vars.v[0].clone();
     let qb = vars.v[1].clone();
     let coll0: Vec<LT> = vec![];
-    proto_vulcan!([for e in &coll0 { conde { |tz| { [1 | tz] != [1, 1, 1], tz == [1, 1] }, [e == [2, true, e | qb], qb == [[e | _] | e]], member(qb, [1]) }, [e, qb | e] == qa }])
+    proto_vulcan!([false, for e in &coll0 { conde { qa == [[1, qb | 2], [1] | qb], member(qb, [2, 1, 3]) }, true }])
 }
 pub fn case_76(vars: &Vars) -> InferredGoal<DU, DE, Goal<DU, DE>> {
     let qa = vars.v[0].clone();
@@ -470,7 +470,7 @@ pub fn case_78(vars: &Vars) -> InferredGoal<DU, DE, Goal<DU, DE>> {
     let qa = vars.v[0].clone();
     let qb = vars.v[1].clone();
     let coll0: Vec<LT> = vec![lterm!(1), lterm!(3)];
-    proto_vulcan!([for e in &coll0 { conde { qb == [qa], [true, 2 == [[2, 2, qa], qa]], [qb != [true], qb != [qa, 1]] } }])
+    proto_vulcan!([for e in &coll0 { conde { qb == e, 2 == [[2, 2, qa], qa] } }])
 }
 pub fn case_79(vars: &Vars) -> InferredGoal<DU, DE, Goal<DU, DE>> {
     let qa = vars.v[0].clone();
@@ -482,25 +482,25 @@ pub fn case_80(vars: &Vars) -> InferredGoal<DU, DE, Goal<DU, DE>> {
     let qa = vars.v[0].clone();
     let qb = vars.v[1].clone();
     let coll0: Vec<LT> = vec![];
-    proto_vulcan!([|x, z| { [z] == 3 }, for e in &coll0 { [e == qa, e == [qa, _ | e]], conde { [qa == qb, 2 != qa], qb != [qb] } }])
+    proto_vulcan!([conde { [qa != [_], qb == [[qb, qa], [qa, 2, []]]], [] }, for e in &coll0 { [e == [qa, "a", qb | qb], qb != [2]], [1, 2 | qb] != qb }])
 }
 pub fn case_81(vars: &Vars) -> InferredGoal<DU, DE, Goal<DU, DE>> {
     let qa = vars.v[0].clone();
     let qb = vars.v[1].clone();
     let coll0: Vec<LT> = vec![];
-    proto_vulcan!([qa == [_, _, _ | _], for e in &coll0 { conde { member(qa, []), qb != [], [true, 1 == qb] } }])
+    proto_vulcan!([conde { [[2 | qa] == qb, qa == []], [[2, [[], 1]] == [qb, [qb, "bc", 2 | qb], [qa] | _], [1, _ | qb] == qa] }, for e in &coll0 { conde { [e != 'b', 2 == e], [qa, _] != _ } }])
 }
 pub fn case_82(vars: &Vars) -> InferredGoal<DU, DE, Goal<DU, DE>> {
     let qa = vars.v[0].clone();
     let qb = vars.v[1].clone();
     let coll0: Vec<LT> = vec![];
-    proto_vulcan!([for e in &coll0 { [qa | qa] == qa, conde { false, [member(e, [1, 3, 3]), 1 != e] } }])
+    proto_vulcan!([for e in &coll0 { [qa | qa] == qa, conde { [member(e, [1, 3, 3]), 1 != e], false } }])
 }
 pub fn case_83(vars: &Vars) -> InferredGoal<DU, DE, Goal<DU, DE>> {
     let qa = vars.v[0].clone();
     let qb = vars.v[1].clone();
     let coll0: LT = LT::from_vec(vec![qa.clone()]);
-    proto_vulcan!([[true, [3, 3, 'a'] == qa], for e in &coll0 { |t| { [2, e] == qb }, [e] == [2] }])
+    proto_vulcan!([|x| {  }, for e in &coll0 { |t| { ["bc", e] == t }, conde { qa == [['b'], qb], [qa, _, "bc" | qb] != e, [[qa] == [[qa, 2, qb | _], [2, qb, 3 | e]], false] } }])
 }
 pub fn case_84(vars: &Vars) -> InferredGoal<DU, DE, Goal<DU, DE>> {
     let qa = vars.v[0].clone();
@@ -524,25 +524,25 @@ pub fn case_87(vars: &Vars) -> InferredGoal<DU, DE, Goal<DU, DE>> {
     let qa = vars.v[0].clone();
     let qb = vars.v[1].clone();
     let coll0: LT = LT::from_vec(vec![lterm!(1)]);
-    proto_vulcan!([for e in &coll0 { conde { [|tz| { [2, 1 | tz] != [2, 1, 2, 1], tz == [2, 1] }, append(qa, qa, [2, 3])], [qa == [_, 3], false], [|tz| { [2, 3, 2, 1] != [2, 3 | tz], tz == [2, 1] }, 1 != qa] }, [qb == e, qa != 3] }])
+    proto_vulcan!([for e in &coll0 { conde { false, [e] == e, [qa == 3, true] }, [append(qb, e, [2, 1])] }])
 }
 pub fn case_88(vars: &Vars) -> InferredGoal<DU, DE, Goal<DU, DE>> {
     let qa = vars.v[0].clone();
     let qb = vars.v[1].clone();
     let coll0: LT = LT::from_vec(vec![lterm!(3)]);
-    proto_vulcan!([qa == [[], qb | qb], for e in &coll0 { |x| { |tz| { tz == [2], [2, 2] != [2 | tz] }, [1, _, 1] == x, [1, 2, [] | x] != e } }])
+    proto_vulcan!([for e in &coll0 { |x| { qa != [qa], e != 2, append(e, e, [3, 3]) } }])
 }
 pub fn case_89(vars: &Vars) -> InferredGoal<DU, DE, Goal<DU, DE>> {
     let qa = vars.v[0].clone();
     let qb = vars.v[1].clone();
     let coll0: LT = LT::from_vec(vec![qa.clone()]);
-    proto_vulcan!([[2] == qa, for e in &coll0 { conde { [[qa, qb, 1 | qb] == qa, |tz| { [2, 2 | tz] != [2, 2, 3], tz == [3] }], [qb, qa, _ | e] == e }, |h| { qa != e, [e, _ | 2] == e } }])
+    proto_vulcan!([true != qa, for e in &coll0 { conde { [qa == qa, |tz| { tz == [3, 1], [2, 2 | tz] != [2, 2, 3, 1] }] }, |x| { e == 2 } }])
 }
 pub fn case_90(vars: &Vars) -> InferredGoal<DU, DE, Goal<DU, DE>> {
     let qa = vars.v[0].clone();
     let qb = vars.v[1].clone();
     let coll0: LT = LT::from_vec(vec![qa.clone(), lterm!(1), lterm!([2])]);
-    proto_vulcan!([for e in &coll0 { qb != 2, [qa == e, qb == qb, [qb] == ["a", ["a"], e]] }])
+    proto_vulcan!([for e in &coll0 { qb != 2, [e == [1, true, 3 | qb], [qb] == ["a", ["a"], e]] }])
 }
 pub fn case_91(vars: &Vars) -> InferredGoal<DU, DE, Goal<DU, DE>> {
     let qa = vars.v[0].clone();
@@ -566,19 +566,19 @@ pub fn case_94(vars: &Vars) -> InferredGoal<DU, DE, Goal<DU, DE>> {
     let qa = vars.v[0].clone();
     let qb = vars.v[1].clone();
     let coll0: Vec<LT> = vec![];
-    proto_vulcan!([|x, y| { x == y }, for e in &coll0 { false, ["a" | qb] == [[_, _]] }])
+    proto_vulcan!([|x, y| {  }, for e in &coll0 { false, ["a" | qb] == [[_, _]] }])
 }
 pub fn case_95(vars: &Vars) -> InferredGoal<DU, DE, Goal<DU, DE>> {
     let qa = vars.v[0].clone();
     let qb = vars.v[1].clone();
     let coll0: Vec<LT> = vec![];
-    proto_vulcan!([for e in &coll0 { [qa == [1, []], true] }])
+    proto_vulcan!([[qb, qa] == qa, for e in &coll0 { [append(qa, qa, [2])] }])
 }
 pub fn case_96(vars: &Vars) -> InferredGoal<DU, DE, Goal<DU, DE>> {
     let qa = vars.v[0].clone();
     let qb = vars.v[1].clone();
     let coll0: Vec<LT> = vec![];
-    proto_vulcan!([qa != [2, [1]], for e in &coll0 { qb != [[3, 1, 1] | qb], [append(qb, e, [1]), [[3, e], [[]]] == [e, 'b' | 3]] }])
+    proto_vulcan!([|h| { h == h }, for e in &coll0 { qb != [[3, 1, 1] | qb], [qa == [['a', _], qb, []]] }])
 }
 pub fn case_97(vars: &Vars) -> InferredGoal<DU, DE, Goal<DU, DE>> {
     let qa = vars.v[0].clone();
@@ -590,19 +590,19 @@ pub fn case_98(vars: &Vars) -> InferredGoal<DU, DE, Goal<DU, DE>> {
     let qa = vars.v[0].clone();
     let qb = vars.v[1].clone();
     let coll0: LT = LT::from_vec(vec![lterm!(2)]);
-    proto_vulcan!([for e in &coll0 { [['b'] != qb, [qb] == [["bc", "bc", qa], [1, 1, e], [[], []]]] }])
+    proto_vulcan!([for e in &coll0 { [[e, 2 | _] == qa, qb == [qa]] }])
 }
 pub fn case_99(vars: &Vars) -> InferredGoal<DU, DE, Goal<DU, DE>> {
     let qa = vars.v[0].clone();
     let qb = vars.v[1].clone();
     let coll0: Vec<LT> = vec![];
-    proto_vulcan!([[[1, _, []] == qb, qb != 3], for e in &coll0 { conde { [qb == [[] | qa], qa == [qa, _ | e]], [[qa, qa, e] == qb, member(e, [3, 3, 3])], qa == [1] } }])
+    proto_vulcan!([[[1, _, _], [2, true], [3, false, _]] == qa, for e in &coll0 { conde { [_ | e] == qa, [member(qb, []), 2 == e], [[e, "bc" | e] == e, [[e, _]] == qb] } }])
 }
 pub fn case_100(vars: &Vars) -> InferredGoal<DU, DE, Goal<DU, DE>> {
     let qa = vars.v[0].clone();
     let qb = vars.v[1].clone();
     let coll0: LT = LT::from_vec(vec![lterm!(1)]);
-    proto_vulcan!([for e in &coll0 { [[[[], 1]] != qb, true, 2 == qa] }])
+    proto_vulcan!([for e in &coll0 { [append(qa, qb, [1]), 'b' == qa, 2 == qa] }])
 }
 pub fn case_101(vars: &Vars) -> InferredGoal<DU, DE, Goal<DU, DE>> {
     let qa = vars.v[0].clone();
@@ -614,7 +614,7 @@ pub fn case_102(vars: &Vars) -> InferredGoal<DU, DE, Goal<DU, DE>> {
     let qa = vars.v[0].clone();
     let qb = vars.v[1].clone();
     let coll0: Vec<LT> = vec![];
-    proto_vulcan!([for e in &coll0 { |x| { _ != x } }])
+    proto_vulcan!([|z| {  }, for e in &coll0 { |x| { x == qb, |tz| { [1, 1 | tz] != [1, 1, 1, 1], tz == [1, 1] }, [_, qb, 2] != e } }])
 }
 pub fn case_103(vars: &Vars) -> InferredGoal<DU, DE, Goal<DU, DE>> {
     let qa = vars.v[0].clone();
@@ -626,13 +626,13 @@ pub fn case_104(vars: &Vars) -> InferredGoal<DU, DE, Goal<DU, DE>> {
     let qa = vars.v[0].clone();
     let qb = vars.v[1].clone();
     let coll0: Vec<LT> = vec![lterm!([1]), lterm!(2)];
-    proto_vulcan!([qa == [], for e in &coll0 { |z| { e != [2] }, qb == [] }])
+    proto_vulcan!([for e in &coll0 { |z| { qa == [e, z], qa == [] }, member(e, [3, 3]) }])
 }
 pub fn case_105(vars: &Vars) -> InferredGoal<DU, DE, Goal<DU, DE>> {
     let qa = vars.v[0].clone();
     let qb = vars.v[1].clone();
     let coll0: LT = LT::from_vec(vec![lterm!(2), lterm!(3), qb.clone()]);
-    proto_vulcan!([for e in &coll0 { qb != qa, |h| { |tz| { [2, 2, 1] != [2 | tz], tz == [2, 1] } } }])
+    proto_vulcan!([qa == [2], for e in &coll0 { qb != qa, |h| { [1, "a", 2 | qa] == h } }])
 }
 pub fn case_106(vars: &Vars) -> InferredGoal<DU, DE, Goal<DU, DE>> {
     let qa = vars.v[0].clone();
@@ -656,7 +656,7 @@ pub fn case_109(vars: &Vars) -> InferredGoal<DU, DE, Goal<DU, DE>> {
     let qa = vars.v[0].clone();
     let qb = vars.v[1].clone();
     let coll0: Vec<LT> = vec![];
-    proto_vulcan!([|y, t| { t == 3, [y, qb] != qb, qa == 3 }, for e in &coll0 { qb == [3, [[]], [[], [], 3 | qa]] }])
+    proto_vulcan!([|y, t| { member(qa, [1, 2, 2]), y == 2 }, for e in &coll0 { qb == [3, [[]], [[], [], 3 | qa]] }])
 }
 pub fn case_110(vars: &Vars) -> InferredGoal<DU, DE, Goal<DU, DE>> {
     let qa = vars.v[0].clone();
@@ -698,19 +698,19 @@ pub fn case_116(vars: &Vars) -> InferredGoal<DU, DE, Goal<DU, DE>> {
     let qa = vars.v[0].clone();
     let qb = vars.v[1].clone();
     let coll0: Vec<LT> = vec![];
-    proto_vulcan!([[1 == [qb, [[], []]], member(qb, [1, 2]), [1] == [qb, [false, qb] | qa]], for e in &coll0 { |z, x| { qa == _, qb == qa }, e == [] }])
+    proto_vulcan!([for e in &coll0 { |z, x| { x == qb, |tz| { [3, 1 | tz] != [3, 1, 1], tz == [1] }, qb == [] }, [1, e, [] | e] == e }])
 }
 pub fn case_117(vars: &Vars) -> InferredGoal<DU, DE, Goal<DU, DE>> {
     let qa = vars.v[0].clone();
     let qb = vars.v[1].clone();
     let coll0: Vec<LT> = vec![];
-    proto_vulcan!([for e in &coll0 { conde { [qb == [1], append(qa, qb, [1])], [[[], [e], 1] == qa, qa != [2, 2 | qb]], 1 == 1 }, qa == ["bc", qb | qa] }])
+    proto_vulcan!([for e in &coll0 { conde { [], [e, 1] == qa, [qb == 2, [] == qb] }, [1, 1, 1 | 'b'] != qb }])
 }
 pub fn case_118(vars: &Vars) -> InferredGoal<DU, DE, Goal<DU, DE>> {
     let qa = vars.v[0].clone();
     let qb = vars.v[1].clone();
     let coll0: Vec<LT> = vec![];
-    proto_vulcan!([conde { [[qa, 2] == qa, true], append(qb, qb, [1, 3]), [1] != qb }, for e in &coll0 { e == [], conde { [[[true, _ | qb], [2, _, 3 | e] | 1] == qa, qa != qb], |tz| { tz == [1], [2, 2, 1] != [2, 2 | tz] } } }])
+    proto_vulcan!([_ == qb, for e in &coll0 { e == [], conde { [], member(qb, [2, 1, 2]), true } }])
 }
 pub fn case_119(vars: &Vars) -> InferredGoal<DU, DE, Goal<DU, DE>> {
     let qa = vars.v[0].clone();
@@ -746,7 +746,7 @@ pub fn case_124(vars: &Vars) -> InferredGoal<DU, DE, Goal<DU, DE>> {
     let qa = vars.v[0].clone();
     let qb = vars.v[1].clone();
     let coll0: Vec<LT> = vec![lterm!(1), lterm!([2])];
-    proto_vulcan!([for e in &coll0 { member(e, []), [qb == qa, qb != [qb, _]] }])
+    proto_vulcan!(['a' == 1, for e in &coll0 { member(e, []), [e == qb, e == qb] }])
 }
 pub fn case_125(vars: &Vars) -> InferredGoal<DU, DE, Goal<DU, DE>> {
     let qa = vars.v[0].clone();
@@ -764,31 +764,31 @@ pub fn case_127(vars: &Vars) -> InferredGoal<DU, DE, Goal<DU, DE>> {
     let qa = vars.v[0].clone();
     let qb = vars.v[1].clone();
     let coll0: LT = LT::from_vec(vec![lterm!(3), qb.clone(), qb.clone()]);
-    proto_vulcan!([qb != _, for e in &coll0 { conde { ["bc" != _, true], e != 1 } }])
+    proto_vulcan!([for e in &coll0 { conde { [append(e, qb, []), false] } }])
 }
 pub fn case_128(vars: &Vars) -> InferredGoal<DU, DE, Goal<DU, DE>> {
     let qa = vars.v[0].clone();
     let qb = vars.v[1].clone();
     let coll0: Vec<LT> = vec![];
-    proto_vulcan!([for e in &coll0 { qb == [], conde { qa == [1, [], 'b' | qb], [[1, e, [] | e] != qb, qb == [e | qa]], [[e] == qb, [1, [], e] != 'a'] } }])
+    proto_vulcan!([for e in &coll0 { qb == [], conde { [], [[[2, qb | qa], [qb, 'a'], e | qb] == e, [true, []] == qa] } }])
 }
 pub fn case_129(vars: &Vars) -> InferredGoal<DU, DE, Goal<DU, DE>> {
     let qa = vars.v[0].clone();
     let qb = vars.v[1].clone();
     let coll0: Vec<LT> = vec![];
-    proto_vulcan!([qb == qa, for e in &coll0 { |h, z| { append(qb, qa, [3, 3]), z != [2 | z] }, qb == 3 }])
+    proto_vulcan!([|t, x| { append(t, qb, [3, 2]), qa != qb }, for e in &coll0 { |h, z| { |tz| { [3, 3 | tz] != [3, 3, 3], tz == [3] }, qa != 2, [[3 | qa], [e]] == [_, qb] }, |tz| { [2, 2] != [2 | tz], tz == [2] } }])
 }
 pub fn case_130(vars: &Vars) -> InferredGoal<DU, DE, Goal<DU, DE>> {
     let qa = vars.v[0].clone();
     let qb = vars.v[1].clone();
     let coll0: LT = LT::from_vec(vec![lterm!(3), lterm!([2]), qa.clone()]);
-    proto_vulcan!([for e in &coll0 { [e == qa, false, 3 == qb], false }])
+    proto_vulcan!([conde { [true, qb == [[3, qa, qb]]], [qa == [_, 'b', qb], [qb, 'a', 3 | _] != qa] }, for e in &coll0 { [], e != [e, 2, 1] }])
 }
 pub fn case_131(vars: &Vars) -> InferredGoal<DU, DE, Goal<DU, DE>> {
     let qa = vars.v[0].clone();
     let qb = vars.v[1].clone();
     let coll0: LT = LT::from_vec(vec![lterm!(3), qb.clone(), lterm!(3)]);
-    proto_vulcan!([for e in &coll0 { conde { [[] | e] == qa, 2 == qb }, [[1 | e], [[], e], [_, _]] == qb }])
+    proto_vulcan!([qb == qb, for e in &coll0 { conde { [2, 2 | qb] != qb }, |x, h| { qb == [[1, h | x], [2, qa, x]], [] != qa, [] == qa } }])
 }
 pub fn case_132(vars: &Vars) -> InferredGoal<DU, DE, Goal<DU, DE>> {
     let qa = vars.v[0].clone();
@@ -800,7 +800,7 @@ pub fn case_133(vars: &Vars) -> InferredGoal<DU, DE, Goal<DU, DE>> {
     let qa = vars.v[0].clone();
     let qb = vars.v[1].clone();
     let coll0: LT = LT::from_vec(vec![lterm!(3), lterm!(3), lterm!(3)]);
-    proto_vulcan!([for e in &coll0 { [[qb, 'b', [qa, 3, false | 2]] == [2], [e, 2] != qa], |h| { [1, 3, h] == qb, qb == [h] } }])
+    proto_vulcan!([for e in &coll0 { [[qa, e | qa] == e, |tz| { [1, 3 | tz] != [1, 3, 2, 2], tz == [2, 2] }], [qa, _, qb] == qa }])
 }
 pub fn case_134(vars: &Vars) -> InferredGoal<DU, DE, Goal<DU, DE>> {
     let qa = vars.v[0].clone();
@@ -812,31 +812,31 @@ pub fn case_135(vars: &Vars) -> InferredGoal<DU, DE, Goal<DU, DE>> {
     let qa = vars.v[0].clone();
     let qb = vars.v[1].clone();
     let coll0: LT = LT::from_vec(vec![lterm!(2)]);
-    proto_vulcan!([for e in &coll0 { [|tz| { tz == [2], [3, 3, 2] != [3, 3 | tz] }, append(e, qb, [2]), [[], qb, 1 | 'b'] == qa] }])
+    proto_vulcan!([for e in &coll0 { [[[_], [e, 2]] == [2, [qb, 'b', _]], false] }])
 }
 pub fn case_136(vars: &Vars) -> InferredGoal<DU, DE, Goal<DU, DE>> {
     let qa = vars.v[0].clone();
     let qb = vars.v[1].clone();
     let coll0: LT = LT::from_vec(vec![qa.clone(), lterm!(1), lterm!(3)]);
-    proto_vulcan!([[true, append(qa, qb, [])], for e in &coll0 { qa != "bc" }])
+    proto_vulcan!([[append(qa, qb, []), [] == qa], for e in &coll0 { qa != "bc" }])
 }
 pub fn case_137(vars: &Vars) -> InferredGoal<DU, DE, Goal<DU, DE>> {
     let qa = vars.v[0].clone();
     let qb = vars.v[1].clone();
     let coll0: LT = LT::from_vec(vec![lterm!([1]), lterm!(1), lterm!([1])]);
-    proto_vulcan!([for e in &coll0 { 'a' == [2], [qa == [qa, qa | e], qa == [qb | qa]] }])
+    proto_vulcan!([|tz| { [2 | tz] != [2, 1, 1], tz == [1, 1] }, for e in &coll0 { 'a' == [2], [] }])
 }
 pub fn case_138(vars: &Vars) -> InferredGoal<DU, DE, Goal<DU, DE>> {
     let qa = vars.v[0].clone();
     let qb = vars.v[1].clone();
     let coll0: LT = LT::from_vec(vec![lterm!([1])]);
-    proto_vulcan!([qb == [[qb | qb], [qb, 3, qa], [3, qb, qb]], for e in &coll0 { conde { |tz| { [3, 3] != [3 | tz], tz == [3] }, [e, [] | qb] == e, qa == [qb, 2, e] } }])
+    proto_vulcan!([for e in &coll0 { conde { true, append(e, qb, []) } }])
 }
 pub fn case_139(vars: &Vars) -> InferredGoal<DU, DE, Goal<DU, DE>> {
     let qa = vars.v[0].clone();
     let qb = vars.v[1].clone();
     let coll0: LT = LT::from_vec(vec![lterm!([2])]);
-    proto_vulcan!([for e in &coll0 { |z, y| { [[], [y, 1, z | y], e] == y, _ != [[2, qa]], |tz| { [1 | tz] != [1, 1], tz == [1] } }, qb == _ }])
+    proto_vulcan!([for e in &coll0 { |z, y| { false }, [qb, 1 | e] == e }])
 }
 pub fn case_140(vars: &Vars) -> InferredGoal<DU, DE, Goal<DU, DE>> {
     let x = vars.v[0].clone();
@@ -863,658 +863,658 @@ pub fn case_144(vars: &Vars) -> InferredGoal<DU, DE, Goal<DU, DE>> {
 }
 pub fn case_145(vars: &Vars) -> InferredGoal<DU, DE, Goal<DU, DE>> {
     let x = vars.v[0].clone();
-    proto_vulcan!([matche x { 1 | z => { [member(x, [3, 3, 2])], x == [x, x] }, }])
+    proto_vulcan!([matche x { _ | [[[], z, t | h]] => , }])
 }
 pub fn case_146(vars: &Vars) -> InferredGoal<DU, DE, Goal<DU, DE>> {
     let q = vars.v[0].clone();
     let x = vars.v[1].clone();
-    proto_vulcan!([[false], matcha [q, q] { [[[]]] | [[t, x]] => , _ => , }])
+    proto_vulcan!([[x == q], match q { [[2 | x], t, [y, z, x | y]] => , [] => [|t| { t == 2 }, 'b' == x], }])
 }
 pub fn case_147(vars: &Vars) -> InferredGoal<DU, DE, Goal<DU, DE>> {
     let x = vars.v[0].clone();
     let y = vars.v[1].clone();
-    proto_vulcan!([matchu x { 1 | [[_, 3, _], [[] | t], [1, t | _] | h] => , [[2, [] | y], [], 'a' | _] => , }])
+    proto_vulcan!([matchu x { [[1, _, 3], [[], x, [] | t]] | [1, [2]] => , [2, [2]] => , }])
 }
 pub fn case_148(vars: &Vars) -> InferredGoal<DU, DE, Goal<DU, DE>> {
     let x = vars.v[0].clone();
-    proto_vulcan!([matcha x { [[x | t], x, 1 | _] => [|y| { append(x, x, [2, 3]) }, match t { ["bc"] => { x != [[_, 'b', "bc"]] }, t | [[1, t, t | _], [3, 1] | 1] => , }], 1 => , }])
+    proto_vulcan!([matcha x { [[t, 2] | _] => , [[t, y | _] | 2] | [[z, h, h] | 2] => , }])
 }
 pub fn case_149(vars: &Vars) -> InferredGoal<DU, DE, Goal<DU, DE>> {
     let x = vars.v[0].clone();
     let y = vars.v[1].clone();
-    proto_vulcan!([[x == x, [[x], 1 | y] == [[], []], x == [y, 'b' | x]], matche x { [[true], [[] | h]] => { [y == 2, append(h, x, [])], h != [2] }, }])
+    proto_vulcan!([[y != 3], match x { _ => { y == 7, y == 8 }, [[[], []], 'b', [t]] => { x == 2, false }, }])
 }
 pub fn case_150(vars: &Vars) -> InferredGoal<DU, DE, Goal<DU, DE>> {
     let q = vars.v[0].clone();
     let x = vars.v[1].clone();
-    proto_vulcan!([match 3 { y => , }])
+    proto_vulcan!([match 3 { _ => [_] == q, }])
 }
 pub fn case_151(vars: &Vars) -> InferredGoal<DU, DE, Goal<DU, DE>> {
     let x = vars.v[0].clone();
-    proto_vulcan!([match x { [2] | [[x | t], 1] => , 2 => x != [3, [x, [] | x]], false => |x, z| { x == z }, }])
+    proto_vulcan!([match x { [[false, t | y]] | 1 => [[], conda { [[2] == [[3, []], [[] | x]], member(x, [1, 2])] }], [t, [y, z, 1], [t]] => [["bc", 1] == t, conde { _ != x }], [_, [1, y, 1 | 2]] => , }])
 }
 pub fn case_152(vars: &Vars) -> InferredGoal<DU, DE, Goal<DU, DE>> {
     let x = vars.v[0].clone();
     let y = vars.v[1].clone();
-    proto_vulcan!([|t, h| { t != [y, _] }, matchu y { z => [conde { x == x, [member(y, [3, 3]), x == _] }, |tz| { [2, 3 | tz] != [2, 3, 1, 1], tz == [1, 1] }], }])
+    proto_vulcan!([|t, h| { t == [[[], false, _], 1], member(t, []) }, match y { x => { x == [x | _] }, }])
 }
 pub fn case_153(vars: &Vars) -> InferredGoal<DU, DE, Goal<DU, DE>> {
     let x = vars.v[0].clone();
     let y = vars.v[1].clone();
-    proto_vulcan!([y == [], match x { [[h, []] | z] => { false, matcha h { [[h], [y, x]] => { [2, []] == _ }, 1 => , } }, t | [[y, 2, x], z, [h, 'a']] => , }])
+    proto_vulcan!([y == [], match x { [] => matchu y { [2 | z] => { [2, []] == [['a', x], [x, 3]], [_, 3] == z }, }, 2 | _ => conde { y == 2, 2 == _ }, }])
 }
 pub fn case_154(vars: &Vars) -> InferredGoal<DU, DE, Goal<DU, DE>> {
     let x = vars.v[0].clone();
     let y = vars.v[1].clone();
-    proto_vulcan!([matcha y { z => { matcha y { [[[], x], [h | x], ['a', z] | 3] | z => z == 2, 2 => , }, conde { append(x, x, []), [[y, x, "a"] == y, x == 2], [false, z == [1, z, 1]] } }, [1, x, 1] | [[[]], false | x] => { match x { [1 | t] | 1 => , [] => , }, |t, y| { true, x == [_ | t] } }, }])
+    proto_vulcan!([matcha y { _ => [x == [['b', y, 1 | y] | y], |y| { x != y, [1 | y] == [[x, []], 2, y] }], [[h], [h, true | _]] => [matchu y { [1] => [x != [h, y | x], x == [[]]], }, |x| { [x, 1 | x] == h, y == [], x == [x, x | _] }], }])
 }
 pub fn case_155(vars: &Vars) -> InferredGoal<DU, DE, Goal<DU, DE>> {
     let x = vars.v[0].clone();
-    proto_vulcan!([|tz| { tz == [3], [1 | tz] != [1, 3] }, matcha [2, _, x] { [_ | 1] | [3, h, [_, 1] | t] => , 1 | x => , }])
+    proto_vulcan!([|tz| { tz == [3], [1 | tz] != [1, 3] }, matcha [2, _, x] { ["bc"] | [h, [_, 1], 3] => , [x] | ["a" | 3] => , }])
 }
 pub fn case_156(vars: &Vars) -> InferredGoal<DU, DE, Goal<DU, DE>> {
     let x = vars.v[0].clone();
-    proto_vulcan!([condu { [[x, x, 3 | x] == x, x == 1], member(x, []), member(x, [3, 2, 2]) }, matche x { [[], 3] | [] => , }])
+    proto_vulcan!([condu { [[x, x, 3 | x] == x, x == 1], member(x, []), member(x, [3, 2, 2]) }, matche x { z | x => , }])
 }
 pub fn case_157(vars: &Vars) -> InferredGoal<DU, DE, Goal<DU, DE>> {
     let x = vars.v[0].clone();
-    proto_vulcan!([matchu x { [h] => { match x { t => [_ == h, 2 == t], }, append(x, x, []) }, [2, _] => , }])
+    proto_vulcan!([matchu x { y => { [1 | x] == x, match 3 { [2, [1, 1, true] | t] => |tz| { [1, 2] != [1 | tz], tz == [2] }, [[3, x, z | _], [1, 2, _], [t]] => , } }, [[], [t, _, y]] => { t == [t | 1], conde { [member(y, [1, 1]), |tz| { tz == [3, 2], [2, 3, 2] != [2 | tz] }], false } }, }])
 }
 pub fn case_158(vars: &Vars) -> InferredGoal<DU, DE, Goal<DU, DE>> {
     let q = vars.v[0].clone();
     let x = vars.v[1].clone();
-    proto_vulcan!([|t| { [[q], x, _] == x, true, x == q }, matchu q { [[1, 3, 3 | _] | 2] => [|h, t| { append(h, h, [3, 1]), [x, 2 | q] != h }, |h, z| { member(q, [1]), "bc" == h, append(q, h, []) }], }])
+    proto_vulcan!([|t| { q == t, x != _, 3 != q }, matche x { t => , _ => onceo { [q, [], x] == q }, }])
 }
 pub fn case_159(vars: &Vars) -> InferredGoal<DU, DE, Goal<DU, DE>> {
     let x = vars.v[0].clone();
-    proto_vulcan!([match x { [[_, 3], _, 'b'] => , [x, _] | _ => , [t, []] | [_, [3, t, x] | y] => , }])
+    proto_vulcan!([match x { 'a' => { |tz| { tz == [2], [1, 2] != [1 | tz] }, x == 1 }, [[t], [2, _], [3, t, x] | y] => , [3 | _] => [onceo { |tz| { tz == [1, 1], [3, 1, 1, 1] != [3, 1 | tz] } }, x == [_]], }])
 }
 pub fn case_160(vars: &Vars) -> InferredGoal<DU, DE, Goal<DU, DE>> {
     let q = vars.v[0].clone();
     let x = vars.v[1].clone();
-    proto_vulcan!([matcha q { 'b' => , [[_], [_, _, h], _] | [[1], _, [h, h]] => { matcha q { [] | 'a' => , } }, }])
+    proto_vulcan!([matcha q { _ => { x == 7, x == 8 }, [[_], [_, _, h], _] => , }])
 }
 pub fn case_161(vars: &Vars) -> InferredGoal<DU, DE, Goal<DU, DE>> {
     let x = vars.v[0].clone();
     let y = vars.v[1].clone();
-    proto_vulcan!([matcha x { 1 => { x == [[y, x, x] | x] }, z => match y { 2 | "bc" => [x == x, [false, _, x] == z], y => { x != [y, 2, x | x], |tz| { [1, 1, 3] != [1, 1 | tz], tz == [3] } }, [y, [[], 1, t], [2, 1, y] | z] => , }, }])
+    proto_vulcan!([matcha x { _ => member(y, [1, 2, 3]), _ => , }])
 }
 pub fn case_162(vars: &Vars) -> InferredGoal<DU, DE, Goal<DU, DE>> {
     let q = vars.v[0].clone();
     let x = vars.v[1].clone();
-    proto_vulcan!([matcha q { 2 => { |x, y| { [[]] == q }, x == [[q, 2, []], []] }, [z | x] => , [1] | [y, y, [z]] => , }])
+    proto_vulcan!([matcha q { _ => { q == 7, q == 8 }, y | [h, [], 2] => 2 == x, [[t, x | _]] => , }])
 }
 pub fn case_163(vars: &Vars) -> InferredGoal<DU, DE, Goal<DU, DE>> {
     let x = vars.v[0].clone();
     let y = vars.v[1].clone();
-    proto_vulcan!([conde { 1 == y, [x == [x, 'a', y], |tz| { tz == [3], [3, 3 | tz] != [3, 3, 3] }] }, matchu y { h => [[false, append(x, h, [3]), 2 == y], conde { [member(x, [2, 3]), x == y], member(y, []) }], y => , t => , }])
+    proto_vulcan!([conde { [x == [1, x, 1 | "a"], x == [[]]], [y != x, [3] == x] }, matche 3 { [[h, x, 2], [[], z, 1 | h], 2] => , [[1, y, z], [_, 'b', 3]] => , [2] => 1 == x, }])
 }
 pub fn case_164(vars: &Vars) -> InferredGoal<DU, DE, Goal<DU, DE>> {
     let q = vars.v[0].clone();
     let x = vars.v[1].clone();
-    proto_vulcan!([match [q, 3] { true | [x | _] => [[true] == q, 1 == q, 1 == q], 1 => , [['a', _ | y]] => , }])
+    proto_vulcan!([match [q, 3] { [[y | _] | z] | _ => { matchu x { [[t], x, [1]] | 'a' => [[1 | q] == q, false], _ => [q == 7, q == 8], [] | 2 => { [] == x }, } }, [2, [_, z]] => , y | [_] => [q == _, [|tz| { tz == [3], [3 | tz] != [3, 3] }, [_ | x] == q]], }])
 }
 pub fn case_165(vars: &Vars) -> InferredGoal<DU, DE, Goal<DU, DE>> {
     let q = vars.v[0].clone();
     let x = vars.v[1].clone();
-    proto_vulcan!([[|tz| { [2, 3 | tz] != [2, 3, 2, 1], tz == [2, 1] }, x == [x, _ | q], x == q], matchu q { [2, [2 | z], [3, [] | _] | _] => , [1] => { matchu q { [x | _] => { append(x, x, [2]) }, [[_], [3, y | z], z] => { [1, y | x] == 1, append(y, z, []) }, } }, [[_, 'b']] => , }])
+    proto_vulcan!([[['a'] != x, q == x], matcha x { t => , [[y, 2 | y], [z, 2, 3 | _], y | x] => { x == z, conde { [[[z, 1], _, [[], 3 | x]] == _, x != z], q != x, [z == 'a', y == [3, x]] } }, }])
 }
 pub fn case_166(vars: &Vars) -> InferredGoal<DU, DE, Goal<DU, DE>> {
     let q = vars.v[0].clone();
     let x = vars.v[1].clone();
-    proto_vulcan!([matche x { [[x | x], [1], t] => { t == [q, ["a"], _ | x] }, [_, [], [[], []]] => , [z | x] | z => , }])
+    proto_vulcan!([matche x { [[z | h], [t | _], [t, t]] => , ["a", [_, _ | x]] => , _ => { q == 7, q == 8 }, }])
 }
 pub fn case_167(vars: &Vars) -> InferredGoal<DU, DE, Goal<DU, DE>> {
     let x = vars.v[0].clone();
-    proto_vulcan!([[x | x] != x, matchu x { ['b', [], [t, t]] => , "bc" => conde { false, [false, 3 == x], x == [[3, x | x], [1, _ | _] | x] }, ['b'] => { match x { [[[], 2, 2], [t], [false]] => [[x, x] == t, [2] == x], [1, [[] | y], 3 | y] => { [x, y | x] != x }, [_, 1] => , }, conde { [x == [1, x], _ == [x, [x, 1] | x]], append(x, x, []), [true, [_, [] | x] == x] } }, }])
+    proto_vulcan!([[x | x] != x, matchu x { _ => [x == 7, x == 8], t => [matcha [3, t, t | t] { 2 => , }, ['b'] == x], _ => { member(x, [1, 2, 3]) }, }])
 }
 pub fn case_168(vars: &Vars) -> InferredGoal<DU, DE, Goal<DU, DE>> {
     let q = vars.v[0].clone();
     let x = vars.v[1].clone();
-    proto_vulcan!([matchu x { [2, [1], 2 | _] | [[h], [y, y, y]] => { false, append(x, q, []) }, [[[], 1, 1 | 2], [[], false, z | _] | z] => { |t, y| { false, [3, 1, t | x] != y }, [["bc"] == [[], q, 1], true] }, }])
+    proto_vulcan!([matchu x { [[false]] | [z] => append(q, q, [1]), [y] => { false, append(q, x, []) }, }])
 }
 pub fn case_169(vars: &Vars) -> InferredGoal<DU, DE, Goal<DU, DE>> {
     let x = vars.v[0].clone();
     let y = vars.v[1].clone();
-    proto_vulcan!([matche x { [["bc", _ | x], 2] => { |tz| { tz == [2], [1 | tz] != [1, 2] } }, [[[], 1, x | x], [1, [], t], []] => [x == [1, 2, t], [] == y, |tz| { [3 | tz] != [3, 2, 3], tz == [2, 3] }], }])
+    proto_vulcan!([matche x { 1 => [|h| { h != [[_] | x], member(h, [3]) }, 3 == x], [[x, "a"], [h], [2, y]] => [onceo { false }, matche h { y | [1] => , }], }])
 }
 pub fn case_170(vars: &Vars) -> InferredGoal<DU, DE, Goal<DU, DE>> {
     let x = vars.v[0].clone();
     let y = vars.v[1].clone();
-    proto_vulcan!([conde { member(x, [3, 2, 2]), x == [[], y, y] }, matche x { _ => { [1] == x, |x| { [_, "bc" | x] == x, false } }, y => , 'a' | [[h, 'b'], [2, h, h | y]] => [|z, t| { false, append(z, t, [1]) }, [] == x], }])
+    proto_vulcan!([conde { x == _, [true != y, _ == y] }, matche [_, true, _] { x => { |h, y| { member(h, [1]), [x | y] == x } }, [[z, h | h]] => [|h| {  }, conde { [h, []] == y, [] }], 2 | [[x, y, _ | true], 'a', [z, 'b', 3 | x]] => , }])
 }
 pub fn case_171(vars: &Vars) -> InferredGoal<DU, DE, Goal<DU, DE>> {
     let x = vars.v[0].clone();
-    proto_vulcan!([onceo { x == [x] }, matcha x { [["a" | y], [[], t | y], 2] => { conde { [[[] | t] == t, true], 1 == x, append(t, y, [3]) } }, 'a' => { match x { [[[], t, 2], [x, h], [false, 2, 2 | 1]] => append(x, x, [3, 3]), } }, }])
+    proto_vulcan!([onceo { x == [x] }, matcha x { [[2 | y]] => { |x| { [[_, x, [] | x], [x, x]] == [_ | 2], y == [2, _, x], [x, x, y] == x } }, 1 => { [member(x, []), [x] == x], [] }, }])
 }
 pub fn case_172(vars: &Vars) -> InferredGoal<DU, DE, Goal<DU, DE>> {
     let x = vars.v[0].clone();
     let y = vars.v[1].clone();
-    proto_vulcan!([matchu [2] { [[1, [], x], 2] => , }])
+    proto_vulcan!([matchu [2] { [[z, x], 2] => , }])
 }
 pub fn case_173(vars: &Vars) -> InferredGoal<DU, DE, Goal<DU, DE>> {
     let q = vars.v[0].clone();
     let x = vars.v[1].clone();
-    proto_vulcan!([matcha q { 1 => , }])
+    proto_vulcan!([matcha q { _ => member(x, [1, 2, 3]), }])
 }
 pub fn case_174(vars: &Vars) -> InferredGoal<DU, DE, Goal<DU, DE>> {
     let x = vars.v[0].clone();
-    proto_vulcan!([conde { append(x, x, []), [x == [1, x | x], 3 != x] }, matche _ { 1 | 2 => |t| { member(x, []), t != [x, t | x] }, }])
+    proto_vulcan!([conde { true, [x == [1, x | x], 3 != x] }, matche _ { _ | _ => |h| { x == [2, 2 | h] }, }])
 }
 pub fn case_175(vars: &Vars) -> InferredGoal<DU, DE, Goal<DU, DE>> {
     let q = vars.v[0].clone();
     let x = vars.v[1].clone();
-    proto_vulcan!([match q { [[h | 2], [x, false, _], h] => , _ => , }])
+    proto_vulcan!([match q { [h, [2, 3, x | _]] => { |tz| { [1, 1 | tz] != [1, 1, 1, 2], tz == [1, 2] }, |t| { true } }, [z] => conde { q != [['a', "a" | x] | z], [x != [[2], 1, x | q], true], [] }, }])
 }
 pub fn case_176(vars: &Vars) -> InferredGoal<DU, DE, Goal<DU, DE>> {
     let q = vars.v[0].clone();
     let x = vars.v[1].clone();
-    proto_vulcan!([|z| { true, q == z, _ == [q] }, matche x { [[]] => , [[3], [t, z | t] | 3] => [z == t], [2 | z] => , }])
+    proto_vulcan!([|z| { q == z, _ == [q] }, matche x { [[x, _ | y], []] => [onceo { 1 == x }, onceo { [2, y, x | x] != x }], z => , [y, [t, h, []]] => , }])
 }
 pub fn case_177(vars: &Vars) -> InferredGoal<DU, DE, Goal<DU, DE>> {
     let q = vars.v[0].clone();
     let x = vars.v[1].clone();
-    proto_vulcan!([[q, 2, [] | q] == q, matchu x { t | [_, []] => , 1 => , }])
+    proto_vulcan!([[q, 2, [] | q] == q, matchu x { _ | _ => member(x, [1, 2, 3]), _ | 1 => x != [q], }])
 }
 pub fn case_178(vars: &Vars) -> InferredGoal<DU, DE, Goal<DU, DE>> {
     let q = vars.v[0].clone();
     let x = vars.v[1].clone();
-    proto_vulcan!([matcha q { [[1, y, []] | x] => { match x { [[2, 'b', x] | h] | [[[]]] => { q == [y, q | y], [q, q] != q }, [2, [t | h], 1 | 1] => [3] != [true, 1 | x], } }, }])
+    proto_vulcan!([matcha q { [1] => { x == [x, [1, q], [[], q] | q] }, }])
 }
 pub fn case_179(vars: &Vars) -> InferredGoal<DU, DE, Goal<DU, DE>> {
     let x = vars.v[0].clone();
     let y = vars.v[1].clone();
-    proto_vulcan!([matchu [2, []] { 2 => , [_, 1, [1, t] | x] | [3] => y == _, }])
+    proto_vulcan!([matchu [2, []] { _ => , [_, 1, [1, t] | x] => , }])
 }
 pub fn case_180(vars: &Vars) -> InferredGoal<DU, DE, Goal<DU, DE>> {
     let x = vars.v[0].clone();
     let y = vars.v[1].clone();
-    proto_vulcan!([[append(y, y, [3, 1])], matche y { ['b', [x, _, [] | x], 1 | t] => [[y, 2, 3], [3, x], y] != false, }])
+    proto_vulcan!([[[2, x] == x], match x { _ | [[]] => [true, x == [y, [y, 2, 3], [3, x]]], _ => { x == 7, x == 8 }, _ => { y == ['b', 1, 2], false }, }])
 }
 pub fn case_181(vars: &Vars) -> InferredGoal<DU, DE, Goal<DU, DE>> {
     let x = vars.v[0].clone();
     let y = vars.v[1].clone();
-    proto_vulcan!([matche x { [z, [_, 2 | h]] => , t | [[z]] => { y != [y, y, 'a'], conde { false, [[] == [x, 1], member(x, [])] } }, y => , }])
+    proto_vulcan!([matche x { h => , [[h], [y]] => [y, y, 1] == y, [[_, 2 | y], _] => { |h| { [_, 3, y] == x }, matchu [y, [], y] { [3, [x], [_, 2] | _] => , [[], [_, 2, 2]] => , _ => , } }, }])
 }
 pub fn case_182(vars: &Vars) -> InferredGoal<DU, DE, Goal<DU, DE>> {
     let q = vars.v[0].clone();
     let x = vars.v[1].clone();
-    proto_vulcan!([q == q, match [3, 2] { t => , h | [[_], _, [h, [] | y] | _] => { |x| { q == [3, q, _], x == ['a' | q], append(x, x, [1]) } }, }])
+    proto_vulcan!([q == q, match [3, 2] { _ => [[q, [] | q] == [[[], _, _]], |t, x| { 2 == t, q == [3], "bc" == q }], [[3 | _] | 2] => , }])
 }
 pub fn case_183(vars: &Vars) -> InferredGoal<DU, DE, Goal<DU, DE>> {
     let x = vars.v[0].clone();
-    proto_vulcan!([x == x, matcha ["a", x] { [1, [1, t]] => [x == 1, conde { [x == [t, x, t], 3 == x], [x == [true, x], [] == t] }], [y, "a"] => , [[z], [_], h | 3] => { [[_ | z], [1, 1]] == 'a' }, }])
+    proto_vulcan!([x == x, matcha ["a", x] { 2 => [conde { [x == ["a", 1], x == [1, x]], [] }, x == "bc"], z => { [|tz| { tz == [3], [1, 3 | tz] != [1, 3, 3] }, [] == z], conde { [], false } }, [["a", 2, []] | _] => [matche x { [[h, [], y | z]] => [[x, []], [y, _], "a"] == z, [2, []] | _ => { append(x, x, [1, 2]), append(x, x, [3, 2]) }, }, true], }])
 }
 pub fn case_184(vars: &Vars) -> InferredGoal<DU, DE, Goal<DU, DE>> {
     let x = vars.v[0].clone();
     let y = vars.v[1].clone();
-    proto_vulcan!([matcha y { h => , }])
+    proto_vulcan!([matcha y { [[h, t, 3], 1 | h] => , }])
 }
 pub fn case_185(vars: &Vars) -> InferredGoal<DU, DE, Goal<DU, DE>> {
     let x = vars.v[0].clone();
     let y = vars.v[1].clone();
-    proto_vulcan!([matche x { [[h], ["a" | t]] => { onceo { x != x }, matche t { h | 2 => { [[x | y], [[], 'a'], [1, t]] != y }, } }, y => , }])
+    proto_vulcan!([matche x { [h, [1, z | t]] => [onceo { t != t }, matche t { _ | _ => , }], [[3, 1, z | t], ['a', t, t], [3, 2, false] | _] => , }])
 }
 pub fn case_186(vars: &Vars) -> InferredGoal<DU, DE, Goal<DU, DE>> {
     let x = vars.v[0].clone();
     let y = vars.v[1].clone();
-    proto_vulcan!([match y { "bc" => , }])
+    proto_vulcan!([match y { [1, [t, t | _], [z]] => { [], conde { [append(z, y, [1, 3]), x == t], y == 2, append(x, x, [1, 2]) } }, }])
 }
 pub fn case_187(vars: &Vars) -> InferredGoal<DU, DE, Goal<DU, DE>> {
     let x = vars.v[0].clone();
     let y = vars.v[1].clone();
-    proto_vulcan!([condu { [["bc"] == y, x == [[], 'b', y]] }, match x { [false] => { |h| { x != [_, x], [h, [_] | y] == x }, true }, [[y | x], [3]] => { x == [x, y, y], matchu [x] { [_, [1 | t], [[], [], t]] => { x == 3 }, 3 => { false }, 1 => , } }, }])
+    proto_vulcan!([condu { [["bc"] == y, x == [[], 'b', y]] }, match x { [[2], _, [t, y | h]] => , _ | x => , }])
 }
 pub fn case_188(vars: &Vars) -> InferredGoal<DU, DE, Goal<DU, DE>> {
     let x = vars.v[0].clone();
-    proto_vulcan!([[x == [_], [x | x] != x, |tz| { tz == [3, 3], [1, 1, 3, 3] != [1, 1 | tz] }], matcha x { "a" => , x => , }])
+    proto_vulcan!([[x == [[], _], |tz| { [2, 1, 3, 1] != [2, 1 | tz], tz == [3, 1] }], matchu [x | x] { [[[], h], [_ | x], true] => { append(x, h, []) }, _ => { x == 7, x == 8 }, _ | 3 => [[append(x, x, []), [x | x] != x, append(x, x, [])], match x { _ => [["a", 1, 1] == [], member(x, [2, 2])], }], }])
 }
 pub fn case_189(vars: &Vars) -> InferredGoal<DU, DE, Goal<DU, DE>> {
     let x = vars.v[0].clone();
-    proto_vulcan!([|h| { _ != [2, x] }, matcha x { [[h, false | _], [true, 1] | _] | [z] => { conde { [[x] == x, ['a' | x] == x], [x == x, [x | x] == x], [true, true] }, match x { t => [member(t, []), x == 2], x => , } }, [_ | y] | [x, [[], _ | y], [x, 2, 1] | z] => , [1, [_, y, x], x] => , }])
+    proto_vulcan!([|h| { x != [2, x], h == [x, h] }, matcha x { _ => , }])
 }
 pub fn case_190(vars: &Vars) -> InferredGoal<DU, DE, Goal<DU, DE>> {
     let x = vars.v[0].clone();
     let y = vars.v[1].clone();
-    proto_vulcan!([matchu y { [] => { onceo { member(x, [1, 3, 2]) } }, [] | x => [append(y, y, [3, 2])], [3 | y] | [[z, _, x], [1, z] | y] => [[y | y] == y, [y] != [[y, _], [1 | y], [[], "bc"] | y], [y, y, y] != y], }])
+    proto_vulcan!([matchu y { [["bc", x, _ | _], [x, 3 | _]] => { matchu y { _ => { |tz| { tz == [2, 1], [1, 2, 1] != [1 | tz] }, [[x], ["a", y] | x] != y }, [y, [2], 2 | _] => x != [], }, x == x }, _ => , _ => { member(y, [1, 2, 3]) }, }])
 }
 pub fn case_191(vars: &Vars) -> InferredGoal<DU, DE, Goal<DU, DE>> {
     let x = vars.v[0].clone();
     let y = vars.v[1].clone();
-    proto_vulcan!([matchu y { [2] => , z => [[[3 | x]] == x, |tz| { tz == [3], [2, 3] != [2 | tz] }], [h, y] => [|y| { |tz| { [2, 3, 2] != [2, 3 | tz], tz == [2] } }, [x == [[], h], x == [h, 2]]], }])
+    proto_vulcan!([matchu y { [_, z | z] => [[[3 | x]] == x, |tz| { tz == [3], [2, 3] != [2 | tz] }], z => { |tz| { tz == [1], [3, 2 | tz] != [3, 2, 1] } }, _ | [[z, h, 1], [[], h], [2, 3, []]] => [matchu x { _ => { member(y, [1, 2, 3]) }, }, |x, z| { x == [y, true, x], z != [[z, 2, 2], ["bc", x, 3], [y, 2, x | x]], [y, _] != [[y, _, z], [false, false, x], [2]] }], }])
 }
 pub fn case_192(vars: &Vars) -> InferredGoal<DU, DE, Goal<DU, DE>> {
     let x = vars.v[0].clone();
-    proto_vulcan!([matche [x] { [z, [3] | _] => [conde { [append(x, x, [1, 3]), z == [z, []]], z != [[1, x], [x, []]] }, |t, y| { z == [1, z] }], [[y, 3]] | [[2, x, []], [2, y, 2] | 2] => , _ => { [[], x | x] != x, conde { [[[x, 2, x]] == x, [x] == x], [append(x, x, [3]), x == [true]], [[1, 2 | x] == x, x == [[], x]] } }, }])
+    proto_vulcan!([matche [x] { _ => [|h, y| { h == _ }, [append(x, x, [2])]], _ => { member(x, [1, 2, 3]) }, _ => [|t| { true == x, [1 | t] == [1, t], |tz| { tz == [2], [1 | tz] != [1, 2] } }, |h| { x == [[], [3, h | x], 3 | h], false }], }])
 }
 pub fn case_193(vars: &Vars) -> InferredGoal<DU, DE, Goal<DU, DE>> {
     let x = vars.v[0].clone();
-    proto_vulcan!([onceo { |tz| { [3, 3 | tz] != [3, 3, 1], tz == [1] } }, match [[]] { [2] => { |z| { z != z, x == [x, z, x] } }, }])
+    proto_vulcan!([onceo { |tz| { [3, 3 | tz] != [3, 3, 1], tz == [1] } }, match [[]] { [[y, [], x | _], [t, y | y]] => { conde { x == [x, 'b', x | 1], x == y }, |tz| { [3, 1, 1] != [3 | tz], tz == [1, 1] } }, }])
 }
 pub fn case_194(vars: &Vars) -> InferredGoal<DU, DE, Goal<DU, DE>> {
     let q = vars.v[0].clone();
     let x = vars.v[1].clone();
-    proto_vulcan!([matcha x { false => [_ == x, 3 == x], }])
+    proto_vulcan!([matcha x { [[x, 1, h] | x] => { |t, y| { q == t, q != 2, member(x, [2, 2, 1]) } }, }])
 }
 pub fn case_195(vars: &Vars) -> InferredGoal<DU, DE, Goal<DU, DE>> {
     let x = vars.v[0].clone();
-    proto_vulcan!([match x { [] | 2 => x == x, [[x | _], 2, 2] | [z, [h, 3 | 2], _ | _] => , }])
+    proto_vulcan!([match x { [[h, 2], [3, []]] | [[], x | _] => , 2 => { match [3 | 2] { _ => , [[3, h | y]] => { |tz| { [3, 3 | tz] != [3, 3, 2], tz == [2] }, [false, y, 2] == x }, y => , }, |z, t| { [1] == [], [['a']] == x } }, }])
 }
 pub fn case_196(vars: &Vars) -> InferredGoal<DU, DE, Goal<DU, DE>> {
     let x = vars.v[0].clone();
-    proto_vulcan!([matche x { [[z], [[]] | _] => { |z| { z == z, 1 == z, [3] == z } }, }])
+    proto_vulcan!([matche x { 2 => , }])
 }
 pub fn case_197(vars: &Vars) -> InferredGoal<DU, DE, Goal<DU, DE>> {
     let q = vars.v[0].clone();
     let x = vars.v[1].clone();
-    proto_vulcan!([|x, t| { false, append(x, t, [2, 1]) }, match [x, [] | x] { 3 => , [[t, 3], [1], [[], 3, 1]] => x == x, t => { conde { [|tz| { [1, 3 | tz] != [1, 3, 1], tz == [1] }, [[1, t]] == t], q == [3] }, |t| { |tz| { [3, 2] != [3 | tz], tz == [2] } } }, }])
+    proto_vulcan!([|x, t| {  }, matche [2, q] { [] => , }])
 }
 pub fn case_198(vars: &Vars) -> InferredGoal<DU, DE, Goal<DU, DE>> {
     let x = vars.v[0].clone();
     let y = vars.v[1].clone();
-    proto_vulcan!([y == y, match y { [[2, y, h]] => { true }, x => match [_, y] { [[_], []] => { x == [[]], false }, }, }])
+    proto_vulcan!([y == y, match y { h => { y == 1, [y] != y }, 1 => , }])
 }
 pub fn case_199(vars: &Vars) -> InferredGoal<DU, DE, Goal<DU, DE>> {
     let q = vars.v[0].clone();
     let x = vars.v[1].clone();
-    proto_vulcan!([matchu q { [false] | x => { [3, q | q] == q }, [[1 | z], [x, 2], [false, x | 2] | 2] | [[3 | _], x, [2] | _] => { |z, t| { false, t == [2, [] | t], 2 == [t] } }, }])
+    proto_vulcan!([matchu q { _ | 3 => { conda { [q == 3, q == [3]] } }, z => x == [[x, _, _], [q], [q, 3, q | q]], }])
 }
 pub fn case_200(vars: &Vars) -> InferredGoal<DU, DE, Goal<DU, DE>> {
     let q = vars.v[0].clone();
     let x = vars.v[1].clone();
-    proto_vulcan!([q == [1, q | q], matche q { 1 => , }])
+    proto_vulcan!([q == [1, q | q], matche q { [_] => { x == [[1, q, [] | q], x] }, }])
 }
 pub fn case_201(vars: &Vars) -> InferredGoal<DU, DE, Goal<DU, DE>> {
     let x = vars.v[0].clone();
-    proto_vulcan!([matchu x { [[1], x, [true, 1, 1] | _] => , }])
+    proto_vulcan!([matchu x { [[t, _, x], true] => , }])
 }
 pub fn case_202(vars: &Vars) -> InferredGoal<DU, DE, Goal<DU, DE>> {
     let x = vars.v[0].clone();
     let y = vars.v[1].clone();
-    proto_vulcan!([[2, []] == x, matcha y { x | x => , }])
+    proto_vulcan!([[2, []] == x, matcha y { _ | _ => { y == 7, y == 8 }, }])
 }
 pub fn case_203(vars: &Vars) -> InferredGoal<DU, DE, Goal<DU, DE>> {
     let x = vars.v[0].clone();
     let y = vars.v[1].clone();
-    proto_vulcan!([matchu x { [[true, 3, _]] | [[z], [z, [], false | x] | t] => |t| { [y, [y, y], [y, t]] != false }, [[t, []]] => , y | [[h, _, t], [_, []]] => { append(x, x, []), member(x, [3, 1, 2]) }, }])
+    proto_vulcan!([matchu x { y | x => , _ => { x == 7, x == 8 }, [[3, z, [] | _], 3, t | z] | [[2, 1], _ | _] => { [2] == y }, }])
 }
 pub fn case_204(vars: &Vars) -> InferredGoal<DU, DE, Goal<DU, DE>> {
     let q = vars.v[0].clone();
     let x = vars.v[1].clone();
-    proto_vulcan!([|h| { append(x, x, [3]), true, 3 == [[q, 3], [[]], [x, h, x | h] | x] }, match [1, 1, _] { [[[] | h], ['a'], 2 | _] => { |tz| { tz == [2, 2], [1, 1, 2, 2] != [1, 1 | tz] }, |x, h| { [x, x | h] != x } }, 'a' => , }])
+    proto_vulcan!([|h| { h != [[], 2, 2], 1 != q, 1 != x }, matchu [[], _, x | 1] { "a" => { conde { x != q, [1 != x, ['a', x, x] != [[false], [x, q], [x]]] }, false }, 2 | [true, [x, h, 1]] => , z => , }])
 }
 pub fn case_205(vars: &Vars) -> InferredGoal<DU, DE, Goal<DU, DE>> {
     let q = vars.v[0].clone();
     let x = vars.v[1].clone();
-    proto_vulcan!([matchu [true, 'b' | q] { [[2 | 2] | t] => , [_ | 3] => , [[1, x] | z] => , }])
+    proto_vulcan!([matchu [true, 'b' | q] { [2 | 2] => , 'b' => , [[y], x | x] | [[[], 3, 'b'], y, [1, 1]] => { |y| { false, y == y }, y == [y, q] }, }])
 }
 pub fn case_206(vars: &Vars) -> InferredGoal<DU, DE, Goal<DU, DE>> {
     let x = vars.v[0].clone();
-    proto_vulcan!([onceo { x == x }, matcha x { [[[] | z]] | [[y | t]] => { x != 1, |z| { [[2, []]] == z, member(z, []), z != [z, 'b'] } }, }])
+    proto_vulcan!([onceo { x == x }, matcha x { z | [[z | h]] => , }])
 }
 pub fn case_207(vars: &Vars) -> InferredGoal<DU, DE, Goal<DU, DE>> {
     let q = vars.v[0].clone();
     let x = vars.v[1].clone();
-    proto_vulcan!([matchu q { [x, [1, x], [h, y]] => [condu { append(x, y, [1]), q == [2, [], [x, false]], [[3, 'b'], [x, 1 | y]] != [_, "a", y] }, matche h { 3 => , [[3], 2, 1] => { ['b', 1, [x, 1]] == h, member(h, [1, 1]) }, [2, [x], [t]] => , }], [[y], x, z] => |y, z| { z == [y, 1 | q], [[y] | x] == _, x == y }, }])
+    proto_vulcan!([matchu q { [h] => append(q, h, [2, 1]), [x, [x, t, [] | h]] => { _ == [x, t, h], conde { [[2, t] == h, x != [x, _, "a"]] } }, }])
 }
 pub fn case_208(vars: &Vars) -> InferredGoal<DU, DE, Goal<DU, DE>> {
     let x = vars.v[0].clone();
-    proto_vulcan!([false, matchu x { [[x, h, x], [t, h]] => , [[3] | y] | [[1, 3, t | x], h] => , }])
+    proto_vulcan!([false, matchu x { [x] => { matche x { [["a" | t], [2, y], [1 | y] | y] => , [x, [_, h | h] | 1] => { false, member(x, [2]) }, } }, [[1, [] | _], [2 | h], t | y] => { [[y] == t, append(t, y, []), false], |y| { y == t, member(t, [2, 2]), append(x, y, []) } }, }])
 }
 pub fn case_209(vars: &Vars) -> InferredGoal<DU, DE, Goal<DU, DE>> {
     let q = vars.v[0].clone();
     let x = vars.v[1].clone();
-    proto_vulcan!([|y, t| { [q] == x, [q] == x }, matchu x { [3, [2, 2 | t]] => , [[t, [], 1], [false | t], z] => { match t { [[h], h] | 2 => [t == [[t], [[]]], x == [z, q]], } }, }])
+    proto_vulcan!([|y, t| {  }, match [3, x | 3] { x => { |z, x| { append(z, x, [1]), [2, 2 | x] == x, x == [2, 1, _ | z] }, false }, [[[], 2]] => , _ | [[2, "bc"], [h, 3, h], [x]] => , }])
 }
 pub fn case_210(vars: &Vars) -> InferredGoal<DU, DE, Goal<DU, DE>> {
     let q = vars.v[0].clone();
     let x = vars.v[1].clone();
-    proto_vulcan!([|y| { true, q == [y | y] }, match q { 2 => , }])
+    proto_vulcan!([|y| { q == [y | y], q == 2 }, match q { _ | [[1, 2, x], 'a', [z, "a", 'a'] | x] => |t, y| { [y, q] != y, [t | q] != [y, [_, 1], [q, 3, 2]], |tz| { [3, 1 | tz] != [3, 1, 2], tz == [2] } }, }])
 }
 pub fn case_211(vars: &Vars) -> InferredGoal<DU, DE, Goal<DU, DE>> {
     let q = vars.v[0].clone();
     let x = vars.v[1].clone();
-    proto_vulcan!([[1 != [[[], x, x | q], [q, 1, []], [x] | false], true, append(x, q, [3])], matcha x { [[1, h, [] | z], [[], _, y | h], [z | 1]] | [[y, 3], x, h] => , }])
+    proto_vulcan!([[[x, x, q] != x, [[x, q, false], 1 | q] == q, [1, x, [] | x] == [q]], match q { [z, [1, _, "a"], t] => { matche "a" { _ => [z == 7, z == 8], _ => { append(q, z, [1, 3]) }, ["bc", [[], 2, 1] | t] => { member(t, [1, 1]) }, } }, }])
 }
 pub fn case_212(vars: &Vars) -> InferredGoal<DU, DE, Goal<DU, DE>> {
     let x = vars.v[0].clone();
     let y = vars.v[1].clone();
-    proto_vulcan!([x != [2, y], matchu y { [z, z, "bc"] => |h, y| { _ == x, member(z, [2, 2, 3]) }, }])
+    proto_vulcan!([x != [2, y], matchu y { _ => , }])
 }
 pub fn case_213(vars: &Vars) -> InferredGoal<DU, DE, Goal<DU, DE>> {
     let x = vars.v[0].clone();
     let y = vars.v[1].clone();
-    proto_vulcan!([[[[x, 2, y | x], [_, 1], [x, 2]] == [[2, 1], ["bc", 1]]], matchu y { [] => [[x != [3, [], x | y], [y] == [2, [2 | _]]], |x, t| { t == [[_, t], [t, 2], [2]] }], [[1, [], h | h]] => , }])
+    proto_vulcan!([[[y] == y, y != 1], matcha y { [1] => |x, h| { x == x, append(h, h, []) }, }])
 }
 pub fn case_214(vars: &Vars) -> InferredGoal<DU, DE, Goal<DU, DE>> {
     let x = vars.v[0].clone();
-    proto_vulcan!([matcha x { [[1 | "bc"]] => { [[[], 2, [x, x, x] | x] != x, true, [] != x] }, [1, [[], 2, 1] | y] => , }])
+    proto_vulcan!([matcha x { [1, h] => [[[]] == h], [[2], _ | 3] => , }])
 }
 pub fn case_215(vars: &Vars) -> InferredGoal<DU, DE, Goal<DU, DE>> {
     let q = vars.v[0].clone();
     let x = vars.v[1].clone();
-    proto_vulcan!([matche x { [[z, 2], 3, [3, z, 2] | x] => { [2] == x, [q] == x }, }])
+    proto_vulcan!([matche x { [[[], 2], 3, [3, z, 2] | x] => { [2] == x, [q] == x }, }])
 }
 pub fn case_216(vars: &Vars) -> InferredGoal<DU, DE, Goal<DU, DE>> {
     let x = vars.v[0].clone();
-    proto_vulcan!([matche x { h => [x == h, [[2, x, [] | h], [[], x, x]] == x], 1 => , [_, [[], z, 3 | x]] => { |t| { z == [z, 'b'], append(x, x, [1]) }, [] == z }, }])
+    proto_vulcan!([matche x { _ => [x == 7, x == 8], _ | [h, [z, "bc", x | t]] => , [] | [[[]], y] => [condu { x == [[_], x, [x]], x == x, |tz| { [1, 3, 3] != [1, 3 | tz], tz == [3] } }, x == 1], }])
 }
 pub fn case_217(vars: &Vars) -> InferredGoal<DU, DE, Goal<DU, DE>> {
     let x = vars.v[0].clone();
     let y = vars.v[1].clone();
-    proto_vulcan!([matcha y { [[3, [], []], [1]] | [] => , }])
+    proto_vulcan!([matcha y { [3 | z] | _ => , }])
 }
 pub fn case_218(vars: &Vars) -> InferredGoal<DU, DE, Goal<DU, DE>> {
     let q = vars.v[0].clone();
     let x = vars.v[1].clone();
-    proto_vulcan!([true, match x { 2 => , [y, 1 | t] | [3, [_, x]] => { |z, x| { z == x, [q, ["a"]] != x } }, 3 => { condu { [x == q, x == []] } }, }])
+    proto_vulcan!([true, match x { _ => [append(q, q, [3]), matchu q { [[3, h | h]] => [2, [], []] == q, }], ['a' | y] | 2 => { true, |z| { false } }, [2] => [x] == x, }])
 }
 pub fn case_219(vars: &Vars) -> InferredGoal<DU, DE, Goal<DU, DE>> {
     let q = vars.v[0].clone();
     let x = vars.v[1].clone();
-    proto_vulcan!([matche x { [z | _] => [|z| { member(q, [1]), [_] == x }, [1, 1, x | z] == x], [[z, 1], 1 | _] | 1 => { [[[1, _], x | x] == [q], ["bc"] != x, q == q], x == q }, 1 => |y| { x == [x, 1] }, }])
+    proto_vulcan!([matche x { [[y, _, t] | x] => , 1 | [h] => { |z| { z != 1, [2, q] == x, x == q }, [] }, [[1, _], h | y] => { 2 != q, [] == q }, }])
 }
 pub fn case_220(vars: &Vars) -> InferredGoal<DU, DE, Goal<DU, DE>> {
     let x = vars.v[0].clone();
     let y = vars.v[1].clone();
-    proto_vulcan!([matche x { [2, [_, t]] | [["a"], y | 2] => [false, onceo { [[1], [x, x | x] | x] != _ }], }])
+    proto_vulcan!([matche x { [[[], "bc" | t], x, ['b', y, []]] | [[h, t | z]] => , }])
 }
 pub fn case_221(vars: &Vars) -> InferredGoal<DU, DE, Goal<DU, DE>> {
     let q = vars.v[0].clone();
     let x = vars.v[1].clone();
-    proto_vulcan!([x != "bc", matcha [_, "bc"] { 2 | [[z, 2 | _] | y] => { matche q { h | 3 => , [[1, 3, []] | 1] => { 2 == x }, [[x, "a"], [z, [], _]] => [[[1, true], [], [[], [], 2] | q] == x, |tz| { tz == [3], [2, 2 | tz] != [2, 2, 3] }], } }, [[1, h | h]] => [[[] | q], [[], _, q] | h] == q, }])
+    proto_vulcan!([x != "bc", matcha [_, "bc"] { h | [x, [y | y]] => false, y => [true], }])
 }
 pub fn case_222(vars: &Vars) -> InferredGoal<DU, DE, Goal<DU, DE>> {
     let q = vars.v[0].clone();
     let x = vars.v[1].clone();
-    proto_vulcan!([x == q, matcha [3 | x] { 2 | [_, [x, h]] => |t| { t == [_, []] }, y | x => { conde { [[2 | q] == q, member(q, [1, 2, 1])], [q == [2, q, []], q != [q | q]], [q != q, q == []] } }, }])
+    proto_vulcan!([x == q, matcha [3 | x] { [[_, _ | _], h] | _ => |t| { q == [[]], x == t }, x => conde { [_ != x, append(q, x, [3])] }, }])
 }
 pub fn case_223(vars: &Vars) -> InferredGoal<DU, DE, Goal<DU, DE>> {
     let x = vars.v[0].clone();
-    proto_vulcan!([matchu x { [2, [[], [], t], h] => { |h, y| { t != [x, 'a'], member(x, [3, 1]), [[2, [], _]] == h } }, }])
+    proto_vulcan!([matchu x { _ => , }])
 }
 pub fn case_224(vars: &Vars) -> InferredGoal<DU, DE, Goal<DU, DE>> {
     let q = vars.v[0].clone();
     let x = vars.v[1].clone();
-    proto_vulcan!([|y, z| { true }, matche [x, q, x] { [[], y] => { true }, t => { match x { [[y], 3, y] | [[]] => , } }, [[false | _], 3, z | t] => , }])
+    proto_vulcan!([|y, z| { false, x == [x, z, y] }, matche x { _ | 'a' => { condu { append(x, q, [3]), [q != [1, _, x | x], q == [[false | q], 3, x | q]] } }, 1 => { condu { 2 == q }, append(x, q, []) }, _ | [1, [1]] => , }])
 }
 pub fn case_225(vars: &Vars) -> InferredGoal<DU, DE, Goal<DU, DE>> {
     let x = vars.v[0].clone();
-    proto_vulcan!([matche [2, 'a', _ | x] { [[h, 1, z] | x] | [[false, 1 | t], [t, x, 1] | 2] => { onceo { x == [2, x, x] } }, }])
+    proto_vulcan!([matche [2, 'a', _ | x] { [h, [z] | x] | [[3], [y]] => , }])
 }
 pub fn case_226(vars: &Vars) -> InferredGoal<DU, DE, Goal<DU, DE>> {
     let x = vars.v[0].clone();
-    proto_vulcan!([[2, 2, x] == x, matche x { [_, [2, z, t], t] | [[_, _], x, [_ | x]] => , [] => conde { [] != [[x, x, 1], 2, [x, 3] | x], [x != [x], member(x, [2])] }, [[3, 2, [] | "bc"], [y, 2], [_]] => { match y { 2 => { [[2, false, y | y], [x, 3, 3 | x]] == 1 }, [[z], [1], 1] | 1 => [y != [['b', 2], _ | y], x == [2]], 3 => y == [1, [], y], }, [false, y == [x, _, []]] }, }])
+    proto_vulcan!([[2, 2, x] == x, matche x { [x, [z] | t] | 2 => , x => [x == [x, [], x], false], [[y, 1, [] | z], t, [[], x, h]] => { |t| { [z, [3, x | 3]] != y, [x, 2] != t } }, }])
 }
 pub fn case_227(vars: &Vars) -> InferredGoal<DU, DE, Goal<DU, DE>> {
     let x = vars.v[0].clone();
-    proto_vulcan!([|x| { append(x, x, []), [x, 1, x] == x, member(x, [3, 1]) }, matche x { t => , 2 => , 1 | [[1, y, true], [1, t | 'a']] => [[x, 1] == x, [x != [true, _], |tz| { [1, 1 | tz] != [1, 1, 2], tz == [2] }]], }])
+    proto_vulcan!([|x| { x == x, true, x == [] }, matche x { [[t, 2, y], [_ | 1], ["bc", x]] => , }])
 }
 pub fn case_228(vars: &Vars) -> InferredGoal<DU, DE, Goal<DU, DE>> {
     let x = vars.v[0].clone();
-    proto_vulcan!([match x { [[2], 1] | [["bc"], [2 | _], [[], [], []]] => [|tz| { [3, 2, 3, 3] != [3, 2 | tz], tz == [3, 3] }, |y| { 2 == x, 2 == y }], [_, true, [h, 1 | 1]] | 'b' => false, [[x, 2], y, [2, _]] => , }])
+    proto_vulcan!([match x { y | _ => { onceo { append(x, x, []) } }, [2, [_, t, _], [[], [], _]] => |y, h| { _ == [_], [[y, 2], [1, 1], _] == t }, [[z, 2 | h]] | 2 => , }])
 }
 pub fn case_229(vars: &Vars) -> InferredGoal<DU, DE, Goal<DU, DE>> {
     let x = vars.v[0].clone();
     let y = vars.v[1].clone();
-    proto_vulcan!([[x != [1], false], matcha x { [[_, _]] => , [[_, y], [x, h, 1] | _] => , }])
+    proto_vulcan!([[], matchu y { [t, 1, 'a' | h] => { [[x, 2] == x], x != [y] }, _ => { member(x, [1, 2, 3]) }, }])
 }
 pub fn case_230(vars: &Vars) -> InferredGoal<DU, DE, Goal<DU, DE>> {
     let q = vars.v[0].clone();
     let x = vars.v[1].clone();
-    proto_vulcan!([|x| { append(x, x, [3, 1]), append(q, q, []) }, matche q { 2 | [[t | _], h, y | z] => , [[1, "bc", h | 3]] => { |tz| { [2, 1] != [2 | tz], tz == [1] } }, }])
+    proto_vulcan!([|x| { 3 == 'a', x == [[], x, _], x == [[x]] }, match [[], x] { [2, _] | [] => [true != [[], [], 1], x != q], }])
 }
 pub fn case_231(vars: &Vars) -> InferredGoal<DU, DE, Goal<DU, DE>> {
     let x = vars.v[0].clone();
     let y = vars.v[1].clone();
-    proto_vulcan!([append(y, x, []), matche 2 { 1 => [x == x, |h, t| { |tz| { tz == [2, 3], [2 | tz] != [2, 2, 3] } }], [] | [t] => [[_, [], x | y] == y, [x == 3, true, y == [3, 3]]], }])
+    proto_vulcan!([append(y, x, []), matche 2 { [_, [[], "bc"], z] => [append(y, x, []), [z, z, [] | x] == y], [t, [], [h, []]] => [member(t, [2, 1]), [[true] == x, t != [x, h, 3], y == 1]], }])
 }
 pub fn case_232(vars: &Vars) -> InferredGoal<DU, DE, Goal<DU, DE>> {
     let x = vars.v[0].clone();
     let y = vars.v[1].clone();
-    proto_vulcan!([matche x { 2 => { [_, [y, [] | _], [2, []]] == y }, [[], [_], 1 | _] => [y == x, match y { [[_ | h], [t | 1] | _] => { y == [[], _], [[], 3 | x] == y }, }], }])
+    proto_vulcan!([matche x { _ => { member(x, [1, 2, 3]) }, _ => [y == 7, y == 8], }])
 }
 pub fn case_233(vars: &Vars) -> InferredGoal<DU, DE, Goal<DU, DE>> {
     let x = vars.v[0].clone();
     let y = vars.v[1].clone();
-    proto_vulcan!([matchu x { [[h, 3, z], 2, [3, z, h | x]] => matcha x { [[t, 2]] | _ => { member(z, [2]), [y, [], x | x] != _ }, h | [] => { [_] == [false, 1 | x], z == z }, [[h, t, false], [2, _ | _], 3] => { member(t, []), append(x, y, []) }, }, }])
+    proto_vulcan!([matchu x { [h, 2] => [|z, t| { false, y == [z], false }, |tz| { tz == [2, 3], [1 | tz] != [1, 2, 3] }], }])
 }
 pub fn case_234(vars: &Vars) -> InferredGoal<DU, DE, Goal<DU, DE>> {
     let x = vars.v[0].clone();
-    proto_vulcan!([[x, x, 2 | x] == x, match x { [[[]], [true | "bc"] | 1] => [[append(x, x, [2]), [x] == x, [] == 2], [2, x, "bc" | x] == x], 1 => [condu { [[x, _, 2] == x, [_, []] == x], [2 | x] == x }, condu { [x == [x, _], member(x, [])], [['a'] == [[2, 2], [2, 3, 3] | x], x != ["bc", [_, 2]]], ['a' | x] != x }], [[] | z] => , }])
+    proto_vulcan!([[x, x, 2 | x] == x, match x { h => |h| { true, member(x, [3]), true }, _ | _ => , [[h | y], t] => matcha x { [[z, x, "bc"], ["bc" | y], t] => { 1 == h }, }, }])
 }
 pub fn case_235(vars: &Vars) -> InferredGoal<DU, DE, Goal<DU, DE>> {
     let x = vars.v[0].clone();
     let y = vars.v[1].clone();
-    proto_vulcan!([[x | x] == y, match [2 | y] { [t] => |x, z| { false, false }, [['b', 3], t, 3 | h] => , }])
+    proto_vulcan!([[x | x] == y, match [2 | y] { x => , [x, h, [t, 1, x]] => [match h { [2, [_, z]] => { h != _, false }, }, matche [[] | y] { [3, t, t | x] => _ == [], [3, [z, h, _ | _], [1]] => [t == [_, [], 3], y != t], }], }])
 }
 pub fn case_236(vars: &Vars) -> InferredGoal<DU, DE, Goal<DU, DE>> {
     let x = vars.v[0].clone();
     let y = vars.v[1].clone();
-    proto_vulcan!([matchu [y] { [[3, 1, x]] | y => , [[1, _, false], ['a' | z], _] => , 2 | ["bc", _ | _] => [|t, h| { [x, 2, 1 | t] == x, |tz| { [2, 1 | tz] != [2, 1, 3, 3], tz == [3, 3] } }, conde { [y == true, y == x], [x != [1], x != [y | y]], x == [x] }], }])
+    proto_vulcan!([matchu [y] { [3, y, []] | _ => [] == x, [[z, z, y] | _] => , [[[], _, _ | _], 2, 2] => { |x| { true, 'a' == x, |tz| { [2, 1 | tz] != [2, 1, 3, 3], tz == [3, 3] } } }, }])
 }
 pub fn case_237(vars: &Vars) -> InferredGoal<DU, DE, Goal<DU, DE>> {
     let x = vars.v[0].clone();
     let y = vars.v[1].clone();
-    proto_vulcan!([matchu x { [[_, t, _], [z, "bc"], 1] => { conda { [true, x != [z]], [z == z, t == z], member(x, []) } }, [[]] => { condu { [[[x | x], [_], [x, x]] == y, y == 3], true, [|tz| { [1 | tz] != [1, 2], tz == [2] }, [true, y, []] != y] }, [[x | x] != y, false, x == [1, 3, "a"]] }, [[h, 1, h], [2, x] | x] => , }])
+    proto_vulcan!([matchu x { [] => { matchu y { [[[], _], t] => { [1, x] == x }, _ => { [[], x, 2 | x] == x }, }, _ == y }, [] => { |y, x| { |tz| { [3, 1, 1, 1] != [3, 1 | tz], tz == [1, 1] }, [_, []] == y, y == [[3, _ | x]] } }, t => onceo { [t] != t }, }])
 }
 pub fn case_238(vars: &Vars) -> InferredGoal<DU, DE, Goal<DU, DE>> {
     let x = vars.v[0].clone();
-    proto_vulcan!([member(x, [3, 2, 3]), match x { z | [[1, []], [[]]] => [onceo { x == [x, x, _ | x] }, x != [[], 'a', x | x]], [h, 2, x] => , [[2, [], y], [1, _ | x], [1, 1] | _] | x => , }])
+    proto_vulcan!([member(x, [3, 2, 3]), match x { _ | [[3], [[]]] => [onceo { x == [x, x, _ | x] }, x != [[], 'a', x | x]], 2 => { matchu x { [[h, 2, [] | _], [1, _ | x], [1, 1] | _] | 1 => , [] => { x != x }, } }, _ => { x == [1] }, }])
 }
 pub fn case_239(vars: &Vars) -> InferredGoal<DU, DE, Goal<DU, DE>> {
     let q = vars.v[0].clone();
     let x = vars.v[1].clone();
-    proto_vulcan!([match x { h | "bc" => , 1 | _ => { x == x }, [3, y, [2, []] | _] | [[3, x, x], [t, [], x], x | 2] => { |t, h| { true, 1 == q, [2, h | t] == h }, [[1] != q, false, [1] == q] }, }])
+    proto_vulcan!([match x { "a" | _ => [_ == x, [[q] != x]], [] => { q == "bc" }, _ => [[], q != x], }])
 }
 pub fn case_240(vars: &Vars) -> InferredGoal<DU, DE, Goal<DU, DE>> {
     let q = vars.v[0].clone();
     let x = vars.v[1].clone();
-    proto_vulcan!([matchu x { z | 3 => , [[3]] => { x == "bc" }, [[2], [y], [_, 3]] => { matchu q { [[] | z] => , [1, [2, _ | _] | h] => true, }, onceo { y == [2, y, x] } }, }])
+    proto_vulcan!([matchu x { x | _ => { member(q, []), member(q, [3, 2]) }, [[[]], [1, t, []], h | h] | _ => , _ => [conda { q != [[] | q], [[2, _ | x] == x, q == [q]] }, condu { true, [q == x, false] }], }])
 }
 pub fn case_241(vars: &Vars) -> InferredGoal<DU, DE, Goal<DU, DE>> {
     let q = vars.v[0].clone();
     let x = vars.v[1].clone();
-    proto_vulcan!([matcha x { 2 => , [[1]] => , [[1], [] | 2] | [[h, x, 3]] => |y| { [[1, q, [] | q]] == y }, }])
+    proto_vulcan!([matcha x { _ => [q == 7, q == 8], [1, [y, _, []], [1]] => [x, y, 3] == q, y | _ => , }])
 }
 pub fn case_242(vars: &Vars) -> InferredGoal<DU, DE, Goal<DU, DE>> {
     let x = vars.v[0].clone();
     let y = vars.v[1].clone();
-    proto_vulcan!([y == [2, x | 'a'], match x { [[y, z, z | y] | _] | x => , }])
+    proto_vulcan!([y == [2, x | 'a'], match x { [[z | y], _] | [x] => , }])
 }
 pub fn case_243(vars: &Vars) -> InferredGoal<DU, DE, Goal<DU, DE>> {
     let x = vars.v[0].clone();
     let y = vars.v[1].clone();
-    proto_vulcan!([|z| { y == [2], false }, match y { [[false] | x] => , [y, x] => { matcha x { 2 => , [[t, 2] | "bc"] => , }, member(y, []) }, [2 | y] => { conde { [] != [[1, 3, y | y] | y], [append(y, y, [2, 1]), [] == x] } }, }])
+    proto_vulcan!([|z| { true }, matcha [1, _] { 2 => [match false { z => , y => , }, conde { y == [x], append(y, x, [2]), y == [[], x, _ | y] }], 3 => , }])
 }
 pub fn case_244(vars: &Vars) -> InferredGoal<DU, DE, Goal<DU, DE>> {
     let q = vars.v[0].clone();
     let x = vars.v[1].clone();
-    proto_vulcan!([matchu x { [[x]] | 3 => [onceo { false != q }, conda { append(q, q, []) }], }])
+    proto_vulcan!([matchu x { [[3], 3] | _ => { [[1 | q], [x, 1, []], x] == [[1, 2, 'b'], [x], x] }, }])
 }
 pub fn case_245(vars: &Vars) -> InferredGoal<DU, DE, Goal<DU, DE>> {
     let x = vars.v[0].clone();
     let y = vars.v[1].clone();
-    proto_vulcan!([matcha x { [[2, 3], [y, 1 | z], z] => z == 2, x => , }])
+    proto_vulcan!([matcha x { [2, [[], [], 2]] => [x, [], x] == y, _ => [y == 7, y == 8], }])
 }
 pub fn case_246(vars: &Vars) -> InferredGoal<DU, DE, Goal<DU, DE>> {
     let x = vars.v[0].clone();
     let y = vars.v[1].clone();
-    proto_vulcan!([x == [x, x], match x { [[h, 2, _ | y]] => false, [t, [x], 2] => , 1 => [matchu x { 2 => , }, false], }])
+    proto_vulcan!([x == [x, x], match x { [["bc", _, x]] => { matche [true, 1, 'b'] { [[1, h] | _] | y => { true }, _ | [z, [h | _], 2] => { true }, [[y, 1, x | t], false] | _ => , }, false }, y | y => { |t| { y == t, |tz| { [3 | tz] != [3, 3, 3], tz == [3, 3] } } }, [[2] | false] => [matcha x { 1 => { false }, }, x == [y, y, x]], }])
 }
 pub fn case_247(vars: &Vars) -> InferredGoal<DU, DE, Goal<DU, DE>> {
     let x = vars.v[0].clone();
     let y = vars.v[1].clone();
-    proto_vulcan!([matche y { ['a', [2, _]] => , _ => [|t, h| { [[x, y], [y, h, 2]] != h }, matchu x { [[[]], 2 | 1] | [[3], [x, false] | _] => { member(y, []) }, [y, [_, 2, 2 | _]] => [false == y, |tz| { tz == [2, 1], [2 | tz] != [2, 2, 1] }], [2, [[], y, y], [t, 'a' | _]] => { [[y, [], 3 | y], [1, 3] | t] == t }, }], [[[]], ["bc", "bc" | t], [z]] | 3 => [conde { [append(x, x, [2]), true], [true, x == [_ | y]] }, matcha x { z => |tz| { tz == [1, 1], [1, 1, 1, 1] != [1, 1 | tz] }, [h, z, [_, y | y]] => [h == [h, "a", _], h == [x]], 1 => [y != [_, 2], y == ["a", y, y | y]], }], }])
+    proto_vulcan!([matche y { h => { |x, h| { true, x != [2, 2 | x], h == [y] } }, 2 => x == 3, [2, 1, [t | 1] | _] => [x == [], y == [2, [x, y], [y]]], }])
 }
 pub fn case_248(vars: &Vars) -> InferredGoal<DU, DE, Goal<DU, DE>> {
     let x = vars.v[0].clone();
     let y = vars.v[1].clone();
-    proto_vulcan!([matcha x { [t] => { matchu [3, _] { [[t]] => , } }, }])
+    proto_vulcan!([matcha x { y => { matche x { [1, 1, [t]] => , _ | [[x], x] => { 'b' == y }, } }, }])
 }
 pub fn case_249(vars: &Vars) -> InferredGoal<DU, DE, Goal<DU, DE>> {
     let x = vars.v[0].clone();
     let y = vars.v[1].clone();
-    proto_vulcan!([match [x] { [[h], [z, _ | _]] => { |t, y| { [1] == y, append(t, x, [2, 2]), false }, condu { [[1] != z, [[]] == h], [member(x, [2, 2]), x != [[x, 3] | h]], [['a', [[], "bc"], y] == h, ["bc", h | h] == [[[]]]] } }, [[z, y | z], [h] | _] => { 'a' == h }, }])
+    proto_vulcan!([match [x] { [] => , [[_, t, 2], [[], 3, 1 | z]] => , }])
 }
 pub fn case_250(vars: &Vars) -> InferredGoal<DU, DE, Goal<DU, DE>> {
     let x = vars.v[0].clone();
-    proto_vulcan!([matcha x { [[[], z | 2], true, 1 | 1] | [[h, t, h]] => , }])
+    proto_vulcan!([matcha x { [[z | 2], true] | 3 => { |tz| { [3, 1, 1] != [3, 1 | tz], tz == [1] }, conda { x == x } }, }])
 }
 pub fn case_251(vars: &Vars) -> InferredGoal<DU, DE, Goal<DU, DE>> {
     let x = vars.v[0].clone();
-    proto_vulcan!([x == [x], match x { y => { conde { x == y, [x == 1, x == [[1]]], [y == [[[]], [1, [], 'b' | y], false], x != [x, []]] }, conde { [x != 'a', x != [y | x]], [y == x, [y | y] != y] } }, [1] => , [[3, 1 | z]] => [conde { [_, x, "a"] != z, [true, member(z, [1, 1, 3])] }, [true, ["bc", _] == x, append(x, x, [3])]], }])
+    proto_vulcan!([x == [x], match x { _ => { false }, 2 => { matchu x { [1, [y], [false | "bc"]] => , } }, _ => { x == [1, [], 'b' | x], 1 == x }, }])
 }
 pub fn case_252(vars: &Vars) -> InferredGoal<DU, DE, Goal<DU, DE>> {
     let x = vars.v[0].clone();
     let y = vars.v[1].clone();
-    proto_vulcan!([conde { [x == 1, y == [y]], |tz| { tz == [1, 2], [3 | tz] != [3, 1, 2] } }, matcha y { [[[], y | y], _ | 3] | x => , }])
+    proto_vulcan!([conde { [1 == x, y == [y]] }, matcha [true, [], y] { t => conda { |tz| { [3, 3, 3, 3] != [3, 3 | tz], tz == [3, 3] }, |tz| { tz == [2], [3, 1, 2] != [3, 1 | tz] } }, 1 => { true, |h, x| { y == [2], [2, 2 | x] == x, false } }, }])
 }
 pub fn case_253(vars: &Vars) -> InferredGoal<DU, DE, Goal<DU, DE>> {
     let x = vars.v[0].clone();
-    proto_vulcan!([matcha x { [[3, [], 2], [3, y, x | z], [3, y, z]] | [] => , h => [|h, x| { h != [h, h, 2] }, conde { [1, 'a', _ | x] == x, true, h == h }], h => , }])
+    proto_vulcan!([matcha x { 3 | _ => { 2 == [[x, x, x], [x, 'a', x], [[], _] | x], x != [x, x, 2] }, [[3 | 1] | y] | [[_, "bc"]] => conde { [], [x == x, append(x, x, [3, 3])], [append(x, x, [1, 3]), x == [[1, true], 2, [x, [], x] | _]] }, [[[], 3, t]] => , }])
 }
 pub fn case_254(vars: &Vars) -> InferredGoal<DU, DE, Goal<DU, DE>> {
     let q = vars.v[0].clone();
     let x = vars.v[1].clone();
-    proto_vulcan!([conde { [1, x, 1] == x, [_ == x, [[2 | x]] == _] }, matcha x { t | [[h, 1 | _] | x] => { |z| { [2 | z] == 'a' } }, [x] => , }])
+    proto_vulcan!([conde { true, [q == [[q, q, []], [q, 3 | x]], true] }, matche x { ["a", [_, y, t | _], h] => , _ => member(x, [1, 2, 3]), }])
 }
 pub fn case_255(vars: &Vars) -> InferredGoal<DU, DE, Goal<DU, DE>> {
     let x = vars.v[0].clone();
-    proto_vulcan!([matcha _ { 1 => { onceo { member(x, [1]) }, match x { [[2, _], [2 | h] | h] => , [["a", 1, y]] => { x != y }, z => { z == [], |tz| { [3, 1 | tz] != [3, 1, 3, 1], tz == [3, 1] } }, } }, }])
+    proto_vulcan!([matcha _ { [[x, 2, y]] => { [[] == y] }, }])
 }
 pub fn case_256(vars: &Vars) -> InferredGoal<DU, DE, Goal<DU, DE>> {
     let x = vars.v[0].clone();
     let y = vars.v[1].clone();
-    proto_vulcan!([match x { 2 => ['a' == x, true], }])
+    proto_vulcan!([match x { 3 => , }])
 }
 pub fn case_257(vars: &Vars) -> InferredGoal<DU, DE, Goal<DU, DE>> {
     let x = vars.v[0].clone();
-    proto_vulcan!([[3 == x], matcha x { x => { [1] == x, [member(x, [2, 3]), [x, false] == x, x == [x]] }, }])
+    proto_vulcan!([[member(x, [3, 1, 1]), x == [x]], matchu [2, 2, 1] { [[x, []], z, []] | [2, 3, [h]] => , }])
 }
 pub fn case_258(vars: &Vars) -> InferredGoal<DU, DE, Goal<DU, DE>> {
     let x = vars.v[0].clone();
     let y = vars.v[1].clone();
-    proto_vulcan!([|tz| { tz == [3, 2], [2, 1, 3, 2] != [2, 1 | tz] }, matche y { [[y], _] => , }])
+    proto_vulcan!([|tz| { tz == [3, 2], [2, 1, 3, 2] != [2, 1 | tz] }, matche y { [[_], _, [] | t] => { t == [], |h| { append(t, x, [2]), [] != 2 } }, }])
 }
 pub fn case_259(vars: &Vars) -> InferredGoal<DU, DE, Goal<DU, DE>> {
     let q = vars.v[0].clone();
     let x = vars.v[1].clone();
-    proto_vulcan!([matchu x { [[x], []] => , }])
+    proto_vulcan!([matchu x { [x, [[], 1, 2]] => { [x == [[1, 3] | x]], |x| { [1, "bc"] == x, x == [[]] } }, }])
 }
 pub fn case_260(vars: &Vars) -> InferredGoal<DU, DE, Goal<DU, DE>> {
     let q = vars.v[0].clone();
     let x = vars.v[1].clone();
-    proto_vulcan!([matche x { [[2, z, z], [y, 'b']] => , [[x], [y, z]] => [condu { append(y, x, [3]) }, [[y]] == q], [x, []] | 1 => { [q, "bc"] != q }, }])
+    proto_vulcan!([matche x { [[2, y | y], h] => , [[h, x], [y, z]] => [condu { append(x, x, [3]) }, [[x]] == q], [[z], 1, y] | [[x, "bc"], 3] => { match q { [[t, _, y]] => [3 == y, y == q], z | [[], x, [y]] => append(q, q, []), _ | _ => { false }, } }, }])
 }
 pub fn case_261(vars: &Vars) -> InferredGoal<DU, DE, Goal<DU, DE>> {
     let x = vars.v[0].clone();
     let y = vars.v[1].clone();
-    proto_vulcan!([x == x, matchu y { [3] => [[true, y != [true, y]], [_ | x] == [1 | x]], }])
+    proto_vulcan!([x == x, matchu y { [_, [t, 1, y | _], [true, t] | t] => { conda { t == true } }, }])
 }
 pub fn case_262(vars: &Vars) -> InferredGoal<DU, DE, Goal<DU, DE>> {
     let x = vars.v[0].clone();
     let y = vars.v[1].clone();
-    proto_vulcan!([matche y { z => |tz| { tz == [2], [2, 3, 2] != [2, 3 | tz] }, [[3, 1, h] | h] => [conde { false, [x != y, y == h], [1 == [[2, [], y]], |tz| { tz == [3], [1, 2 | tz] != [1, 2, 3] }] }, y == [h]], _ => , }])
+    proto_vulcan!([matche y { [] => |tz| { tz == [2], [2, 3, 2] != [2, 3 | tz] }, "a" => [matchu x { [[], y, [x, y, _]] => { append(x, y, [3]) }, }, true != 1], _ => [x == 7, x == 8], }])
 }
 pub fn case_263(vars: &Vars) -> InferredGoal<DU, DE, Goal<DU, DE>> {
     let q = vars.v[0].clone();
     let x = vars.v[1].clone();
-    proto_vulcan!([|x, z| { x != ["a", 1, false | x] }, matchu [1, "a" | q] { [[h, _], [x] | x] | [1, [z, 1, y], [y, 1, z | y] | _] => { match [1, q, q] { [] => { q == [[], 1] }, }, [[q, _, true], [3], [_, true]] == q }, t | [] => |z| { [[], x] == z, [[]] != q }, [[3, []]] => { q == 1, x == q }, }])
+    proto_vulcan!([|x, z| { |tz| { tz == [3], [1 | tz] != [1, 3] }, true }, matchu q { _ => { matchu [1, "a" | q] { [[false, 2 | _]] | [[[], 2, 1], z] => [[1] != q, true], [[x, 2, 2] | h] | [[], 1 | h] => { h == h }, [[t, _, true], [3], [_, true]] | _ => { true }, } }, }])
 }
 pub fn case_264(vars: &Vars) -> InferredGoal<DU, DE, Goal<DU, DE>> {
     let q = vars.v[0].clone();
     let x = vars.v[1].clone();
-    proto_vulcan!([[x] != q, matchu q { t => [[x] == _, |tz| { [1, 1, 2] != [1 | tz], tz == [1, 2] }], }])
+    proto_vulcan!([[x] != q, matchu q { _ => , }])
 }
 pub fn case_265(vars: &Vars) -> InferredGoal<DU, DE, Goal<DU, DE>> {
     let x = vars.v[0].clone();
-    proto_vulcan!([matcha x { 1 => { |z| { x == ["a", 'b'], [3, x | 'b'] == x, z == x }, conde { [[], x] == x, 2 == x } }, }])
+    proto_vulcan!([matcha x { [['a', []], [_, 1, h] | z] => { h == [x, h | z], [[1] == h, x == 'b', z == []] }, }])
 }
 pub fn case_266(vars: &Vars) -> InferredGoal<DU, DE, Goal<DU, DE>> {
     let x = vars.v[0].clone();
-    proto_vulcan!([true, matcha x { [[_], [h | z]] => x == [['b', 1], x, []], _ => , 2 => { [] == x }, }])
+    proto_vulcan!([true, matcha x { [_, [h, h], [[], t] | h] => { matche [t] { [] => member(h, [3]), [2, []] | 3 => { [_, [], "a" | x] == x, member(x, [2]) }, [[t, 1, false], y] | 1 => [append(h, x, [1, 2]), x != [2, x, []]], }, conda { h == [2, [], h | t] } }, [_, [z, h], y] => { conde { x == h, [[_, x | h] != x, y == [1, ['a', []], _]], [h == y, z != [[x]]] } }, t => { conde { [[x, [], t | t] == t, [[] | t] == t], [_, x] != t } }, }])
 }
 pub fn case_267(vars: &Vars) -> InferredGoal<DU, DE, Goal<DU, DE>> {
     let q = vars.v[0].clone();
     let x = vars.v[1].clone();
-    proto_vulcan!([q == x, matchu q { [[3, z | z], [2, x]] => , [[h, _, false], [1, _, 2 | 2], [2, 'a' | x]] => [|h| { h == q }, onceo { h == [[], _, 1 | x] }], }])
+    proto_vulcan!([q == x, matchu q { [[2, [], x], [t]] => , _ | [t, [_, false, z]] => , }])
 }
 pub fn case_268(vars: &Vars) -> InferredGoal<DU, DE, Goal<DU, DE>> {
     let x = vars.v[0].clone();
     let y = vars.v[1].clone();
-    proto_vulcan!([|tz| { tz == [3, 2], [2, 3, 2] != [2 | tz] }, match y { [[x, _ | x], [h] | h] | [[2, z], [t, 2]] => { conde { true != y, true, [true, y == [y, 3, []]] } }, [[], ["a", x, 1] | x] => , 2 | [_ | 'a'] => conda { 'a' == y }, }])
+    proto_vulcan!([|tz| { tz == [3, 2], [2, 3, 2] != [2 | tz] }, match y { [x, 2] | _ => , [h | x] | z => { condu { [append(y, y, [2]), member(y, [2, 2])], y == y, [true, y == [y, 3, []]] } }, [[h]] => { |x| { |tz| { tz == [3, 2], [1, 2 | tz] != [1, 2, 3, 2] } } }, }])
 }
 pub fn case_269(vars: &Vars) -> InferredGoal<DU, DE, Goal<DU, DE>> {
     let x = vars.v[0].clone();
-    proto_vulcan!([matchu x { [2] => { [[[x, _, 1], [x, 1, x], x | 'b'] == 2], [[] | x] != _ }, }])
+    proto_vulcan!([matchu x { _ => { |t| { x == [_, ["a" | t]], 'b' != x, [x | x] != t } }, }])
 }
 pub fn case_270(vars: &Vars) -> InferredGoal<DU, DE, Goal<DU, DE>> {
     let x = vars.v[0].clone();
     let y = vars.v[1].clone();
-    proto_vulcan!([match x { [t, [h, h, 2], ['b', 3, 'a']] => |x, t| { [1, 2 | t] != y, [true] != 1 }, }])
+    proto_vulcan!([match x { [2] => , }])
 }
 pub fn case_271(vars: &Vars) -> InferredGoal<DU, DE, Goal<DU, DE>> {
     let q = vars.v[0].clone();
     let x = vars.v[1].clone();
-    proto_vulcan!([matchu x { [[x, h], 1, [_, _, 2]] | [[y, []], [3] | _] => , [[t | t], ['b' | z], z] => , }])
+    proto_vulcan!([matchu x { [] | 2 => { _ == q, conde { [member(x, [3, 2, 1]), q != 3], 'a' == [[1, 'b' | x], [q] | x], [[q, x, x | x]] != 2 } }, [] | y => , }])
 }
 pub fn case_272(vars: &Vars) -> InferredGoal<DU, DE, Goal<DU, DE>> {
     let x = vars.v[0].clone();
     let y = vars.v[1].clone();
-    proto_vulcan!([matche x { [2, x, 2] | [[[], [], _], [x, _, 3 | x], z] => [|tz| { [1, 1] != [1 | tz], tz == [1] }, [3] == true], [[1, 1, 3] | _] => matche [x] { h => append(x, h, [3, 3]), 3 => , }, _ => , }])
+    proto_vulcan!([matche x { t | x => , [[[], [], _], [x, _, 3 | x], z] => [|tz| { [1, 1] != [1 | tz], tz == [1] }, [3] == true], z => [true, [[3 | z], [1, 3]] == x], }])
 }
 pub fn case_273(vars: &Vars) -> InferredGoal<DU, DE, Goal<DU, DE>> {
     let x = vars.v[0].clone();
-    proto_vulcan!([|t, z| { append(z, t, []) }, matchu x { [[[]], [y | t]] => , }])
+    proto_vulcan!([|t, z| { [x] == x }, matchu x { [[1], 1] => [x != x, conda { [[x, 1] == x, x == x] }], }])
 }
 pub fn case_274(vars: &Vars) -> InferredGoal<DU, DE, Goal<DU, DE>> {
     let x = vars.v[0].clone();
-    proto_vulcan!([x != [_, x], match 2 { [[2, _], ["bc", 1, 1]] | [["bc"]] => , [x, [x | h]] => [x, 3] == h, }])
+    proto_vulcan!([x != [_, x], match 2 { [[y, z, []], [1] | z] | [[2, 1, 3]] => x != x, [_] => |y| { |tz| { tz == [2, 2], [1, 2, 2] != [1 | tz] }, [x, 2 | 1] != x, [y, y, y] == x }, }])
 }
 pub fn case_275(vars: &Vars) -> InferredGoal<DU, DE, Goal<DU, DE>> {
     let x = vars.v[0].clone();
     let y = vars.v[1].clone();
-    proto_vulcan!([|t| { t != t }, match y { 1 => { condu { [x != [y, 1, [] | x], member(x, [1, 1, 1])], x == [x] } }, }])
+    proto_vulcan!([|t| { [t, [x, 'a' | y]] == [[2, 3, t], 1 | x], append(x, x, [1]) }, matcha x { [[y] | _] => { condu { [[3, 3, _ | y] == y, y == [2, 2, x]] } }, _ => { x == 7, x == 8 }, z => { matcha y { [2] | h => { x == y }, h => , } }, }])
 }
 pub fn case_276(vars: &Vars) -> InferredGoal<DU, DE, Goal<DU, DE>> {
     let q = vars.v[0].clone();
     let x = vars.v[1].clone();
-    proto_vulcan!([q == x, matcha [2, 1] { [t] => matche q { [3, 2] => { [3, _ | _] == t }, z => [true == q, append(q, x, [3])], }, x => , }])
+    proto_vulcan!([q == x, matcha [2, 1] { [2] => [[2, q | q] == x, [_, _, 1] == x], [[x], [h, 'b'], [2, t]] | 1 => [q == 1, [3, q] == q], }])
 }
 pub fn case_277(vars: &Vars) -> InferredGoal<DU, DE, Goal<DU, DE>> {
     let x = vars.v[0].clone();
-    proto_vulcan!([x != _, match x { [[3, [], _]] => , [[_]] | [[y, 2, y], [_, [], x | z], t] => , z => , }])
+    proto_vulcan!([x != _, match x { [[z]] => { z == _ }, [2, _] => [[x == x], member(x, [])], [[true, 1, 2], [1, true, x]] => [member(x, [2, 3]), matchu x { ['a'] => { [x, x] != x, false }, [[2, 3], 3] => , _ | [_ | h] => [x == "bc", _ != x], }], }])
 }
 pub fn case_278(vars: &Vars) -> InferredGoal<DU, DE, Goal<DU, DE>> {
     let q = vars.v[0].clone();
     let x = vars.v[1].clone();
-    proto_vulcan!([match 1 { [h, _] => { [x] == h, true }, [[]] | [] => { member(x, [3, 2]) }, }])
+    proto_vulcan!([match 1 { [[3, z | z], [t, x, 3 | h], [2]] => , [] => { x != [q, true, 2] }, }])
 }
 pub fn case_279(vars: &Vars) -> InferredGoal<DU, DE, Goal<DU, DE>> {
     let x = vars.v[0].clone();
-    proto_vulcan!([matche x { [[2, _, true], [_, _, _ | x], t | 3] => { |y, t| { y == y, false, t == "bc" } }, }])
+    proto_vulcan!([matche x { [[3 | h]] => [h == x, onceo { 1 == x }], }])
 }
 pub fn case_280(vars: &Vars) -> InferredGoal<DU, DE, Goal<DU, DE>> {
     let q = vars.v[0].clone();
     let x = vars.v[1].clone();
-    proto_vulcan!([false, match [2, 1, 2] { [_, [2, t, 1], [_, false, 1 | h]] | [z, 3] => , }])
+    proto_vulcan!([false, match [2, 1, 2] { [3, [t, 1] | _] | 1 => , }])
 }
 pub fn case_281(vars: &Vars) -> InferredGoal<DU, DE, Goal<DU, DE>> {
     let x = vars.v[0].clone();
-    proto_vulcan!([|tz| { [1, 2, 2] != [1 | tz], tz == [2, 2] }, matchu [x, 2, 2] { [[[], z, _], 2] | t => , 1 => , z => { member(z, []) }, }])
+    proto_vulcan!([|tz| { [1, 2, 2] != [1 | tz], tz == [2, 2] }, matchu [x, 2, 2] { [[z, _], 2, [t | _] | _] | [z] => , [[[]], [2], t] => , 2 => { matcha x { _ => , [x] => [x == [x, 1, [[], 2, x] | x], false], 'b' => { false, 2 == x }, }, x == 3 }, }])
 }
 pub fn case_282(vars: &Vars) -> InferredGoal<DU, DE, Goal<DU, DE>> {
     let x = vars.v[0].clone();
-    proto_vulcan!([x == x, matcha x { x => |tz| { tz == [1], [2, 1] != [2 | tz] }, }])
+    proto_vulcan!([x == x, matcha x { 2 => , }])
 }
 pub fn case_283(vars: &Vars) -> InferredGoal<DU, DE, Goal<DU, DE>> {
     let x = vars.v[0].clone();
-    proto_vulcan!([true, match x { [[[]]] => [false], }])
+    proto_vulcan!([true, match x { [[_, y, 'b']] => { matchu x { [] | [["bc"], _, []] => , _ | [[[], 1 | h] | 1] => { x == y }, [2] | [[t, 1, 2], [_, 2], [_, y, 'b'] | z] => true, } }, }])
 }
 pub fn case_284(vars: &Vars) -> InferredGoal<DU, DE, Goal<DU, DE>> {
     let x = vars.v[0].clone();
-    proto_vulcan!([x != _, matche [1 | x] { [['a', [] | 3], [], [t, _] | x] => , [["bc", 3 | _]] => , }])
+    proto_vulcan!([x != _, matche [1 | x] { 1 => , [3, [[], t | _], x | h] => , }])
 }
 pub fn case_285(vars: &Vars) -> InferredGoal<DU, DE, Goal<DU, DE>> {
     let x = vars.v[0].clone();
@@ -1542,32 +1542,32 @@ pub fn case_289(vars: &Vars) -> InferredGoal<DU, DE, Goal<DU, DE>> {
 pub fn case_290(vars: &Vars) -> InferredGoal<DU, DE, Goal<DU, DE>> {
     let q = vars.v[0].clone();
     let x = vars.v[1].clone();
-    proto_vulcan!([member(x, []), [x != [2 | q]]])
+    proto_vulcan!([member(x, []), [q != 2, x == [q | x]]])
 }
 pub fn case_291(vars: &Vars) -> InferredGoal<DU, DE, Goal<DU, DE>> {
     let q = vars.v[0].clone();
     let x = vars.v[1].clone();
-    proto_vulcan!([|y| { q == [2, [2], [2, "bc", 3]] }, x == x])
+    proto_vulcan!([|y| { [2] == y, [q != 3, |y| {  }, conde { x == y }], member(q, [3, 3]) }, x != 2])
 }
 pub fn case_292(vars: &Vars) -> InferredGoal<DU, DE, Goal<DU, DE>> {
     let q = vars.v[0].clone();
     let x = vars.v[1].clone();
-    proto_vulcan!([conde { x != [q, [], []], condu { [q == [3, q, x], [x, x] == x] }, [q == [1, x, q], ['a', q | x] != x] }, [q, 1] == x, [[3, 3, q], [3, x] | 3] != 1])
+    proto_vulcan!([conde { [[[], [], q | q] != x, q == [3, 3]], [conde { [q == [[2, 2, 1], [2]], [] == q], onceo { true } }, |y| { conde { member(x, [2]), [x != 2, 3 == y], y == _ }, |t| { [t, y] != y, append(t, y, [3]), member(y, [1, 1, 1]) } }] }, [q, q, 2 | q] == x, |tz| { [1, 1, 1, 3] != [1, 1 | tz], tz == [1, 3] }, closure { condu { [[q, q], x] == 1, [onceo { [] != [x, x] }, |y, x| { member(q, [3]), [[], y, [1, x, 1] | 1] == [[1, q, x], [y, 3, x | 2]], [[x]] == [[_ | x], [x, y, []]] }] } }])
 }
 pub fn case_293(vars: &Vars) -> InferredGoal<DU, DE, Goal<DU, DE>> {
     let x = vars.v[0].clone();
     let y = vars.v[1].clone();
-    proto_vulcan!([conda { [1 == 1, |z, x| { conde { [z == x, y == _], [true, [2] == x] } }], [conde { _ == y, [true, onceo { [] == y }] }, true] }, closure { [2, _ | y] == x }])
+    proto_vulcan!([conda { [1 == 1, |z, x| { [_, z] == _, |tz| { [1, 2, 2] != [1 | tz], tz == [2, 2] } }], |tz| { tz == [1, 3], [2, 2, 1, 3] != [2, 2 | tz] } }])
 }
 pub fn case_294(vars: &Vars) -> InferredGoal<DU, DE, Goal<DU, DE>> {
     let x = vars.v[0].clone();
     let y = vars.v[1].clone();
-    proto_vulcan!([condu { [[x, y, x | y], x] == [y, x] }, condu { y == _ }, [[|x| { member(y, [1, 1]), |tz| { [2 | tz] != [2, 3, 1], tz == [3, 1] }, [x, x, 2] == x }, |tz| { tz == [2], [1, 3 | tz] != [1, 3, 2] }, y == 1], 3 == y, onceo { [[1, y], 1, [y] | y] == [x, y, false | y] }]])
+    proto_vulcan!([condu { [[x, y, x | y], x] == [y, x] }, condu { y == _ }, [x == [x | y], x == x], closure { [] }])
 }
 pub fn case_295(vars: &Vars) -> InferredGoal<DU, DE, Goal<DU, DE>> {
     let x = vars.v[0].clone();
     let y = vars.v[1].clone();
-    proto_vulcan!([[_, x, [_ | y]] == [[] | x], conde { [true, ['b', _] == x], [[2, 2 | y] == y, condu { 1 == y, [onceo { [[], 2 | y] == x }, |y| { y == _, x == "bc", [3, ["a", []]] == y }], member(y, [1, 2, 3]) }] }])
+    proto_vulcan!([[_, x, [_ | y]] == [[] | x], conde { ['b', _] == x, [y, 3, 3] != 2, 1 == y }])
 }
 pub fn case_296(vars: &Vars) -> InferredGoal<DU, DE, Goal<DU, DE>> {
     let q = vars.v[0].clone();
@@ -1577,29 +1577,29 @@ pub fn case_296(vars: &Vars) -> InferredGoal<DU, DE, Goal<DU, DE>> {
 pub fn case_297(vars: &Vars) -> InferredGoal<DU, DE, Goal<DU, DE>> {
     let x = vars.v[0].clone();
     let y = vars.v[1].clone();
-    proto_vulcan!([|y| { [_, _, y] == y, condu { conde { y == y, [true] == y, [y != y, y == x] } } }])
+    proto_vulcan!([|y| { |h| {  } }, closure { [2, x] == x }])
 }
 pub fn case_298(vars: &Vars) -> InferredGoal<DU, DE, Goal<DU, DE>> {
     let x = vars.v[0].clone();
-    proto_vulcan!([conda { [append(x, x, [1]), [condu { [1 == [x], [2, 'a'] != [x, x]], member(x, [1, 2]) }, condu { [2, []] != x, [[3, x] != x, x == [x, 3]] }, |t, h| { |tz| { [2, 1, 1] != [2 | tz], tz == [1, 1] } }]], [x, [true, 3, []], 1 | x] == [x, 2], x == 3 }, [[x, x, x] | _] == x, closure { x != 2 }])
+    proto_vulcan!([conda { [append(x, x, [1]), []], [conda { [|tz| { [2, 1 | tz] != [2, 1, 1, 3], tz == [1, 3] }, |tz| { [3 | tz] != [3, 2], tz == [2] }], [conde { [1 == x, member(x, [1, 2])], [x == 1, false] }, [[x, x, x] | x] == x] }, [[1, false | x] == x, x == [[_, x, x | x], [[], 3, 1 | x], [x, 3]]]], x == 3 }, [[x, x, x] | _] == x, closure { x != 2 }])
 }
 pub fn case_299(vars: &Vars) -> InferredGoal<DU, DE, Goal<DU, DE>> {
     let x = vars.v[0].clone();
-    proto_vulcan!([x != x, onceo { [1, 1] == x }, conda { |x, h| { h == x, [member(x, [])], [true] == x } }, closure { false }])
+    proto_vulcan!([x != x, onceo { [1, 1] == x }, conda { |x, h| { conde { h == 2 }, x == x, x == x } }])
 }
 pub fn case_300(vars: &Vars) -> InferredGoal<DU, DE, Goal<DU, DE>> {
     let q = vars.v[0].clone();
     let x = vars.v[1].clone();
-    proto_vulcan!([[x, _, [[], true]] == x, [[_, 'a'] == q], |y, x| { |h| { |y, h| { 1 == [[3], ['a'], [[]]], y == [x], x == [y, h, "a"] }, onceo { [[], q] != x }, [member(x, [2])] } }, closure { [conde { [_ != x, [true, [x, x, 3 | x] == q]], false }, |x| { [q != x, x != [x, x, x], |tz| { [1, 3, 3] != [1, 3 | tz], tz == [3] }], |tz| { [2, 2] != [2 | tz], tz == [2] } }] }])
+    proto_vulcan!([[x, _, [[], true]] == x, [false], |z| { |x| { condu { x == [_, z], [[z, false] == [q], x == x], q != [[], _, []] }, [_, "a", 1 | q] == z } }])
 }
 pub fn case_301(vars: &Vars) -> InferredGoal<DU, DE, Goal<DU, DE>> {
     let x = vars.v[0].clone();
-    proto_vulcan!([|y| { x == x }, x == []])
+    proto_vulcan!([|y| {  }, x == x, closure { conde { [member(x, [2, 3, 1]), x != 1], [[_, 1] | x] == x, |z| { |tz| { [1, 3 | tz] != [1, 3, 3, 3], tz == [3, 3] } } } }])
 }
 pub fn case_302(vars: &Vars) -> InferredGoal<DU, DE, Goal<DU, DE>> {
     let x = vars.v[0].clone();
     let y = vars.v[1].clone();
-    proto_vulcan!([[[1, _], [x, x, x]] != [['a', [], false]], [x == x], |x| { conda { |t, y| { y == 3, [y, true | 3] == y }, [x == _, |tz| { tz == [2], [1 | tz] != [1, 2] }] }, x == x }])
+    proto_vulcan!([[[1, _], [x, x, x]] != [['a', [], false]], [_ == y], |x| { |h| { [x == 3, [h, true | 3] == h] }, conde { |x| { |tz| { tz == [2], [1 | tz] != [1, 2] } }, member(x, [3, 3, 3]), [x == [y], y == 2] } }, closure { [|t, z| { conde { [append(z, t, [3, 2]), t != y], y == 2 } }, conde { y == [_ | x], [|tz| { tz == [3], [1, 3] != [1 | tz] }, [|tz| { tz == [2, 1], [1 | tz] != [1, 2, 1] }, [2, y] == y, |tz| { [1, 1 | tz] != [1, 1, 2, 1], tz == [2, 1] }]], [y == [2], [2] == x, x != [x, y, 1]] }] }])
 }
 pub fn case_303(vars: &Vars) -> InferredGoal<DU, DE, Goal<DU, DE>> {
     let x = vars.v[0].clone();
@@ -1614,30 +1614,30 @@ pub fn case_304(vars: &Vars) -> InferredGoal<DU, DE, Goal<DU, DE>> {
 pub fn case_305(vars: &Vars) -> InferredGoal<DU, DE, Goal<DU, DE>> {
     let x = vars.v[0].clone();
     let y = vars.v[1].clone();
-    proto_vulcan!([[x] == y, conde { [[[x], 1] == x, conde { [y == x, [y, x, _ | y] == x], [y == [x, 1], x != y] }], [x != [[_, 1 | y], [1, x, x | y], [[], _, 2]], y == 1] }, closure { |y, h| { false, [append(y, y, [2, 2]), y != h, [[], 1, 1] == y] } }])
+    proto_vulcan!([[x] == y, conde { |y| { member(x, []), [[] == y] }, [[[x], [x, _, 2], [[]]] == 3], |z| { [x, [[] | x], [1] | y] == x } }])
 }
 pub fn case_306(vars: &Vars) -> InferredGoal<DU, DE, Goal<DU, DE>> {
     let q = vars.v[0].clone();
     let x = vars.v[1].clone();
-    proto_vulcan!([conda { x != [2, x, _ | 3] }, condu { |y| { |h| { q == [[h, false | x], 3, [[], x | 1] | 2] } } }, member(q, [])])
+    proto_vulcan!([conda { x != [2, x, _ | 3] }, condu { |y| { conde { [|tz| { tz == [3, 3], [3 | tz] != [3, 3, 3] }, |tz| { tz == [3, 1], [2, 1 | tz] != [2, 1, 3, 1] }], [3 | y] == q, 'b' != [[x | x], [2, 2]] }, q == [3, _, "bc" | y] } }, 1 == q])
 }
 pub fn case_307(vars: &Vars) -> InferredGoal<DU, DE, Goal<DU, DE>> {
     let x = vars.v[0].clone();
-    proto_vulcan!([true, |y, t| { t == [] }, onceo { 2 == 3 }, closure { [[x == x, x == [2, x], [x == false, append(x, x, [3, 2]), member(x, [1, 2, 1])]], condu { [true, [x, _, x | x] == x], [true, x == [x, x]] }] }])
+    proto_vulcan!([true, |y, t| { _ == [[1, 3, 1], [3, t, t], _ | 2] }, x != [3]])
 }
 pub fn case_308(vars: &Vars) -> InferredGoal<DU, DE, Goal<DU, DE>> {
     let x = vars.v[0].clone();
     let y = vars.v[1].clone();
-    proto_vulcan!([|tz| { tz == [3, 1], [3 | tz] != [3, 3, 1] }, [x, [2 | y]] == y, closure { |h| { h == [3 | x], |t| { x == y, h != x, 2 == h }, h == [_ | 1] } }])
+    proto_vulcan!([|tz| { tz == [3, 1], [3 | tz] != [3, 3, 1] }, [x, [2 | y]] == y, closure { |h| { 3 == h } }])
 }
 pub fn case_309(vars: &Vars) -> InferredGoal<DU, DE, Goal<DU, DE>> {
     let x = vars.v[0].clone();
-    proto_vulcan!([2 == x, closure { [|t, h| { [[], _, h] != h }, |h| { [x, 2, h | h] == h, conde { member(h, [1]), [[[], [], h] != [1, [x, true], [2]], member(h, [])] }, conde { [[h, h] == x, false], [[_, h, [] | 1]] == [_, 1 | false], [h == [h, 2, 1], [['a', x], h, x] == [[]]] } }] }])
+    proto_vulcan!([2 == x, closure { [|t, h| { [t, [h, "a", h], [t, [] | h] | t] == [[], h] }, |h, z| { 1 == [_, true], conda { [true, z == 1], h == [[1] | h] }, conda { append(h, x, [3, 3]), [] == z, [z == [false, false, false], [h | z] == 2] } }] }])
 }
 pub fn case_310(vars: &Vars) -> InferredGoal<DU, DE, Goal<DU, DE>> {
     let q = vars.v[0].clone();
     let x = vars.v[1].clone();
-    proto_vulcan!([[|x| { conda { [append(x, x, [1]), x == [[x, x | q]]], [[[x, 3 | _], x, [x, x]] == q, q == x], member(x, [2, 3, 1]) }, |y| { y == [_] }, |h| { [2, x] == x, |tz| { [2, 2, 2, 2] != [2, 2 | tz], tz == [2, 2] }, [[]] == x } }, [[]] == x], |t, y| { conde { [q == [t, 2], [[3], [t, 1], [q, 1] | q] == [q, x, 1 | t]], [_, q] == x } }, true])
+    proto_vulcan!([[[[2], [x], [x]] != x, conde { [] == x, [q != x, false], [onceo { [1, q, 1 | x] == x }, x == q] }, 1 == q], x != [[2, x], _], x == x])
 }
 pub fn case_311(vars: &Vars) -> InferredGoal<DU, DE, Goal<DU, DE>> {
     let x = vars.v[0].clone();
@@ -1647,31 +1647,31 @@ pub fn case_311(vars: &Vars) -> InferredGoal<DU, DE, Goal<DU, DE>> {
 pub fn case_312(vars: &Vars) -> InferredGoal<DU, DE, Goal<DU, DE>> {
     let q = vars.v[0].clone();
     let x = vars.v[1].clone();
-    proto_vulcan!([conde { [x == q, x == [x, _]], append(x, x, []) }, x != [_]])
+    proto_vulcan!([conde { [], [[2, x | q] == x, onceo { [append(x, x, []), x != [_], x != x] }], [[[q, x, 1], 1] == 3, condu { q != x, [[x] == [[2, x], [_, [] | x]], q == 2] }] }, q == x])
 }
 pub fn case_313(vars: &Vars) -> InferredGoal<DU, DE, Goal<DU, DE>> {
     let q = vars.v[0].clone();
     let x = vars.v[1].clone();
-    proto_vulcan!([true, conde { [|h, y| { |t, h| { q == [[q, y | 2], 1] }, conda { [[y, [[], "bc", y], [2] | 2] == [y | y], h == h] }, [[1, q | h], h] == x }, [[q, _]] == q], [|x, t| { [q == q, member(t, [3, 1])], |x| { t == _ } }, q == [2 | q]], conde { [conde { [true, [[x | x], [q], [3, [], q | x] | x] == x], |tz| { tz == [3], [3, 3] != [3 | tz] } }, 2 == "a"], onceo { q == [q, x] }, [q != [[q], x, [x]], [x == x, false, 1 == q]] } }, closure { [conde { conde { |tz| { [3, 1, 3, 3] != [3, 1 | tz], tz == [3, 3] }, append(q, q, [3]) }, [false != q, |h, y| { q == [] }], [true, 1 != q] }, q == [2, false | x]] }])
+    proto_vulcan!([true, conde { conde { q == 2, [true, [1] == [1, 2 | 2]], [[["bc"], [2, 'a', x | x], ['b']] != x, x != q] }, [[true], conde { [[[[q, _]] == q, x == [x, x], [1, 1] == q], |x| { q == [[], x | q], append(x, x, [3]) }], [false, [|tz| { [1 | tz] != [1, 1, 3], tz == [1, 3] }]] }], [_, 3] == x }])
 }
 pub fn case_314(vars: &Vars) -> InferredGoal<DU, DE, Goal<DU, DE>> {
     let q = vars.v[0].clone();
     let x = vars.v[1].clone();
-    proto_vulcan!([conde { [onceo { [false, x != q] }, [q | q] == q], [conde { x == [[q, x, _ | x]], |y, z| { y == [[], q], append(q, x, [3, 3]), [] == [[2, 2, y | _]] }, [|t| { 2 == _, [x | t] == [1, 1 | x] }, true] }, x == [[x]]], |x| { conde { [member(q, [1, 1]), append(q, x, [2, 2])], [false, q == [q | x]] } } }, |tz| { [2, 1 | tz] != [2, 1, 2], tz == [2] }])
+    proto_vulcan!([conde { [member(x, [1]), [|tz| { tz == [3], [1, 1 | tz] != [1, 1, 3] }, _ == x], [2, q, 'a' | q] != x], x == q, |z, y| { |t| { [[[], 2], [q] | x] == [[t, 2], [], 2], member(x, [2, 3, 3]), false }, member(x, [1]) } }, x == [x], closure { x == [[x]] }])
 }
 pub fn case_315(vars: &Vars) -> InferredGoal<DU, DE, Goal<DU, DE>> {
     let x = vars.v[0].clone();
     let y = vars.v[1].clone();
-    proto_vulcan!([append(x, y, [2]), |z| { conde { [x != [1, _ | 2], |y, z| { z == [1, _, "bc" | z] }], [append(z, z, []), conde { y == _, 1 != x }], [append(z, y, [2]), conde { [|tz| { tz == [1], [2, 1] != [2 | tz] }, false], [y == y, [y, 3] == y], z == [3, false, 2 | x] }] }, [[3, x, y], [false, 2, 'a' | x] | true] == [3 | z], _ == z }, |tz| { tz == [3, 1], [3, 2, 3, 1] != [3, 2 | tz] }])
+    proto_vulcan!([append(x, y, [2]), |z| { append(x, x, []), z == x, |x| { |tz| { [3, 2 | tz] != [3, 2, 3], tz == [3] } } }, conde { x != [1], y == _ }, closure { [1 == x, conde { [[]] == x, conde { x == [3, 3], [y == [2], y == [_, 3, x | x]], x == [false, 2, 'a' | y] } }] }])
 }
 pub fn case_316(vars: &Vars) -> InferredGoal<DU, DE, Goal<DU, DE>> {
     let q = vars.v[0].clone();
     let x = vars.v[1].clone();
-    proto_vulcan!([|x| { |tz| { tz == [1], [3, 3, 1] != [3, 3 | tz] } }, |t| { x == x, 3 == [[q, 2, _], [1, 2, _], [1, []] | q], [condu { [x, x, x | x] == x, [2 == _, [[x, x]] == x], [1, 'a', 1] == x }, [x, 3, [1] | q] != x, [[x, x, q | x] == q, ["bc"] == t]] }, closure { [|x, y| { x == [3, 2 | 'a'], x == [2, true], append(q, q, []) }] }])
+    proto_vulcan!([|x| { [x == _, x == x, 3 == [[q, 2, _], [1, 2, _], [1, []] | q]], [q == x, q == [2, x], x == 2], x == [] }, condu { |x| { |y| { [y, ["a"]] == q, q != q } }, [[conde { x == _ }, [[[1, "a"] | q] == 2]], |z| { q == ["a", []], [[[_, []], [q, 1, 3], [z | x]] == z, [[]] != [z]] }] }, closure { conde { |t, z| { member(x, []) }, true } }])
 }
 pub fn case_317(vars: &Vars) -> InferredGoal<DU, DE, Goal<DU, DE>> {
     let x = vars.v[0].clone();
-    proto_vulcan!([|h| { |t, x| { x == [_, x, [t | x] | t], conde { [1 != [[], 1], [[[], 2 | 2], [_, 1, "bc"], _] != 1], true } }, 2 == [x, [], [h, [], x]], [[]] == x }, closure { [|z| { [3, 1 | false] == z }, conde { |t, z| { [t] == x, t == t, [1, [true, z, 2] | x] == [[_ | z], [z], [[] | t] | x] }, [x != true, conde { [true, |tz| { tz == [2], [3 | tz] != [3, 2] }], [x == [x | x], false] }], ['b', [false], [x | x]] != x }] }])
+    proto_vulcan!([|h| { [|y, z| { [y | x] == y, [y] == h, [] != h }, [[2, [], 2 | 2], [_, 1, "bc"], _] == h], [conde { x == [x, [], [h, [], x]] }, [[]] == x] }, closure { [|z| { x == 3, z == z, |t, z| { |tz| { [1, 2 | tz] != [1, 2, 1], tz == [1] }, x == z, |tz| { tz == [1, 2], [2, 1, 2] != [2 | tz] } } }, [2, 1, _ | x] == x] }])
 }
 pub fn case_318(vars: &Vars) -> InferredGoal<DU, DE, Goal<DU, DE>> {
     let x = vars.v[0].clone();
@@ -1681,7 +1681,7 @@ pub fn case_318(vars: &Vars) -> InferredGoal<DU, DE, Goal<DU, DE>> {
 pub fn case_319(vars: &Vars) -> InferredGoal<DU, DE, Goal<DU, DE>> {
     let q = vars.v[0].clone();
     let x = vars.v[1].clone();
-    proto_vulcan!([conde { [1, 2, 3] != x, [member(q, []), conde { true, [|x| { [[q, [], _], x] == [x] }, member(q, [1])], [2 == q, _ == [[q, [], q]]] }] }, x == x, [1] == x, closure { q == [_] }])
+    proto_vulcan!([conde { |t| { append(q, q, [2, 2]) }, [member(q, []), conde { |tz| { [2, 1, 3, 3] != [2, 1 | tz], tz == [3, 3] }, [condu { x != [] }, [3, q, 1 | _] == x] }] }, |tz| { tz == [1], [3, 3 | tz] != [3, 3, 1] }, |x| { [x, q, _ | x] == x, [1] == x, x == 1 }])
 }
 pub fn case_320(vars: &Vars) -> InferredGoal<DU, DE, Goal<DU, DE>> {
     let x = vars.v[0].clone();
@@ -1691,44 +1691,44 @@ pub fn case_320(vars: &Vars) -> InferredGoal<DU, DE, Goal<DU, DE>> {
 pub fn case_321(vars: &Vars) -> InferredGoal<DU, DE, Goal<DU, DE>> {
     let x = vars.v[0].clone();
     let y = vars.v[1].clone();
-    proto_vulcan!([true, conde { conde { [y == [[y] | x], 1 != y], [conde { [[2] == x, [1, 1, "bc"] == y], [x == [["a", []], 3], y != x] }, onceo { |tz| { tz == [2, 1], [3, 2, 1] != [3 | tz] } }] }, |t| { y != y, true }, [conde { [x != [x, []], [[_, false], [y] | y] == x], y == x }, |h| { [|tz| { tz == [3, 2], [2 | tz] != [2, 3, 2] }, x == true, h == [x, 'a', h | x]], x == [2, _ | h] }] }, [x, []] != [[3], [1, y], y | true]])
+    proto_vulcan!([true, conde { |z, t| { t == [], y == [[_, 1, 1], [t, 1 | 2] | "bc"] }, false }, |t| { [conde { [], [y, _, x] == y }, t != x, onceo { |tz| { tz == [2, 1], [3, 2, 1] != [3 | tz] } }] }, closure { [[x != x, true], y == x] }])
 }
 pub fn case_322(vars: &Vars) -> InferredGoal<DU, DE, Goal<DU, DE>> {
     let q = vars.v[0].clone();
     let x = vars.v[1].clone();
-    proto_vulcan!([conde { member(x, [3, 1, 2]), [|y| { y == [1, 2], x == [x, false | 1], y == [[], q, q] }, |tz| { [1, 3, 3] != [1, 3 | tz], tz == [3] }], q == [_, 1, _ | x] }])
+    proto_vulcan!([conde { |t, z| { z != [_, [1, 2]], conde { [[1] == t, t == [[], t, q]], [t == t, t == [_, 1, _ | z]] } }, [|t| { t == [_] }, conda { [x == 2, true] }] }])
 }
 pub fn case_323(vars: &Vars) -> InferredGoal<DU, DE, Goal<DU, DE>> {
     let x = vars.v[0].clone();
     let y = vars.v[1].clone();
-    proto_vulcan!([[[_] == y, y == [[x], ['a', 1, 1], [_ | x]]], false == y, closure { x == y }])
+    proto_vulcan!([[|tz| { tz == [1, 1], [1, 2, 1, 1] != [1, 2 | tz] }, conde { |tz| { [1 | tz] != [1, 3, 3], tz == [3, 3] }, [|tz| { [2 | tz] != [2, 2, 1], tz == [2, 1] }, y != x] }, [[[y, x, x | y] == x, [[1, "a", y], y, 1 | 1] == y, |tz| { tz == [1, 2], [1, 1 | tz] != [1, 1, 1, 2] }], x != y, member(x, [2, 1])]], onceo { [conde { append(x, x, [3]), [[2], [1, 1, y]] == x }, [2 | y] == x, |y| { member(x, [3]) }] }])
 }
 pub fn case_324(vars: &Vars) -> InferredGoal<DU, DE, Goal<DU, DE>> {
     let x = vars.v[0].clone();
-    proto_vulcan!([conde { [condu { [conda { false }, onceo { 'a' == x }], |t| { ['b'] != t, t != ["a", []] }, [append(x, x, [1]), [[[], x, 3], ["a", x]] == x] }, [x, x] == x], [[] == x, conde { [[2] != x, [x | x] == x], x == [x, 3, 3 | x] }] }, |h| { [conda { [h == [x], 3 != x] }, [] != [1]], conda { [[x, [2, h, x | h] | x] == [[h, x, _], [[] | x]], h == [[1, x], [h, 3, x], [x, [] | 2]]], h != [2 | h], |tz| { tz == [3, 1], [1, 3, 3, 1] != [1, 3 | tz] } }, |z| { z == [[h]], conde { [[[[], []], ['b', z, "a" | 3]] == _, append(h, h, [])], x == _, [z == z, [[x, h]] == h] }, z != z } }])
+    proto_vulcan!([conde { [false, x == 'b'], [[x == [2, _ | x], x == 2], |z| { [_ | x] == z, [x, _, "a" | x] == x }], [[x] == x, conde { [x != _, conde { 2 == x, [|tz| { [1, 1] != [1 | tz], tz == [1] }, [2] == x], false }], [x != x, |tz| { [1, 1 | tz] != [1, 1, 2, 2], tz == [2, 2] }], [true] }] }, [2, x] == x, closure { conde { [conda { [false, [x, [2, x, x | x] | x] == [[x, x, _], [[] | x]]], x == [[1, x], [x, 3, x], [x, [] | 2]], [] == x }, [x == 1, |tz| { [2, 3, 3, 3] != [2, 3 | tz], tz == [3, 3] }]], [|z, x| { [2, []] == z }, |z| { z == 1, x == [_, false] }], [x, [], x] != x } }])
 }
 pub fn case_325(vars: &Vars) -> InferredGoal<DU, DE, Goal<DU, DE>> {
     let q = vars.v[0].clone();
     let x = vars.v[1].clone();
-    proto_vulcan!([q == q, [condu { [q == 2], q == [x | x], onceo { [3, x] != q } }, conde { [x == [false, 1, _ | x], [x == [_, _]]], [x == x, append(x, x, [2])], q == "a" }, [x == [2, 2, x], [[x] == q, member(x, [1, 1]), x == 2]]]])
+    proto_vulcan!([q == q, [[[[x, 1] == q]], conde { [], [false, |h| {  }] }], closure { [member(q, [2, 3]), [|z| { 2 == [false, z, q], q == [q], [3, 3, q | 1] == q }, |h| { x == _, q != [h, 1], [h, 1, 1 | h] != x }]] }])
 }
 pub fn case_326(vars: &Vars) -> InferredGoal<DU, DE, Goal<DU, DE>> {
     let x = vars.v[0].clone();
-    proto_vulcan!([[_, [2, 1 | x], x] == ["bc", x, [[]]], |h, t| { [|h, y| { h == [2, _] }, x == 'b'] }, [2 | x] == x, closure { [x != [_], x == x] }])
+    proto_vulcan!([[_, [2, 1 | x], x] == ["bc", x, [[]]], |h, t| { 1 == h, t == t }, [x, 3] == x])
 }
 pub fn case_327(vars: &Vars) -> InferredGoal<DU, DE, Goal<DU, DE>> {
     let x = vars.v[0].clone();
     let y = vars.v[1].clone();
-    proto_vulcan!([|h| { [x | x] == h, |x| { conde { [x == x, [[_]] == x], append(x, x, []), [[h, h | x] == h, member(y, [3, 2, 1])] }, x == [_], [[_, [], h], 3, y | x] == [_, 1] } }, onceo { y == [x | x] }, closure { [append(y, x, []), x == [_]] }])
+    proto_vulcan!([|h| { append(y, h, []) }, 1 == ["a"], closure { [y == y, [x, 3, 2] == [x]] }])
 }
 pub fn case_328(vars: &Vars) -> InferredGoal<DU, DE, Goal<DU, DE>> {
     let x = vars.v[0].clone();
-    proto_vulcan!([x != [3, [], x], [[x]] == [2, x | x], |z, h| { conde { [[_, [], h | 3] == [[1], 2], [[3, "bc"], [h, h, h | x], 1] == 1], [conda { member(z, [1, 3, 2]), [[], _, _ | x] == h }, [3] == z], [[false, _] == x, conda { [h == [2, _, 2 | z], x != [1]], z == [1, _, h], h == x }] } }])
+    proto_vulcan!([x != [3, [], x], [[x]] == [2, x | x], |z, h| { h == h, [3, h, _] == z }, closure { [[x == [_, "bc"], x != 1, true], [2, 3, x | x] == x] }])
 }
 pub fn case_329(vars: &Vars) -> InferredGoal<DU, DE, Goal<DU, DE>> {
     let q = vars.v[0].clone();
     let x = vars.v[1].clone();
-    proto_vulcan!([[|y| { [append(q, q, [3, 1]), [[2 | q], 'b'] != q], 1 != y }], [[q == q]], |x, z| { [q != [z], condu { [[_, _] == x, x == [q, _]] }, onceo { [] != x }], [[|tz| { tz == [2], [2, 3 | tz] != [2, 3, 2] }, x == [z, x], true]] }])
+    proto_vulcan!([[[[q != 1], |z| { member(x, []), 1 != q }], true, |h, z| { h == 3, [2, 2, h] == x, z == [3, 'b', 1 | z] }], |tz| { [3 | tz] != [3, 2, 3], tz == [2, 3] }, q == x])
 }
 pub fn case_330(vars: &Vars) -> InferredGoal<DU, DE, Goal<DU, DE>> {
     let x = vars.v[0].clone();
@@ -1737,31 +1737,31 @@ pub fn case_330(vars: &Vars) -> InferredGoal<DU, DE, Goal<DU, DE>> {
 pub fn case_331(vars: &Vars) -> InferredGoal<DU, DE, Goal<DU, DE>> {
     let q = vars.v[0].clone();
     let x = vars.v[1].clone();
-    proto_vulcan!([conda { |tz| { tz == [1], [3, 3 | tz] != [3, 3, 1] }, [[|h| { append(h, q, [2]), [2, h] != x }, |tz| { tz == [3], [2, 2 | tz] != [2, 2, 3] }], conde { q != [[q, []], [1, q, 2]], [conda { q == 3 }, false], |z, t| { false, false, append(z, t, [3]) } }] }, [[x, 2], [_, q | 'b'], 3 | x] == [[_, q, 1], 2 | q], [x] == [['b', 2], [_], _ | q]])
+    proto_vulcan!([conda { |tz| { tz == [1], [3, 3 | tz] != [3, 3, 1] }, [[[q, q] == x, condu { [q] == x }, q == [2, [], x]], x == [[x, 1], 2, [x]]] }, |x, t| { onceo { |t, z| { append(q, z, [3]), false, [[t, 2], [_, x | 'b'], 3 | t] == [[_, x, 1], 2 | q] } } }, [x] == [['b', 2], [_], _ | q]])
 }
 pub fn case_332(vars: &Vars) -> InferredGoal<DU, DE, Goal<DU, DE>> {
     let q = vars.v[0].clone();
     let x = vars.v[1].clone();
-    proto_vulcan!([|h| { |x| { x == [1 | 2], [member(q, [2]), 3 == 3], |tz| { [3, 3, 3] != [3 | tz], tz == [3, 3] } } }, closure { [conde { x != [2], [x, 1] == x }, q == [q, 1]] }])
+    proto_vulcan!([|h| { [], 1 == q, x != [1, 'a' | h] }])
 }
 pub fn case_333(vars: &Vars) -> InferredGoal<DU, DE, Goal<DU, DE>> {
     let x = vars.v[0].clone();
-    proto_vulcan!([conde { [1 == [x], |x, t| { [x == x, x == ["a", 'a', _], [x] == x] }], [|y| { |h| { x == [1, []] }, conda { [|tz| { [1, 1, 2, 3] != [1, 1 | tz], tz == [2, 3] }, [] == y], |tz| { [1, 3] != [1 | tz], tz == [3] } }, x != [2, y, 3 | x] }, |tz| { [2, 3, 2, 3] != [2, 3 | tz], tz == [2, 3] }] }, member(x, [2, 2, 2]), x == x])
+    proto_vulcan!([conde { conde { 1 != _, [true, x == [x, _ | 3]], [|h| { [1, x | h] == x, [x, x, h] == x, x != _ }, true] } }, conda { [append(x, x, [2, 3]), |tz| { [1, 1 | tz] != [1, 1, 2, 3], tz == [2, 3] }] }, [] == x, closure { [1, 2] != [3, [_, 'a' | x], [[], x, x | x]] }])
 }
 pub fn case_334(vars: &Vars) -> InferredGoal<DU, DE, Goal<DU, DE>> {
     let x = vars.v[0].clone();
     let y = vars.v[1].clone();
-    proto_vulcan!([conde { [append(x, x, [2]), false], [y != y, conde { member(y, []), [member(y, [2]), conde { y == [[]], y != [y, [x]] }], y == [[], y, "a"] }] }])
+    proto_vulcan!([conde { [conde { [], [x == x, conde { [], false, [y != [x, x, true], |tz| { [3 | tz] != [3, 2, 3], tz == [2, 3] }] }] }, condu { conde { member(x, [3, 3]), [[], 1, [x, 2, 2] | y] == [_], |tz| { tz == [2], [2, 2] != [2 | tz] } }, |h, t| { [x, 1] == t, [[t], [2 | y]] != h, "a" == h } }] }])
 }
 pub fn case_335(vars: &Vars) -> InferredGoal<DU, DE, Goal<DU, DE>> {
     let q = vars.v[0].clone();
     let x = vars.v[1].clone();
-    proto_vulcan!([|tz| { tz == [3, 3], [3, 1 | tz] != [3, 1, 3, 3] }, conde { conda { [|y| { member(x, [3, 3]), y == [q], member(y, [3, 3, 1]) }, |tz| { [1, 3] != [1 | tz], tz == [3] }] }, conde { member(x, [1]), condu { x == [[_, _, q], x, [] | 3], [x == [[q] | x], true], [[_, 1, x], 3, ['b']] == [1, 3] } }, [q != q, |t| { [t == [1, x, q], false, [2] != [2]] }] }, |tz| { tz == [3], [3, 3] != [3 | tz] }])
+    proto_vulcan!([|tz| { tz == [3, 3], [3, 1 | tz] != [3, 1, 3, 3] }, conde { [x == 1, conde { [_] != q, |tz| { [1, 3] != [1 | tz], tz == [3] } }], onceo { onceo { member(x, [1]) } } }, |t, x| { conde { |y, x| { q == [[x, 1], [2], [true]], [[], 1, _] == q }, append(x, q, [3, 2]) }, q != [["bc", 3, true | x], ['b', q | q], [1, 1, x]] }, closure { [|tz| { tz == [2], [1, 2] != [1 | tz] }, [q == [[], _, 1]]] }])
 }
 pub fn case_336(vars: &Vars) -> InferredGoal<DU, DE, Goal<DU, DE>> {
     let x = vars.v[0].clone();
     let y = vars.v[1].clone();
-    proto_vulcan!([|h, t| { onceo { t == "a" } }])
+    proto_vulcan!([|h, t| { h == [[_, _, _], [[], false, 2], [[], 3 | h]], member(y, [1, 1]) }, closure { [x == 2, []] }])
 }
 pub fn case_337(vars: &Vars) -> InferredGoal<DU, DE, Goal<DU, DE>> {
     let q = vars.v[0].clone();
@@ -1770,12 +1770,12 @@ pub fn case_337(vars: &Vars) -> InferredGoal<DU, DE, Goal<DU, DE>> {
 }
 pub fn case_338(vars: &Vars) -> InferredGoal<DU, DE, Goal<DU, DE>> {
     let x = vars.v[0].clone();
-    proto_vulcan!([|z| { x == [[], 1 | x] }, closure { |t, z| { conda { [false, [[], 1] == z] }, [3, 1] == [[t, [], 2], 2], [[], t, 1 | z] != t } }])
+    proto_vulcan!([|z| { [] }, closure { conde { |tz| { tz == [3], [1 | tz] != [1, 3] }, ["a", [[], 1], [[]]] == x } }])
 }
 pub fn case_339(vars: &Vars) -> InferredGoal<DU, DE, Goal<DU, DE>> {
     let x = vars.v[0].clone();
     let y = vars.v[1].clone();
-    proto_vulcan!([|y| { |h| { conde { [x, 1, y] == h, true, |tz| { [1, 2 | tz] != [1, 2, 2], tz == [2] } } }, [y, x | x] == y, y == 3 }, y == [[], [[]], 1], x == _])
+    proto_vulcan!([|y| { [["bc"], [y | y], [_, y, x] | y] == y, y == 'b' }, y == y, [[x, 2, y], [y, x, 1] | 2] == [x, _, x]])
 }
 pub fn case_340(vars: &Vars) -> InferredGoal<DU, DE, Goal<DU, DE>> {
     let q = vars.v[0].clone();
@@ -1795,12 +1795,12 @@ pub fn case_342(vars: &Vars) -> InferredGoal<DU, DE, Goal<DU, DE>> {
 pub fn case_343(vars: &Vars) -> InferredGoal<DU, DE, Goal<DU, DE>> {
     let x = vars.v[0].clone();
     let y = vars.v[1].clone();
-    proto_vulcan!([[y, [x, 1, 3] | x] == y, append(x, x, []), onceo { [y == 1] }])
+    proto_vulcan!([[y, [x, 1, 3] | x] == y, append(x, x, []), onceo { [|tz| { [3, 2, 1, 2] != [3, 2 | tz], tz == [1, 2] }, [[y | x]] == x, onceo { y == y }] }])
 }
 pub fn case_344(vars: &Vars) -> InferredGoal<DU, DE, Goal<DU, DE>> {
     let x = vars.v[0].clone();
     let y = vars.v[1].clone();
-    proto_vulcan!([y == _, x != x, x == [x, 1], closure { [y == 2, conda { [y | x] != [[x, y, 1 | y] | y], [['b'] == y, [x, x] == [2, 1, false]], [|h| { x == ["bc" | y] }, onceo { |tz| { tz == [3], [1 | tz] != [1, 3] } }] }] }])
+    proto_vulcan!([y == _, x != x, x == [x, 1], closure { [y == 2, conda { [y | x] != [[x, y, 1 | y] | y], [['b'] == y, [x, x] == [2, 1, false]], [|h| { ["bc", [y, false, h | x]] == x, y != h, [x | y] == y }, onceo { [x, [], 1 | y] == x }] }] }])
 }
 pub fn case_345(vars: &Vars) -> InferredGoal<DU, DE, Goal<DU, DE>> {
     let x = vars.v[0].clone();
@@ -1818,7 +1818,7 @@ pub fn case_347(vars: &Vars) -> InferredGoal<DU, DE, Goal<DU, DE>> {
 pub fn case_348(vars: &Vars) -> InferredGoal<DU, DE, Goal<DU, DE>> {
     let q = vars.v[0].clone();
     let x = vars.v[1].clone();
-    proto_vulcan!([|x, z| { condu { [x == [[3 | x], [3, x | q]], |tz| { [2 | tz] != [2, 2], tz == [2] }] } }, |x| { [onceo { |tz| { [1, 1 | tz] != [1, 1, 3, 1], tz == [3, 1] } }] }])
+    proto_vulcan!([|x, z| { z == [[], 1], |y, x| {  } }, [[q, q, q]] == q])
 }
 pub fn case_349(vars: &Vars) -> InferredGoal<DU, DE, Goal<DU, DE>> {
     let q = vars.v[0].clone();
@@ -1831,7 +1831,7 @@ pub fn case_350(vars: &Vars) -> InferredGoal<DU, DE, Goal<DU, DE>> {
 }
 pub fn case_351(vars: &Vars) -> InferredGoal<DU, DE, Goal<DU, DE>> {
     let x = vars.v[0].clone();
-    proto_vulcan!(['a' == x, x == [_], |z| { x != [x, 2, z], [[x != [_]]], conde { [["a", x, _] != x, |x| { [[[], []], [_]] == [[1], [[]], [2]], [] == z, [x] == [['a', [], x | z], [2] | x] }], append(z, z, [3, 1]) } }])
+    proto_vulcan!(['a' == x, x == [_], |z| { |tz| { [1, 3] != [1 | tz], tz == [3] } }, closure { [[x | x] == x, |y, x| { conde { ["a" == x, _ != y], x == x, [false, [[1, 3, []], [_]] != [[3 | x] | x]] } }] }])
 }
 pub fn case_352(vars: &Vars) -> InferredGoal<DU, DE, Goal<DU, DE>> {
     let q = vars.v[0].clone();
@@ -1840,33 +1840,33 @@ pub fn case_352(vars: &Vars) -> InferredGoal<DU, DE, Goal<DU, DE>> {
 }
 pub fn case_353(vars: &Vars) -> InferredGoal<DU, DE, Goal<DU, DE>> {
     let x = vars.v[0].clone();
-    proto_vulcan!([|x| { |h| { [[h, _, 2] == [[2, h, h | h], 1], 1 == x, false == [[], 'b', h | 'b']] }, x != x, x == ["a", x, 2 | x] }, [[true, false, x | 1], [1, x], [x, x]] == x, |x, z| { 1 != x, [_, x] == x, true }])
+    proto_vulcan!([|x| { |t| { [t, _, 2] == [[2, t, t | t], 1], t != [[x, []]] }, [x == 'b', x != x, x == ["a", x, 2 | x]] }, [[true, false, x | 1], [1, x], [x, x]] == x, |x, z| { x != [[]] }])
 }
 pub fn case_354(vars: &Vars) -> InferredGoal<DU, DE, Goal<DU, DE>> {
     let x = vars.v[0].clone();
-    proto_vulcan!([x == [[1, x]], conde { condu { [[x != [[], 3, 1], false], conde { true, [[], 1, []] != x }] }, x == x, onceo { 3 == x } }])
+    proto_vulcan!([x == [[1, x]], conde { [conde { x == [], [|y| { member(x, [2, 2]), |tz| { tz == [2, 2], [3 | tz] != [3, 2, 2] } }, 3 != x], [|h| { 3 == x }, [_, 2] == x] }, [|h| { append(h, h, [3]), [2, 1] == h, h == h }, _ != x]], true }])
 }
 pub fn case_355(vars: &Vars) -> InferredGoal<DU, DE, Goal<DU, DE>> {
     let x = vars.v[0].clone();
-    proto_vulcan!([x == x, _ == 1, closure { ["bc" == x, conde { [x == x, |z| { |tz| { tz == [2], [3, 2, 2] != [3, 2 | tz] } }], |tz| { [2, 3 | tz] != [2, 3, 3], tz == [3] } }] }])
+    proto_vulcan!([x == x, _ == 1, closure { ["bc" == x, conde { x == [[[], x, x] | x] }] }])
 }
 pub fn case_356(vars: &Vars) -> InferredGoal<DU, DE, Goal<DU, DE>> {
     let x = vars.v[0].clone();
     let y = vars.v[1].clone();
-    proto_vulcan!([[[], false, 1] == y, [] == x, y == 1, closure { onceo { [["a", x, y | x] != y, false] } }])
+    proto_vulcan!([[[], false, 1] == y, [] == x, y == 1, closure { onceo { [y != ["a", x, false | x], append(y, y, [])] } }])
 }
 pub fn case_357(vars: &Vars) -> InferredGoal<DU, DE, Goal<DU, DE>> {
     let x = vars.v[0].clone();
-    proto_vulcan!([conde { [|y| { x == [] }, condu { [2 != "bc", [_ == x, _ == x, [x, ["a", x, 3 | x], x] != _]] }], |h, y| { x == [_, _], [member(h, [3])] } }, 1 == [x]])
+    proto_vulcan!([conde { [_, 2, []] != x, [2 == x, member(x, [])], x == x }, x == [_, 3, 'b']])
 }
 pub fn case_358(vars: &Vars) -> InferredGoal<DU, DE, Goal<DU, DE>> {
     let x = vars.v[0].clone();
     let y = vars.v[1].clone();
-    proto_vulcan!([y == [2, 'b', "a" | x], member(y, [2]), [onceo { [x] == y }, 3 != y]])
+    proto_vulcan!([y == [2, 'b', "a" | x], member(y, [2]), [|tz| { tz == [3, 1], [3 | tz] != [3, 3, 1] }, |t| {  }, [] == y]])
 }
 pub fn case_359(vars: &Vars) -> InferredGoal<DU, DE, Goal<DU, DE>> {
     let x = vars.v[0].clone();
-    proto_vulcan!([x == [3 | x], |x, t| { t == [], condu { [|y, x| { x != [1, 2, x | x], x == [y, [], y], [1 | x] == x }, x == ["a"]], [x, [x, "bc"], [true] | 2] == [2] }, x == 'a' }])
+    proto_vulcan!([x == [3 | x], |x, t| { t != [[1, 1, t] | t], |z| { |x, t| { member(t, [1, 1, 3]) }, x != [x], z == z } }])
 }
 pub fn case_360(vars: &Vars) -> InferredGoal<DU, DE, Goal<DU, DE>> {
     let x = vars.v[0].clone();
@@ -1874,27 +1874,27 @@ pub fn case_360(vars: &Vars) -> InferredGoal<DU, DE, Goal<DU, DE>> {
 }
 pub fn case_361(vars: &Vars) -> InferredGoal<DU, DE, Goal<DU, DE>> {
     let x = vars.v[0].clone();
-    proto_vulcan!([|tz| { tz == [3], [1, 3, 3] != [1, 3 | tz] }, [|t, h| { h == [[_], [2 | 2]] }]])
+    proto_vulcan!([|tz| { tz == [3], [1, 3, 3] != [1, 3 | tz] }, [[], |t| { |z| { true }, [t, "a", x | _] == t }, member(x, [2, 3, 3])]])
 }
 pub fn case_362(vars: &Vars) -> InferredGoal<DU, DE, Goal<DU, DE>> {
     let x = vars.v[0].clone();
     let y = vars.v[1].clone();
-    proto_vulcan!([|t| { conde { conde { x != y, [[t, 2, 3] == t, append(y, y, [])], member(t, [1]) }, t == [_, x, 2 | _] }, _ == 3 }, closure { [conde { conde { [y == 3, member(y, [1, 3, 3])], [x == [2], x == y], [x, y | x] == _ }, x == ["a", "bc"] }, [x, x, x] == x] }])
+    proto_vulcan!([|t| { |x| { y != y, [[_, 3] == x, append(x, t, [])], onceo { 2 == t } }, [["bc", 1, x | y]] == x }])
 }
 pub fn case_363(vars: &Vars) -> InferredGoal<DU, DE, Goal<DU, DE>> {
     let q = vars.v[0].clone();
     let x = vars.v[1].clone();
-    proto_vulcan!([|h| { [q, h, []] == h, x != q, member(h, [3]) }, conde { |h| { |tz| { tz == [1, 2], [1 | tz] != [1, 1, 2] } }, [[[], _, x] == x, q == q] }, |x| { conde { [q == [[x, q], 1, [_, 2, _]], |h| { false }], conde { true, [member(x, [1]), x == []] }, [onceo { q == 2 }, [q] == q] }, 3 != q, [2] == x }, closure { x != 1 }])
+    proto_vulcan!([|h| { conde { [conda { [h == [_], true], [[true, 3 | h], [1 | x], 3 | h] == x, [false, h == 2] }, [[false] != q, [q, 1] != [q], 1 == q]], [], [false, x == h] } }, append(q, x, [2]), [x] != q])
 }
 pub fn case_364(vars: &Vars) -> InferredGoal<DU, DE, Goal<DU, DE>> {
     let q = vars.v[0].clone();
     let x = vars.v[1].clone();
-    proto_vulcan!([|t| { |t, z| { [t, 3] == t }, |t| { q == [q | q], [[1, _ | x] == t, t == [_, _, t | x]] } }, x == [1, q, x], conde { [conde { [q, 2, q] == q, [2 == q, q == "a"], [true, true] }], q != x }])
+    proto_vulcan!([|t| { [x == x, |h, y| { t == [t, 1 | h], [q, t | q] == h, t == [y, y] }], |x, h| { x != "bc" }, conde { [], [q == [[x]], [1, true] == q] } }, onceo { x == [q, q, q | 2] }, conde { [x != [q, x, 1 | q], [[[]], [3]] == q], [|t, x| { |h, t| { 1 == h, member(x, [3]) }, condu { [2 == x, q == q], x == [[q, x, _], 1, [x | q] | x], member(q, []) }, [[[], 1] == x] }, [1] == "bc"] }])
 }
 pub fn case_365(vars: &Vars) -> InferredGoal<DU, DE, Goal<DU, DE>> {
     let q = vars.v[0].clone();
     let x = vars.v[1].clone();
-    proto_vulcan!([conde { [[x] == x, 1 == x], [[[q, []] | x] != q, [x, 3] != x] }])
+    proto_vulcan!([conde { [x == x, |y| { onceo { false }, [1 == x, q != y, [q, y, 2] == x], q == q }], [[['b', 2], x, [q]] == x, [[2, q, q], [], q] == x], [] }, closure { [[["a"], []] == q, x == x] }])
 }
 pub fn case_366(vars: &Vars) -> InferredGoal<DU, DE, Goal<DU, DE>> {
     let x = vars.v[0].clone();
@@ -1904,7 +1904,7 @@ pub fn case_366(vars: &Vars) -> InferredGoal<DU, DE, Goal<DU, DE>> {
 pub fn case_367(vars: &Vars) -> InferredGoal<DU, DE, Goal<DU, DE>> {
     let q = vars.v[0].clone();
     let x = vars.v[1].clone();
-    proto_vulcan!([[[_ | x] == q, q != 3, [[q == [[]], [x] == x, q == [q, q]]]], conde { [[x != [2, [] | x]], |x| { 3 != x, onceo { [[x], [x, 3, []]] == x }, |z| { [] == [], append(x, z, []) } }], conde { [q == [x, 2, 3], q == q], true }, [q != [x, 'b', 2 | q], conda { x == q, [x == q, false] }] }])
+    proto_vulcan!([[[condu { q == [[1, 3, x], [2], true], [q == [1, x, [q]], true], [2 != q, append(q, x, [])] }], x != [2, [] | x], |x| { x != [1, q, 3], q == [], conde { [false, q == ["a", [_, [], x] | q]], [], [x] == q } }], [x, x, q] == q])
 }
 pub fn case_368(vars: &Vars) -> InferredGoal<DU, DE, Goal<DU, DE>> {
     let x = vars.v[0].clone();
@@ -1912,21 +1912,21 @@ pub fn case_368(vars: &Vars) -> InferredGoal<DU, DE, Goal<DU, DE>> {
 }
 pub fn case_369(vars: &Vars) -> InferredGoal<DU, DE, Goal<DU, DE>> {
     let x = vars.v[0].clone();
-    proto_vulcan!([x != true, closure { onceo { conde { [[[], [], x] != x, member(x, [])], [|tz| { [1, 2, 3] != [1 | tz], tz == [2, 3] }, [x, 2] == x] } } }])
+    proto_vulcan!([x != true, closure { onceo { conde { append(x, x, [2]) } } }])
 }
 pub fn case_370(vars: &Vars) -> InferredGoal<DU, DE, Goal<DU, DE>> {
     let x = vars.v[0].clone();
-    proto_vulcan!([false, [[3, _, x] == x, x == x, 2 == x]])
+    proto_vulcan!([false, [conda { 'a' == x, [|t, x| { append(t, t, [2, 1]), false }, 2 == x] }]])
 }
 pub fn case_371(vars: &Vars) -> InferredGoal<DU, DE, Goal<DU, DE>> {
     let q = vars.v[0].clone();
     let x = vars.v[1].clone();
-    proto_vulcan!([[x == [x], conde { x == [[], x], [|y| { false, y != [q | q] }, q == [2, q | q]] }, [[x, x | x] != x]]])
+    proto_vulcan!([[[3, _] == x, conde { [|tz| { tz == [3, 2], [1, 1 | tz] != [1, 1, 3, 2] }, |y| { y != [q | q], q == [[], 2, y | x], [1, 2] != x }], [[q | x] == [1 | x], q == x] }]])
 }
 pub fn case_372(vars: &Vars) -> InferredGoal<DU, DE, Goal<DU, DE>> {
     let x = vars.v[0].clone();
     let y = vars.v[1].clone();
-    proto_vulcan!([[|z, y| { |tz| { tz == [1], [3 | tz] != [3, 1] } }]])
+    proto_vulcan!([[y == [x], [] != 1]])
 }
 pub fn case_373(vars: &Vars) -> InferredGoal<DU, DE, Goal<DU, DE>> {
     let x = vars.v[0].clone();
@@ -1936,12 +1936,12 @@ pub fn case_373(vars: &Vars) -> InferredGoal<DU, DE, Goal<DU, DE>> {
 pub fn case_374(vars: &Vars) -> InferredGoal<DU, DE, Goal<DU, DE>> {
     let q = vars.v[0].clone();
     let x = vars.v[1].clone();
-    proto_vulcan!([conda { append(x, x, [2]), [[1, _, x] == q, 1 == q], |z| { 1 == [q | q], [q, x, z] == q, |x, y| { z == [1, 1], false } } }, conda { [[x == 1, |tz| { tz == [2, 3], [2, 1, 2, 3] != [2, 1 | tz] }], [[q, x | 2], [q, x, q] | true] != q] }, conde { 2 == q, x == [1] }])
+    proto_vulcan!([conda { append(x, x, [2]), [[1, _, x] == q, 1 == q], |z| {  } }, 1 == [q | q], [q, q, q] == x])
 }
 pub fn case_375(vars: &Vars) -> InferredGoal<DU, DE, Goal<DU, DE>> {
     let q = vars.v[0].clone();
     let x = vars.v[1].clone();
-    proto_vulcan!([true, |h, x| { [1 == q, h == [x, 2], [[], 2] != x], [x] == h }, x == [1, 2]])
+    proto_vulcan!([true, |h, x| { x == x, [[], 3, 1] == h }, [2, 2, 1] == x])
 }
 pub fn case_376(vars: &Vars) -> InferredGoal<DU, DE, Goal<DU, DE>> {
     let x = vars.v[0].clone();
@@ -1950,7 +1950,7 @@ pub fn case_376(vars: &Vars) -> InferredGoal<DU, DE, Goal<DU, DE>> {
 }
 pub fn case_377(vars: &Vars) -> InferredGoal<DU, DE, Goal<DU, DE>> {
     let x = vars.v[0].clone();
-    proto_vulcan!([[conde { [[[x] | x] != x, false], [[] != x, x == [2, x, _ | x]], [|y| { [y, 1] == y }, condu { true, [append(x, x, [1, 2]), x != [[]]], [[false, 3, x] == x, [x | 2] == x] }] }, [3, [2], 2 | x] == [x, "a"], [x, x | x] == [[x, x, 1 | x]]], false])
+    proto_vulcan!([[[x, 1, x] == x, |tz| { tz == [1, 3], [3, 1, 3] != [3 | tz] }, [] != x], x == [2, x, _ | x]])
 }
 pub fn case_378(vars: &Vars) -> InferredGoal<DU, DE, Goal<DU, DE>> {
     let q = vars.v[0].clone();
@@ -1960,11 +1960,11 @@ pub fn case_378(vars: &Vars) -> InferredGoal<DU, DE, Goal<DU, DE>> {
 pub fn case_379(vars: &Vars) -> InferredGoal<DU, DE, Goal<DU, DE>> {
     let x = vars.v[0].clone();
     let y = vars.v[1].clone();
-    proto_vulcan!([onceo { append(x, y, [3, 3]) }, [conde { y != 2, [onceo { [_, y, [] | x] == y }, x == x] }]])
+    proto_vulcan!([onceo { append(x, y, [3, 3]) }, [y != [], y != x, x == [[1, [], y | x]]]])
 }
 pub fn case_380(vars: &Vars) -> InferredGoal<DU, DE, Goal<DU, DE>> {
     let x = vars.v[0].clone();
-    proto_vulcan!([|h, y| { |tz| { tz == [1, 2], [3, 3 | tz] != [3, 3, 1, 2] }, [1, "bc", _] == h }, onceo { [x | x] == x }])
+    proto_vulcan!([|h, y| { [] == [[_, h]], [x, [y, 2, _], [x | x] | y] == [1, x, 2] }, conde { [x != _, |y, x| {  }], [[_ | x] != x, conde { [], x == [3, x, x | x] }] }])
 }
 pub fn case_381(vars: &Vars) -> InferredGoal<DU, DE, Goal<DU, DE>> {
     let x = vars.v[0].clone();
@@ -1973,12 +1973,12 @@ pub fn case_381(vars: &Vars) -> InferredGoal<DU, DE, Goal<DU, DE>> {
 pub fn case_382(vars: &Vars) -> InferredGoal<DU, DE, Goal<DU, DE>> {
     let x = vars.v[0].clone();
     let y = vars.v[1].clone();
-    proto_vulcan!([append(y, x, [2, 3]), [y, y, _] == x, [[[y, y]] == 3, |tz| { [1 | tz] != [1, 3], tz == [3] }]])
+    proto_vulcan!([append(y, x, [2, 3]), [y, y, _] == x, [y != y]])
 }
 pub fn case_383(vars: &Vars) -> InferredGoal<DU, DE, Goal<DU, DE>> {
     let x = vars.v[0].clone();
     let y = vars.v[1].clone();
-    proto_vulcan!([false, |t, z| { ['a', y, false] != y, conde { x == [[z, []], z, [t, t]], t == [z | z], |y, h| { y == [_, 2, _], z == [[]] } } }, 3 != x])
+    proto_vulcan!([false, |t, z| { onceo { conde { |tz| { tz == [1], [2, 1] != [2 | tz] }, [x != 1, [] == x], [[false, ['a', 1]] == t, z == x] } }, [x, y] != t, z == [x, 3] }, ["a", [], true] == x])
 }
 pub fn case_384(vars: &Vars) -> InferredGoal<DU, DE, Goal<DU, DE>> {
     let x = vars.v[0].clone();
@@ -1986,31 +1986,31 @@ pub fn case_384(vars: &Vars) -> InferredGoal<DU, DE, Goal<DU, DE>> {
 }
 pub fn case_385(vars: &Vars) -> InferredGoal<DU, DE, Goal<DU, DE>> {
     let x = vars.v[0].clone();
-    proto_vulcan!([conda { [x == [[x, x, x] | 1], onceo { conde { x == 2, [2 == x, x == 1], [2, _] == _ } }], [x != [x, x, 2 | x], [x == [x, [], 2 | "bc"]]] }])
+    proto_vulcan!([conda { [x == [[x, x, x] | 1], onceo { conde { true, x == 1 } }], [1 == 3, [x | x] == [_, x | x]] }, closure { x == 2 }])
 }
 pub fn case_386(vars: &Vars) -> InferredGoal<DU, DE, Goal<DU, DE>> {
     let q = vars.v[0].clone();
     let x = vars.v[1].clone();
-    proto_vulcan!([x == [[x], [] | q], conde { [|tz| { [2, 1, 1, 1] != [2, 1 | tz], tz == [1, 1] }], append(q, q, []), [[1 | q] != q, [x == q, onceo { x == [true, q, x] }]] }, member(x, [3, 3, 3]), closure { append(x, q, [2]) }])
+    proto_vulcan!([x == [[x], [] | q], conde { [x == [], x != x], [_, x] == x }, x == q])
 }
 pub fn case_387(vars: &Vars) -> InferredGoal<DU, DE, Goal<DU, DE>> {
     let x = vars.v[0].clone();
-    proto_vulcan!([member(x, [3, 1]), |tz| { [1, 2 | tz] != [1, 2, 3, 2], tz == [3, 2] }, onceo { conde { |z| { false, z == z, [[z, x, 2], [z, z, z], [_]] != z }, [x, false, []] == x, x == [[1, 2, x], ['a', 2] | x] } }])
+    proto_vulcan!([member(x, [3, 1]), |tz| { [1, 2 | tz] != [1, 2, 3, 2], tz == [3, 2] }, onceo { conde { conde { [member(x, [3, 2, 1]), |tz| { tz == [1], [3, 1] != [3 | tz] }], [[x, []] == x, |tz| { [2, 2, 1] != [2, 2 | tz], tz == [1] }], [x != [3, x, false], [[3, true], 2, [x, x, x | x] | x] == [_]] }, x == [[[], "bc", true | x], [_ | x]] } }, closure { |h, t| { 3 == h, h == h, |z| { 1 == t } } }])
 }
 pub fn case_388(vars: &Vars) -> InferredGoal<DU, DE, Goal<DU, DE>> {
     let q = vars.v[0].clone();
     let x = vars.v[1].clone();
-    proto_vulcan!([q == [2, 3], |h, t| { conda { [|h, x| { true, q == [x, 1], false }, [1, [] | 1] == x] }, |tz| { [3 | tz] != [3, 1, 1], tz == [1, 1] }, q == [[_, _, h]] }, [[2, 3, _ | x]] == q])
+    proto_vulcan!([q == [2, 3], |h, t| { [|h, x| { q == [x, 1], false }], [1, [] | 1] == x }, |tz| { [3 | tz] != [3, 1, 1], tz == [1, 1] }])
 }
 pub fn case_389(vars: &Vars) -> InferredGoal<DU, DE, Goal<DU, DE>> {
     let q = vars.v[0].clone();
     let x = vars.v[1].clone();
-    proto_vulcan!([[[1, true, x]] == [], conde { [[x, q | q] != x, 2 != x], conde { |z| { member(x, []), 1 == x, z != z }, [[x, x, q | q] == q], [append(x, x, []), true, [1, 'b'] == q] } }, x == q])
+    proto_vulcan!([[[1, true, x]] == [], conde { [] }, q == q])
 }
 pub fn case_390(vars: &Vars) -> InferredGoal<DU, DE, Goal<DU, DE>> {
     let q = vars.v[0].clone();
     let x = vars.v[1].clone();
-    proto_vulcan!([[_ | q] == x, [q, [[], x, 1 | q], x | q] == ["a" | q], condu { [x != q, 1 == x], [onceo { append(q, q, [3, 2]) }, conde { |t| { true }, [_ != x, |tz| { tz == [3, 2], [2, 1, 3, 2] != [2, 1 | tz] }], false }], [condu { [|y, x| { false }, [[x, 1, x] == x]], [[1] == [x, 1, q | q], onceo { x != ["a", [[], x | x], [x | x] | 2] }], [false == q, 'b' == q] }, append(q, x, [])] }])
+    proto_vulcan!([[_ | q] == x, [q, [[], x, 1 | q], x | q] == ["a" | q], condu { [x != q, 1 == x], [onceo { append(q, q, [3, 2]) }, conde { |x| { [q, q] == [[3, _], [1, []] | x], [q, [q, x | q], [q, 1, x] | q] == [q, 1, []] }, conda { q == 3 } }], [[x, [x, []], q] != x, [[1, false | q] | 1] == [1, 'b']] }, closure { x == 2 }])
 }
 pub fn case_391(vars: &Vars) -> InferredGoal<DU, DE, Goal<DU, DE>> {
     let x = vars.v[0].clone();
@@ -2018,7 +2018,7 @@ pub fn case_391(vars: &Vars) -> InferredGoal<DU, DE, Goal<DU, DE>> {
 }
 pub fn case_392(vars: &Vars) -> InferredGoal<DU, DE, Goal<DU, DE>> {
     let x = vars.v[0].clone();
-    proto_vulcan!([|y| { [y, 3, x | x] == x }, conde { [|y, t| { |h| { _ == t, y != [y, _], y == [t | 1] }, member(t, [1, 3, 3]) }, x == 2], [[1 | x] == x, [[]] == [3, x]] }, x == _])
+    proto_vulcan!([|y| { conde { [x == y, [] == 2, append(y, x, [2, 1])] }, [[2 | x], [x, 1]] == x }, condu { onceo { x == [x] }, [conda { [[[1 | x] == x, x == [3, _ | x]], |y, h| { member(h, [3]) }], [x | x] == x }, [_, 2] == x] }, condu { x == x, [conde { conde { [true, [x | 2] == x], false }, [3 != [[x, x, _ | x] | x], conde { x == [[true, x, 3 | x] | x] }] }, x == []], [|h| { [] == h, [[_, x, 3]] == [[_], [3]] }, |t, y| { [[[], 1], [y], []] != [[t, t, 2], 1], condu { [[[_], ['a', _], [x, y, _ | y]] != [y], member(t, [])], [y != t, [_, false, 1] == x], true } }] }])
 }
 pub fn case_393(vars: &Vars) -> InferredGoal<DU, DE, Goal<DU, DE>> {
     let q = vars.v[0].clone();
@@ -2028,7 +2028,7 @@ pub fn case_393(vars: &Vars) -> InferredGoal<DU, DE, Goal<DU, DE>> {
 pub fn case_394(vars: &Vars) -> InferredGoal<DU, DE, Goal<DU, DE>> {
     let q = vars.v[0].clone();
     let x = vars.v[1].clone();
-    proto_vulcan!([append(x, x, [2]), closure { |h| { append(x, x, [1, 2]), x == [] } }])
+    proto_vulcan!([append(x, x, [2]), closure { |h| { conde { [], [], q != [[x, h], 3 | q] } } }])
 }
 pub fn case_395(vars: &Vars) -> InferredGoal<DU, DE, Goal<DU, DE>> {
     let x = vars.v[0].clone();
@@ -2038,7 +2038,7 @@ pub fn case_395(vars: &Vars) -> InferredGoal<DU, DE, Goal<DU, DE>> {
 pub fn case_396(vars: &Vars) -> InferredGoal<DU, DE, Goal<DU, DE>> {
     let q = vars.v[0].clone();
     let x = vars.v[1].clone();
-    proto_vulcan!([conde { [x == [_, [], x | _], |x, h| { [_ == h, [['b', [], x], 1] == false], onceo { [q, _, q | h] == x }, |tz| { [3, 2, 1] != [3, 2 | tz], tz == [1] } }], [[] == q, condu { [[q | 2] != x, |t| { q == true }] }], [x, q | _] == x }, x != _, closure { [q == q, onceo { |h, x| { ['b'] == h, 1 == q } }] }])
+    proto_vulcan!([conde { |x, t| { |z, h| { [t, _, t] != t, [[], x, 'b'] == _, true }, q != [x], [false, append(t, q, []), false] }, 1 == q, |z, h| { conde { [h] != [[1, q] | q], [[[z]] == [[h, x, z], [], q], z == x], _ != q } } }, [false, q, q] == q, closure { append(x, q, [1]) }])
 }
 pub fn case_397(vars: &Vars) -> InferredGoal<DU, DE, Goal<DU, DE>> {
     let x = vars.v[0].clone();
@@ -2047,17 +2047,17 @@ pub fn case_397(vars: &Vars) -> InferredGoal<DU, DE, Goal<DU, DE>> {
 pub fn case_398(vars: &Vars) -> InferredGoal<DU, DE, Goal<DU, DE>> {
     let x = vars.v[0].clone();
     let y = vars.v[1].clone();
-    proto_vulcan!([y == 1, y == [y], ["a"] != x, closure { conde { onceo { member(x, [1, 2]) }, [x == y, [3, y, 2] != [[1, "bc"], 1]], [y == [x], x == [1, 1]] } }])
+    proto_vulcan!([y == 1, y == [y], ["a"] != x, closure { conde { x == 1, [[[1, "bc"], 1] == x, y == y] } }])
 }
 pub fn case_399(vars: &Vars) -> InferredGoal<DU, DE, Goal<DU, DE>> {
     let q = vars.v[0].clone();
     let x = vars.v[1].clone();
-    proto_vulcan!([[x] == q, |y| { [] == [q, []] }, x == [3, x]])
+    proto_vulcan!([[x] == q, |y| { conde { onceo { [] == y }, [|t, h| { t == ['a', 2, _] }, |y, t| { member(y, [1]) }], x == 'b' }, q == [] }, [|z| { onceo { true }, conde { [x == 2, [[q, q, q | q], "bc"] == z], 3 == [z, _ | x], 2 == [[q], [2, 1, []], [[], [], z | 2]] } }], closure { [[[false, 'a'], [_, "a"]] != q, x == 2] }])
 }
 pub fn case_400(vars: &Vars) -> InferredGoal<DU, DE, Goal<DU, DE>> {
     let x = vars.v[0].clone();
     let y = vars.v[1].clone();
-    proto_vulcan!([x == [[3 | y], [_], 3], conde { [[y, x, _ | x], [y]] != [x, [1], [[], 2 | x]], [y == [[], x | x], x == x], x == [y | y] }])
+    proto_vulcan!([x == [[3 | y], [_], 3], conde { [|tz| { tz == [1], [1, 2, 1] != [1, 2 | tz] }, y == [[_, [], 'b'] | x]], [[], append(y, y, [1])] }])
 }
 pub fn case_401(vars: &Vars) -> InferredGoal<DU, DE, Goal<DU, DE>> {
     let x = vars.v[0].clone();
@@ -2070,7 +2070,7 @@ pub fn case_402(vars: &Vars) -> InferredGoal<DU, DE, Goal<DU, DE>> {
 }
 pub fn case_403(vars: &Vars) -> InferredGoal<DU, DE, Goal<DU, DE>> {
     let x = vars.v[0].clone();
-    proto_vulcan!([_ == x, [append(x, x, [2, 2]), [1, x, x] != x], [x] != [[x, x, 2], x, [false | x] | x]])
+    proto_vulcan!([_ == x, [condu { [1, true] != x, [|t, z| { member(z, [1, 2]), t != [false | x], [] == x }, |x, t| { true, x == x }], [_, x] == 1 }], x == [2, [x, x, 2 | x], x], closure { |tz| { tz == [2], [3 | tz] != [3, 2] } }])
 }
 pub fn case_404(vars: &Vars) -> InferredGoal<DU, DE, Goal<DU, DE>> {
     let x = vars.v[0].clone();
@@ -2079,16 +2079,16 @@ pub fn case_404(vars: &Vars) -> InferredGoal<DU, DE, Goal<DU, DE>> {
 pub fn case_405(vars: &Vars) -> InferredGoal<DU, DE, Goal<DU, DE>> {
     let x = vars.v[0].clone();
     let y = vars.v[1].clone();
-    proto_vulcan!([x == _, |x, y| { x == [false | true], member(y, [1]) }])
+    proto_vulcan!([x == _, |x, y| { conde { [], conde { |tz| { [1, 2, 2] != [1 | tz], tz == [2, 2] }, [[]] == y } } }])
 }
 pub fn case_406(vars: &Vars) -> InferredGoal<DU, DE, Goal<DU, DE>> {
     let x = vars.v[0].clone();
-    proto_vulcan!([conde { [1 == x, |tz| { [3 | tz] != [3, 1], tz == [1] }], true, onceo { 3 != x } }, x != [[], _], x == [x, x, x]])
+    proto_vulcan!([conde { [[], append(x, x, [2])], [_ == x, [[1 | x], [2, x | x] | x] == [[x], [x, 2] | x]], conde { [conde { false, x == [1], [[2, x, 2 | x] == x, [[_, 'a'], [], [x, 2] | x] != x] }, |h, y| { 2 == x, member(h, [1, 3]), y != x }], [|t| { t == [[[]]], t == [_, [x, t | t], [t]], [x, 3 | _] == x }, |tz| { [2 | tz] != [2, 2], tz == [2] }] } }, |t| { x != t }, |tz| { [1, 2, 3] != [1 | tz], tz == [2, 3] }])
 }
 pub fn case_407(vars: &Vars) -> InferredGoal<DU, DE, Goal<DU, DE>> {
     let q = vars.v[0].clone();
     let x = vars.v[1].clone();
-    proto_vulcan!([conde { [x, 1 | _] == x, [q == [[]], conde { [|tz| { tz == [1], [2, 1, 1] != [2, 1 | tz] }, conde { [2, "bc"] != x, [q != x, |tz| { tz == [3, 1], [2, 2, 3, 1] != [2, 2 | tz] }], x == x }], [|tz| { tz == [1, 3], [2, 2 | tz] != [2, 2, 1, 3] }, x == x], q == [3, q, x] }] }, q != 3, q == [[x, 2], [3, false] | 2], closure { x != q }])
+    proto_vulcan!([conde { [q == 2, [false, [[[x, 3] | 2] == x], [[q] != q]]], [onceo { [1, x] == x }, conda { ['a' == x, |t, z| { _ == x, q == t }], [[|tz| { tz == [1], [2, 1 | tz] != [2, 1, 1] }, q != 3], q == [[x, 2], [3, false] | 2]] }] }, [q, _] == 2, true == x])
 }
 pub fn case_408(vars: &Vars) -> InferredGoal<DU, DE, Goal<DU, DE>> {
     let x = vars.v[0].clone();
@@ -2097,12 +2097,12 @@ pub fn case_408(vars: &Vars) -> InferredGoal<DU, DE, Goal<DU, DE>> {
 }
 pub fn case_409(vars: &Vars) -> InferredGoal<DU, DE, Goal<DU, DE>> {
     let x = vars.v[0].clone();
-    proto_vulcan!([[["bc", 1, _], _, [x | x] | x] == x, conda { [conde { [onceo { x != [1, x] }, [[x, 2, false] == x]], [condu { append(x, x, []), [[3, x], [1, []], [x, 3, _] | 'a'] != x }, [x == [], x == [x | x]]], [[[false, _, []], x, [2, _, 3]] == x, [x, 1] != x] }, |x, t| { x == x, [[], 1 | x] == [1], [[t, false | x], x | x] == x }], |x, y| { member(x, []), x == 2 }, |y, t| { |z| { false, x == [[], [z]], [] == x } } }, x == x])
+    proto_vulcan!([[["bc", 1, _], _, [x | x] | x] == x, conda { [conde { conde { [] }, [|y| {  }, |t| { t != x }], [conde { x == [3], [[x] == x, [[x, 1], [_, x] | x] == [[[]], 3, [_] | x]] }, conde { ["a" == [x | x], 2 != x], [[x, 1] != x, 2 == x], [[x, x], ['a', [], 1 | x]] == [[true, 1, 1], [], 1] }] }, false], [x == x, member(x, [])], conde { [x == [x, [[] | x], [_]], conde { x == [x, x, 1 | 1], x != x, true }], [[x == [x, x, 3], x == x], [x == x]] } }, conde { false }, closure { [member(x, [2, 2, 3]), x != []] }])
 }
 pub fn case_410(vars: &Vars) -> InferredGoal<DU, DE, Goal<DU, DE>> {
     let q = vars.v[0].clone();
     let x = vars.v[1].clone();
-    proto_vulcan!([[[x == q, conde { [2, 1 | _] != [[_, q], [x, 2, 2], [_, 1, 'a'] | q], q == q }, q == q]], [[3, _, x | x] | q] == x, closure { [[x] == q, conde { [|tz| { tz == [2, 2], [2, 1, 2, 2] != [2, 1 | tz] }, |tz| { [2, 3] != [2 | tz], tz == [3] }], onceo { false } }] }])
+    proto_vulcan!([[[x | x] == x, |tz| { tz == [3], [3, 3] != [3 | tz] }], [] == q])
 }
 pub fn case_411(vars: &Vars) -> InferredGoal<DU, DE, Goal<DU, DE>> {
     let q = vars.v[0].clone();
@@ -2116,16 +2116,16 @@ pub fn case_412(vars: &Vars) -> InferredGoal<DU, DE, Goal<DU, DE>> {
 pub fn case_413(vars: &Vars) -> InferredGoal<DU, DE, Goal<DU, DE>> {
     let x = vars.v[0].clone();
     let y = vars.v[1].clone();
-    proto_vulcan!([conde { conde { [[[] | x] != x, [false]], |tz| { tz == [2], [2, 2] != [2 | tz] }, [|h| { true }, 1 != [x, [1, [] | x], _]] }, conde { true, [|x, t| { 2 == y }, [1] == y], [x] == y }, member(y, [1, 3]) }, |x, t| { [[_, t] == [1 | t], x == y, |tz| { [3, 2 | tz] != [3, 2, 1], tz == [1] }], [[x, 1, x | y] == t, conda { _ == [x], [member(y, []), member(x, [2, 2, 3])], [_, t] == x }, |tz| { [1, 2, 2] != [1 | tz], tz == [2, 2] }], conda { 3 == y, [[[y] | y] == [['b'], [_, t, t]], [1 | _] == y], [onceo { t == x }, [[2, _], [y, []]] == 1] } }])
+    proto_vulcan!([conde { conde { [], [2, x | x] != x, |h, x| { 2 == x, 1 == x } }, [x, y, x | y] == y }, [x, [y, 3, 1]] != x, closure { [y == [[]], x == [[]]] }])
 }
 pub fn case_414(vars: &Vars) -> InferredGoal<DU, DE, Goal<DU, DE>> {
     let x = vars.v[0].clone();
-    proto_vulcan!([conde { conda { [conde { [[[x, x, 2]] != 3, x == _], [[] != x, x == [[x], [x, x]]], true }, [1, 2, x | 'b'] == x], onceo { false } }, [x | x] != x }])
+    proto_vulcan!([conde { [x | true] != 3 }])
 }
 pub fn case_415(vars: &Vars) -> InferredGoal<DU, DE, Goal<DU, DE>> {
     let x = vars.v[0].clone();
     let y = vars.v[1].clone();
-    proto_vulcan!([false, x == x, closure { [conde { x == [1], [2, x] != y, [[x, x] == y, member(x, [1, 2, 1])] }, |x, y| { y == [y, 1, 1 | y], [[], y, x] != y, 1 == x }] }])
+    proto_vulcan!([false, x == x, closure { [conde { [|x| { |tz| { tz == [3], [2, 3 | tz] != [2, 3, 3] } }, [[2, 3], [1, 'a' | x], [_ | y] | x] == x], [member(x, [2, 1]), member(x, [3])] }, [2, y] != x] }])
 }
 pub fn case_416(vars: &Vars) -> InferredGoal<DU, DE, Goal<DU, DE>> {
     let x = vars.v[0].clone();
@@ -2134,984 +2134,938 @@ pub fn case_416(vars: &Vars) -> InferredGoal<DU, DE, Goal<DU, DE>> {
 pub fn case_417(vars: &Vars) -> InferredGoal<DU, DE, Goal<DU, DE>> {
     let q = vars.v[0].clone();
     let x = vars.v[1].clone();
-    proto_vulcan!([|tz| { [1, 3 | tz] != [1, 3, 1], tz == [1] }, onceo { true }, conda { [|h, t| { [2] == x, [h, h, x | x] != x, onceo { |tz| { [2, 2, 2, 1] != [2, 2 | tz], tz == [2, 1] } } }, q != q], [[|x, z| { [[q, 2, x], [z, q | z], 1] != x, append(x, x, []) }, x != true, [[]] == q], false], [|x, y| { [2] == x, onceo { [3, x, 2 | y] == x }, y != [_] }, onceo { [true, _ == q] }] }, closure { [onceo { x == 3 }, [1] == x] }])
+    proto_vulcan!([|tz| { [1, 3 | tz] != [1, 3, 1], tz == [1] }, onceo { true }, conda { [|h, t| {  }, [2] == x], q == x, false }, closure { [onceo { |z, y| { x == _, |tz| { tz == [3, 3], [3, 3, 3] != [3 | tz] } } }, |x, z| { onceo { [z, false, q] != z }, |tz| { tz == [1, 1], [2, 2, 1, 1] != [2, 2 | tz] }, |y, h| { x != true, false == z, z == h } }] }])
 }
 pub fn case_418(vars: &Vars) -> InferredGoal<DU, DE, Goal<DU, DE>> {
     let x = vars.v[0].clone();
     let y = vars.v[1].clone();
-    proto_vulcan!([|h, x| { [_, [y], [x]] == [1, 3 | x] }, closure { y == [[], y] }])
+    proto_vulcan!([|h, x| {  }])
 }
 pub fn case_419(vars: &Vars) -> InferredGoal<DU, DE, Goal<DU, DE>> {
     let x = vars.v[0].clone();
-    proto_vulcan!([|tz| { tz == [1], [2, 3, 1] != [2, 3 | tz] }, [conde { |y, t| { member(y, [1]), false, true }, append(x, x, [2, 2]), [x == _, 2 != x] }, conde { |x, y| { true }, [false, x == [1]], conde { [append(x, x, [1, 3]), [_, [x], [_, x | x]] == []], |tz| { tz == [3], [3, 2, 3] != [3, 2 | tz] } } }, onceo { conda { [x == x, x == [[], x | x]], [[1]] == [[], [], x | x], [[x] == x, member(x, [1, 1, 1])] } }]])
+    proto_vulcan!([|tz| { tz == [1], [2, 3, 1] != [2, 3 | tz] }, [|t| { |y| { t == [3] }, t == _ }, 2 != x]])
 }
 pub fn case_420(vars: &Vars) -> InferredGoal<DU, DE, Goal<DU, DE>> {
     let x = vars.v[0].clone();
     let y = vars.v[1].clone();
-    proto_vulcan!([[3, x] == [[y, _ | y]], false, |x, y| { |tz| { tz == [1], [2 | tz] != [2, 1] }, |y, x| { [[], ['b', [], x | y], [x, 1, x | y]] == x } }])
+    proto_vulcan!([[3, x] == [[y, _ | y]], false, |x, y| { y == x, |tz| { [3, 2, 1] != [3, 2 | tz], tz == [1] } }])
 }
 pub fn case_421(vars: &Vars) -> InferredGoal<DU, DE, Goal<DU, DE>> {
     let x = vars.v[0].clone();
     let y = vars.v[1].clone();
-    proto_vulcan!([conde { y == [], true, x != [[], y, x | 2] }, closure { y == [] }])
+    proto_vulcan!([conde { [x == 'a', x != [[], y, x | 2]], y == [] }])
 }
 pub fn case_422(vars: &Vars) -> InferredGoal<DU, DE, Goal<DU, DE>> {
     let x = vars.v[0].clone();
-    proto_vulcan!([|y| { x == [y, x], [[|tz| { tz == [1, 1], [1, 1, 1] != [1 | tz] }, member(x, [1])]] }, [[x == [[1, "a" | x], x | x], [x != [2, [3]]], x == [2]]]])
+    proto_vulcan!([|y| { true }, [1 | x] == [[_, [], 2], 2]])
 }
 pub fn case_423(vars: &Vars) -> InferredGoal<DU, DE, Goal<DU, DE>> {
     let x = vars.v[0].clone();
-    proto_vulcan!([[x != [x], false]])
+    proto_vulcan!([[[['b', 2, 1]] == x]])
 }
 pub fn case_424(vars: &Vars) -> InferredGoal<DU, DE, Goal<DU, DE>> {
     let x = vars.v[0].clone();
     let y = vars.v[1].clone();
-    proto_vulcan!([true, x == [[y, []]], x == [2, y | 2], closure { [conde { [condu { [true, true], [_, y] == x }, conde { [true, x == [2, [], x | x]], [3, y | 3] == x }], [y != x], [conda { [x == [], y == ['a', y, x]] }, [append(y, y, []), [2, x | y] != y]] }, conda { [x == [_, ['a', y, 'a'], [_]], [2] == x], [onceo { append(y, x, [1, 1]) }, [x, [[], x, x]] == x] }] }])
+    proto_vulcan!([true, x == [[y, []]], x == [2, y | 2], closure { [conde { [condu { |tz| { [3, 3] != [3 | tz], tz == [3] }, [[_, [], x], 3, [2, [], x | x]] == [3] }, [[2]] == y], [_, _, y] == y, [y == [x], 1 != y] }, x == ['b']] }])
 }
 pub fn case_425(vars: &Vars) -> InferredGoal<DU, DE, Goal<DU, DE>> {
     let q = vars.v[0].clone();
     let x = vars.v[1].clone();
-    proto_vulcan!([conde { |tz| { tz == [1, 1], [2, 1, 1] != [2 | tz] }, [|tz| { tz == [2], [2, 2 | tz] != [2, 2, 2] }, |x, t| { |h| { append(q, t, []) }, x == x }] }, |t| { [conde { member(x, [3]), q != [[t, t, [] | x]], [false, q == 2] }, condu { [[q, t] == true, q == [t, 1]] }, |x, t| { x != t, [1] == x, x != x }], [x] != x }, onceo { |x| { false, _ == x } }])
+    proto_vulcan!([conde { [|tz| { tz == [1], [2, 1, 1] != [2, 1 | tz] }, |tz| { tz == [2], [2, 2 | tz] != [2, 2, 2] }] }, |x, t| { onceo { |x, h| { true, false } }, q == 3, [q != q, [[[], x, x], [x, 3], [q] | x] != x, t != [[2, q, x]]] }, [1, q, 3] == q])
 }
 pub fn case_426(vars: &Vars) -> InferredGoal<DU, DE, Goal<DU, DE>> {
     let q = vars.v[0].clone();
     let x = vars.v[1].clone();
-    proto_vulcan!([conde { conda { [|y, z| { [[2, y, [] | x]] == y }, [q, 2] == q] }, [q != [[q], [3, q, q | x]], conde { [conda { [true, [x] == x] }, _ != q], [|x, z| { append(x, x, [3, 2]) }, x == x], [|tz| { [3 | tz] != [3, 1], tz == [1] }, condu { q == [x, 2], [[3 | x], x] != q }] }] }, |t, x| { t != [2] }])
+    proto_vulcan!([conde { [q == q, [q, 3, 'b'] == x], [|z| { 3 != q, |x| { [] == x, false, [[2, [], q | z] | x] != [2] } }, true] }, onceo { [] == x }])
 }
 pub fn case_427(vars: &Vars) -> InferredGoal<DU, DE, Goal<DU, DE>> {
     let x = vars.v[0].clone();
     let y = vars.v[1].clone();
-    proto_vulcan!([|z| { z == y, true, [[y == [1, _, z], [1, x, y | x] == y], [1, y, "a"] == z, z == []] }, [x == []], x == [1 | 2], closure { |z| { |tz| { [1, 3, 2] != [1, 3 | tz], tz == [2] }, [y, [y, z, _ | 2]] == z } }])
+    proto_vulcan!([|z| { [2, x, x] == x }, [|x, t| { conda { [[1, t, x | t] == y, _ != t], 1 != x, [t == [t, [], x], [3, [1 | x], 1] == [2, 1, x]] }, x != x, conda { [member(t, [2, 3, 1]), member(y, [])], false, [[y, [], y] == y, t != [[]]] } }, [[x != [3 | x], append(x, x, [1]), |tz| { tz == [1], [3 | tz] != [3, 1] }]]], y == [y, _], closure { [|h| { x == h, ['a' | x] != x, [x == x, x != [1], append(h, x, [1, 2])] }, y != _] }])
 }
 pub fn case_428(vars: &Vars) -> InferredGoal<DU, DE, Goal<DU, DE>> {
     let q = vars.v[0].clone();
     let x = vars.v[1].clone();
-    proto_vulcan!([|x| { |z| { false, [] == x, |t| { x == [1, 2, z], x == z, [t, 3, 3 | x] != t } }, [q, "bc", x] == x, conda { [_ != q, x == "bc"], [2 | x] == x, [|t| { [] == q, [x] == q, x == _ }, [|tz| { [2, 2, 3] != [2 | tz], tz == [2, 3] }, 'b' == q]] } }, [q, [[], _]] != q, |t| { [|t| { 1 == x }], |h, t| { true, append(x, x, [3]), x != t } }])
+    proto_vulcan!([|x| { |tz| { tz == [1, 2], [1, 1, 2] != [1 | tz] }, x == q, x == [[x, x], [x | q] | x] }, conda { [[[], x, []] == [3], q == 'a'] }, _ != q, closure { ["bc" == [x, 2], true] }])
 }
 pub fn case_429(vars: &Vars) -> InferredGoal<DU, DE, Goal<DU, DE>> {
     let x = vars.v[0].clone();
     let y = vars.v[1].clone();
-    proto_vulcan!([conda { [[[y, x | y], "a"] == [], condu { member(y, []), conda { [true, y == [3]] } }], [|y| { x != [y], onceo { [['a', y, y], [[], y, 1]] == x }, [member(y, [2, 1, 3]), true] }, y == [x, y | x]] }, true])
+    proto_vulcan!([conda { [[[y, x | y], "a"] == [], condu { member(y, []), conda { [true, y == [3]] } }], [|y| { conde { [], [y != y, y == 'a'] } }, 3 != x] }, y == [x, "a", 3 | y]])
 }
 pub fn case_430(vars: &Vars) -> InferredGoal<DU, DE, Goal<DU, DE>> {
     let x = vars.v[0].clone();
     let y = vars.v[1].clone();
-    proto_vulcan!([true, [[[], 2], 'a'] != y, matche y { [[[]], [false | _] | h] => [h == 2, [[[], 3]] != [[_, 2]]], true => , 3 | [[z, y, true], x, []] => , }])
+    proto_vulcan!([true, [[[], 2], 'a'] != y, matche y { [[t | _], [t | h], x] => , [[x, 3, z | _], 'a'] | [[2, 2], [[], 3, t | _] | z] => [[y == y], z == y], [2, [2, 1], [] | _] => , }])
 }
 pub fn case_431(vars: &Vars) -> InferredGoal<DU, DE, Goal<DU, DE>> {
     let x = vars.v[0].clone();
     let y = vars.v[1].clone();
-    proto_vulcan!([true, [[[], 2], 'a'] != y, matche y { [[[]], [false | _] | fresh_name_9] => [fresh_name_9 == 2, [[[], 3]] != [[_, 2]]], true => , 3 | [[z, y, true], x, []] => , }])
+    proto_vulcan!([true, [[[], 2], 'a'] != y, matche y { [[fresh_name_9 | _], [fresh_name_9 | h], x] => , [[x, 3, z | _], 'a'] | [[2, 2], [[], 3, t | _] | z] => [[y == y], z == y], [2, [2, 1], [] | _] => , }])
 }
 pub fn case_432(vars: &Vars) -> InferredGoal<DU, DE, Goal<DU, DE>> {
     let x = vars.v[0].clone();
     let y = vars.v[1].clone();
-    proto_vulcan!([matche [3, "a" | y] { [[z], [y, 3, 1 | _], 1 | _] | h => [match x { 1 => { match x { ["a", 3, [t, x]] => , [[1, h, t | y], [[], _], [z]] => , [h, 2] | [[1 | x], [1 | _], [t, 1, h | 3] | h] => { h == [1, [], h], "a" != h }, }, ['a', 3] != x }, [[y, z, []], ["a", 2 | _]] | [["bc", h | _], 1] => [[[[x, 2, 1], 1] != x, x == [x, 2, 1], false], [x == [3, x | true]]], }, [conde { [true, true], [|tz| { [2, 1 | tz] != [2, 1, 1], tz == [1] }, true] }]], 3 => , y => append(x, y, []), }, match y { z => , }, 'b' != y, closure { [y != [x, x], |h, y| { |y| { |tz| { [2, 1, 1] != [2, 1 | tz], tz == [1] }, |tz| { [2, 3 | tz] != [2, 3, 2], tz == [2] }, y != [[]] } }] }])
+    proto_vulcan!([matche [3, "a" | y] { [] | y => , t | [[1 | _]] => , _ => { x == 7, x == 8 }, }, matche [3, x, x | y] { [[], [t, x]] | z => [true, match y { [[[], _], [z]] => , [[_ | t], [2 | _]] | _ => { append(y, y, []) }, }], [h, 1] => , }, matche y { [[[], x], [2 | 3], [_, h, t] | z] | [_, [t, 1, t], [y, z, []]] => [] != z, [[false | 1], [], y | _] | h => { conde { [conde { append(x, x, [3]) }, |tz| { [3, 3, 2, 2] != [3, 3 | tz], tz == [2, 2] }], matche x { [[3, x | true]] => , [[3], false] => , }, matche x { [y, [2], h] => [y != [], ['b', 2, []] == y], _ => [2] != x, _ => { x == 7, x == 8 }, } }, member(x, []) }, [_] => match y { [[h, 3, h | _] | 1] => [x == [], [_, 2 | 2] == x], [[_, x | _], [2, z], [] | _] => { [y != [[], x, _]], |z| { 1 == z } }, [[2, [], h | _]] | _ => , }, }, closure { [true, |z| { match x { _ => z == x, 2 => , } }] }])
 }
 pub fn case_433(vars: &Vars) -> InferredGoal<DU, DE, Goal<DU, DE>> {
     let x = vars.v[0].clone();
     let y = vars.v[1].clone();
-    proto_vulcan!([matche [3, "a" | y] { [[z], [y, 3, 1 | _], 1 | _] | h => [match x { 1 => { match x { ["a", 3, [t, x]] => , [[1, h, t | y], [[], _], [z]] => , [h, 2] | [[1 | x], [1 | _], [t, 1, h | 3] | h] => { h == [1, [], h], "a" != h }, }, ['a', 3] != x }, [[y, z, []], ["a", 2 | _]] | [["bc", h | _], 1] => [[[[x, 2, 1], 1] != x, x == [x, 2, 1], false], [x == [3, x | true]]], }, [conde { [true, true], [|tz| { [2, 1 | tz] != [2, 1, 1], tz == [1] }, true] }]], 3 => , y => append(x, y, []), }, match y { fresh_name_9 => , }, 'b' != y, closure { [y != [x, x], |h, y| { |y| { |tz| { [2, 1, 1] != [2, 1 | tz], tz == [1] }, |tz| { [2, 3 | tz] != [2, 3, 2], tz == [2] }, y != [[]] } }] }])
+    proto_vulcan!([matche [3, "a" | y] { [] | y => , t | [[1 | _]] => , _ => { x == 7, x == 8 }, }, matche [3, x, x | y] { [[], [t, x]] | z => [true, match y { [[[], _], [z]] => , [[_ | t], [2 | _]] | _ => { append(y, y, []) }, }], [h, 1] => , }, matche y { [[[], x], [2 | 3], [_, h, t] | z] | [_, [t, 1, t], [y, z, []]] => [] != z, [[false | 1], [], y | _] | h => { conde { [conde { append(x, x, [3]) }, |tz| { [3, 3, 2, 2] != [3, 3 | tz], tz == [2, 2] }], matche x { [[3, fresh_name_9 | true]] => , [[3], false] => , }, matche x { [y, [2], h] => [y != [], ['b', 2, []] == y], _ => [2] != x, _ => { x == 7, x == 8 }, } }, member(x, []) }, [_] => match y { [[h, 3, h | _] | 1] => [x == [], [_, 2 | 2] == x], [[_, x | _], [2, z], [] | _] => { [y != [[], x, _]], |z| { 1 == z } }, [[2, [], h | _]] | _ => , }, }, closure { [true, |z| { match x { _ => z == x, 2 => , } }] }])
 }
 pub fn case_434(vars: &Vars) -> InferredGoal<DU, DE, Goal<DU, DE>> {
     let x = vars.v[0].clone();
-    proto_vulcan!([match x { [[2, true, 1 | 2]] => [matche x { [] => , [[h, 1, "bc"]] => { [2, x, 2 | h] == h }, z => [[[z] == z], z == z], }, conde { [1] == x, x == 1, [x != [[3 | x], [1, true], [3 | x]], conde { [x != 2, x != x], [true, [["bc", 2, 'a']] != x] }] }], [[x | z], [[]]] => match 1 { [[2, _ | h], 1, [t, h, 3]] => { |tz| { tz == [1], [2, 1 | tz] != [2, 1, 1] }, |tz| { [2, 1 | tz] != [2, 1, 3], tz == [3] } }, }, }, [[2, x, []], [], x] != [[3, x]]])
+    proto_vulcan!([match x { h => , 1 | [h, [y, 2], [] | 1] => , }, match x { _ => [conde { [x == [x], x != x], member(x, [3, 1, 2]) }, match x { x => , h => x == [x, 1], }, [2, 1] == x], }])
 }
 pub fn case_435(vars: &Vars) -> InferredGoal<DU, DE, Goal<DU, DE>> {
     let x = vars.v[0].clone();
-    proto_vulcan!([match x { [[2, true, 1 | 2]] => [matche x { [] => , [[h, 1, "bc"]] => { [2, x, 2 | h] == h }, z => [[[z] == z], z == z], }, conde { [1] == x, x == 1, [x != [[3 | x], [1, true], [3 | x]], conde { [x != 2, x != x], [true, [["bc", 2, 'a']] != x] }] }], [[x | z], [[]]] => match 1 { [[2, _ | h], 1, [t, h, 3]] => { |tz| { tz == [1], [2, 1 | tz] != [2, 1, 1] }, |fresh_name_9| { [2, 1 | fresh_name_9] != [2, 1, 3], fresh_name_9 == [3] } }, }, }, [[2, x, []], [], x] != [[3, x]]])
+    proto_vulcan!([match x { h => , 1 | [h, [y, 2], [] | 1] => , }, match x { _ => [conde { [x == [x], x != x], member(x, [3, 1, 2]) }, match x { fresh_name_9 => , h => x == [x, 1], }, [2, 1] == x], }])
 }
 pub fn case_436(vars: &Vars) -> InferredGoal<DU, DE, Goal<DU, DE>> {
     let q = vars.v[0].clone();
     let x = vars.v[1].clone();
-    proto_vulcan!([1 == q, |t, y| { |z, t| { "a" == q, matche t { _ | ["a", [x, true]] => , } }, 3 == x, matche q { [_, [z]] | [true | h] => [q == [2, []], 2 == y], } }, [[x] | _] != q])
+    proto_vulcan!([1 == q, |t, y| { matche y { [["a", y, 2] | 2] => y != [[2 | y], [[]]], _ => [y == 7, y == 8], }, matche q { [[] | t] | [true | h] => [q == [2, []], 2 == x], } }, [[x] | _] != q])
 }
 pub fn case_437(vars: &Vars) -> InferredGoal<DU, DE, Goal<DU, DE>> {
     let q = vars.v[0].clone();
     let x = vars.v[1].clone();
-    proto_vulcan!([1 == q, |t, y| { |z, fresh_name_9| { "a" == q, matche fresh_name_9 { _ | ["a", [x, true]] => , } }, 3 == x, matche q { [_, [z]] | [true | h] => [q == [2, []], 2 == y], } }, [[x] | _] != q])
+    proto_vulcan!([1 == q, |t, fresh_name_9| { matche fresh_name_9 { [["a", y, 2] | 2] => y != [[2 | y], [[]]], _ => [fresh_name_9 == 7, fresh_name_9 == 8], }, matche q { [[] | t] | [true | h] => [q == [2, []], 2 == x], } }, [[x] | _] != q])
 }
 pub fn case_438(vars: &Vars) -> InferredGoal<DU, DE, Goal<DU, DE>> {
     let x = vars.v[0].clone();
-    proto_vulcan!([|h| { h == [], ["bc", x] == x }, |h, x| { _ == h }])
+    proto_vulcan!([|h| { |t| { t == h, x == [] }, |x| { member(h, [3]) }, conde { [x != x, h == [3, h, 1 | x]], |t| { x == 3, x == 2 } } }, [2] == x, closure { [x == _, ['b', 1, 3] == x] }])
 }
 pub fn case_439(vars: &Vars) -> InferredGoal<DU, DE, Goal<DU, DE>> {
     let x = vars.v[0].clone();
-    proto_vulcan!([|h| { h == [], ["bc", x] == x }, |h, fresh_name_9| { _ == h }])
+    proto_vulcan!([|h| { |t| { t == h, x == [] }, |fresh_name_9| { member(h, [3]) }, conde { [x != x, h == [3, h, 1 | x]], |t| { x == 3, x == 2 } } }, [2] == x, closure { [x == _, ['b', 1, 3] == x] }])
 }
 pub fn case_440(vars: &Vars) -> InferredGoal<DU, DE, Goal<DU, DE>> {
     let x = vars.v[0].clone();
     let y = vars.v[1].clone();
-    proto_vulcan!([match x { t => { match y { ["bc", 2] => , y => , } }, }, |t| { [append(x, y, [3]), conde { [[3], [2 | t] | t] == 1, [[y, 2 | x] == t, [[1, 3, x], t, 2 | y] == [_, [3, y]]] }, false], [[2, t] == x, matche x { h => { [3, x | x] == t }, }] }, closure { [[_, y] == y, match x { [[[]], [x, _, []] | 'a'] => , }] }])
+    proto_vulcan!([match x { 1 => { |y| { [[y, ['a', _, 2]] != 3, [y, x] == y], [x != [y], |tz| { [1, 2, 3] != [1 | tz], tz == [2, 3] }, [_ | x] == y] } }, }, match [3, []] { t => , [[h, _, 2 | z] | _] => { [matche x { _ => { [[], h] == y, h == 2 }, [[false, 1, false | 1], [[]]] | [[1, 'b' | 2], [y]] => , }, match h { [[[], 2, [] | _]] | _ => , }, h == [h, 2, 'b']], x != [h, [3, 'b' | y], h] }, [y, [], [2, 3, _]] => { ['a'] == y, y == [x] }, }])
 }
 pub fn case_441(vars: &Vars) -> InferredGoal<DU, DE, Goal<DU, DE>> {
     let x = vars.v[0].clone();
     let y = vars.v[1].clone();
-    proto_vulcan!([match x { t => { match y { ["bc", 2] => , y => , } }, }, |t| { [append(x, y, [3]), conde { [[3], [2 | t] | t] == 1, [[y, 2 | x] == t, [[1, 3, x], t, 2 | y] == [_, [3, y]]] }, false], [[2, t] == x, matche x { h => { [3, x | x] == t }, }] }, closure { [[_, y] == y, match x { [[[]], [fresh_name_9, _, []] | 'a'] => , }] }])
+    proto_vulcan!([match x { 1 => { |y| { [[y, ['a', _, 2]] != 3, [y, x] == y], [x != [y], |tz| { [1, 2, 3] != [1 | tz], tz == [2, 3] }, [_ | x] == y] } }, }, match [3, []] { t => , [[fresh_name_9, _, 2 | z] | _] => { [matche x { _ => { [[], fresh_name_9] == y, fresh_name_9 == 2 }, [[false, 1, false | 1], [[]]] | [[1, 'b' | 2], [y]] => , }, match fresh_name_9 { [[[], 2, [] | _]] | _ => , }, fresh_name_9 == [fresh_name_9, 2, 'b']], x != [fresh_name_9, [3, 'b' | y], fresh_name_9] }, [y, [], [2, 3, _]] => { ['a'] == y, y == [x] }, }])
 }
 pub fn case_442(vars: &Vars) -> InferredGoal<DU, DE, Goal<DU, DE>> {
     let q = vars.v[0].clone();
     let x = vars.v[1].clone();
-    proto_vulcan!([match x { [3, [3], z | _] => [match z { [[1], t] => { [q == q], |y, t| { t == x } }, 1 => , x | [] => [[member(q, [3, 1]), z == [z, 1, []], 2 == z], [q | z] == q], }, x == 1], }, closure { matche x { [[_ | _]] | _ => |z, h| { true, true == x }, [3, [h, y, []], 2] => , } }])
+    proto_vulcan!([match x { [1, [3]] => { |tz| { [3, 2 | tz] != [3, 2, 3], tz == [3] }, [q, _] == q }, }])
 }
 pub fn case_443(vars: &Vars) -> InferredGoal<DU, DE, Goal<DU, DE>> {
     let q = vars.v[0].clone();
     let x = vars.v[1].clone();
-    proto_vulcan!([match x { [3, [3], z | _] => [match z { [[1], t] => { [q == q], |y, t| { t == x } }, 1 => , x | [] => [[member(q, [3, 1]), z == [z, 1, []], 2 == z], [q | z] == q], }, x == 1], }, closure { matche x { [[_ | _]] | _ => |z, fresh_name_9| { true, true == x }, [3, [h, y, []], 2] => , } }])
+    proto_vulcan!([match x { [1, [3]] => { |fresh_name_9| { [3, 2 | fresh_name_9] != [3, 2, 3], fresh_name_9 == [3] }, [q, _] == q }, }])
 }
 pub fn case_444(vars: &Vars) -> InferredGoal<DU, DE, Goal<DU, DE>> {
     let q = vars.v[0].clone();
     let x = vars.v[1].clone();
-    proto_vulcan!([conde { [q == [[[]] | q], [x, x | q] != [["a", [], [] | x], [2, _, q | q], _], x == [q | 1]], [[2, 3, _ | q] == x, x == []] }, [x, q, q | x] != q, closure { conde { [q, 1] == q, |z| { q == [x | 3], z == ["a"] }, |tz| { [2, 2, 1] != [2, 2 | tz], tz == [1] } } }])
+    proto_vulcan!([conde { [|y| { [[q], 3] != [] }, []], [[x, q, 3] == 2, x == [2, []]] }, [1, 3, 2] == x, closure { [|t| { t == [3] }] }])
 }
 pub fn case_445(vars: &Vars) -> InferredGoal<DU, DE, Goal<DU, DE>> {
     let q = vars.v[0].clone();
     let x = vars.v[1].clone();
-    proto_vulcan!([conde { [q == [[[]] | q], [x, x | q] != [["a", [], [] | x], [2, _, q | q], _], x == [q | 1]], [[2, 3, _ | q] == x, x == []] }, [x, q, q | x] != q, closure { conde { [q, 1] == q, |z| { q == [x | 3], z == ["a"] }, |fresh_name_9| { [2, 2, 1] != [2, 2 | fresh_name_9], fresh_name_9 == [1] } } }])
+    proto_vulcan!([conde { [|fresh_name_9| { [[q], 3] != [] }, []], [[x, q, 3] == 2, x == [2, []]] }, [1, 3, 2] == x, closure { [|t| { t == [3] }] }])
 }
 pub fn case_446(vars: &Vars) -> InferredGoal<DU, DE, Goal<DU, DE>> {
     let q = vars.v[0].clone();
     let x = vars.v[1].clone();
-    proto_vulcan!([1 != [[x, x], ["a", _, q]], q == q, [matche [2, 1, _] { [1] => , [[1, 1 | h], [2]] => { matche h { 3 => , [x, [h]] => [[false, 1] == x, [[q | x], 1, [h] | x] != q], 2 | [[_, 1, x]] => { q == [1, h] }, } }, }, [conde { [x == [1, "bc"], [1, 1] == x], [[2, ["a", q | q]] == q, x == x], [false, append(q, x, [2, 2])] }, q == [[_, [], 2 | q]], match q { z => , [[y]] => { |tz| { tz == [3, 2], [3, 1 | tz] != [3, 1, 3, 2] }, [q, y, q] != q }, [z, z | h] => |tz| { tz == [2], [1, 1 | tz] != [1, 1, 2] }, }], |z, t| { z == [z, t, _], x == [["bc" | q] | t], [[2]] == [_] }]])
+    proto_vulcan!([matche q { 1 => { member(x, [3, 2, 1]), |x, t| { conde { false, false, false } } }, [_] | ['a'] => , }, conde { |tz| { tz == [3], [3, 2, 3] != [3, 2 | tz] }, append(q, x, [2]), x == [_, [] | x] }])
 }
 pub fn case_447(vars: &Vars) -> InferredGoal<DU, DE, Goal<DU, DE>> {
     let q = vars.v[0].clone();
     let x = vars.v[1].clone();
-    proto_vulcan!([1 != [[x, x], ["a", _, q]], q == q, [matche [2, 1, _] { [1] => , [[1, 1 | h], [2]] => { matche h { 3 => , [x, [h]] => [[false, 1] == x, [[q | x], 1, [h] | x] != q], 2 | [[_, 1, x]] => { q == [1, h] }, } }, }, [conde { [x == [1, "bc"], [1, 1] == x], [[2, ["a", q | q]] == q, x == x], [false, append(q, x, [2, 2])] }, q == [[_, [], 2 | q]], match q { z => , [[y]] => { |fresh_name_9| { fresh_name_9 == [3, 2], [3, 1 | fresh_name_9] != [3, 1, 3, 2] }, [q, y, q] != q }, [z, z | h] => |tz| { tz == [2], [1, 1 | tz] != [1, 1, 2] }, }], |z, t| { z == [z, t, _], x == [["bc" | q] | t], [[2]] == [_] }]])
+    proto_vulcan!([matche q { 1 => { member(x, [3, 2, 1]), |x, t| { conde { false, false, false } } }, [_] | ['a'] => , }, conde { |fresh_name_9| { fresh_name_9 == [3], [3, 2, 3] != [3, 2 | fresh_name_9] }, append(q, x, [2]), x == [_, [] | x] }])
 }
 pub fn case_448(vars: &Vars) -> InferredGoal<DU, DE, Goal<DU, DE>> {
     let x = vars.v[0].clone();
-    let y = vars.v[1].clone();
-    proto_vulcan!([[append(x, y, [1]), x == [x]], [] != 1, [|tz| { tz == [2], [1 | tz] != [1, 2] }, conde { conde { [member(x, [3, 3, 1]), false], member(y, [3, 1, 3]), [|tz| { [3, 1, 2] != [3, 1 | tz], tz == [2] }, false] }, [[], x] != y, [|y| { _ == y, false }, 2 == x] }, y == []]])
+    proto_vulcan!([match [[], 2] { y => { append(y, x, [2]), conde { [[y != x], x == x], y == [_] } }, [[h, y, 2], [], x] | _ => , }])
 }
 pub fn case_449(vars: &Vars) -> InferredGoal<DU, DE, Goal<DU, DE>> {
     let x = vars.v[0].clone();
-    let y = vars.v[1].clone();
-    proto_vulcan!([[append(x, y, [1]), x == [x]], [] != 1, [|tz| { tz == [2], [1 | tz] != [1, 2] }, conde { conde { [member(x, [3, 3, 1]), false], member(y, [3, 1, 3]), [|tz| { [3, 1, 2] != [3, 1 | tz], tz == [2] }, false] }, [[], x] != y, [|fresh_name_9| { _ == fresh_name_9, false }, 2 == x] }, y == []]])
+    proto_vulcan!([match [[], 2] { fresh_name_9 => { append(fresh_name_9, x, [2]), conde { [[fresh_name_9 != x], x == x], fresh_name_9 == [_] } }, [[h, y, 2], [], x] | _ => , }])
 }
 pub fn case_450(vars: &Vars) -> InferredGoal<DU, DE, Goal<DU, DE>> {
     let q = vars.v[0].clone();
     let x = vars.v[1].clone();
-    proto_vulcan!([matche q { t => , h | [y, [1 | _]] => { q == [q, 3, x | q], true }, }, |z| { conde { [[] == _, |tz| { [2, 1, 2, 2] != [2, 1 | tz], tz == [2, 2] }], [conde { [[false, _] != z, ['a', q, [] | z] == z], |tz| { [3, 3, 3, 1] != [3, 3 | tz], tz == [3, 1] } }, matche q { [[z, "bc", _], [y, 2 | 1] | 1] => { member(z, [1]) }, [[h, z], 1, 1] => , }], 'a' == z }, x == [x | q] }])
+    proto_vulcan!([x == [[_, q]], _ == q, conde { |y| { q != q, append(x, q, [3, 3]) }, [], conde { [|z| { q == x, |tz| { [2 | tz] != [2, 3, 2], tz == [3, 2] } }, |h| { append(h, q, []) }], |x, y| { y == q } } }, closure { x == [q, q, [] | q] }])
 }
 pub fn case_451(vars: &Vars) -> InferredGoal<DU, DE, Goal<DU, DE>> {
     let q = vars.v[0].clone();
     let x = vars.v[1].clone();
-    proto_vulcan!([matche q { t => , h | [y, [1 | _]] => { q == [q, 3, x | q], true }, }, |fresh_name_9| { conde { [[] == _, |tz| { [2, 1, 2, 2] != [2, 1 | tz], tz == [2, 2] }], [conde { [[false, _] != fresh_name_9, ['a', q, [] | fresh_name_9] == fresh_name_9], |tz| { [3, 3, 3, 1] != [3, 3 | tz], tz == [3, 1] } }, matche q { [[z, "bc", _], [y, 2 | 1] | 1] => { member(z, [1]) }, [[h, z], 1, 1] => , }], 'a' == fresh_name_9 }, x == [x | q] }])
+    proto_vulcan!([x == [[_, q]], _ == q, conde { |y| { q != q, append(x, q, [3, 3]) }, [], conde { [|z| { q == x, |tz| { [2 | tz] != [2, 3, 2], tz == [3, 2] } }, |h| { append(h, q, []) }], |fresh_name_9, y| { y == q } } }, closure { x == [q, q, [] | q] }])
 }
 pub fn case_452(vars: &Vars) -> InferredGoal<DU, DE, Goal<DU, DE>> {
-    let x = vars.v[0].clone();
-    proto_vulcan!([match [[], 2] { [[false, z, 1], t] => [[z != z, x == t, match t { h => , }], |t| { false, false, [false] }], [[x], 2, [y, _, 3 | x] | _] => , }])
+    let q = vars.v[0].clone();
+    let x = vars.v[1].clone();
+    proto_vulcan!([member(x, [2, 1, 2]), |t, z| { [_ | x] == [[3], [2]], match t { [true, [1, z | _]] => , [z, [1, 1, 2], [h] | t] => { [1] != z }, }, match x { 2 => , [[h]] => , [1, h] | _ => t == t, } }])
 }
 pub fn case_453(vars: &Vars) -> InferredGoal<DU, DE, Goal<DU, DE>> {
-    let x = vars.v[0].clone();
-    proto_vulcan!([match [[], 2] { [[false, z, 1], t] => [[z != z, x == t, match t { fresh_name_9 => , }], |t| { false, false, [false] }], [[x], 2, [y, _, 3 | x] | _] => , }])
+    let q = vars.v[0].clone();
+    let x = vars.v[1].clone();
+    proto_vulcan!([member(x, [2, 1, 2]), |fresh_name_9, z| { [_ | x] == [[3], [2]], match fresh_name_9 { [true, [1, z | _]] => , [z, [1, 1, 2], [h] | t] => { [1] != z }, }, match x { 2 => , [[h]] => , [1, h] | _ => fresh_name_9 == fresh_name_9, } }])
 }
 pub fn case_454(vars: &Vars) -> InferredGoal<DU, DE, Goal<DU, DE>> {
-    let q = vars.v[0].clone();
-    let x = vars.v[1].clone();
-    proto_vulcan!([x == [[_, q]], _ == q, conde { [[matche 3 { [x, [z, 1, h]] => [z | 2] != x, [[z, x], [1, y]] => { z == [[x], [2 | y], ["a" | q]] }, }, [x, "bc", [2]] == x], [match x { [[y, 1, "a"], [1, 1, true], ["bc" | false]] => { [[x], 'b'] == [[3, 3], [] | y] }, }, |tz| { [2, 3, 3] != [2, 3 | tz], tz == [3] }]], [2 == q, matche x { _ => [match q { _ => [q == [2, q, 1], [3, [] | x] == q], }, |x| { [2, false | x] == x }], }], [matche x { [[2], [1, 2, 2 | _]] | _ => , [[1, t, x], "a"] => [3] == [x], }, [[3, 2 | x] != x]] }, closure { conde { [x == [1], match x { x => 2 != x, h => [x, q] == x, [z | y] => { append(y, x, []), q == [_, x] }, }], |x, z| { [["a", 1], [false], []] == [3, x, 2], z == x, "bc" == x }, [match x { false => , [2] => [|tz| { tz == [2, 2], [3, 2, 2] != [3 | tz] }, q == ['b', false, 2 | q]], }, |h| { q == x }] } }])
+    let x = vars.v[0].clone();
+    proto_vulcan!([conde { [matche x { [[3, [] | z]] => { [[z] == z, [[z, z, 'a'], [[], 3, x]] == [x]], |x, h| { 1 == [z], _ == [z], [['b', x | z], []] != z } }, _ => matche x { [3, y, z | z] | t => { member(x, [2, 2, 1]), x == [x, x, _] }, [x, 1 | y] => [append(x, x, [3, 3]), [3, y, _] == y], [1, _, [z, [], h | y]] => { z == [2 | z] }, }, [[3, 1], x | x] => { |t, h| { x == x, false } }, }, [[2, 1, []], [x, x], [x, 3 | x]] != x], [x == ["bc"], |tz| { tz == [1], [3, 1] != [3 | tz] }] }, |t| { |t, x| { matche x { t | [[t], 1, [1, _, h] | h] => [[3, t] == t, false], }, t == x }, x == "bc" }])
 }
 pub fn case_455(vars: &Vars) -> InferredGoal<DU, DE, Goal<DU, DE>> {
-    let q = vars.v[0].clone();
-    let x = vars.v[1].clone();
-    proto_vulcan!([x == [[_, q]], _ == q, conde { [[matche 3 { [x, [z, 1, h]] => [z | 2] != x, [[z, x], [1, y]] => { z == [[x], [2 | y], ["a" | q]] }, }, [x, "bc", [2]] == x], [match x { [[y, 1, "a"], [1, 1, true], ["bc" | false]] => { [[x], 'b'] == [[3, 3], [] | y] }, }, |tz| { [2, 3, 3] != [2, 3 | tz], tz == [3] }]], [2 == q, matche x { _ => [match q { _ => [q == [2, q, 1], [3, [] | x] == q], }, |x| { [2, false | x] == x }], }], [matche x { [[2], [1, 2, 2 | _]] | _ => , [[1, t, x], "a"] => [3] == [x], }, [[3, 2 | x] != x]] }, closure { conde { [x == [1], match x { x => 2 != x, h => [x, q] == x, [z | y] => { append(y, x, []), q == [_, x] }, }], |x, z| { [["a", 1], [false], []] == [3, x, 2], z == x, "bc" == x }, [match x { false => , [2] => [|tz| { tz == [2, 2], [3, 2, 2] != [3 | tz] }, q == ['b', false, 2 | q]], }, |fresh_name_9| { q == x }] } }])
+    let x = vars.v[0].clone();
+    proto_vulcan!([conde { [matche x { [[3, [] | z]] => { [[z] == z, [[z, z, 'a'], [[], 3, x]] == [x]], |x, h| { 1 == [z], _ == [z], [['b', x | z], []] != z } }, _ => matche x { [3, y, z | z] | t => { member(x, [2, 2, 1]), x == [x, x, _] }, [x, 1 | y] => [append(x, x, [3, 3]), [3, y, _] == y], [1, _, [z, [], h | fresh_name_9]] => { z == [2 | z] }, }, [[3, 1], x | x] => { |t, h| { x == x, false } }, }, [[2, 1, []], [x, x], [x, 3 | x]] != x], [x == ["bc"], |tz| { tz == [1], [3, 1] != [3 | tz] }] }, |t| { |t, x| { matche x { t | [[t], 1, [1, _, h] | h] => [[3, t] == t, false], }, t == x }, x == "bc" }])
 }
 pub fn case_456(vars: &Vars) -> InferredGoal<DU, DE, Goal<DU, DE>> {
     let q = vars.v[0].clone();
     let x = vars.v[1].clone();
-    proto_vulcan!([member(x, [2, 1, 2]), |t, z| { |t| { [[true, t], 2] == t, conde { [true, [1, t | t]] == z, x == [[_, 1]] }, |tz| { [1 | tz] != [1, 3, 1], tz == [3, 1] } } }])
+    proto_vulcan!([|t| { matche x { _ => { member(x, [1, 2, 3]) }, _ => { member(t, [1, 2, 3]) }, }, |t| { _ != t, [true], x != [["a", [], _] | 'a'] }, _ == "a" }, [_, q] == x, |tz| { tz == [3], [2 | tz] != [2, 3] }])
 }
 pub fn case_457(vars: &Vars) -> InferredGoal<DU, DE, Goal<DU, DE>> {
     let q = vars.v[0].clone();
     let x = vars.v[1].clone();
-    proto_vulcan!([member(x, [2, 1, 2]), |t, z| { |fresh_name_9| { [[true, fresh_name_9], 2] == fresh_name_9, conde { [true, [1, fresh_name_9 | fresh_name_9]] == z, x == [[_, 1]] }, |tz| { [1 | tz] != [1, 3, 1], tz == [3, 1] } } }])
+    proto_vulcan!([|t| { matche x { _ => { member(x, [1, 2, 3]) }, _ => { member(t, [1, 2, 3]) }, }, |fresh_name_9| { _ != fresh_name_9, [true], x != [["a", [], _] | 'a'] }, _ == "a" }, [_, q] == x, |tz| { tz == [3], [2 | tz] != [2, 3] }])
 }
 pub fn case_458(vars: &Vars) -> InferredGoal<DU, DE, Goal<DU, DE>> {
     let x = vars.v[0].clone();
-    proto_vulcan!([conde { [] == x, [x != [], [|h, t| { x != [2, x | h], append(h, h, [3, 2]) }, [member(x, [2]), x == [x, "bc", 3]]]], x == [x] }, x == [x]])
+    proto_vulcan!([x == [_], |tz| { [1 | tz] != [1, 3], tz == [3] }, closure { match x { [false, [z, [], 3 | h], [[], 2]] | [["bc" | _], true | h] => , [y, h] => { |h| { false, false } }, [[]] => { conde { [x != x, x == []] }, [append(x, x, [1]), false] }, } }])
 }
 pub fn case_459(vars: &Vars) -> InferredGoal<DU, DE, Goal<DU, DE>> {
     let x = vars.v[0].clone();
-    proto_vulcan!([conde { [] == x, [x != [], [|h, fresh_name_9| { x != [2, x | h], append(h, h, [3, 2]) }, [member(x, [2]), x == [x, "bc", 3]]]], x == [x] }, x == [x]])
+    proto_vulcan!([x == [_], |tz| { [1 | tz] != [1, 3], tz == [3] }, closure { match x { [false, [z, [], 3 | h], [[], 2]] | [["bc" | _], true | h] => , [fresh_name_9, h] => { |h| { false, false } }, [[]] => { conde { [x != x, x == []] }, [append(x, x, [1]), false] }, } }])
 }
 pub fn case_460(vars: &Vars) -> InferredGoal<DU, DE, Goal<DU, DE>> {
     let q = vars.v[0].clone();
     let x = vars.v[1].clone();
-    proto_vulcan!([|t| { [x == [_, t, 1], conde { [x != x, [x, [q, [], q | t]] == t], [[t, q] != t, t == q] }], x == x, matche t { x => { conde { [true, q == x], [[t, _ | false] == x, x != t] } }, ['b', ["a"], h | z] => , } }, 2 == false, match x { _ | [y, [t, 2, false], [_ | y]] => { x == [2], false }, [[1] | z] => match 2 { t => { match 2 { [[z, z], [t, t, 1 | t]] => [z == [z, _, z], t == [z]], [[_, t | x], [_, _ | y], "bc" | _] => { x == _, x == [[1], [1], [1, [] | z]] }, } }, }, }, closure { [match _ { 2 => , [[h, y, _], [_], [[]]] => { [[]] == y }, [['b'], ["a", 1 | x]] => { [|tz| { [3, 1, 3, 1] != [3, 1 | tz], tz == [3, 1] }], [member(x, []), q == 1, append(x, q, [2, 1])] }, }, x != [1, q | q]] }])
+    proto_vulcan!([|t, y| { [matche t { [[t, h, z], [[]], 3] => { y == t, member(x, [2, 2]) }, [[y, _, 3 | _]] | y => { x == "bc", append(y, t, []) }, [3 | 3] => [[[y, y]] == t, true == t], }], matche q { _ | _ => , [z, [h, x], [[], z, x]] | [[[], y], [1, 1], [h, h]] => , }, [] }, [[x], 3] == x, x == q])
 }
 pub fn case_461(vars: &Vars) -> InferredGoal<DU, DE, Goal<DU, DE>> {
     let q = vars.v[0].clone();
     let x = vars.v[1].clone();
-    proto_vulcan!([|t| { [x == [_, t, 1], conde { [x != x, [x, [q, [], q | t]] == t], [[t, q] != t, t == q] }], x == x, matche t { x => { conde { [true, q == x], [[t, _ | false] == x, x != t] } }, ['b', ["a"], h | z] => , } }, 2 == false, match x { _ | [y, [t, 2, false], [_ | y]] => { x == [2], false }, [[1] | z] => match 2 { t => { match 2 { [[z, z], [fresh_name_9, fresh_name_9, 1 | fresh_name_9]] => [z == [z, _, z], fresh_name_9 == [z]], [[_, t | x], [_, _ | y], "bc" | _] => { x == _, x == [[1], [1], [1, [] | z]] }, } }, }, }, closure { [match _ { 2 => , [[h, y, _], [_], [[]]] => { [[]] == y }, [['b'], ["a", 1 | x]] => { [|tz| { [3, 1, 3, 1] != [3, 1 | tz], tz == [3, 1] }], [member(x, []), q == 1, append(x, q, [2, 1])] }, }, x != [1, q | q]] }])
+    proto_vulcan!([|t, y| { [matche t { [[t, fresh_name_9, z], [[]], 3] => { y == t, member(x, [2, 2]) }, [[y, _, 3 | _]] | y => { x == "bc", append(y, t, []) }, [3 | 3] => [[[y, y]] == t, true == t], }], matche q { _ | _ => , [z, [h, x], [[], z, x]] | [[[], y], [1, 1], [h, h]] => , }, [] }, [[x], 3] == x, x == q])
 }
 pub fn case_462(vars: &Vars) -> InferredGoal<DU, DE, Goal<DU, DE>> {
     let x = vars.v[0].clone();
-    proto_vulcan!([x == [_], |tz| { [1 | tz] != [1, 3], tz == [3] }, closure { match x { 3 | false => { [[]] == 2, [false, 2 != x, false] }, [[t]] => { |h| { [x, x | 1] == h, h == [3], 1 == [[t, x, 3 | h], [t, x, _], [t]] } }, 3 => , } }])
+    let y = vars.v[1].clone();
+    proto_vulcan!([_ == y, |y| { conde { x != y, conde { [[x, []]] == 3, [y != y, x == [y | y]] }, y == [y, y, []] }, [false, [[_, y, x], x] != []], |h, y| {  } }, [y == x, |z| { |h| { z == [[3, _, []], ['b'], [y | z]], z == x, h == y } }]])
 }
 pub fn case_463(vars: &Vars) -> InferredGoal<DU, DE, Goal<DU, DE>> {
     let x = vars.v[0].clone();
-    proto_vulcan!([x == [_], |fresh_name_9| { [1 | fresh_name_9] != [1, 3], fresh_name_9 == [3] }, closure { match x { 3 | false => { [[]] == 2, [false, 2 != x, false] }, [[t]] => { |h| { [x, x | 1] == h, h == [3], 1 == [[t, x, 3 | h], [t, x, _], [t]] } }, 3 => , } }])
+    let y = vars.v[1].clone();
+    proto_vulcan!([_ == y, |y| { conde { x != y, conde { [[x, []]] == 3, [y != y, x == [y | y]] }, y == [y, y, []] }, [false, [[_, y, x], x] != []], |h, y| {  } }, [y == x, |z| { |fresh_name_9| { z == [[3, _, []], ['b'], [y | z]], z == x, fresh_name_9 == y } }]])
 }
 pub fn case_464(vars: &Vars) -> InferredGoal<DU, DE, Goal<DU, DE>> {
-    let q = vars.v[0].clone();
-    let x = vars.v[1].clone();
-    proto_vulcan!([|t, y| { [matche y { [[z, y]] => { [y, z] == q }, x => , }, member(t, [2, 2])], true }, [_, ["a", "a", q]] == x, match x { [h, t] => , 2 | 2 => { conde { [conde { [q != 1, |tz| { tz == [3, 3], [3 | tz] != [3, 3, 3] }], [true, append(q, x, [])], q == [3] }, |h| { append(q, h, [1, 1]), [[[], h], [1, 1], [x, h]] != x, |tz| { tz == [3], [1, 3] != [1 | tz] } }], [[|tz| { tz == [3], [3, 1, 3] != [3, 1 | tz] }], [x, q, x] == q], match x { [[], t, [1]] => { [q, 1, 2] == t, |tz| { [3, 2 | tz] != [3, 2, 3], tz == [3] } }, } }, matche q { h | [t] => , } }, [[true, 3 | h], [], [_]] => { [|z, x| { member(h, []), true }, [2] == x, [h] == [[x]]] }, }])
+    let x = vars.v[0].clone();
+    proto_vulcan!([[[2], [_, x, 2], [2]] == [x, 3, []], append(x, x, [2, 1]), |tz| { [2, 3 | tz] != [2, 3, 3, 3], tz == [3, 3] }, closure { true }])
 }
 pub fn case_465(vars: &Vars) -> InferredGoal<DU, DE, Goal<DU, DE>> {
-    let q = vars.v[0].clone();
-    let x = vars.v[1].clone();
-    proto_vulcan!([|t, y| { [matche y { [[z, y]] => { [y, z] == q }, x => , }, member(t, [2, 2])], true }, [_, ["a", "a", q]] == x, match x { [h, t] => , 2 | 2 => { conde { [conde { [q != 1, |tz| { tz == [3, 3], [3 | tz] != [3, 3, 3] }], [true, append(q, x, [])], q == [3] }, |h| { append(q, h, [1, 1]), [[[], h], [1, 1], [x, h]] != x, |fresh_name_9| { fresh_name_9 == [3], [1, 3] != [1 | fresh_name_9] } }], [[|tz| { tz == [3], [3, 1, 3] != [3, 1 | tz] }], [x, q, x] == q], match x { [[], t, [1]] => { [q, 1, 2] == t, |tz| { [3, 2 | tz] != [3, 2, 3], tz == [3] } }, } }, matche q { h | [t] => , } }, [[true, 3 | h], [], [_]] => { [|z, x| { member(h, []), true }, [2] == x, [h] == [[x]]] }, }])
+    let x = vars.v[0].clone();
+    proto_vulcan!([[[2], [_, x, 2], [2]] == [x, 3, []], append(x, x, [2, 1]), |fresh_name_9| { [2, 3 | fresh_name_9] != [2, 3, 3, 3], fresh_name_9 == [3, 3] }, closure { true }])
 }
 pub fn case_466(vars: &Vars) -> InferredGoal<DU, DE, Goal<DU, DE>> {
     let q = vars.v[0].clone();
     let x = vars.v[1].clone();
-    proto_vulcan!([q != x, matche x { [[1, z | _]] => |y| { [append(x, y, []), x == [z, x, 2], x != q], [member(q, [3, 2]), [1] != y] }, }, match x { [2, [2, 1, t] | _] | y => [q == [1, 3 | q], match 1 { [[_, [] | z], x, [_]] | 1 => { ['b', q, [] | q] == q }, [[t, 'b' | _]] => , }], }, closure { [|z| { x != [x, "bc", z], x == z }, |z, t| { conde { [false, _ == z], q == 2, [t != [x, [], 2], member(q, [2, 1, 1])] }, false }] }])
+    proto_vulcan!([match q { _ | [[1, h, 2 | h], [t, 1]] => |z| { _ != q }, }])
 }
 pub fn case_467(vars: &Vars) -> InferredGoal<DU, DE, Goal<DU, DE>> {
     let q = vars.v[0].clone();
     let x = vars.v[1].clone();
-    proto_vulcan!([q != x, matche x { [[1, z | _]] => |fresh_name_9| { [append(x, fresh_name_9, []), x == [z, x, 2], x != q], [member(q, [3, 2]), [1] != fresh_name_9] }, }, match x { [2, [2, 1, t] | _] | y => [q == [1, 3 | q], match 1 { [[_, [] | z], x, [_]] | 1 => { ['b', q, [] | q] == q }, [[t, 'b' | _]] => , }], }, closure { [|z| { x != [x, "bc", z], x == z }, |z, t| { conde { [false, _ == z], q == 2, [t != [x, [], 2], member(q, [2, 1, 1])] }, false }] }])
+    proto_vulcan!([match q { _ | [[1, h, 2 | h], [t, 1]] => |fresh_name_9| { _ != q }, }])
 }
 pub fn case_468(vars: &Vars) -> InferredGoal<DU, DE, Goal<DU, DE>> {
     let x = vars.v[0].clone();
-    let y = vars.v[1].clone();
-    proto_vulcan!([_ == y, |y| { |y| { y == y }, conde { conde { false, [[x, []]] == 3, [y == [y, x, x], ['a', x] != y] }, [matche y { [[_], [t, 1 | 2]] | [[], [3 | y], []] => { [x, 3] == [_, []], [x | x] == x }, [["a", 1, []], ['b'], [t | h]] | 1 => member(y, [2, 1, 3]), }, |y| { 'b' == y }] } }, y == [3, x, _], closure { 1 != x }])
+    proto_vulcan!([match [x, 2] { _ | [x, y | h] => , [2, [_], [t, 2, z]] | _ => [[["bc", 1 | x]] == x, |y| { |z| { x == [z, y, 2] }, [true] }], [[x], 1, [t]] => x == [[x, _, 3], "bc"], }, [_ | x] != x, closure { [matche ["bc"] { 1 => [[1] | x] == x, [[], z | t] => , [[3, 2, z], [[], x, _]] | x => , }, matche [x, x, 2] { "bc" => { conde { [member(x, [1]), [2] == x], x == [x, 1, 1 | x], [] }, x == x }, }] }])
 }
 pub fn case_469(vars: &Vars) -> InferredGoal<DU, DE, Goal<DU, DE>> {
     let x = vars.v[0].clone();
-    let y = vars.v[1].clone();
-    proto_vulcan!([_ == y, |fresh_name_9| { |y| { y == y }, conde { conde { false, [[x, []]] == 3, [fresh_name_9 == [fresh_name_9, x, x], ['a', x] != fresh_name_9] }, [matche fresh_name_9 { [[_], [t, 1 | 2]] | [[], [3 | y], []] => { [x, 3] == [_, []], [x | x] == x }, [["a", 1, []], ['b'], [t | h]] | 1 => member(fresh_name_9, [2, 1, 3]), }, |y| { 'b' == y }] } }, y == [3, x, _], closure { 1 != x }])
+    proto_vulcan!([match [x, 2] { _ | [x, y | h] => , [2, [_], [t, 2, z]] | _ => [[["bc", 1 | x]] == x, |y| { |z| { x == [z, y, 2] }, [true] }], [[fresh_name_9], 1, [t]] => fresh_name_9 == [[fresh_name_9, _, 3], "bc"], }, [_ | x] != x, closure { [matche ["bc"] { 1 => [[1] | x] == x, [[], z | t] => , [[3, 2, z], [[], x, _]] | x => , }, matche [x, x, 2] { "bc" => { conde { [member(x, [1]), [2] == x], x == [x, 1, 1 | x], [] }, x == x }, }] }])
 }
 pub fn case_470(vars: &Vars) -> InferredGoal<DU, DE, Goal<DU, DE>> {
-    let x = vars.v[0].clone();
-    proto_vulcan!([[[2], [_, x, 2], [2]] == [x, 3, []], append(x, x, [2, 1]), |tz| { [2, 3 | tz] != [2, 3, 3, 3], tz == [3, 3] }, closure { true }])
+    let q = vars.v[0].clone();
+    let x = vars.v[1].clone();
+    proto_vulcan!([conde { q == x, [matche q { _ => , [[x] | _] | _ => , }, |t, h| { x == [t, x], matche [_, h | x] { [_, [t, 1], [x, 3, z]] => { member(t, [3, 1, 3]), 1 != 2 }, ['a', [true, y, []], _ | z] => [[2, [1, 'b', _ | h], [3 | q] | y] == 1, [] == z], }, 3 == t }] }, closure { matche x { [[[] | _]] => , } }])
 }
 pub fn case_471(vars: &Vars) -> InferredGoal<DU, DE, Goal<DU, DE>> {
-    let x = vars.v[0].clone();
-    proto_vulcan!([[[2], [_, x, 2], [2]] == [x, 3, []], append(x, x, [2, 1]), |fresh_name_9| { [2, 3 | fresh_name_9] != [2, 3, 3, 3], fresh_name_9 == [3, 3] }, closure { true }])
+    let q = vars.v[0].clone();
+    let x = vars.v[1].clone();
+    proto_vulcan!([conde { q == x, [matche q { _ => , [[x] | _] | _ => , }, |t, fresh_name_9| { x == [t, x], matche [_, fresh_name_9 | x] { [_, [t, 1], [x, 3, z]] => { member(t, [3, 1, 3]), 1 != 2 }, ['a', [true, y, []], _ | z] => [[2, [1, 'b', _ | fresh_name_9], [3 | q] | y] == 1, [] == z], }, 3 == t }] }, closure { matche x { [[[] | _]] => , } }])
 }
 pub fn case_472(vars: &Vars) -> InferredGoal<DU, DE, Goal<DU, DE>> {
-    let x = vars.v[0].clone();
-    proto_vulcan!([match [x, 2] { h | _ => , [y] | ["a", [h, _]] => { x != "bc", |x| { x == x, [member(x, [])], x == [x] } }, [[t, 1, _], 2, "bc" | h] => , }, x != x])
+    let q = vars.v[0].clone();
+    let x = vars.v[1].clone();
+    proto_vulcan!([1 == q, append(q, q, [2]), closure { |x| {  } }])
 }
 pub fn case_473(vars: &Vars) -> InferredGoal<DU, DE, Goal<DU, DE>> {
-    let x = vars.v[0].clone();
-    proto_vulcan!([match [x, 2] { h | _ => , [y] | ["a", [h, _]] => { x != "bc", |fresh_name_9| { fresh_name_9 == fresh_name_9, [member(fresh_name_9, [])], fresh_name_9 == [fresh_name_9] } }, [[t, 1, _], 2, "bc" | h] => , }, x != x])
+    let q = vars.v[0].clone();
+    let x = vars.v[1].clone();
+    proto_vulcan!([1 == q, append(q, q, [2]), closure { |fresh_name_9| {  } }])
 }
 pub fn case_474(vars: &Vars) -> InferredGoal<DU, DE, Goal<DU, DE>> {
     let q = vars.v[0].clone();
     let x = vars.v[1].clone();
-    proto_vulcan!([conde { false, matche x { [x, z] => , [z, [], [] | h] => [|tz| { tz == [2, 1], [2, 1, 2, 1] != [2, 1 | tz] }], [[2], [1 | 2], ['a']] => , } }])
+    proto_vulcan!([|x, z| { ["a"] == x, |z, x| { [[1], ['a' | x], []] == x, match z { 2 | [[y, 3, _] | t] => { x == [1 | x], q != [true, q] }, [["a", _], z | 1] | _ => , }, match [x, _] { x | [[1 | t], 2] => [[z, q | q] == z, z == [z, 3]], } } }, [q] == q, q == [q | q]])
 }
 pub fn case_475(vars: &Vars) -> InferredGoal<DU, DE, Goal<DU, DE>> {
     let q = vars.v[0].clone();
     let x = vars.v[1].clone();
-    proto_vulcan!([conde { false, matche x { [x, z] => , [z, [], [] | fresh_name_9] => [|tz| { tz == [2, 1], [2, 1, 2, 1] != [2, 1 | tz] }], [[2], [1 | 2], ['a']] => , } }])
+    proto_vulcan!([|x, fresh_name_9| { ["a"] == x, |z, x| { [[1], ['a' | x], []] == x, match z { 2 | [[y, 3, _] | t] => { x == [1 | x], q != [true, q] }, [["a", _], z | 1] | _ => , }, match [x, _] { x | [[1 | t], 2] => [[z, q | q] == z, z == [z, 3]], } } }, [q] == q, q == [q | q]])
 }
 pub fn case_476(vars: &Vars) -> InferredGoal<DU, DE, Goal<DU, DE>> {
     let q = vars.v[0].clone();
     let x = vars.v[1].clone();
-    proto_vulcan!([conde { member(x, []), match x { [[_, t], [1 | h], [h]] => { [[t]] == x, false }, [x, [x, [], x], _] => [member(x, []), _ == [2, x, "bc" | x]], [h, z, x] => _ == x, }, [x == [x, []], [3, q, x] == q] }, closure { [3 == x, x != q] }])
+    proto_vulcan!([[x == q, |t, x| { |t, h| { true, x == [[1 | t]], |tz| { tz == [1], [2 | tz] != [2, 1] } }, [member(t, [3, 1, 1]), t == 1], matche x { _ => { q == 7, q == 8 }, [[], [] | y] => { x == 2, 1 != [[[], _, t | x] | x] }, [y, [1, true | 1], false] => [[3] == y, [[2, x, 1], y] == t], } }, false], x == 'b'])
 }
 pub fn case_477(vars: &Vars) -> InferredGoal<DU, DE, Goal<DU, DE>> {
     let q = vars.v[0].clone();
     let x = vars.v[1].clone();
-    proto_vulcan!([conde { member(x, []), match x { [[_, t], [1 | h], [h]] => { [[t]] == x, false }, [x, [x, [], x], _] => [member(x, []), _ == [2, x, "bc" | x]], [fresh_name_9, z, x] => _ == x, }, [x == [x, []], [3, q, x] == q] }, closure { [3 == x, x != q] }])
+    proto_vulcan!([[x == q, |t, x| { |t, h| { true, x == [[1 | t]], |tz| { tz == [1], [2 | tz] != [2, 1] } }, [member(t, [3, 1, 1]), t == 1], matche x { _ => { q == 7, q == 8 }, [[], [] | y] => { x == 2, 1 != [[[], _, t | x] | x] }, [fresh_name_9, [1, true | 1], false] => [[3] == fresh_name_9, [[2, x, 1], fresh_name_9] == t], } }, false], x == 'b'])
 }
 pub fn case_478(vars: &Vars) -> InferredGoal<DU, DE, Goal<DU, DE>> {
-    let q = vars.v[0].clone();
-    let x = vars.v[1].clone();
-    proto_vulcan!([1 == q, append(q, q, [2]), closure { |x| { |y| { [_ | x] == y, [q] == x, append(x, y, [3, 3]) } } }])
+    let x = vars.v[0].clone();
+    proto_vulcan!([x == [_, x, x], |z, x| { z == 3, [x] == x }, |x| { [x, []] != x, [[x, 2], _] == x, x == 1 }])
 }
 pub fn case_479(vars: &Vars) -> InferredGoal<DU, DE, Goal<DU, DE>> {
-    let q = vars.v[0].clone();
-    let x = vars.v[1].clone();
-    proto_vulcan!([1 == q, append(q, q, [2]), closure { |fresh_name_9| { |y| { [_ | fresh_name_9] == y, [q] == fresh_name_9, append(fresh_name_9, y, [3, 3]) } } }])
+    let x = vars.v[0].clone();
+    proto_vulcan!([x == [_, x, x], |fresh_name_9, x| { fresh_name_9 == 3, [x] == x }, |x| { [x, []] != x, [[x, 2], _] == x, x == 1 }])
 }
 pub fn case_480(vars: &Vars) -> InferredGoal<DU, DE, Goal<DU, DE>> {
-    let q = vars.v[0].clone();
-    let x = vars.v[1].clone();
-    proto_vulcan!([|x, z| { |y, x| { [2, [] | y] == x, [[1], ['a' | x], []] == x }, match z { [["bc", 2]] | [_, ["bc", y], [[], y, 1 | x]] => , [[true, h], [x, 'b' | h], [y, z, _]] | y => match [y, _] { [[2, false], [_], [2, x]] | [[z, z, 1], [3, z, []]] => { q != 2 }, }, }, [[[q, q | x] | x] != [x, x, []]] }, |tz| { tz == [3], [2, 2, 3] != [2, 2 | tz] }, [x, q | q] != q, closure { [|h| { h == 'b', [3] == x, true }, x == q] }])
+    let x = vars.v[0].clone();
+    let y = vars.v[1].clone();
+    proto_vulcan!([conde { [], |x| { [y == [[]]], [x] == x, [y == [_, _, x | x]] }, x == 2 }, conde { [x == 1, |h, t| {  }], x == x }, x == [x, true | x]])
 }
 pub fn case_481(vars: &Vars) -> InferredGoal<DU, DE, Goal<DU, DE>> {
-    let q = vars.v[0].clone();
-    let x = vars.v[1].clone();
-    proto_vulcan!([|x, z| { |y, x| { [2, [] | y] == x, [[1], ['a' | x], []] == x }, match z { [["bc", 2]] | [_, ["bc", y], [[], y, 1 | x]] => , [[true, h], [x, 'b' | h], [y, z, _]] | y => match [y, _] { [[2, false], [_], [2, x]] | [[z, z, 1], [3, z, []]] => { q != 2 }, }, }, [[[q, q | x] | x] != [x, x, []]] }, |tz| { tz == [3], [2, 2, 3] != [2, 2 | tz] }, [x, q | q] != q, closure { [|fresh_name_9| { fresh_name_9 == 'b', [3] == x, true }, x == q] }])
+    let x = vars.v[0].clone();
+    let y = vars.v[1].clone();
+    proto_vulcan!([conde { [], |x| { [y == [[]]], [x] == x, [y == [_, _, x | x]] }, x == 2 }, conde { [x == 1, |fresh_name_9, t| {  }], x == x }, x == [x, true | x]])
 }
 pub fn case_482(vars: &Vars) -> InferredGoal<DU, DE, Goal<DU, DE>> {
     let q = vars.v[0].clone();
     let x = vars.v[1].clone();
-    proto_vulcan!([[conde { [[q, q] == x, |t, h| { [] == x }], [false, conde { x == 'a', [append(q, x, [2]), member(x, [1, 1])] }], q == q }], matche x { "bc" => [] == x, 'a' => { conde { [conde { false, true, [x == [[], [x | q], x], member(x, [3, 2, 2])] }, q == 2], [["bc", x, x | x] == q, |t| { 2 == t, append(q, x, [3]), |tz| { [2, 2, 2] != [2, 2 | tz], tz == [2] } }] }, x == [[], [[], 2], 2] }, ["bc" | t] => { |tz| { [3, 3] != [3 | tz], tz == [3] } }, }, closure { [|x| { [q == 3, [x] == [[]]], x == 1 }, q == x] }])
+    proto_vulcan!([x != 1, x == q, closure { conde { |x, z| { member(x, []) }, match [_, x] { h => q == x, [h, [y, t, 1], ['b']] => [x == true, member(h, [3, 2])], _ => { append(x, q, []), [3, [q] | q] == [[[]], x] }, } } }])
 }
 pub fn case_483(vars: &Vars) -> InferredGoal<DU, DE, Goal<DU, DE>> {
     let q = vars.v[0].clone();
     let x = vars.v[1].clone();
-    proto_vulcan!([[conde { [[q, q] == x, |t, h| { [] == x }], [false, conde { x == 'a', [append(q, x, [2]), member(x, [1, 1])] }], q == q }], matche x { "bc" => [] == x, 'a' => { conde { [conde { false, true, [x == [[], [x | q], x], member(x, [3, 2, 2])] }, q == 2], [["bc", x, x | x] == q, |t| { 2 == t, append(q, x, [3]), |tz| { [2, 2, 2] != [2, 2 | tz], tz == [2] } }] }, x == [[], [[], 2], 2] }, ["bc" | fresh_name_9] => { |tz| { [3, 3] != [3 | tz], tz == [3] } }, }, closure { [|x| { [q == 3, [x] == [[]]], x == 1 }, q == x] }])
+    proto_vulcan!([x != 1, x == q, closure { conde { |x, z| { member(x, []) }, match [_, x] { h => q == x, [fresh_name_9, [y, t, 1], ['b']] => [x == true, member(fresh_name_9, [3, 2])], _ => { append(x, q, []), [3, [q] | q] == [[[]], x] }, } } }])
 }
 pub fn case_484(vars: &Vars) -> InferredGoal<DU, DE, Goal<DU, DE>> {
     let x = vars.v[0].clone();
-    proto_vulcan!([x == [_, x, x], |z, x| { conde { [matche x { [h, [true, "bc", 2]] | 3 => { [x, []] != x }, t => { false, [_, x] == t }, [[_], 1] => , }, conde { append(x, x, [2]), 1 == x }], [matche [x, false] { _ => _ == x, }, match z { [1, [x, [], 2], _] => [x, [], z | _] != x, z => { [[1], [z, z, z]] == [[1, x, x | z], [z, x, 2]] }, }], 1 == x }, member(z, [2, 3]) }, [x] != x])
+    proto_vulcan!([x == x, matche x { [[2, z, z], [2, 2, 2 | _], y] => { true }, _ => { member(x, [1, 2, 3]) }, [3] => , }])
 }
 pub fn case_485(vars: &Vars) -> InferredGoal<DU, DE, Goal<DU, DE>> {
     let x = vars.v[0].clone();
-    proto_vulcan!([x == [_, x, x], |z, x| { conde { [matche x { [h, [true, "bc", 2]] | 3 => { [x, []] != x }, t => { false, [_, x] == t }, [[_], 1] => , }, conde { append(x, x, [2]), 1 == x }], [matche [x, false] { _ => _ == x, }, match z { [1, [x, [], 2], _] => [x, [], z | _] != x, fresh_name_9 => { [[1], [fresh_name_9, fresh_name_9, fresh_name_9]] == [[1, x, x | fresh_name_9], [fresh_name_9, x, 2]] }, }], 1 == x }, member(z, [2, 3]) }, [x] != x])
+    proto_vulcan!([x == x, matche x { [[2, fresh_name_9, fresh_name_9], [2, 2, 2 | _], y] => { true }, _ => { member(x, [1, 2, 3]) }, [3] => , }])
 }
 pub fn case_486(vars: &Vars) -> InferredGoal<DU, DE, Goal<DU, DE>> {
     let x = vars.v[0].clone();
-    proto_vulcan!([x != [], [[[append(x, x, []), [x, x | x] == x, |tz| { tz == [3, 1], [2, 3 | tz] != [2, 3, 3, 1] }], matche [_, 2] { [x] => , }, |t| { |tz| { tz == [3], [3 | tz] != [3, 3] }, t == [[_, x], [[]], [x, 2, 1] | t] }], conde { [x == [[], x], x == x], [conde { [x != [x, x], x == [x, 3, x]], [x == 1, [x, x | x] == x], x == x }, conde { [true, x == true], [2 != "a", x != [2, 2, 2]], [[2, 1, _] == [['a', x, x], [_], [_ | x]], [x, _, 1 | _] != x] }], true }], closure { [|h| { h == [[x, x | 3], h], |tz| { [2, 1, 1] != [2, 1 | tz], tz == [1] } }, x == [2, 2]] }])
+    let y = vars.v[1].clone();
+    proto_vulcan!([[[[], y | x]] == [1, 'a'], matche y { [false, [t, z], [1] | h] => [matche [1] { [[3, t]] => append(x, y, [3]), }, |t| { member(z, []) }], [[z, _, y | x] | _] => { [y, x | 3] == y }, _ => { member(y, [1, 2, 3]) }, }, [[y | x]] == y])
 }
 pub fn case_487(vars: &Vars) -> InferredGoal<DU, DE, Goal<DU, DE>> {
     let x = vars.v[0].clone();
-    proto_vulcan!([x != [], [[[append(x, x, []), [x, x | x] == x, |fresh_name_9| { fresh_name_9 == [3, 1], [2, 3 | fresh_name_9] != [2, 3, 3, 1] }], matche [_, 2] { [x] => , }, |t| { |tz| { tz == [3], [3 | tz] != [3, 3] }, t == [[_, x], [[]], [x, 2, 1] | t] }], conde { [x == [[], x], x == x], [conde { [x != [x, x], x == [x, 3, x]], [x == 1, [x, x | x] == x], x == x }, conde { [true, x == true], [2 != "a", x != [2, 2, 2]], [[2, 1, _] == [['a', x, x], [_], [_ | x]], [x, _, 1 | _] != x] }], true }], closure { [|h| { h == [[x, x | 3], h], |tz| { [2, 1, 1] != [2, 1 | tz], tz == [1] } }, x == [2, 2]] }])
+    let y = vars.v[1].clone();
+    proto_vulcan!([[[[], y | x]] == [1, 'a'], matche y { [false, [t, z], [1] | h] => [matche [1] { [[3, t]] => append(x, y, [3]), }, |fresh_name_9| { member(z, []) }], [[z, _, y | x] | _] => { [y, x | 3] == y }, _ => { member(y, [1, 2, 3]) }, }, [[y | x]] == y])
 }
 pub fn case_488(vars: &Vars) -> InferredGoal<DU, DE, Goal<DU, DE>> {
-    let x = vars.v[0].clone();
-    let y = vars.v[1].clone();
-    proto_vulcan!([conde { [|tz| { tz == [2, 3], [3, 1 | tz] != [3, 1, 2, 3] }, |tz| { tz == [1], [1, 2, 1] != [1, 2 | tz] }], x == 2 }, member(y, [1]), [y == [_, _, x | x], |t, z| { [t == [y, 2, x], 3 == t], z == y }, [x == [x, true | x], |h| { y == 1 }, x == [2, x, 1]]], closure { conde { ['a' == y, [true]], y == [y | x] } }])
+    let q = vars.v[0].clone();
+    let x = vars.v[1].clone();
+    proto_vulcan!([matche q { h => [[_, 2] == x, x == [h, ["bc", q], [h, h | x]]], [[1, 3, h]] => , }])
 }
 pub fn case_489(vars: &Vars) -> InferredGoal<DU, DE, Goal<DU, DE>> {
-    let x = vars.v[0].clone();
-    let y = vars.v[1].clone();
-    proto_vulcan!([conde { [|tz| { tz == [2, 3], [3, 1 | tz] != [3, 1, 2, 3] }, |fresh_name_9| { fresh_name_9 == [1], [1, 2, 1] != [1, 2 | fresh_name_9] }], x == 2 }, member(y, [1]), [y == [_, _, x | x], |t, z| { [t == [y, 2, x], 3 == t], z == y }, [x == [x, true | x], |h| { y == 1 }, x == [2, x, 1]]], closure { conde { ['a' == y, [true]], y == [y | x] } }])
+    let q = vars.v[0].clone();
+    let x = vars.v[1].clone();
+    proto_vulcan!([matche q { h => [[_, 2] == x, x == [h, ["bc", q], [h, h | x]]], [[1, 3, fresh_name_9]] => , }])
 }
 pub fn case_490(vars: &Vars) -> InferredGoal<DU, DE, Goal<DU, DE>> {
-    let q = vars.v[0].clone();
-    let x = vars.v[1].clone();
-    proto_vulcan!([x != 1, x == q, closure { conde { |x, z| { x == [], |tz| { [1, 2, 3] != [1, 2 | tz], tz == [3] }, z == [[], [x, x | x], [_, z, x | q]] }, conde { false, [q == x, |tz| { tz == [3, 3], [3 | tz] != [3, 3, 3] }] }, [append(q, x, []), conde { [false, true], [false, [2] != [_, q]] }] } }])
+    let x = vars.v[0].clone();
+    let y = vars.v[1].clone();
+    proto_vulcan!([x != [y, y, y | 3], x == x, closure { [x == [], [matche x { [y, "a", [1, h]] => { h != x }, }]] }])
 }
 pub fn case_491(vars: &Vars) -> InferredGoal<DU, DE, Goal<DU, DE>> {
-    let q = vars.v[0].clone();
-    let x = vars.v[1].clone();
-    proto_vulcan!([x != 1, x == q, closure { conde { |x, fresh_name_9| { x == [], |tz| { [1, 2, 3] != [1, 2 | tz], tz == [3] }, fresh_name_9 == [[], [x, x | x], [_, fresh_name_9, x | q]] }, conde { false, [q == x, |tz| { tz == [3, 3], [3 | tz] != [3, 3, 3] }] }, [append(q, x, []), conde { [false, true], [false, [2] != [_, q]] }] } }])
+    let x = vars.v[0].clone();
+    let y = vars.v[1].clone();
+    proto_vulcan!([x != [y, y, y | 3], x == x, closure { [x == [], [matche x { [fresh_name_9, "a", [1, h]] => { h != x }, }]] }])
 }
 pub fn case_492(vars: &Vars) -> InferredGoal<DU, DE, Goal<DU, DE>> {
     let x = vars.v[0].clone();
-    proto_vulcan!([member(x, []), match x { z => [x == [2], 2 == [[], x]], [[2, _, "a"], [t, _, h]] => [t == "bc", [|x, h| { true, x == x, append(x, h, [3]) }]], }, closure { [match x { [z, [2, t, true | x], [3, _, 3]] => [|x| { |tz| { [1, 1, 3, 1] != [1, 1 | tz], tz == [3, 1] }, x != [3, ['b' | x] | z] }, t == z], }, conde { [x != [[x, 1, x] | x], [] != x], match x { x => , [1, [t, 2]] => false, } }] }])
+    let y = vars.v[1].clone();
+    proto_vulcan!([|h, t| { h == [1 | x], [t == [], |t| { [[h, 1]] != [[_, y], [1, 1, 1], [3, y, "a" | h] | h], y == t }, |y| { 1 != h }] }, y != [[], 1, 3 | x], y != [[x] | x], closure { [[['b', "a", "bc" | x]] == _, matche y { [y, z] => , }, append(y, x, [3])] }])
 }
 pub fn case_493(vars: &Vars) -> InferredGoal<DU, DE, Goal<DU, DE>> {
     let x = vars.v[0].clone();
-    proto_vulcan!([member(x, []), match x { z => [x == [2], 2 == [[], x]], [[2, _, "a"], [t, _, h]] => [t == "bc", [|x, fresh_name_9| { true, x == x, append(x, fresh_name_9, [3]) }]], }, closure { [match x { [z, [2, t, true | x], [3, _, 3]] => [|x| { |tz| { [1, 1, 3, 1] != [1, 1 | tz], tz == [3, 1] }, x != [3, ['b' | x] | z] }, t == z], }, conde { [x != [[x, 1, x] | x], [] != x], match x { x => , [1, [t, 2]] => false, } }] }])
+    let y = vars.v[1].clone();
+    proto_vulcan!([|fresh_name_9, t| { fresh_name_9 == [1 | x], [t == [], |t| { [[fresh_name_9, 1]] != [[_, y], [1, 1, 1], [3, y, "a" | fresh_name_9] | fresh_name_9], y == t }, |y| { 1 != fresh_name_9 }] }, y != [[], 1, 3 | x], y != [[x] | x], closure { [[['b', "a", "bc" | x]] == _, matche y { [y, z] => , }, append(y, x, [3])] }])
 }
 pub fn case_494(vars: &Vars) -> InferredGoal<DU, DE, Goal<DU, DE>> {
     let x = vars.v[0].clone();
-    proto_vulcan!([x == x, matche x { [[], 2, [z]] => [z == [x, z, [true | x] | z], conde { z == 3, [z == z, |tz| { [1, 2, 2, 2] != [1, 2 | tz], tz == [2, 2] }], z != [[_, 'a', [] | z]] }], [[3, 2, y], [_, _ | _]] | z => { match 2 { 3 | [[true | _], [h]] => , } }, [y, [_, t | h], []] | [[h, t], [1, 2 | y], 1 | y] => match x { [[z]] => matche y { [z, [x], t | t] | [[h | t], [z, 'a' | false], [t, _, t] | _] => { append(z, z, [1]) }, [1, [], [z, t, t | z] | z] => { [y] == x }, 1 => , }, }, }])
+    let y = vars.v[1].clone();
+    proto_vulcan!([|tz| { tz == [1], [2, 3, 1] != [2, 3 | tz] }, conde { [], [y == [y, 3, 2], match x { [[_, 1, [] | t]] => , 2 => , _ => matche y { [[[], []], [[], 3, []]] => [y == [y, x], [[2, 2], [2, 2 | x] | x] != y], y | [[z, 2, "a"] | z] => { "bc" == x, x != [2] }, }, }] }, [y != ["a"], |h| { |h, z| { h == [y, 1], h != h, h == [[_, 2], [z | h], [[] | z] | z] }, matche h { true => [y == [[x, [], 2], [[], 2 | 1]], h != [[]]], _ => member(h, [1, 2, 3]), } }]])
 }
 pub fn case_495(vars: &Vars) -> InferredGoal<DU, DE, Goal<DU, DE>> {
     let x = vars.v[0].clone();
-    proto_vulcan!([x == x, matche x { [[], 2, [fresh_name_9]] => [fresh_name_9 == [x, fresh_name_9, [true | x] | fresh_name_9], conde { fresh_name_9 == 3, [fresh_name_9 == fresh_name_9, |tz| { [1, 2, 2, 2] != [1, 2 | tz], tz == [2, 2] }], fresh_name_9 != [[_, 'a', [] | fresh_name_9]] }], [[3, 2, y], [_, _ | _]] | z => { match 2 { 3 | [[true | _], [h]] => , } }, [y, [_, t | h], []] | [[h, t], [1, 2 | y], 1 | y] => match x { [[z]] => matche y { [z, [x], t | t] | [[h | t], [z, 'a' | false], [t, _, t] | _] => { append(z, z, [1]) }, [1, [], [z, t, t | z] | z] => { [y] == x }, 1 => , }, }, }])
+    let y = vars.v[1].clone();
+    proto_vulcan!([|fresh_name_9| { fresh_name_9 == [1], [2, 3, 1] != [2, 3 | fresh_name_9] }, conde { [], [y == [y, 3, 2], match x { [[_, 1, [] | t]] => , 2 => , _ => matche y { [[[], []], [[], 3, []]] => [y == [y, x], [[2, 2], [2, 2 | x] | x] != y], y | [[z, 2, "a"] | z] => { "bc" == x, x != [2] }, }, }] }, [y != ["a"], |h| { |h, z| { h == [y, 1], h != h, h == [[_, 2], [z | h], [[] | z] | z] }, matche h { true => [y == [[x, [], 2], [[], 2 | 1]], h != [[]]], _ => member(h, [1, 2, 3]), } }]])
 }
 pub fn case_496(vars: &Vars) -> InferredGoal<DU, DE, Goal<DU, DE>> {
     let x = vars.v[0].clone();
     let y = vars.v[1].clone();
-    proto_vulcan!([[[[], y | x]] == [1, 'a'], matche y { [[false, 2, t | h], [t, 1]] => { [|t| { y != [1, h, 3 | t], 'a' == h }, |x| { |tz| { [1 | tz] != [1, 2, 3], tz == [2, 3] } }, [false, append(h, x, []), false]] }, [1] => matche y { 'a' | 2 => { [[], [[], 1, 2]] == y }, [['a', _], [x, z], 3] => |y| { append(y, x, [1]), true, z != [z, 2, 2 | "a"] }, }, [[_ | x], [x, y]] => , }, |z| { |tz| { [2, 1 | tz] != [2, 1, 3, 3], tz == [3, 3] }, x != [x, z, y], |x| { matche x { _ => { |tz| { tz == [1], [1 | tz] != [1, 1] }, [[2, 3, "a"], x | x] == y }, [h, z, [1]] => { x != _ }, [t, [2, z], []] => { true }, }, conde { [y == x, append(x, x, [])], z == y, [member(z, [3, 3]), y != [[]]] } } }])
+    proto_vulcan!([[true, x | y] == y, conde { [[member(y, [3, 2, 3])], y == x], conde { [x == [[x | x]], x == _], |z, y| { |tz| { tz == [3], [1, 1 | tz] != [1, 1, 3] }, [_, 'b'] == x }, x == [y, [], x | x] } }, [2 == y, match x { [[t, false, _ | _], 2 | y] => [matche x { _ => { x == 7, x == 8 }, ["a"] => { y != [true | t] }, [z, 2] => , }, matche y { [[x], [2, x] | x] => x == [1, x], }], }], closure { match x { [z] | [[y | 2] | h] => { member(x, [2, 1]), matche 2 { [y, [h, t, 2]] => , [["a"], [y]] => , [[3, 1], [2] | t] | [[z | _], h, 3 | x] => , } }, [x, z, [h, _]] => { [false, y == ['b', z | x]], [member(h, [1, 3]), z == [z, [z, x | x]], true != [[x], [_], [3]]] }, _ => { y == [_, [], y | y], append(y, y, [2]) }, } }])
 }
 pub fn case_497(vars: &Vars) -> InferredGoal<DU, DE, Goal<DU, DE>> {
     let x = vars.v[0].clone();
     let y = vars.v[1].clone();
-    proto_vulcan!([[[[], y | x]] == [1, 'a'], matche y { [[false, 2, t | h], [t, 1]] => { [|t| { y != [1, h, 3 | t], 'a' == h }, |x| { |tz| { [1 | tz] != [1, 2, 3], tz == [2, 3] } }, [false, append(h, x, []), false]] }, [1] => matche y { 'a' | 2 => { [[], [[], 1, 2]] == y }, [['a', _], [x, z], 3] => |y| { append(y, x, [1]), true, z != [z, 2, 2 | "a"] }, }, [[_ | x], [x, fresh_name_9]] => , }, |z| { |tz| { [2, 1 | tz] != [2, 1, 3, 3], tz == [3, 3] }, x != [x, z, y], |x| { matche x { _ => { |tz| { tz == [1], [1 | tz] != [1, 1] }, [[2, 3, "a"], x | x] == y }, [h, z, [1]] => { x != _ }, [t, [2, z], []] => { true }, }, conde { [y == x, append(x, x, [])], z == y, [member(z, [3, 3]), y != [[]]] } } }])
+    proto_vulcan!([[true, x | y] == y, conde { [[member(y, [3, 2, 3])], y == x], conde { [x == [[x | x]], x == _], |z, y| { |tz| { tz == [3], [1, 1 | tz] != [1, 1, 3] }, [_, 'b'] == x }, x == [y, [], x | x] } }, [2 == y, match x { [[t, false, _ | _], 2 | y] => [matche x { _ => { x == 7, x == 8 }, ["a"] => { y != [true | t] }, [z, 2] => , }, matche y { [[x], [2, x] | x] => x == [1, x], }], }], closure { match x { [z] | [[y | 2] | h] => { member(x, [2, 1]), matche 2 { [fresh_name_9, [h, t, 2]] => , [["a"], [y]] => , [[3, 1], [2] | t] | [[z | _], h, 3 | x] => , } }, [x, z, [h, _]] => { [false, y == ['b', z | x]], [member(h, [1, 3]), z == [z, [z, x | x]], true != [[x], [_], [3]]] }, _ => { y == [_, [], y | y], append(y, y, [2]) }, } }])
 }
 pub fn case_498(vars: &Vars) -> InferredGoal<DU, DE, Goal<DU, DE>> {
     let q = vars.v[0].clone();
     let x = vars.v[1].clone();
-    proto_vulcan!([matche q { y => , [[]] | [2, [[], _]] => , }])
+    proto_vulcan!([matche q { _ => { |z| { x == [3, z] } }, [[1 | x]] => { x == [2, []] }, [[2, [] | z], t | _] => { x == [z, 2, q | z] }, }])
 }
 pub fn case_499(vars: &Vars) -> InferredGoal<DU, DE, Goal<DU, DE>> {
     let q = vars.v[0].clone();
     let x = vars.v[1].clone();
-    proto_vulcan!([matche q { fresh_name_9 => , [[]] | [2, [[], _]] => , }])
+    proto_vulcan!([matche q { _ => { |z| { x == [3, z] } }, [[1 | x]] => { x == [2, []] }, [[2, [] | fresh_name_9], t | _] => { x == [fresh_name_9, 2, q | fresh_name_9] }, }])
 }
 pub fn case_500(vars: &Vars) -> InferredGoal<DU, DE, Goal<DU, DE>> {
     let x = vars.v[0].clone();
     let y = vars.v[1].clone();
-    proto_vulcan!([|h, t| { t == [1 | x], [x, h, 1] == x }, true, y == [x, 2]])
+    proto_vulcan!([x == y, |z| { append(y, x, [3]) }, |tz| { [2, 1, 2] != [2, 1 | tz], tz == [2] }])
 }
 pub fn case_501(vars: &Vars) -> InferredGoal<DU, DE, Goal<DU, DE>> {
     let x = vars.v[0].clone();
     let y = vars.v[1].clone();
-    proto_vulcan!([|fresh_name_9, t| { t == [1 | x], [x, fresh_name_9, 1] == x }, true, y == [x, 2]])
+    proto_vulcan!([x == y, |fresh_name_9| { append(y, x, [3]) }, |tz| { [2, 1, 2] != [2, 1 | tz], tz == [2] }])
 }
 pub fn case_502(vars: &Vars) -> InferredGoal<DU, DE, Goal<DU, DE>> {
-    let x = vars.v[0].clone();
-    let y = vars.v[1].clone();
-    proto_vulcan!([|tz| { tz == [1], [2, 3, 1] != [2, 3 | tz] }, conde { matche y { [[h, 3, 2], 2, [1]] => { |tz| { tz == [1, 2], [1, 1, 2] != [1 | tz] }, matche [y] { [y, 3, [[], h]] => { [h | h] == [[], [[], h, 3]] }, 3 => { [h, y | 2] == y }, } }, }, [|y, t| { [[["a", false] | 3] == t] }, 1 == [1, false | x]] }, match x { 'b' | [y, [3, h | h], 'b'] => , [[y, 1], [z, 1, 3], [t] | _] | [[_, 2], [t | h], [] | _] => , }, closure { |y| { [y, _, x] != y, [[3, y | x] | 1] == 3, [false] } }])
+    let q = vars.v[0].clone();
+    let x = vars.v[1].clone();
+    proto_vulcan!([conde { |x| { q == 'b', 3 == q, conde { [[1, 3, x] == q, member(x, [])], [x, 2, 2] == q, [[[], x | x], true, 1] == [2, false] } }, [member(q, [2])], x == [x | x] }, matche q { [[_, []]] => [q == [1], x == 2], t => { x == 3 }, 'b' => { [[true != [q, 'a' | _], [1, [[], _, x] | true] == x], member(x, [1, 2]), q != [true, q, q]] }, }, [[q] == x, q == q, [] != _]])
 }
 pub fn case_503(vars: &Vars) -> InferredGoal<DU, DE, Goal<DU, DE>> {
-    let x = vars.v[0].clone();
-    let y = vars.v[1].clone();
-    proto_vulcan!([|tz| { tz == [1], [2, 3, 1] != [2, 3 | tz] }, conde { matche y { [[fresh_name_9, 3, 2], 2, [1]] => { |tz| { tz == [1, 2], [1, 1, 2] != [1 | tz] }, matche [y] { [y, 3, [[], h]] => { [h | h] == [[], [[], h, 3]] }, 3 => { [fresh_name_9, y | 2] == y }, } }, }, [|y, t| { [[["a", false] | 3] == t] }, 1 == [1, false | x]] }, match x { 'b' | [y, [3, h | h], 'b'] => , [[y, 1], [z, 1, 3], [t] | _] | [[_, 2], [t | h], [] | _] => , }, closure { |y| { [y, _, x] != y, [[3, y | x] | 1] == 3, [false] } }])
+    let q = vars.v[0].clone();
+    let x = vars.v[1].clone();
+    proto_vulcan!([conde { |fresh_name_9| { q == 'b', 3 == q, conde { [[1, 3, fresh_name_9] == q, member(fresh_name_9, [])], [fresh_name_9, 2, 2] == q, [[[], fresh_name_9 | fresh_name_9], true, 1] == [2, false] } }, [member(q, [2])], x == [x | x] }, matche q { [[_, []]] => [q == [1], x == 2], t => { x == 3 }, 'b' => { [[true != [q, 'a' | _], [1, [[], _, x] | true] == x], member(x, [1, 2]), q != [true, q, q]] }, }, [[q] == x, q == q, [] != _]])
 }
 pub fn case_504(vars: &Vars) -> InferredGoal<DU, DE, Goal<DU, DE>> {
-    let q = vars.v[0].clone();
-    let x = vars.v[1].clone();
-    proto_vulcan!([[_, _] != q, matche q { _ => { q == q }, [false, [_] | t] => , }, false])
+    let x = vars.v[0].clone();
+    proto_vulcan!([|tz| { tz == [3, 3], [3 | tz] != [3, 3, 3] }, [[], 1] != x])
 }
 pub fn case_505(vars: &Vars) -> InferredGoal<DU, DE, Goal<DU, DE>> {
-    let q = vars.v[0].clone();
-    let x = vars.v[1].clone();
-    proto_vulcan!([[_, _] != q, matche q { _ => { q == q }, [false, [_] | fresh_name_9] => , }, false])
+    let x = vars.v[0].clone();
+    proto_vulcan!([|fresh_name_9| { fresh_name_9 == [3, 3], [3 | fresh_name_9] != [3, 3, 3] }, [[], 1] != x])
 }
 pub fn case_506(vars: &Vars) -> InferredGoal<DU, DE, Goal<DU, DE>> {
     let x = vars.v[0].clone();
-    let y = vars.v[1].clone();
-    proto_vulcan!([[true, x | y] == y, conde { [y] == y, [|t| { member(t, [2]) }, y != [y]] }, x == ["bc", x | 2], closure { conde { [y == [3], [[[1, 2]] == [[x, x, y]], true, [x, _ | 3] == x]], [1 == x, x != [x | y]] } }])
+    proto_vulcan!([x == [[x, x, []], x, x | x], x == [x, _], x == [x], closure { [[|z, h| {  }], |t| { [_, 1] == t, [_, _] == t, [[t, x] == x, t == [2, x]] }] }])
 }
 pub fn case_507(vars: &Vars) -> InferredGoal<DU, DE, Goal<DU, DE>> {
     let x = vars.v[0].clone();
-    let y = vars.v[1].clone();
-    proto_vulcan!([[true, x | y] == y, conde { [y] == y, [|fresh_name_9| { member(fresh_name_9, [2]) }, y != [y]] }, x == ["bc", x | 2], closure { conde { [y == [3], [[[1, 2]] == [[x, x, y]], true, [x, _ | 3] == x]], [1 == x, x != [x | y]] } }])
+    proto_vulcan!([x == [[x, x, []], x, x | x], x == [x, _], x == [x], closure { [[|fresh_name_9, h| {  }], |t| { [_, 1] == t, [_, _] == t, [[t, x] == x, t == [2, x]] }] }])
 }
 pub fn case_508(vars: &Vars) -> InferredGoal<DU, DE, Goal<DU, DE>> {
-    let q = vars.v[0].clone();
-    let x = vars.v[1].clone();
-    proto_vulcan!([matche q { y => { [2, y] != q }, [_, t, h] => , [t, z] => [matche z { [[2, 1, 2], 1 | _] | [[2] | y] => , [t | _] | [[]] => q != 'b', }, |z, t| { conde { x == 2, [t == [t, [z | z] | z], 3 == z] }, matche t { false => , t | _ => { z == [_], [q] == q }, } }], }])
+    let x = vars.v[0].clone();
+    let y = vars.v[1].clone();
+    proto_vulcan!([match [[], "bc" | x] { _ => { x == 7, x == 8 }, [[[], 2, 2 | 1], [y, 1]] | [z] => , [[_, 2], "bc", [z, y, x]] => { x == [2, 1, 2] }, }, x != [3, x, _ | 2], [false, false]])
 }
 pub fn case_509(vars: &Vars) -> InferredGoal<DU, DE, Goal<DU, DE>> {
-    let q = vars.v[0].clone();
-    let x = vars.v[1].clone();
-    proto_vulcan!([matche q { y => { [2, y] != q }, [_, fresh_name_9, h] => , [t, z] => [matche z { [[2, 1, 2], 1 | _] | [[2] | y] => , [t | _] | [[]] => q != 'b', }, |z, t| { conde { x == 2, [t == [t, [z | z] | z], 3 == z] }, matche t { false => , t | _ => { z == [_], [q] == q }, } }], }])
+    let x = vars.v[0].clone();
+    let y = vars.v[1].clone();
+    proto_vulcan!([match [[], "bc" | x] { _ => { x == 7, x == 8 }, [[[], 2, 2 | 1], [y, 1]] | [z] => , [[_, 2], "bc", [z, y, fresh_name_9]] => { fresh_name_9 == [2, 1, 2] }, }, x != [3, x, _ | 2], [false, false]])
 }
 pub fn case_510(vars: &Vars) -> InferredGoal<DU, DE, Goal<DU, DE>> {
-    let x = vars.v[0].clone();
-    let y = vars.v[1].clone();
-    proto_vulcan!([x == y, |z| { x == z, match [z, y] { 'a' => ["bc" == x, z != _], } }, [|tz| { tz == [1], [3, 1, 1] != [3, 1 | tz] }, [matche y { false | [[], [t, z], z | z] => { [true, 2] == x, x == y }, }, append(x, y, [3, 3])], 1 == y], closure { [2 | x] == y }])
+    let q = vars.v[0].clone();
+    let x = vars.v[1].clone();
+    proto_vulcan!([[[q | 2], true | x] == [x, 2, 2], member(x, [1, 3]), conde { [conde { matche q { [[[], _, z], t] => [x == _, member(x, [2, 1, 1])], }, [|y| { |tz| { tz == [1, 2], [1 | tz] != [1, 1, 2] }, [2, _] != _, false }, [q == x]] }, [match x { 3 => , z | [3] => member(x, []), }, matche x { _ => { member(x, [1, 2, 3]) }, }]], x == x }, closure { [x == [_, q], q == _] }])
 }
 pub fn case_511(vars: &Vars) -> InferredGoal<DU, DE, Goal<DU, DE>> {
-    let x = vars.v[0].clone();
-    let y = vars.v[1].clone();
-    proto_vulcan!([x == y, |z| { x == z, match [z, y] { 'a' => ["bc" == x, z != _], } }, [|fresh_name_9| { fresh_name_9 == [1], [3, 1, 1] != [3, 1 | fresh_name_9] }, [matche y { false | [[], [t, z], z | z] => { [true, 2] == x, x == y }, }, append(x, y, [3, 3])], 1 == y], closure { [2 | x] == y }])
+    let q = vars.v[0].clone();
+    let x = vars.v[1].clone();
+    proto_vulcan!([[[q | 2], true | x] == [x, 2, 2], member(x, [1, 3]), conde { [conde { matche q { [[[], _, fresh_name_9], t] => [x == _, member(x, [2, 1, 1])], }, [|y| { |tz| { tz == [1, 2], [1 | tz] != [1, 1, 2] }, [2, _] != _, false }, [q == x]] }, [match x { 3 => , z | [3] => member(x, []), }, matche x { _ => { member(x, [1, 2, 3]) }, }]], x == x }, closure { [x == [_, q], q == _] }])
 }
 pub fn case_512(vars: &Vars) -> InferredGoal<DU, DE, Goal<DU, DE>> {
     let q = vars.v[0].clone();
     let x = vars.v[1].clone();
-    proto_vulcan!([conde { [match [q, q] { _ | [_, _] => [x == [_], false], [] => { [[[2]] != q, true] }, [[2, 2], 3, [y]] => , }, x == [['b'], _]], [[q, q | 'b'] == q, x == [x | x]] }, matche q { 2 => { [|x| { |tz| { tz == [1], [1 | tz] != [1, 1] } }, match x { 'b' => , }] }, [t, [x, []]] => matche q { 1 => |x, h| { x == h, t == x }, 'b' => , }, [1, [[], _, z] | true] => , }, member(x, [1, 2]), closure { [q == [q], |tz| { tz == [3, 1], [3, 3, 1] != [3 | tz] }] }])
+    proto_vulcan!([conde { match q { [[1, _, []], [x | x], [1] | t] => { [x, 2] == q }, [[z, _, 3], 3, 2] => , }, [conde { matche 1 { [z] | [[y | _]] => _ != q, [["a", 1], t, y | _] => true, }, [[x] == x, matche x { [h] | y => { x != [1, 3, 2] }, y => , _ => [q == 7, q == 8], }], [|t| {  }, x != [[q]]] }, match x { [[x, 3, 1], [x, 1 | y]] => { match x { [[x, x, y]] => , _ => { q == 7, q == 8 }, } }, 1 => , }] }, match x { [] | [[h, y, true | 'b'], 2, [y, h]] => { x == q, x == 1 }, [[_], y, [1] | z] => , }])
 }
 pub fn case_513(vars: &Vars) -> InferredGoal<DU, DE, Goal<DU, DE>> {
     let q = vars.v[0].clone();
     let x = vars.v[1].clone();
-    proto_vulcan!([conde { [match [q, q] { _ | [_, _] => [x == [_], false], [] => { [[[2]] != q, true] }, [[2, 2], 3, [y]] => , }, x == [['b'], _]], [[q, q | 'b'] == q, x == [x | x]] }, matche q { 2 => { [|x| { |tz| { tz == [1], [1 | tz] != [1, 1] } }, match x { 'b' => , }] }, [t, [fresh_name_9, []]] => matche q { 1 => |x, h| { x == h, t == x }, 'b' => , }, [1, [[], _, z] | true] => , }, member(x, [1, 2]), closure { [q == [q], |tz| { tz == [3, 1], [3, 3, 1] != [3 | tz] }] }])
+    proto_vulcan!([conde { match q { [[1, _, []], [fresh_name_9 | fresh_name_9], [1] | t] => { [fresh_name_9, 2] == q }, [[z, _, 3], 3, 2] => , }, [conde { matche 1 { [z] | [[y | _]] => _ != q, [["a", 1], t, y | _] => true, }, [[x] == x, matche x { [h] | y => { x != [1, 3, 2] }, y => , _ => [q == 7, q == 8], }], [|t| {  }, x != [[q]]] }, match x { [[x, 3, 1], [x, 1 | y]] => { match x { [[x, x, y]] => , _ => { q == 7, q == 8 }, } }, 1 => , }] }, match x { [] | [[h, y, true | 'b'], 2, [y, h]] => { x == q, x == 1 }, [[_], y, [1] | z] => , }])
 }
 pub fn case_514(vars: &Vars) -> InferredGoal<DU, DE, Goal<DU, DE>> {
-    let x = vars.v[0].clone();
-    proto_vulcan!([|tz| { tz == [3, 3], [3 | tz] != [3, 3, 3] }, [[], 1] != x])
+    let q = vars.v[0].clone();
+    let x = vars.v[1].clone();
+    proto_vulcan!([|tz| { tz == [2, 2], [2, 3, 2, 2] != [2, 3 | tz] }, [match q { [[1 | x], 3, h] => |t, x| { x == [], [q, 1] == h }, [] => , }, append(x, x, [1]), [[[], x, x], [] | x] == q], closure { [true, |h| {  }] }])
 }
 pub fn case_515(vars: &Vars) -> InferredGoal<DU, DE, Goal<DU, DE>> {
-    let x = vars.v[0].clone();
-    proto_vulcan!([|fresh_name_9| { fresh_name_9 == [3, 3], [3 | fresh_name_9] != [3, 3, 3] }, [[], 1] != x])
+    let q = vars.v[0].clone();
+    let x = vars.v[1].clone();
+    proto_vulcan!([|tz| { tz == [2, 2], [2, 3, 2, 2] != [2, 3 | tz] }, [match q { [[1 | x], 3, h] => |t, x| { x == [], [q, 1] == h }, [] => , }, append(x, x, [1]), [[[], x, x], [] | x] == q], closure { [true, |fresh_name_9| {  }] }])
 }
 pub fn case_516(vars: &Vars) -> InferredGoal<DU, DE, Goal<DU, DE>> {
     let x = vars.v[0].clone();
-    proto_vulcan!([x == [[x, x, []], x, x | x], x == [x, _], x == [x], closure { [[1 == [x, 3], ["bc" == x, x != x], |h, t| { append(x, h, [2, 2]), [h, 3] != h, h != [h, 'b'] }], 1 == x] }])
+    let y = vars.v[1].clone();
+    proto_vulcan!([|z| { conde { |z, t| { [z, 2] == [[], [[]], [[], 2]], [[], t, 3] != y, t == 1 }, 1 != y } }])
 }
 pub fn case_517(vars: &Vars) -> InferredGoal<DU, DE, Goal<DU, DE>> {
     let x = vars.v[0].clone();
-    proto_vulcan!([x == [[x, x, []], x, x | x], x == [x, _], x == [x], closure { [[1 == [x, 3], ["bc" == x, x != x], |fresh_name_9, t| { append(x, fresh_name_9, [2, 2]), [fresh_name_9, 3] != fresh_name_9, fresh_name_9 != [fresh_name_9, 'b'] }], 1 == x] }])
+    let y = vars.v[1].clone();
+    proto_vulcan!([|z| { conde { |z, fresh_name_9| { [z, 2] == [[], [[]], [[], 2]], [[], fresh_name_9, 3] != y, fresh_name_9 == 1 }, 1 != y } }])
 }
 pub fn case_518(vars: &Vars) -> InferredGoal<DU, DE, Goal<DU, DE>> {
     let x = vars.v[0].clone();
-    let y = vars.v[1].clone();
-    proto_vulcan!([match [[], "bc" | x] { y => , [[_, [], 2], [x | false]] | 1 => { [1, 'b', "a"] == y, |t| { |z, x| { [y, 3, y] != x, member(y, []), [y, y] == y }, t == 'a' } }, [t | _] => { matche t { [[3, 1], 1, [x, 1] | h] => [conde { [[y, h | x] == [1], "a" == 1], 2 == t }, x == [3, t]], [] => , }, false }, }, x == [2, "bc"], |z, t| { x == t, [x, 3, [2, 2, 'b' | z]] == 1 }])
+    proto_vulcan!([conde { [[[2], [x], [] | x] == x, match x { x => , }], [matche x { [2, [false, x | 2]] => , y => , }, [x] == x], [x == [x, [], x | x], x != "bc"] }, closure { [matche x { [2, z | _] | [y, 1, [[], 2]] => [x] == x, }, matche [x] { [[2, 1], h, []] => { h == [x | x], |x, t| { member(t, [1, 1]), t == x, [[h | x], 'a', [] | h] == t } }, }] }])
 }
 pub fn case_519(vars: &Vars) -> InferredGoal<DU, DE, Goal<DU, DE>> {
     let x = vars.v[0].clone();
-    let y = vars.v[1].clone();
-    proto_vulcan!([match [[], "bc" | x] { fresh_name_9 => , [[_, [], 2], [x | false]] | 1 => { [1, 'b', "a"] == y, |t| { |z, x| { [y, 3, y] != x, member(y, []), [y, y] == y }, t == 'a' } }, [t | _] => { matche t { [[3, 1], 1, [x, 1] | h] => [conde { [[y, h | x] == [1], "a" == 1], 2 == t }, x == [3, t]], [] => , }, false }, }, x == [2, "bc"], |z, t| { x == t, [x, 3, [2, 2, 'b' | z]] == 1 }])
+    proto_vulcan!([conde { [[[2], [x], [] | x] == x, match x { x => , }], [matche x { [2, [false, x | 2]] => , y => , }, [x] == x], [x == [x, [], x | x], x != "bc"] }, closure { [matche x { [2, z | _] | [y, 1, [[], 2]] => [x] == x, }, matche [x] { [[2, 1], fresh_name_9, []] => { fresh_name_9 == [x | x], |x, t| { member(t, [1, 1]), t == x, [[fresh_name_9 | x], 'a', [] | fresh_name_9] == t } }, }] }])
 }
 pub fn case_520(vars: &Vars) -> InferredGoal<DU, DE, Goal<DU, DE>> {
     let q = vars.v[0].clone();
     let x = vars.v[1].clone();
-    proto_vulcan!([[[2, _, 3 | x], 'b', [3, x]] == 3, [[|t| { [[x], [t, _, t], q | x] == 1, q == x, t == 'b' }, x == q], |tz| { tz == [1, 2], [3, 1, 2] != [3 | tz] }, matche [_, _, q] { [[x, z], 3] => [conde { |tz| { [1, 2] != [1 | tz], tz == [2] }, [x == z, member(z, [2])], false }, z == [3, q, 2]], }]])
+    proto_vulcan!([[|tz| { [2 | tz] != [2, 2, 3], tz == [2, 3] }], conde { [], [false, [q, ['b', q, 1 | q], [x] | q] != q] }])
 }
 pub fn case_521(vars: &Vars) -> InferredGoal<DU, DE, Goal<DU, DE>> {
     let q = vars.v[0].clone();
     let x = vars.v[1].clone();
-    proto_vulcan!([[[2, _, 3 | x], 'b', [3, x]] == 3, [[|t| { [[x], [t, _, t], q | x] == 1, q == x, t == 'b' }, x == q], |tz| { tz == [1, 2], [3, 1, 2] != [3 | tz] }, matche [_, _, q] { [[x, fresh_name_9], 3] => [conde { |tz| { [1, 2] != [1 | tz], tz == [2] }, [x == fresh_name_9, member(fresh_name_9, [2])], false }, fresh_name_9 == [3, q, 2]], }]])
+    proto_vulcan!([[|fresh_name_9| { [2 | fresh_name_9] != [2, 2, 3], fresh_name_9 == [2, 3] }], conde { [], [false, [q, ['b', q, 1 | q], [x] | q] != q] }])
 }
 pub fn case_522(vars: &Vars) -> InferredGoal<DU, DE, Goal<DU, DE>> {
     let q = vars.v[0].clone();
     let x = vars.v[1].clone();
-    proto_vulcan!([[[q | 2], true | x] == [x, 2, 2], member(x, [1, 3]), conde { q != _, [true, q != []], [conde { [[false], false], match q { [[2]] => , h => , [[], [1]] => { q != _, false }, }, false }, conde { match [q, q, 2] { [] => , [2 | _] => 1 == x, }, [|z| { [_, 3, q] == x }, [[_, []] == [[2, 2, _], [false, 2, 3 | _], 2], |tz| { [1 | tz] != [1, 1], tz == [1] }, q == [[] | x]]], [match x { [[h, 1], 3] => { |tz| { tz == [2], [1, 2] != [1 | tz] } }, }, q == x] }] }])
+    proto_vulcan!([|x| { |z, y| { q != x, [[x] == x, true, [x, 2, y] == q], conde { [[2, []], 'b'] == z } }, append(x, x, [3]), 1 == q }, x == q, closure { [[], [1]] == [2, [], x | "a"] }])
 }
 pub fn case_523(vars: &Vars) -> InferredGoal<DU, DE, Goal<DU, DE>> {
     let q = vars.v[0].clone();
     let x = vars.v[1].clone();
-    proto_vulcan!([[[q | 2], true | x] == [x, 2, 2], member(x, [1, 3]), conde { q != _, [true, q != []], [conde { [[false], false], match q { [[2]] => , h => , [[], [1]] => { q != _, false }, }, false }, conde { match [q, q, 2] { [] => , [2 | _] => 1 == x, }, [|fresh_name_9| { [_, 3, q] == x }, [[_, []] == [[2, 2, _], [false, 2, 3 | _], 2], |tz| { [1 | tz] != [1, 1], tz == [1] }, q == [[] | x]]], [match x { [[h, 1], 3] => { |tz| { tz == [2], [1, 2] != [1 | tz] } }, }, q == x] }] }])
+    proto_vulcan!([|x| { |fresh_name_9, y| { q != x, [[x] == x, true, [x, 2, y] == q], conde { [[2, []], 'b'] == fresh_name_9 } }, append(x, x, [3]), 1 == q }, x == q, closure { [[], [1]] == [2, [], x | "a"] }])
 }
 pub fn case_524(vars: &Vars) -> InferredGoal<DU, DE, Goal<DU, DE>> {
-    let q = vars.v[0].clone();
-    let x = vars.v[1].clone();
-    proto_vulcan!([conde { |z| { [q != _, false, member(q, [3, 1])] }, [x != [x], matche x { [[h, _, 1], [t, z, _], x] => { false, |tz| { tz == [1, 1], [2, 1, 1, 1] != [2, 1 | tz] } }, }], append(x, x, [1]) }, match x { [[[], [] | y], [t] | _] => { [x, q, 2 | q] == t, match t { z | h => [x == x, matche x { [_] | [[y, x | 3], [1, 3, 2], [2]] => , x => , [[x, 1 | _], [2, _], [x, y, y]] => , }], [[[]] | t] => { |z, x| { x == ['a', _ | x], 3 == q } }, } }, }])
+    let x = vars.v[0].clone();
+    proto_vulcan!([[x, [], _] == x, |t, h| { |t, z| { |z| { append(x, z, [1, 3]) }, |z| { h == t, true, [t | t] == t }, t != [x, [], 1 | z] }, 1 == t }, |h, t| { t == h, h == x, match t { [[_, 3, z], _ | y] => [[[1, _, h], [2, false, 2 | h]] == [[1 | x], [t, x]], [h, y, 'a'] != h], } }, closure { [1, x, []] == x }])
 }
 pub fn case_525(vars: &Vars) -> InferredGoal<DU, DE, Goal<DU, DE>> {
-    let q = vars.v[0].clone();
-    let x = vars.v[1].clone();
-    proto_vulcan!([conde { |z| { [q != _, false, member(q, [3, 1])] }, [x != [x], matche x { [[h, _, 1], [t, z, _], x] => { false, |tz| { tz == [1, 1], [2, 1, 1, 1] != [2, 1 | tz] } }, }], append(x, x, [1]) }, match x { [[[], [] | y], [t] | _] => { [x, q, 2 | q] == t, match t { z | h => [x == x, matche x { [_] | [[y, x | 3], [1, 3, 2], [2]] => , x => , [[x, 1 | _], [2, _], [x, y, y]] => , }], [[[]] | fresh_name_9] => { |z, x| { x == ['a', _ | x], 3 == q } }, } }, }])
+    let x = vars.v[0].clone();
+    proto_vulcan!([[x, [], _] == x, |t, h| { |t, z| { |z| { append(x, z, [1, 3]) }, |z| { h == t, true, [t | t] == t }, t != [x, [], 1 | z] }, 1 == t }, |h, t| { t == h, h == x, match t { [[_, 3, fresh_name_9], _ | y] => [[[1, _, h], [2, false, 2 | h]] == [[1 | x], [t, x]], [h, y, 'a'] != h], } }, closure { [1, x, []] == x }])
 }
 pub fn case_526(vars: &Vars) -> InferredGoal<DU, DE, Goal<DU, DE>> {
-    let q = vars.v[0].clone();
-    let x = vars.v[1].clone();
-    proto_vulcan!([|tz| { tz == [2, 2], [2, 3, 2, 2] != [2, 3 | tz] }, [|x| { matche x { 1 => , x => { x != 3, 3 == x }, [2, [t, x | _]] => , }, x == q }, [[[], x, x], [] | x] == q, [x | 2] == x]])
+    let x = vars.v[0].clone();
+    let y = vars.v[1].clone();
+    proto_vulcan!([y != [_, _], conde { |y, z| { true, x == y, y == [y] }, [1, x | y] == [[], [2, 2, []]], _ == x }])
 }
 pub fn case_527(vars: &Vars) -> InferredGoal<DU, DE, Goal<DU, DE>> {
-    let q = vars.v[0].clone();
-    let x = vars.v[1].clone();
-    proto_vulcan!([|fresh_name_9| { fresh_name_9 == [2, 2], [2, 3, 2, 2] != [2, 3 | fresh_name_9] }, [|x| { matche x { 1 => , x => { x != 3, 3 == x }, [2, [t, x | _]] => , }, x == q }, [[[], x, x], [] | x] == q, [x | 2] == x]])
+    let x = vars.v[0].clone();
+    let y = vars.v[1].clone();
+    proto_vulcan!([y != [_, _], conde { |y, fresh_name_9| { true, x == y, y == [y] }, [1, x | y] == [[], [2, 2, []]], _ == x }])
 }
 pub fn case_528(vars: &Vars) -> InferredGoal<DU, DE, Goal<DU, DE>> {
     let x = vars.v[0].clone();
-    let y = vars.v[1].clone();
-    proto_vulcan!([|z| { [2, y, "bc"] == z, [] != x }])
+    proto_vulcan!([[1] != [[1, x], [_, 1] | x], match x { [[3 | _] | z] => conde { _ == x, |y, x| { append(y, x, [2, 3]), append(x, x, [3, 3]) } }, [[2], z | _] => x == [], [3, [y, 3], [h, t, 2]] => { |x, h| { matche y { [["a", t | x], 2] => , y | 2 => true, [[1], [2, h], [z, 2]] => , }, h == h }, [conde { [[x, x | y], [x], [3, y]] == y, true, [[]] != h }, [h, [y, t, [] | t] | h] == [[2, h] | y]] }, }])
 }
 pub fn case_529(vars: &Vars) -> InferredGoal<DU, DE, Goal<DU, DE>> {
     let x = vars.v[0].clone();
-    let y = vars.v[1].clone();
-    proto_vulcan!([|fresh_name_9| { [2, y, "bc"] == fresh_name_9, [] != x }])
+    proto_vulcan!([[1] != [[1, x], [_, 1] | x], match x { [[3 | _] | z] => conde { _ == x, |y, x| { append(y, x, [2, 3]), append(x, x, [3, 3]) } }, [[2], z | _] => x == [], [3, [y, 3], [h, fresh_name_9, 2]] => { |x, h| { matche y { [["a", t | x], 2] => , y | 2 => true, [[1], [2, h], [z, 2]] => , }, h == h }, [conde { [[x, x | y], [x], [3, y]] == y, true, [[]] != h }, [h, [y, fresh_name_9, [] | fresh_name_9] | h] == [[2, h] | y]] }, }])
 }
 pub fn case_530(vars: &Vars) -> InferredGoal<DU, DE, Goal<DU, DE>> {
-    let x = vars.v[0].clone();
-    proto_vulcan!([conde { [[x == x, [false], match x { h => member(h, [1]), }], [1, 2, 'a'] == x], match x { [[2, 2, h], y, [x | h] | h] => { matche y { [[t], 'b', z | true] => , h | [] => { [2] == x, y == x }, [1] | [[_], x] => { [h, h] != y }, } }, }, [[false, 1] != [x, [x, x | x], [x, 1, 3] | 2]] }, closure { ["a"] != x }])
+    let q = vars.v[0].clone();
+    let x = vars.v[1].clone();
+    proto_vulcan!([conde { [[x, false], [1, x, x]] == [false, x | true], [|y| { [[[], [], y | q], 1, [y, x | y]] == y }, q == [[[] | x]]], x == q }])
 }
 pub fn case_531(vars: &Vars) -> InferredGoal<DU, DE, Goal<DU, DE>> {
-    let x = vars.v[0].clone();
-    proto_vulcan!([conde { [[x == x, [false], match x { h => member(h, [1]), }], [1, 2, 'a'] == x], match x { [[2, 2, h], y, [fresh_name_9 | h] | h] => { matche y { [[t], 'b', z | true] => , h | [] => { [2] == fresh_name_9, y == fresh_name_9 }, [1] | [[_], x] => { [h, h] != y }, } }, }, [[false, 1] != [x, [x, x | x], [x, 1, 3] | 2]] }, closure { ["a"] != x }])
+    let q = vars.v[0].clone();
+    let x = vars.v[1].clone();
+    proto_vulcan!([conde { [[x, false], [1, x, x]] == [false, x | true], [|fresh_name_9| { [[[], [], fresh_name_9 | q], 1, [fresh_name_9, x | fresh_name_9]] == fresh_name_9 }, q == [[[] | x]]], x == q }])
 }
 pub fn case_532(vars: &Vars) -> InferredGoal<DU, DE, Goal<DU, DE>> {
-    let q = vars.v[0].clone();
-    let x = vars.v[1].clone();
-    proto_vulcan!([|x| { [x] == [[1, 3, q], ['a', x], q] }, conde { [|t| { append(x, t, [3, 3]) }, [[x, 2, 2 | q] == x]], true }, closure { [conde { 1 == x, |h| { append(x, q, [2]) } }, [[], [1]] == x] }])
+    let x = vars.v[0].clone();
+    let y = vars.v[1].clone();
+    proto_vulcan!([false, matche y { [[x, "bc" | 1]] | [[3] | x] => [x, x | x] == x, [[t, _], [z, 2 | _], [h | 2] | z] => 2 == h, t => { y == [t] }, }])
 }
 pub fn case_533(vars: &Vars) -> InferredGoal<DU, DE, Goal<DU, DE>> {
-    let q = vars.v[0].clone();
-    let x = vars.v[1].clone();
-    proto_vulcan!([|x| { [x] == [[1, 3, q], ['a', x], q] }, conde { [|t| { append(x, t, [3, 3]) }, [[x, 2, 2 | q] == x]], true }, closure { [conde { 1 == x, |fresh_name_9| { append(x, q, [2]) } }, [[], [1]] == x] }])
+    let x = vars.v[0].clone();
+    let y = vars.v[1].clone();
+    proto_vulcan!([false, matche y { [[x, "bc" | 1]] | [[3] | x] => [x, x | x] == x, [[t, _], [z, 2 | _], [h | 2] | z] => 2 == h, fresh_name_9 => { y == [fresh_name_9] }, }])
 }
 pub fn case_534(vars: &Vars) -> InferredGoal<DU, DE, Goal<DU, DE>> {
-    let x = vars.v[0].clone();
-    proto_vulcan!([[x, [], _] == x, |t, h| { conde { [[] != t, [1 | h] == x], [false, h == 2] }, t == x, |tz| { [3, 3, 1] != [3 | tz], tz == [3, 1] } }, ['b'] != x])
+    let q = vars.v[0].clone();
+    let x = vars.v[1].clone();
+    proto_vulcan!([|y| { x == [x, _], y == x, matche x { 1 => , [h, y] => { matche q { _ | [[_ | y], y, 1] => { true, [_] == h }, _ => { [1] == q }, [x, [true | x]] => , }, y != q }, } }, conde { q == _, [|t| { [[1, false, [_, x]] == t], append(q, q, [3, 2]), match t { _ => { member(t, [1, 2, 3]) }, _ => { [2, q] == t }, true => , } }, ['a' | x] == q], [x == [false, _, q], [1, 1, q] == x] }, [] == _])
 }
 pub fn case_535(vars: &Vars) -> InferredGoal<DU, DE, Goal<DU, DE>> {
-    let x = vars.v[0].clone();
-    proto_vulcan!([[x, [], _] == x, |t, h| { conde { [[] != t, [1 | h] == x], [false, h == 2] }, t == x, |fresh_name_9| { [3, 3, 1] != [3 | fresh_name_9], fresh_name_9 == [3, 1] } }, ['b'] != x])
+    let q = vars.v[0].clone();
+    let x = vars.v[1].clone();
+    proto_vulcan!([|y| { x == [x, _], y == x, matche x { 1 => , [h, y] => { matche q { _ | [[_ | y], y, 1] => { true, [_] == h }, _ => { [1] == q }, [x, [true | x]] => , }, y != q }, } }, conde { q == _, [|fresh_name_9| { [[1, false, [_, x]] == fresh_name_9], append(q, q, [3, 2]), match fresh_name_9 { _ => { member(fresh_name_9, [1, 2, 3]) }, _ => { [2, q] == fresh_name_9 }, true => , } }, ['a' | x] == q], [x == [false, _, q], [1, 1, q] == x] }, [] == _])
 }
 pub fn case_536(vars: &Vars) -> InferredGoal<DU, DE, Goal<DU, DE>> {
     let x = vars.v[0].clone();
-    let y = vars.v[1].clone();
-    proto_vulcan!([y != [_, _], conde { [y == [[y], [1] | y], append(x, y, [1, 1])], [match x { [[y, []]] => { [[x, true | x] == x, 2 == x] }, }, match x { [t, true] => , 1 => , }] }])
+    proto_vulcan!([|y| { false, matche x { [[[], 3], [], [2, [] | _] | h] => , ["bc", [x, 1, 1], 3] | _ => , } }, [x != [2, "a"], [member(x, [2, 2, 3]), 3 == x], false], []])
 }
 pub fn case_537(vars: &Vars) -> InferredGoal<DU, DE, Goal<DU, DE>> {
     let x = vars.v[0].clone();
-    let y = vars.v[1].clone();
-    proto_vulcan!([y != [_, _], conde { [y == [[y], [1] | y], append(x, y, [1, 1])], [match x { [[y, []]] => { [[x, true | x] == x, 2 == x] }, }, match x { [fresh_name_9, true] => , 1 => , }] }])
+    proto_vulcan!([|fresh_name_9| { false, matche x { [[[], 3], [], [2, [] | _] | h] => , ["bc", [x, 1, 1], 3] | _ => , } }, [x != [2, "a"], [member(x, [2, 2, 3]), 3 == x], false], []])
 }
 pub fn case_538(vars: &Vars) -> InferredGoal<DU, DE, Goal<DU, DE>> {
-    let x = vars.v[0].clone();
-    proto_vulcan!([[1] != [[1, x], [_, 1] | x], match x { [[x, [], y | _], ["bc"], 2 | _] => , _ => , h => { x != h }, }, closure { [matche x { [_] | z => , [] => , [] => , }, conde { [[[], x] == [[x, x, 3], [x, x, 2]], append(x, x, [2, 3])], [matche [x, x, 'b' | x] { [[2, t, _]] => true, 2 => false, }, member(x, [1, 2, 2])], |y| { [y] != x, y == [2, []] } }] }])
+    let q = vars.v[0].clone();
+    let x = vars.v[1].clone();
+    proto_vulcan!([q != 1, |x| { |tz| { tz == [1], [1, 3 | tz] != [1, 3, 1] }, match x { [2, 1 | t] => match [1, 3, q] { _ => { 2 == q, member(x, []) }, }, 2 => , _ | _ => [[] != [q, []], false], }, |z| { false, [_, z, x] != [[1, 3, x | q], [[], z], [_, 3, 1]], conde { z != x, true, [_ == [x | z], true] } } }, |z| { |h| { [x, 'a', x | 1] == x }, z == [x] }])
 }
 pub fn case_539(vars: &Vars) -> InferredGoal<DU, DE, Goal<DU, DE>> {
-    let x = vars.v[0].clone();
-    proto_vulcan!([[1] != [[1, x], [_, 1] | x], match x { [[x, [], y | _], ["bc"], 2 | _] => , _ => , h => { x != h }, }, closure { [matche x { [_] | z => , [] => , [] => , }, conde { [[[], x] == [[x, x, 3], [x, x, 2]], append(x, x, [2, 3])], [matche [x, x, 'b' | x] { [[2, t, _]] => true, 2 => false, }, member(x, [1, 2, 2])], |fresh_name_9| { [fresh_name_9] != x, fresh_name_9 == [2, []] } }] }])
+    let q = vars.v[0].clone();
+    let x = vars.v[1].clone();
+    proto_vulcan!([q != 1, |x| { |tz| { tz == [1], [1, 3 | tz] != [1, 3, 1] }, match x { [2, 1 | t] => match [1, 3, q] { _ => { 2 == q, member(x, []) }, }, 2 => , _ | _ => [[] != [q, []], false], }, |z| { false, [_, z, x] != [[1, 3, x | q], [[], z], [_, 3, 1]], conde { z != x, true, [_ == [x | z], true] } } }, |fresh_name_9| { |h| { [x, 'a', x | 1] == x }, fresh_name_9 == [x] }])
 }
 pub fn case_540(vars: &Vars) -> InferredGoal<DU, DE, Goal<DU, DE>> {
     let q = vars.v[0].clone();
     let x = vars.v[1].clone();
-    proto_vulcan!([conde { [|y, z| { [x] != x, z == 1, [1] != z }, |y| { 3 == [_ | x] }], q == _, q != 1 }])
+    proto_vulcan!([[2, _, 'b'] == [[q, x, []], true, [[], 'a']], closure { [matche q { _ | [[x], [y, 3, []]] => [[[_, 3] | q] == [1], _ == [q, [_, 1] | q]], [[_, h], [_, 3]] => [[2, q, 1] != x, true], [[_, 1, []], [2, [], _]] => { member(q, []) }, }, q != "a", match x { _ => { x == 7, x == 8 }, }] }])
 }
 pub fn case_541(vars: &Vars) -> InferredGoal<DU, DE, Goal<DU, DE>> {
     let q = vars.v[0].clone();
     let x = vars.v[1].clone();
-    proto_vulcan!([conde { [|fresh_name_9, z| { [x] != x, z == 1, [1] != z }, |y| { 3 == [_ | x] }], q == _, q != 1 }])
+    proto_vulcan!([[2, _, 'b'] == [[q, x, []], true, [[], 'a']], closure { [matche q { _ | [[x], [y, 3, []]] => [[[_, 3] | q] == [1], _ == [q, [_, 1] | q]], [[_, fresh_name_9], [_, 3]] => [[2, q, 1] != x, true], [[_, 1, []], [2, [], _]] => { member(q, []) }, }, q != "a", match x { _ => { x == 7, x == 8 }, }] }])
 }
 pub fn case_542(vars: &Vars) -> InferredGoal<DU, DE, Goal<DU, DE>> {
     let x = vars.v[0].clone();
-    let y = vars.v[1].clone();
-    proto_vulcan!([false, matche y { [[1, h, _], [1, t, z | _]] | x => { match y { 'b' => , [2, [t, 1], [2, h, 2] | _] => { [h | t] == h, match [[], 'b'] { [_, [y, [] | t]] => [[y] == 2, h == [3, [], y]], [[1, z, _]] => { t != 'b', [z, 3, 2] != h }, "bc" => , } }, }, y != [2 | y] }, y => [[x == [_, 3, y], x != _, [x | 3] == x], |x, y| { [_, _, []] != y }], [['b', z, 1], [3]] => { match z { 1 => { conde { |tz| { [3, 1, 1, 3] != [3, 1 | tz], tz == [1, 3] }, y != [3, _] } }, }, |y| { match y { "bc" => { append(x, x, [2, 2]), member(x, [3, 3]) }, [[t, t, 2], _] | [[y, true, 2], z] => { true }, }, [z == []] } }, }, closure { [x != [x], y == [x]] }])
+    proto_vulcan!([x == x, closure { [[2] == x, |t| { |tz| { tz == [3, 1], [3, 2, 3, 1] != [3, 2 | tz] } }] }])
 }
 pub fn case_543(vars: &Vars) -> InferredGoal<DU, DE, Goal<DU, DE>> {
     let x = vars.v[0].clone();
-    let y = vars.v[1].clone();
-    proto_vulcan!([false, matche y { [[1, h, _], [1, t, z | _]] | x => { match y { 'b' => , [2, [t, 1], [2, h, 2] | _] => { [h | t] == h, match [[], 'b'] { [_, [y, [] | t]] => [[y] == 2, h == [3, [], y]], [[1, z, _]] => { t != 'b', [z, 3, 2] != h }, "bc" => , } }, }, y != [2 | y] }, y => [[x == [_, 3, y], x != _, [x | 3] == x], |x, fresh_name_9| { [_, _, []] != fresh_name_9 }], [['b', z, 1], [3]] => { match z { 1 => { conde { |tz| { [3, 1, 1, 3] != [3, 1 | tz], tz == [1, 3] }, y != [3, _] } }, }, |y| { match y { "bc" => { append(x, x, [2, 2]), member(x, [3, 3]) }, [[t, t, 2], _] | [[y, true, 2], z] => { true }, }, [z == []] } }, }, closure { [x != [x], y == [x]] }])
+    proto_vulcan!([x == x, closure { [[2] == x, |t| { |fresh_name_9| { fresh_name_9 == [3, 1], [3, 2, 3, 1] != [3, 2 | fresh_name_9] } }] }])
 }
 pub fn case_544(vars: &Vars) -> InferredGoal<DU, DE, Goal<DU, DE>> {
     let q = vars.v[0].clone();
     let x = vars.v[1].clone();
-    proto_vulcan!([|y| { |h, y| { [['b']] == [[], [y, 1], [x, 1 | x] | 1], [[]] == x }, conde { [x != q, conde { [true, [_] == y], _ == x, member(q, [2, 1]) }], q == x, [|t, x| { [[x, q, _], [x, t | t]] == x, t == [1, [], t] }, q == [1, x | q]] } }, [x] != x, match q { x => , h => , [[2, y]] => , }])
+    proto_vulcan!([|z| { false, match x { [[1, 1, 2], 1, [y, 2 | _]] => { |y| { 2 == x, y != y, [q, 2, _ | y] == y }, [] }, _ => { q == 7, q == 8 }, } }, _ == q, [[[]], 1 | q] == x])
 }
 pub fn case_545(vars: &Vars) -> InferredGoal<DU, DE, Goal<DU, DE>> {
     let q = vars.v[0].clone();
     let x = vars.v[1].clone();
-    proto_vulcan!([|y| { |h, y| { [['b']] == [[], [y, 1], [x, 1 | x] | 1], [[]] == x }, conde { [x != q, conde { [true, [_] == y], _ == x, member(q, [2, 1]) }], q == x, [|t, x| { [[x, q, _], [x, t | t]] == x, t == [1, [], t] }, q == [1, x | q]] } }, [x] != x, match q { x => , fresh_name_9 => , [[2, y]] => , }])
+    proto_vulcan!([|z| { false, match x { [[1, 1, 2], 1, [fresh_name_9, 2 | _]] => { |y| { 2 == x, y != y, [q, 2, _ | y] == y }, [] }, _ => { q == 7, q == 8 }, } }, _ == q, [[[]], 1 | q] == x])
 }
 pub fn case_546(vars: &Vars) -> InferredGoal<DU, DE, Goal<DU, DE>> {
     let x = vars.v[0].clone();
-    proto_vulcan!([|y| { [[y, _ | 'b'] | 3] != [2, [] | y], [|t| { true }], [conde { [false, append(x, y, [])], x == 'b' }] }, match x { [[t, 2], [t, t]] => [3 == t, false], [[_], [1, 1, 'b']] => |h, x| { x != h }, }, |h| { [1, _, x] == h }, closure { [[true], [[x, 2, x | x], [_, x | x]] == x] }])
+    let y = vars.v[1].clone();
+    proto_vulcan!([[1, 1] != x, matche x { 3 => |tz| { tz == [2], [2, 1, 2] != [2, 1 | tz] }, }])
 }
 pub fn case_547(vars: &Vars) -> InferredGoal<DU, DE, Goal<DU, DE>> {
     let x = vars.v[0].clone();
-    proto_vulcan!([|y| { [[y, _ | 'b'] | 3] != [2, [] | y], [|t| { true }], [conde { [false, append(x, y, [])], x == 'b' }] }, match x { [[t, 2], [t, t]] => [3 == t, false], [[_], [1, 1, 'b']] => |h, fresh_name_9| { fresh_name_9 != h }, }, |h| { [1, _, x] == h }, closure { [[true], [[x, 2, x | x], [_, x | x]] == x] }])
+    let y = vars.v[1].clone();
+    proto_vulcan!([[1, 1] != x, matche x { 3 => |fresh_name_9| { fresh_name_9 == [2], [2, 1, 2] != [2, 1 | fresh_name_9] }, }])
 }
 pub fn case_548(vars: &Vars) -> InferredGoal<DU, DE, Goal<DU, DE>> {
-    let q = vars.v[0].clone();
-    let x = vars.v[1].clone();
-    proto_vulcan!([q != 1, |x| { |h| { x == 3 }, x == [q, 1] }, x == 1, closure { [[2 == q, member(x, []), [x] == q]] }])
+    let x = vars.v[0].clone();
+    proto_vulcan!([matche x { [[[]], [false, 1, 3]] | [z, y, [t | z]] => { |x, h| { conde { 2 == h }, |tz| { [2, 2, 2] != [2 | tz], tz == [2, 2] }, member(x, [3, 2]) } }, 1 | [[2], ["bc", "a", 2]] => , }, |y| { conde { append(y, y, [2, 1]), [[[y], [x, x, y] | y] == x, append(y, y, [2, 2])], |x, t| { x != y } }, |t| { [[] == x, 2 == y], y == [y], x == 3 }, x == [1, x, x | x] }, conde { [3, [], x] != x, [] == x }])
 }
 pub fn case_549(vars: &Vars) -> InferredGoal<DU, DE, Goal<DU, DE>> {
-    let q = vars.v[0].clone();
-    let x = vars.v[1].clone();
-    proto_vulcan!([q != 1, |fresh_name_9| { |h| { fresh_name_9 == 3 }, fresh_name_9 == [q, 1] }, x == 1, closure { [[2 == q, member(x, []), [x] == q]] }])
+    let x = vars.v[0].clone();
+    proto_vulcan!([matche x { [[[]], [false, 1, 3]] | [z, y, [t | z]] => { |x, h| { conde { 2 == h }, |tz| { [2, 2, 2] != [2 | tz], tz == [2, 2] }, member(x, [3, 2]) } }, 1 | [[2], ["bc", "a", 2]] => , }, |y| { conde { append(y, y, [2, 1]), [[[y], [x, x, y] | y] == x, append(y, y, [2, 2])], |x, t| { x != y } }, |fresh_name_9| { [[] == x, 2 == y], y == [y], x == 3 }, x == [1, x, x | x] }, conde { [3, [], x] != x, [] == x }])
 }
 pub fn case_550(vars: &Vars) -> InferredGoal<DU, DE, Goal<DU, DE>> {
     let x = vars.v[0].clone();
-    proto_vulcan!([x == x, closure { [[2] == x, |t| { [] != t }] }])
+    proto_vulcan!([|h| { x == [false], _ == [_, h] }, conde { [true, x == [x, x, 1]], conde { [|t, x| { [x, t, t] != x, false }, |t| { [true] == t, x != [[2, x]] }], |t, h| { h == [_, h, 'b' | t], h != [[t], [2], x | t], |tz| { [2, 1 | tz] != [2, 1, 2], tz == [2] } }, |x| { _ == x, x == x } }, [[|tz| { tz == [1, 2], [3, 2, 1, 2] != [3, 2 | tz] }], |tz| { tz == [3], [2, 3] != [2 | tz] }] }, conde { [|tz| { tz == [3, 1], [3 | tz] != [3, 3, 1] }, x == true], [false, match 'a' { _ => [x == 7, x == 8], 'a' | _ => { match x { _ => [x == 7, x == 8], [] => [[] == x, x == [3]], [[_, [], "a"], [false, _ | y]] => , }, |t| { 1 == x, append(t, t, [1, 1]) } }, [y, [3]] => , }], [] }])
 }
 pub fn case_551(vars: &Vars) -> InferredGoal<DU, DE, Goal<DU, DE>> {
     let x = vars.v[0].clone();
-    proto_vulcan!([x == x, closure { [[2] == x, |fresh_name_9| { [] != fresh_name_9 }] }])
+    proto_vulcan!([|h| { x == [false], _ == [_, h] }, conde { [true, x == [x, x, 1]], conde { [|t, fresh_name_9| { [fresh_name_9, t, t] != fresh_name_9, false }, |t| { [true] == t, x != [[2, x]] }], |t, h| { h == [_, h, 'b' | t], h != [[t], [2], x | t], |tz| { [2, 1 | tz] != [2, 1, 2], tz == [2] } }, |x| { _ == x, x == x } }, [[|tz| { tz == [1, 2], [3, 2, 1, 2] != [3, 2 | tz] }], |tz| { tz == [3], [2, 3] != [2 | tz] }] }, conde { [|tz| { tz == [3, 1], [3 | tz] != [3, 3, 1] }, x == true], [false, match 'a' { _ => [x == 7, x == 8], 'a' | _ => { match x { _ => [x == 7, x == 8], [] => [[] == x, x == [3]], [[_, [], "a"], [false, _ | y]] => , }, |t| { 1 == x, append(t, t, [1, 1]) } }, [y, [3]] => , }], [] }])
 }
 pub fn case_552(vars: &Vars) -> InferredGoal<DU, DE, Goal<DU, DE>> {
     let x = vars.v[0].clone();
-    let y = vars.v[1].clone();
-    proto_vulcan!([match y { [["bc", 1, 2]] | [[z, _, 1 | y]] => , }, matche y { _ => { [[true | y] == y] }, [y, [2], y] => { [3] == y, |t| { x == [t, false, 1], match y { y => , [[[], 1, _]] => { t == [['b', 2 | 1]] }, }, 2 != y } }, }])
+    proto_vulcan!([conde { [1 == x, x == [1, 2, [3, 2 | x] | x]], |tz| { [1, 3, 1] != [1, 3 | tz], tz == [1] }, [["bc", 'a'] != x, true] }, x != x])
 }
 pub fn case_553(vars: &Vars) -> InferredGoal<DU, DE, Goal<DU, DE>> {
     let x = vars.v[0].clone();
-    let y = vars.v[1].clone();
-    proto_vulcan!([match y { [["bc", 1, 2]] | [[z, _, 1 | y]] => , }, matche y { _ => { [[true | y] == y] }, [fresh_name_9, [2], fresh_name_9] => { [3] == fresh_name_9, |t| { x == [t, false, 1], match fresh_name_9 { y => , [[[], 1, _]] => { t == [['b', 2 | 1]] }, }, 2 != fresh_name_9 } }, }])
+    proto_vulcan!([conde { [1 == x, x == [1, 2, [3, 2 | x] | x]], |fresh_name_9| { [1, 3, 1] != [1, 3 | fresh_name_9], fresh_name_9 == [1] }, [["bc", 'a'] != x, true] }, x != x])
 }
 pub fn case_554(vars: &Vars) -> InferredGoal<DU, DE, Goal<DU, DE>> {
     let q = vars.v[0].clone();
     let x = vars.v[1].clone();
-    proto_vulcan!([|z| { [match x { [[t], [2, _, _], [2, t, h] | 2] => , [_, _, [2, 1, "a" | h] | _] => , }], true }, conde { [q == [[q, q], [3 | q], [[], q, x | "a"]], match q { [h, _] => { |t, y| { [h, y, 1] != t, t == h } }, }], true, [1 == 2, x == 2] }, x == [false, q, x], closure { |y| { matche y { _ => |tz| { [2, 2, 3, 2] != [2, 2 | tz], tz == [3, 2] }, [[x, t]] => , [t, [2 | x]] => { |tz| { [3, 1, 3] != [3 | tz], tz == [1, 3] }, 2 == q }, }, [[[2, q], [q, 3, y | y]] != q, |tz| { tz == [3], [3, 3 | tz] != [3, 3, 3] }], x == x } }])
+    proto_vulcan!([match x { 'a' => [|y| { q == x, q == [y | x], |h, t| { x == [h, q | 1], true, true } }, q == [q | 1]], _ | _ => [] == [[2, q, q | x]], _ => [[x, [q], [x]] == 1, [] != x], }, x == [_, 2, x], q == 2])
 }
 pub fn case_555(vars: &Vars) -> InferredGoal<DU, DE, Goal<DU, DE>> {
     let q = vars.v[0].clone();
     let x = vars.v[1].clone();
-    proto_vulcan!([|fresh_name_9| { [match x { [[t], [2, _, _], [2, t, h] | 2] => , [_, _, [2, 1, "a" | h] | _] => , }], true }, conde { [q == [[q, q], [3 | q], [[], q, x | "a"]], match q { [h, _] => { |t, y| { [h, y, 1] != t, t == h } }, }], true, [1 == 2, x == 2] }, x == [false, q, x], closure { |y| { matche y { _ => |tz| { [2, 2, 3, 2] != [2, 2 | tz], tz == [3, 2] }, [[x, t]] => , [t, [2 | x]] => { |tz| { [3, 1, 3] != [3 | tz], tz == [1, 3] }, 2 == q }, }, [[[2, q], [q, 3, y | y]] != q, |tz| { tz == [3], [3, 3 | tz] != [3, 3, 3] }], x == x } }])
+    proto_vulcan!([match x { 'a' => [|y| { q == x, q == [y | x], |h, fresh_name_9| { x == [h, q | 1], true, true } }, q == [q | 1]], _ | _ => [] == [[2, q, q | x]], _ => [[x, [q], [x]] == 1, [] != x], }, x == [_, 2, x], q == 2])
 }
 pub fn case_556(vars: &Vars) -> InferredGoal<DU, DE, Goal<DU, DE>> {
     let x = vars.v[0].clone();
     let y = vars.v[1].clone();
-    proto_vulcan!([[1, 1] != x, matche x { [[z, false, 1 | t], [y, h, 1]] => { |t, y| { |x, h| { [["bc", 2, []], [3], [1, y]] == t, h == [2, h, 2], _ == [x | y] }, append(x, x, [1]) } }, }])
+    proto_vulcan!([match y { [["a", _ | h], [z, t, y], [2, 1 | _]] | x => , [[1 | z]] => [[conde { [1] == y }, match z { _ => , _ | 2 => [z != 1, append(z, z, [2])], }, conde { [false, false], [[x] == z, x != [x, z, y | 1]], member(x, [1, 2, 1]) }], y == [[], _ | 1]], }, closure { match y { y | [[1] | _] => { [[_ | x], [x, x, 1], [x, x] | x] != x, member(x, [3, 2]) }, x => { x == [[3], [2], ["bc", 2 | y]] }, } }])
 }
 pub fn case_557(vars: &Vars) -> InferredGoal<DU, DE, Goal<DU, DE>> {
     let x = vars.v[0].clone();
     let y = vars.v[1].clone();
-    proto_vulcan!([[1, 1] != x, matche x { [[z, false, 1 | t], [y, h, 1]] => { |t, fresh_name_9| { |x, h| { [["bc", 2, []], [3], [1, fresh_name_9]] == t, h == [2, h, 2], _ == [x | fresh_name_9] }, append(x, x, [1]) } }, }])
+    proto_vulcan!([match y { [["a", _ | h], [z, t, y], [2, 1 | _]] | x => , [[1 | fresh_name_9]] => [[conde { [1] == y }, match fresh_name_9 { _ => , _ | 2 => [fresh_name_9 != 1, append(fresh_name_9, fresh_name_9, [2])], }, conde { [false, false], [[x] == fresh_name_9, x != [x, fresh_name_9, y | 1]], member(x, [1, 2, 1]) }], y == [[], _ | 1]], }, closure { match y { y | [[1] | _] => { [[_ | x], [x, x, 1], [x, x] | x] != x, member(x, [3, 2]) }, x => { x == [[3], [2], ["bc", 2 | y]] }, } }])
 }
 pub fn case_558(vars: &Vars) -> InferredGoal<DU, DE, Goal<DU, DE>> {
     let x = vars.v[0].clone();
-    proto_vulcan!([matche x { [t] | [] => { 3 == [[], x], true }, [[z], [t, h]] => { t != x }, }, [match x { y | [1] => , true | true => { x == ['b', x, x | x] }, }, [[]] != x], match x { [[1, z | h], [_ | t], y | _] => , }])
+    let y = vars.v[1].clone();
+    proto_vulcan!([conde { x == ['a', []], [|x, h| { [], matche x { _ => [x != [_, [_], 1 | y], [[h, [], 1], [[], _, _]] == [x | h]], [[x | z]] => { append(x, x, [1, 1]) }, _ => , }, matche y { h => |tz| { tz == [2], [2 | tz] != [2, 2] }, [[[], 1, false], [_, x | t], _] => [[x] == h, t == h], y | t => { member(x, []), 2 == [x, h, false] }, } }, x != y] }, |tz| { [3 | tz] != [3, 3], tz == [3] }, match [y] { [[3], [z, [], _ | _], [z, z | y]] => , }])
 }
 pub fn case_559(vars: &Vars) -> InferredGoal<DU, DE, Goal<DU, DE>> {
     let x = vars.v[0].clone();
-    proto_vulcan!([matche x { [t] | [] => { 3 == [[], x], true }, [[z], [t, h]] => { t != x }, }, [match x { y | [1] => , true | true => { x == ['b', x, x | x] }, }, [[]] != x], match x { [[1, z | h], [_ | fresh_name_9], y | _] => , }])
+    let y = vars.v[1].clone();
+    proto_vulcan!([conde { x == ['a', []], [|fresh_name_9, h| { [], matche fresh_name_9 { _ => [fresh_name_9 != [_, [_], 1 | y], [[h, [], 1], [[], _, _]] == [fresh_name_9 | h]], [[x | z]] => { append(x, x, [1, 1]) }, _ => , }, matche y { h => |tz| { tz == [2], [2 | tz] != [2, 2] }, [[[], 1, false], [_, x | t], _] => [[x] == h, t == h], y | t => { member(fresh_name_9, []), 2 == [fresh_name_9, h, false] }, } }, x != y] }, |tz| { [3 | tz] != [3, 3], tz == [3] }, match [y] { [[3], [z, [], _ | _], [z, z | y]] => , }])
 }
 pub fn case_560(vars: &Vars) -> InferredGoal<DU, DE, Goal<DU, DE>> {
     let x = vars.v[0].clone();
-    proto_vulcan!([|h| { [false, 2, 3] != [x, false, [h, 2, []] | x], [h, 2 | x] == h }, [conde { [[2, [true, x, x]] != [x, x, 3 | 3], [_, x, true | x] != x], x == [[], x, 3] }], x == ['b']])
+    let y = vars.v[1].clone();
+    proto_vulcan!([[x != y, true == y, [[2, 1, y], [x, x, _ | y]] == x], y == x, |y, h| { [h, h] == y }, closure { [[|h, x| { true == _ }, [3, 2, y] == y], |y| {  }] }])
 }
 pub fn case_561(vars: &Vars) -> InferredGoal<DU, DE, Goal<DU, DE>> {
     let x = vars.v[0].clone();
-    proto_vulcan!([|fresh_name_9| { [false, 2, 3] != [x, false, [fresh_name_9, 2, []] | x], [fresh_name_9, 2 | x] == fresh_name_9 }, [conde { [[2, [true, x, x]] != [x, x, 3 | 3], [_, x, true | x] != x], x == [[], x, 3] }], x == ['b']])
+    let y = vars.v[1].clone();
+    proto_vulcan!([[x != y, true == y, [[2, 1, y], [x, x, _ | y]] == x], y == x, |y, h| { [h, h] == y }, closure { [[|h, x| { true == _ }, [3, 2, y] == y], |fresh_name_9| {  }] }])
 }
 pub fn case_562(vars: &Vars) -> InferredGoal<DU, DE, Goal<DU, DE>> {
-    let x = vars.v[0].clone();
-    proto_vulcan!([conde { [[x, 1] == [x, [[], _, x]], x == [x, 1]], |tz| { [1, 3, 1] != [1, 3 | tz], tz == [1] }, [|x| { 'a' != x, x == [[x | x]] }, true] }, match ['b', x, true] { [y] => [match y { "a" => , [h, [h | 2] | y] => { 1 == [x] }, }, |t| { matche ["bc", t, t] { [[y, 2], 1 | h] => , [1, 1] => { x == t }, 2 | [[], z] => , }, [t == [[3, [], 2], [x, t | y]], [x, t, y | x] != y], member(t, []) }], [[3, t, _], [h, 3 | _]] | 1 => [3 != x, |tz| { tz == [3], [1, 3] != [1 | tz] }], y => , }, closure { x != 2 }])
-}
-pub fn case_563(vars: &Vars) -> InferredGoal<DU, DE, Goal<DU, DE>> {
-    let x = vars.v[0].clone();
-    proto_vulcan!([conde { [[x, 1] == [x, [[], _, x]], x == [x, 1]], |tz| { [1, 3, 1] != [1, 3 | tz], tz == [1] }, [|x| { 'a' != x, x == [[x | x]] }, true] }, match ['b', x, true] { [y] => [match y { "a" => , [h, [h | 2] | y] => { 1 == [x] }, }, |t| { matche ["bc", t, t] { [[y, 2], 1 | fresh_name_9] => , [1, 1] => { x == t }, 2 | [[], z] => , }, [t == [[3, [], 2], [x, t | y]], [x, t, y | x] != y], member(t, []) }], [[3, t, _], [h, 3 | _]] | 1 => [3 != x, |tz| { tz == [3], [1, 3] != [1 | tz] }], y => , }, closure { x != 2 }])
-}
-pub fn case_564(vars: &Vars) -> InferredGoal<DU, DE, Goal<DU, DE>> {
-    let q = vars.v[0].clone();
-    let x = vars.v[1].clone();
-    proto_vulcan!([match x { [[3, _ | y], x | z] => [conde { q == [y | y], [[x, false] == q, [x != [y, x, z | y], |tz| { tz == [1], [1 | tz] != [1, 1] }, [3] != x]], |z| { append(x, x, []), false } }, [q, [], x] == q], [[t], true | h] => [[] == x, _ == q], [[y | y], 3] => [[match x { [[[], t], 1 | t] => , }, conde { x != x, [|tz| { tz == [1, 3], [1 | tz] != [1, 1, 3] }, x != x] }], y != 'a'], }, matche [_] { [[t, t | _]] => [x == 3, [[x, 1, 2 | 2] == t]], [t, 1, 2] | [[3], [_ | z] | 1] => , }, q == [[q], _, q | q]])
-}
-pub fn case_565(vars: &Vars) -> InferredGoal<DU, DE, Goal<DU, DE>> {
-    let q = vars.v[0].clone();
-    let x = vars.v[1].clone();
-    proto_vulcan!([match x { [[3, _ | y], fresh_name_9 | z] => [conde { q == [y | y], [[fresh_name_9, false] == q, [fresh_name_9 != [y, fresh_name_9, z | y], |tz| { tz == [1], [1 | tz] != [1, 1] }, [3] != fresh_name_9]], |z| { append(fresh_name_9, fresh_name_9, []), false } }, [q, [], fresh_name_9] == q], [[t], true | h] => [[] == x, _ == q], [[y | y], 3] => [[match x { [[[], t], 1 | t] => , }, conde { x != x, [|tz| { tz == [1, 3], [1 | tz] != [1, 1, 3] }, x != x] }], y != 'a'], }, matche [_] { [[t, t | _]] => [x == 3, [[x, 1, 2 | 2] == t]], [t, 1, 2] | [[3], [_ | z] | 1] => , }, q == [[q], _, q | q]])
-}
-pub fn case_566(vars: &Vars) -> InferredGoal<DU, DE, Goal<DU, DE>> {
-    let x = vars.v[0].clone();
-    let y = vars.v[1].clone();
-    proto_vulcan!([match y { [[1]] | h => { conde { false, |t| { x == _, t == [1, _ | x] }, [[[[_ | 2], [[]], [[], _]] != [1, 3, y], [3] == y, [1, x] != x], false] }, 1 != y }, "bc" => , }])
-}
-pub fn case_567(vars: &Vars) -> InferredGoal<DU, DE, Goal<DU, DE>> {
-    let x = vars.v[0].clone();
-    let y = vars.v[1].clone();
-    proto_vulcan!([match y { [[1]] | h => { conde { false, |fresh_name_9| { x == _, fresh_name_9 == [1, _ | x] }, [[[[_ | 2], [[]], [[], _]] != [1, 3, y], [3] == y, [1, x] != x], false] }, 1 != y }, "bc" => , }])
-}
-pub fn case_568(vars: &Vars) -> InferredGoal<DU, DE, Goal<DU, DE>> {
-    let x = vars.v[0].clone();
-    let y = vars.v[1].clone();
-    proto_vulcan!([x != [y, y], closure { [y == [y, x, _], match y { z | [[h | h], [y, [], t | _], 2 | _] => matche x { _ => x == [x, x, x | x], [t, [3, []], ['a']] => { [1, [t, 3, _] | t] == t }, [[2, x], 2] | [t | x] => , }, 1 | h => , [['a' | _], t, [x, 'a', t]] => [y != [1, 2, 'a'], |z| { x != [3 | x] }], }] }])
-}
-pub fn case_569(vars: &Vars) -> InferredGoal<DU, DE, Goal<DU, DE>> {
-    let x = vars.v[0].clone();
-    let y = vars.v[1].clone();
-    proto_vulcan!([x != [y, y], closure { [y == [y, x, _], match y { z | [[h | h], [y, [], t | _], 2 | _] => matche x { _ => x == [x, x, x | x], [t, [3, []], ['a']] => { [1, [t, 3, _] | t] == t }, [[2, x], 2] | [t | x] => , }, 1 | h => , [['a' | _], t, [x, 'a', t]] => [y != [1, 2, 'a'], |fresh_name_9| { x != [3 | x] }], }] }])
-}
-pub fn case_570(vars: &Vars) -> InferredGoal<DU, DE, Goal<DU, DE>> {
-    let x = vars.v[0].clone();
-    let y = vars.v[1].clone();
-    proto_vulcan!([conde { x == x, |h| { h == [[y, y, h | h], [x, _, "a"], _], [h == 'b', member(h, [1, 3]), [_, "bc", [] | x] == y], |z| { true, |tz| { [1, 2 | tz] != [1, 2, 1, 3], tz == [1, 3] }, x != [1] } }, [conde { [y == 'a', matche y { [h] => { x == [h, 2 | y], [y] == x }, h => , }], [_ == x, append(x, x, [])] }, 2 == [x, x, false]] }, [y] != x, conde { match y { [z, [2], 1] => { [y == x, [[]] == 3, append(y, x, [2, 1])], conde { [y == y, [2, y, z] == z], y == _ } }, ['b', h, z] => { [2] == [[_, 1], [y, 3]] }, }, [[y, x] == y, |tz| { [1, 1, 2] != [1, 1 | tz], tz == [2] }] }])
-}
-pub fn case_571(vars: &Vars) -> InferredGoal<DU, DE, Goal<DU, DE>> {
-    let x = vars.v[0].clone();
-    let y = vars.v[1].clone();
-    proto_vulcan!([conde { x == x, |h| { h == [[y, y, h | h], [x, _, "a"], _], [h == 'b', member(h, [1, 3]), [_, "bc", [] | x] == y], |z| { true, |tz| { [1, 2 | tz] != [1, 2, 1, 3], tz == [1, 3] }, x != [1] } }, [conde { [y == 'a', matche y { [h] => { x == [h, 2 | y], [y] == x }, h => , }], [_ == x, append(x, x, [])] }, 2 == [x, x, false]] }, [y] != x, conde { match y { [z, [2], 1] => { [y == x, [[]] == 3, append(y, x, [2, 1])], conde { [y == y, [2, y, z] == z], y == _ } }, ['b', h, z] => { [2] == [[_, 1], [y, 3]] }, }, [[y, x] == y, |fresh_name_9| { [1, 1, 2] != [1, 1 | fresh_name_9], fresh_name_9 == [2] }] }])
-}
-pub fn case_572(vars: &Vars) -> InferredGoal<DU, DE, Goal<DU, DE>> {
-    let x = vars.v[0].clone();
-    let y = vars.v[1].clone();
-    proto_vulcan!([[conde { match x { _ => [[y | y], [y], [2, 1, y]] == [x, _, "a" | y], }, [y == y, y != x], [match 2 { [] => , }, |h, x| { 3 == [] }] }, |t| { [[[y, y, x], [t, t], [t]] != [y, [2, 1, t], [[]]], [t] == [[[]], [1] | t]], 'a' != 1, |tz| { [2, 1, 3] != [2, 1 | tz], tz == [3] } }, [false, conde { [y != y, [3, 3, 2] == x], [[y, 1] == x, y == [1, y]], y == x }, match [[] | x] { [[[], [], _], [2 | 1], 1 | _] => { append(x, y, []) }, }]], y != [x, x], y == 1, closure { append(y, x, []) }])
-}
-pub fn case_573(vars: &Vars) -> InferredGoal<DU, DE, Goal<DU, DE>> {
-    let x = vars.v[0].clone();
-    let y = vars.v[1].clone();
-    proto_vulcan!([[conde { match x { _ => [[y | y], [y], [2, 1, y]] == [x, _, "a" | y], }, [y == y, y != x], [match 2 { [] => , }, |h, fresh_name_9| { 3 == [] }] }, |t| { [[[y, y, x], [t, t], [t]] != [y, [2, 1, t], [[]]], [t] == [[[]], [1] | t]], 'a' != 1, |tz| { [2, 1, 3] != [2, 1 | tz], tz == [3] } }, [false, conde { [y != y, [3, 3, 2] == x], [[y, 1] == x, y == [1, y]], y == x }, match [[] | x] { [[[], [], _], [2 | 1], 1 | _] => { append(x, y, []) }, }]], y != [x, x], y == 1, closure { append(y, x, []) }])
-}
-pub fn case_574(vars: &Vars) -> InferredGoal<DU, DE, Goal<DU, DE>> {
     let x = vars.v[0].clone();
     let y = vars.v[1].clone();
     proto_vulcan!([y == x, [_, x | y] == y, |tz| { [2, 2, 3] != [2, 2 | tz], tz == [3] }])
 }
-pub fn case_575(vars: &Vars) -> InferredGoal<DU, DE, Goal<DU, DE>> {
+pub fn case_563(vars: &Vars) -> InferredGoal<DU, DE, Goal<DU, DE>> {
     let x = vars.v[0].clone();
     let y = vars.v[1].clone();
     proto_vulcan!([y == x, [_, x | y] == y, |fresh_name_9| { [2, 2, 3] != [2, 2 | fresh_name_9], fresh_name_9 == [3] }])
 }
+pub fn case_564(vars: &Vars) -> InferredGoal<DU, DE, Goal<DU, DE>> {
+    let q = vars.v[0].clone();
+    let x = vars.v[1].clone();
+    proto_vulcan!([["bc"] == q, match q { [1 | _] | [3, [[], h]] => [matche x { _ | _ => { |y| { member(y, [1, 2]), [[_, 1], [], [y]] != y } }, [[1 | _], [], [3, 1]] | [[_, _], [y]] => { [member(x, [3]), append(q, x, [1]), member(x, [])] }, [[t, 1, _], [1, false], _ | t] => |tz| { [3, 1 | tz] != [3, 1, 2, 3], tz == [2, 3] }, }, x == [2, [], x]], [[2 | x], _] => { conde { false, q == 1 } }, }, conde { x == q, conde { [[x, true, 1] == x, conde { 2 == q, false, member(x, [3]) }], [true] == x } }, closure { [matche q { 2 => , [z, [t, h], [true, 3]] => { conde { x == 1, z == z }, false }, }, member(q, [2])] }])
+}
+pub fn case_565(vars: &Vars) -> InferredGoal<DU, DE, Goal<DU, DE>> {
+    let q = vars.v[0].clone();
+    let x = vars.v[1].clone();
+    proto_vulcan!([["bc"] == q, match q { [1 | _] | [3, [[], h]] => [matche x { _ | _ => { |y| { member(y, [1, 2]), [[_, 1], [], [y]] != y } }, [[1 | _], [], [3, 1]] | [[_, _], [y]] => { [member(x, [3]), append(q, x, [1]), member(x, [])] }, [[t, 1, _], [1, false], _ | t] => |tz| { [3, 1 | tz] != [3, 1, 2, 3], tz == [2, 3] }, }, x == [2, [], x]], [[2 | x], _] => { conde { false, q == 1 } }, }, conde { x == q, conde { [[x, true, 1] == x, conde { 2 == q, false, member(x, [3]) }], [true] == x } }, closure { [matche q { 2 => , [fresh_name_9, [t, h], [true, 3]] => { conde { x == 1, fresh_name_9 == fresh_name_9 }, false }, }, member(q, [2])] }])
+}
+pub fn case_566(vars: &Vars) -> InferredGoal<DU, DE, Goal<DU, DE>> {
+    let x = vars.v[0].clone();
+    let y = vars.v[1].clone();
+    proto_vulcan!([conde { [], x != y, [[x, y, y] == x, matche y { [1, ['b'] | x] => , }] }, |tz| { [2 | tz] != [2, 3], tz == [3] }, matche y { y => y != 1, 3 => [[[y, 1, y], 2] == [x, x], x == 2, match y { x | [[x, y, z], [t, 2 | _]] => , [1] | _ => { true }, }], }, closure { [matche 1 { [[1]] => { |x| { x == [y, [_ | 1], [[], 2 | "a"]], y == 2 }, [y == [1 | x]] }, }, |x, t| { [[y, [3, _, x] | y] == [[x, x, "bc" | x]], x == y, [x, 1, y | x] == y] }] }])
+}
+pub fn case_567(vars: &Vars) -> InferredGoal<DU, DE, Goal<DU, DE>> {
+    let x = vars.v[0].clone();
+    let y = vars.v[1].clone();
+    proto_vulcan!([conde { [], x != y, [[x, y, y] == x, matche y { [1, ['b'] | x] => , }] }, |tz| { [2 | tz] != [2, 3], tz == [3] }, matche y { y => y != 1, 3 => [[[y, 1, y], 2] == [x, x], x == 2, match y { x | [[x, y, z], [t, 2 | _]] => , [1] | _ => { true }, }], }, closure { [matche 1 { [[1]] => { |x| { x == [y, [_ | 1], [[], 2 | "a"]], y == 2 }, [y == [1 | x]] }, }, |fresh_name_9, t| { [[y, [3, _, fresh_name_9] | y] == [[fresh_name_9, fresh_name_9, "bc" | fresh_name_9]], fresh_name_9 == y, [fresh_name_9, 1, y | fresh_name_9] == y] }] }])
+}
+pub fn case_568(vars: &Vars) -> InferredGoal<DU, DE, Goal<DU, DE>> {
+    let q = vars.v[0].clone();
+    let x = vars.v[1].clone();
+    proto_vulcan!([[match x { _ => [q == 7, q == 8], 2 => [[x, q, 1]] == x, }, q == [q, 2, 1 | q], false == x], closure { [conde { [matche [_, x, "bc" | q] { [[[]], _, _ | _] => , [[_ | _]] | [[_, 2 | _], 2, [2, []] | h] => [append(x, q, [3, 2]), x == x], }, match q { [1 | y] => [[[q], [false, y, [] | q], 1] == y, [2 | 2] == q], [[2 | y], [_ | y] | 2] => { true != x, y == [3] }, }], [_ == q, matche x { [2 | z] | [[y, _, t], [h, 1 | 'b'], [y, x]] => , [_] | 3 => |tz| { tz == [2, 2], [2 | tz] != [2, 2, 2] }, z | [[z], t] => , }] }, conde { q != [[2, 2 | q], [x], [1 | q]], 2 == q }] }])
+}
+pub fn case_569(vars: &Vars) -> InferredGoal<DU, DE, Goal<DU, DE>> {
+    let q = vars.v[0].clone();
+    let x = vars.v[1].clone();
+    proto_vulcan!([[match x { _ => [q == 7, q == 8], 2 => [[x, q, 1]] == x, }, q == [q, 2, 1 | q], false == x], closure { [conde { [matche [_, x, "bc" | q] { [[[]], _, _ | _] => , [[_ | _]] | [[_, 2 | _], 2, [2, []] | h] => [append(x, q, [3, 2]), x == x], }, match q { [1 | fresh_name_9] => [[[q], [false, fresh_name_9, [] | q], 1] == fresh_name_9, [2 | 2] == q], [[2 | y], [_ | y] | 2] => { true != x, y == [3] }, }], [_ == q, matche x { [2 | z] | [[y, _, t], [h, 1 | 'b'], [y, x]] => , [_] | 3 => |tz| { tz == [2, 2], [2 | tz] != [2, 2, 2] }, z | [[z], t] => , }] }, conde { q != [[2, 2 | q], [x], [1 | q]], 2 == q }] }])
+}
+pub fn case_570(vars: &Vars) -> InferredGoal<DU, DE, Goal<DU, DE>> {
+    let q = vars.v[0].clone();
+    let x = vars.v[1].clone();
+    proto_vulcan!([match x { _ => member(q, [1, 2, 3]), }, closure { [|z, y| {  }, 2 == x] }])
+}
+pub fn case_571(vars: &Vars) -> InferredGoal<DU, DE, Goal<DU, DE>> {
+    let q = vars.v[0].clone();
+    let x = vars.v[1].clone();
+    proto_vulcan!([match x { _ => member(q, [1, 2, 3]), }, closure { [|fresh_name_9, y| {  }, 2 == x] }])
+}
+pub fn case_572(vars: &Vars) -> InferredGoal<DU, DE, Goal<DU, DE>> {
+    let x = vars.v[0].clone();
+    let y = vars.v[1].clone();
+    proto_vulcan!([conde { [y == y, match y { [1 | y] => |t| { true, x == [t | t] }, true => { conde { [x, y] == [_, 1, x], [false, _ == y], [2, y, x] == x }, [2, x] == y }, }], [1, [], 2] != _ }, closure { [|y| { matche y { [[z]] => { [y, y | y] == [[2, 2, "bc" | y], [1, z]] }, }, x != [[], 2, y] }, _ != x] }])
+}
+pub fn case_573(vars: &Vars) -> InferredGoal<DU, DE, Goal<DU, DE>> {
+    let x = vars.v[0].clone();
+    let y = vars.v[1].clone();
+    proto_vulcan!([conde { [y == y, match y { [1 | y] => |t| { true, x == [t | t] }, true => { conde { [x, y] == [_, 1, x], [false, _ == y], [2, y, x] == x }, [2, x] == y }, }], [1, [], 2] != _ }, closure { [|fresh_name_9| { matche fresh_name_9 { [[z]] => { [fresh_name_9, fresh_name_9 | fresh_name_9] == [[2, 2, "bc" | fresh_name_9], [1, z]] }, }, x != [[], 2, fresh_name_9] }, _ != x] }])
+}
+pub fn case_574(vars: &Vars) -> InferredGoal<DU, DE, Goal<DU, DE>> {
+    let x = vars.v[0].clone();
+    proto_vulcan!([|t| { false, match x { [t, false] => t == [[t, x], t | t], [[x], x] => { |tz| { [1, 3, 1] != [1, 3 | tz], tz == [1] } }, }, [[3], [3, t, t]] == [x, 1] }, [match x { [h, y] | 2 => , [[h], 1, [_, 'b' | 1]] | [h, [y | z], [_ | _]] => , }, x != x, [1] == x]])
+}
+pub fn case_575(vars: &Vars) -> InferredGoal<DU, DE, Goal<DU, DE>> {
+    let x = vars.v[0].clone();
+    proto_vulcan!([|t| { false, match x { [fresh_name_9, false] => fresh_name_9 == [[fresh_name_9, x], fresh_name_9 | fresh_name_9], [[x], x] => { |tz| { [1, 3, 1] != [1, 3 | tz], tz == [1] } }, }, [[3], [3, t, t]] == [x, 1] }, [match x { [h, y] | 2 => , [[h], 1, [_, 'b' | 1]] | [h, [y | z], [_ | _]] => , }, x != x, [1] == x]])
+}
 pub fn case_576(vars: &Vars) -> InferredGoal<DU, DE, Goal<DU, DE>> {
     let q = vars.v[0].clone();
     let x = vars.v[1].clone();
-    proto_vulcan!([["bc"] == q, match q { [[1 | _], [2, 3]] | [[h, 2], x] => { q != 1, conde { q == 1, [|x, z| { ['b', x | q] != z, x == [z, "bc", 'b' | x], true }, member(q, [])] } }, [1, 2] => { |h, y| { conde { [append(x, h, [3]), true], [[[], h, 2] != 1, y == h], q != h }, match q { [] | [[t], [x, y], _] => q == [2, 3, _ | q], true => , } } }, }, [x, x, q | q] == [1], closure { [q == [2, x, []], |x| { x == q }] }])
+    proto_vulcan!([|z| {  }, true, match q { [[t, _] | _] => |y| { y != [[] | t] }, [[2, h, h | z], [[], 'a', _], x] => , _ => |x| { q != x }, }])
 }
 pub fn case_577(vars: &Vars) -> InferredGoal<DU, DE, Goal<DU, DE>> {
     let q = vars.v[0].clone();
     let x = vars.v[1].clone();
-    proto_vulcan!([["bc"] == q, match q { [[1 | _], [2, 3]] | [[h, 2], x] => { q != 1, conde { q == 1, [|x, z| { ['b', x | q] != z, x == [z, "bc", 'b' | x], true }, member(q, [])] } }, [1, 2] => { |h, y| { conde { [append(x, h, [3]), true], [[[], h, 2] != 1, y == h], q != h }, match q { [] | [[t], [x, y], _] => q == [2, 3, _ | q], true => , } } }, }, [x, x, q | q] == [1], closure { [q == [2, x, []], |fresh_name_9| { fresh_name_9 == q }] }])
+    proto_vulcan!([|z| {  }, true, match q { [[t, _] | _] => |y| { y != [[] | t] }, [[2, fresh_name_9, fresh_name_9 | z], [[], 'a', _], x] => , _ => |x| { q != x }, }])
 }
 pub fn case_578(vars: &Vars) -> InferredGoal<DU, DE, Goal<DU, DE>> {
     let x = vars.v[0].clone();
     let y = vars.v[1].clone();
-    proto_vulcan!([conde { [|y| { |y| { member(y, [1, 3, 1]), [y, y, y] == y }, matche y { [2, [], [1] | x] => , } }, |tz| { [2 | tz] != [2, 3], tz == [3] }], [match [] { [_] => [matche y { [] | [3] => y == [x, x, y], }, conde { [x == x, x == [y]], [1 != y, [x, y, 2] == y], |tz| { [1, 1] != [1 | tz], tz == [1] } }], 3 => , [[t], 2, 1 | t] | [[3], 1, 1] => [matche [x, 2, x | 1] { [3, [2, 2, 2], [t, t, t]] => , }, [1, 1] != [1 | x]], }, x == [3 | x]] }, [y, [3, _, x] | y] == y, member(x, [3])])
+    proto_vulcan!([matche [2 | x] { [[3 | z]] => , _ => member(x, [1, 2, 3]), _ | _ => [y == 7, y == 8], }, match x { [[_, _]] => { matche x { _ => conde { 2 == x }, x => , } }, }, false])
 }
 pub fn case_579(vars: &Vars) -> InferredGoal<DU, DE, Goal<DU, DE>> {
     let x = vars.v[0].clone();
     let y = vars.v[1].clone();
-    proto_vulcan!([conde { [|y| { |y| { member(y, [1, 3, 1]), [y, y, y] == y }, matche y { [2, [], [1] | x] => , } }, |tz| { [2 | tz] != [2, 3], tz == [3] }], [match [] { [_] => [matche y { [] | [3] => y == [x, x, y], }, conde { [x == x, x == [y]], [1 != y, [x, y, 2] == y], |tz| { [1, 1] != [1 | tz], tz == [1] } }], 3 => , [[t], 2, 1 | t] | [[3], 1, 1] => [matche [x, 2, x | 1] { [3, [2, 2, 2], [fresh_name_9, fresh_name_9, fresh_name_9]] => , }, [1, 1] != [1 | x]], }, x == [3 | x]] }, [y, [3, _, x] | y] == y, member(x, [3])])
+    proto_vulcan!([matche [2 | x] { [[3 | z]] => , _ => member(x, [1, 2, 3]), _ | _ => [y == 7, y == 8], }, match x { [[_, _]] => { matche x { _ => conde { 2 == x }, fresh_name_9 => , } }, }, false])
 }
 pub fn case_580(vars: &Vars) -> InferredGoal<DU, DE, Goal<DU, DE>> {
-    let q = vars.v[0].clone();
-    let x = vars.v[1].clone();
-    proto_vulcan!([[|x| { |x| { q == 2 } }, false], closure { [matche q { [[1, x, 2], _, t] => [t == [2, [t, _, false], [x, "bc", t | t]], match x { [[z, 1, y], _, 'a'] => { z == x }, }], [2, 1 | _] => [matche q { [[3, z, 1], [y, y, []], [1, z] | t] => , [3, y, [false, _, h]] => , }, false], }, true] }])
+    let x = vars.v[0].clone();
+    proto_vulcan!([false, conde { [match [[], 3 | x] { [[_, h | _], t | y] => [append(x, x, []), t == [h | y]], 1 => { [x, [], 2] == x }, }, matche x { [2, [2 | z], h] => , 2 => { x == _, x == x }, [[t, t, 2]] => , }, match [x, x] { [[2, 1], [t, "bc", 2]] => { t == [1, "bc", 2] }, z => { z != 2 }, }] }])
 }
 pub fn case_581(vars: &Vars) -> InferredGoal<DU, DE, Goal<DU, DE>> {
-    let q = vars.v[0].clone();
-    let x = vars.v[1].clone();
-    proto_vulcan!([[|x| { |x| { q == 2 } }, false], closure { [matche q { [[1, x, 2], _, t] => [t == [2, [t, _, false], [x, "bc", t | t]], match x { [[z, 1, y], _, 'a'] => { z == x }, }], [2, 1 | _] => [matche q { [[3, z, 1], [y, y, []], [1, z] | fresh_name_9] => , [3, y, [false, _, h]] => , }, false], }, true] }])
+    let x = vars.v[0].clone();
+    proto_vulcan!([false, conde { [match [[], 3 | x] { [[_, h | _], fresh_name_9 | y] => [append(x, x, []), fresh_name_9 == [h | y]], 1 => { [x, [], 2] == x }, }, matche x { [2, [2 | z], h] => , 2 => { x == _, x == x }, [[t, t, 2]] => , }, match [x, x] { [[2, 1], [t, "bc", 2]] => { t == [1, "bc", 2] }, z => { z != 2 }, }] }])
 }
 pub fn case_582(vars: &Vars) -> InferredGoal<DU, DE, Goal<DU, DE>> {
     let q = vars.v[0].clone();
     let x = vars.v[1].clone();
-    proto_vulcan!([match x { 3 => , }, closure { [|z, y| { 2 == y, [x, q] == y }, [q, [2, false, _], [_, q, x | q]] != [q, [], q | x]] }])
+    proto_vulcan!([|h| { x == [q, h, q], |tz| { [1 | tz] != [1, 1], tz == [1] } }, [3 | q] == q, closure { [conde { [|z| { x == [['b']] }, append(q, x, [])], [matche x { 2 => [member(x, [1, 3, 2]), 2 != q], 1 | t => [false, |tz| { [3, 1, 1] != [3 | tz], tz == [1, 1] }], _ => [q == 7, q == 8], }, |y| { x != 2 }] }, matche x { h => , 2 => { |tz| { [1, 3] != [1 | tz], tz == [3] } }, [_, [h, 'a']] => member(x, [2, 1]), }] }])
 }
 pub fn case_583(vars: &Vars) -> InferredGoal<DU, DE, Goal<DU, DE>> {
     let q = vars.v[0].clone();
     let x = vars.v[1].clone();
-    proto_vulcan!([match x { 3 => , }, closure { [|fresh_name_9, y| { 2 == y, [x, q] == y }, [q, [2, false, _], [_, q, x | q]] != [q, [], q | x]] }])
+    proto_vulcan!([|fresh_name_9| { x == [q, fresh_name_9, q], |tz| { [1 | tz] != [1, 1], tz == [1] } }, [3 | q] == q, closure { [conde { [|z| { x == [['b']] }, append(q, x, [])], [matche x { 2 => [member(x, [1, 3, 2]), 2 != q], 1 | t => [false, |tz| { [3, 1, 1] != [3 | tz], tz == [1, 1] }], _ => [q == 7, q == 8], }, |y| { x != 2 }] }, matche x { h => , 2 => { |tz| { [1, 3] != [1 | tz], tz == [3] } }, [_, [h, 'a']] => member(x, [2, 1]), }] }])
 }
 pub fn case_584(vars: &Vars) -> InferredGoal<DU, DE, Goal<DU, DE>> {
     let x = vars.v[0].clone();
-    let y = vars.v[1].clone();
-    proto_vulcan!([conde { y == y, x == y, [x != y, matche x { [[t | _], 2, _] => { member(t, [3]), y == [] }, h | _ => [conde { x == [[y], []], [y, y] != x, [x == y, x == 1] }, [1, [], 2] != _], }] }, closure { [y == x, ['a', y] == y] }])
+    proto_vulcan!([match x { [] => , y => , _ => [x == 7, x == 8], }, match x { [y, [], [h, 2, _]] => { |x, h| { "bc" == x, matche x { z | _ => , [[1, x, h], _, [2, h, z | h]] => , _ => x == [[]], } }, [|z| {  }, conde { [], 1 != y, false }] }, [[x, t, 3]] => , 2 | false => x == x, }, closure { [|z| { z != [2, _, []] }, match x { [['a' | y]] => { |tz| { [3 | tz] != [3, 2, 1], tz == [2, 1] } }, t => , }] }])
 }
 pub fn case_585(vars: &Vars) -> InferredGoal<DU, DE, Goal<DU, DE>> {
     let x = vars.v[0].clone();
-    let y = vars.v[1].clone();
-    proto_vulcan!([conde { y == y, x == y, [x != y, matche x { [[fresh_name_9 | _], 2, _] => { member(fresh_name_9, [3]), y == [] }, h | _ => [conde { x == [[y], []], [y, y] != x, [x == y, x == 1] }, [1, [], 2] != _], }] }, closure { [y == x, ['a', y] == y] }])
+    proto_vulcan!([match x { [] => , fresh_name_9 => , _ => [x == 7, x == 8], }, match x { [y, [], [h, 2, _]] => { |x, h| { "bc" == x, matche x { z | _ => , [[1, x, h], _, [2, h, z | h]] => , _ => x == [[]], } }, [|z| {  }, conde { [], 1 != y, false }] }, [[x, t, 3]] => , 2 | false => x == x, }, closure { [|z| { z != [2, _, []] }, match x { [['a' | y]] => { |tz| { [3 | tz] != [3, 2, 1], tz == [2, 1] } }, t => , }] }])
 }
 pub fn case_586(vars: &Vars) -> InferredGoal<DU, DE, Goal<DU, DE>> {
     let x = vars.v[0].clone();
-    proto_vulcan!([|t| { matche t { y | 2 => |h| { [] != h }, }, x == [_, t | x], matche t { 3 => { conde { t == t, [x, x, 3] == t }, x == [x, 1] }, 3 => { |z| { true, true }, |h| { h == [[h, h], ['b'] | t] } }, [[[], 1, false], [y | z], [_ | _]] => , } }, x != x, closure { x == x }])
+    proto_vulcan!([x != [x, x, 'a'], |h, x| {  }])
 }
 pub fn case_587(vars: &Vars) -> InferredGoal<DU, DE, Goal<DU, DE>> {
     let x = vars.v[0].clone();
-    proto_vulcan!([|t| { matche t { y | 2 => |h| { [] != h }, }, x == [_, t | x], matche t { 3 => { conde { t == t, [x, x, 3] == t }, x == [x, 1] }, 3 => { |z| { true, true }, |h| { h == [[h, h], ['b'] | t] } }, [[[], 1, false], [fresh_name_9 | z], [_ | _]] => , } }, x != x, closure { x == x }])
+    proto_vulcan!([x != [x, x, 'a'], |h, fresh_name_9| {  }])
 }
 pub fn case_588(vars: &Vars) -> InferredGoal<DU, DE, Goal<DU, DE>> {
-    let q = vars.v[0].clone();
-    let x = vars.v[1].clone();
-    proto_vulcan!([|z| { true, match q { [] => , 1 => [[2, 2 | q] == x, true], [3, [], [2]] => { q != [[[], 'a', _], z, [2]] }, }, match q { [[2 | z], [x, _] | y] | [[], [y, 'a'] | 2] => [conde { [_ == [], y == [y | q]], [q == [q], q != q] }, conde { [y, 'b'] == y, y == [["a", y] | q] }], } }, q == q, true])
+    let x = vars.v[0].clone();
+    proto_vulcan!(['a' != x, |y| { [conde { [x, [y]] == x, [y == [true, x, x], [[y, 2 | y], 'a', [y, x, [] | 'a'] | x] == []] }, x == [y]], y == [1, _] }])
 }
 pub fn case_589(vars: &Vars) -> InferredGoal<DU, DE, Goal<DU, DE>> {
-    let q = vars.v[0].clone();
-    let x = vars.v[1].clone();
-    proto_vulcan!([|fresh_name_9| { true, match q { [] => , 1 => [[2, 2 | q] == x, true], [3, [], [2]] => { q != [[[], 'a', _], fresh_name_9, [2]] }, }, match q { [[2 | z], [x, _] | y] | [[], [y, 'a'] | 2] => [conde { [_ == [], y == [y | q]], [q == [q], q != q] }, conde { [y, 'b'] == y, y == [["a", y] | q] }], } }, q == q, true])
+    let x = vars.v[0].clone();
+    proto_vulcan!(['a' != x, |fresh_name_9| { [conde { [x, [fresh_name_9]] == x, [fresh_name_9 == [true, x, x], [[fresh_name_9, 2 | fresh_name_9], 'a', [fresh_name_9, x, [] | 'a'] | x] == []] }, x == [fresh_name_9]], fresh_name_9 == [1, _] }])
 }
 pub fn case_590(vars: &Vars) -> InferredGoal<DU, DE, Goal<DU, DE>> {
-    let x = vars.v[0].clone();
-    let y = vars.v[1].clone();
-    proto_vulcan!([matche [2 | x] { [[x, 2 | y], [1]] => , 3 | [1, [t | y], [_, _]] => { matche x { y => [|x, y| { 2 == x, x == 1, false }, match y { [[_, 3]] => { [y, y] != x }, }], [[3, []] | x] | [z | 3] => , } }, [[y], [y, true, 1]] => [[match x { [] => { y == y }, }], match y { [[x, 2], [_, []], 1] => { false }, false => { y == [1, ["bc"]], |y| { y != [x, []], y != [_, 2, 3], [_, [], y | x] == y } }, [[x, _ | x], t] => { [y == 2] }, }], }, x == [y | 3], matche x { [[true | y]] => , 2 | 1 => , h => { |t, y| { |z| { y == [[], [y, y, t | x], _], [[x | x]] == 1, true }, [true, 1 == t, member(x, [])] }, [[y, [3] | h] == _, x != [[], x]] }, }])
+    let q = vars.v[0].clone();
+    let x = vars.v[1].clone();
+    proto_vulcan!([|x, y| { |h, x| { |tz| { tz == [1], [3 | tz] != [3, 1] }, match 1 { 'b' => , t => { [x, x, t | h] != x }, }, |y| { 2 == y, append(x, x, []), member(h, [3]) } }, 1 == x, 1 != [[y | q], [q, 2, 1], [1, _]] }, x == [[] | q]])
 }
 pub fn case_591(vars: &Vars) -> InferredGoal<DU, DE, Goal<DU, DE>> {
-    let x = vars.v[0].clone();
-    let y = vars.v[1].clone();
-    proto_vulcan!([matche [2 | x] { [[x, 2 | y], [1]] => , 3 | [1, [t | y], [_, _]] => { matche x { y => [|x, y| { 2 == x, x == 1, false }, match y { [[_, 3]] => { [y, y] != x }, }], [[3, []] | x] | [z | 3] => , } }, [[y], [y, true, 1]] => [[match x { [] => { y == y }, }], match y { [[x, 2], [_, []], 1] => { false }, false => { y == [1, ["bc"]], |y| { y != [x, []], y != [_, 2, 3], [_, [], y | x] == y } }, [[x, _ | x], t] => { [y == 2] }, }], }, x == [y | 3], matche x { [[true | y]] => , 2 | 1 => , fresh_name_9 => { |t, y| { |z| { y == [[], [y, y, t | x], _], [[x | x]] == 1, true }, [true, 1 == t, member(x, [])] }, [[y, [3] | fresh_name_9] == _, x != [[], x]] }, }])
+    let q = vars.v[0].clone();
+    let x = vars.v[1].clone();
+    proto_vulcan!([|x, y| { |h, x| { |tz| { tz == [1], [3 | tz] != [3, 1] }, match 1 { 'b' => , fresh_name_9 => { [x, x, fresh_name_9 | h] != x }, }, |y| { 2 == y, append(x, x, []), member(h, [3]) } }, 1 == x, 1 != [[y | q], [q, 2, 1], [1, _]] }, x == [[] | q]])
 }
 pub fn case_592(vars: &Vars) -> InferredGoal<DU, DE, Goal<DU, DE>> {
     let x = vars.v[0].clone();
-    proto_vulcan!([false, conde { [conde { [match x { [['a'], ['a', _]] => , }, [[_, x, 2] | x] == x], [x == x, conde { 2 == [[2], false, 2 | true], [x == x, 2 == 2], member(x, [2]) }] }, match x { 2 => , }], [append(x, x, [1]), conde { |z| { append(x, x, []), true }, [match x { x => , [[false]] => { 3 == x, _ == [x, "a", []] }, [[z, z]] => , }, true] }] }, closure { [|z| { z == 3, x == [_, 2, z], matche z { [[2, _, y]] | [[2, 1, t], ["bc"], []] => [|tz| { tz == [2], [2, 1, 2] != [2, 1 | tz] }, 2 == z], } }, append(x, x, [1])] }])
+    proto_vulcan!([matche x { [[3, z, [] | x], t, [2, 'b']] => { match z { 2 | z => x == [x, [2, 1, []], _], }, [t, _, 1] == x }, _ | [[h], t] => { ['b', x] == x, x == _ }, 3 => { conde { conde { |tz| { tz == [3], [1 | tz] != [1, 3] } }, |y| { member(y, [3]) } }, 1 != x }, }, closure { [member(x, [3, 2, 1]), [1, x, []] == x] }])
 }
 pub fn case_593(vars: &Vars) -> InferredGoal<DU, DE, Goal<DU, DE>> {
     let x = vars.v[0].clone();
-    proto_vulcan!([false, conde { [conde { [match x { [['a'], ['a', _]] => , }, [[_, x, 2] | x] == x], [x == x, conde { 2 == [[2], false, 2 | true], [x == x, 2 == 2], member(x, [2]) }] }, match x { 2 => , }], [append(x, x, [1]), conde { |z| { append(x, x, []), true }, [match x { fresh_name_9 => , [[false]] => { 3 == x, _ == [x, "a", []] }, [[z, z]] => , }, true] }] }, closure { [|z| { z == 3, x == [_, 2, z], matche z { [[2, _, y]] | [[2, 1, t], ["bc"], []] => [|tz| { tz == [2], [2, 1, 2] != [2, 1 | tz] }, 2 == z], } }, append(x, x, [1])] }])
+    proto_vulcan!([matche x { [[3, z, [] | x], fresh_name_9, [2, 'b']] => { match z { 2 | z => x == [x, [2, 1, []], _], }, [fresh_name_9, _, 1] == x }, _ | [[h], t] => { ['b', x] == x, x == _ }, 3 => { conde { conde { |tz| { tz == [3], [1 | tz] != [1, 3] } }, |y| { member(y, [3]) } }, 1 != x }, }, closure { [member(x, [3, 2, 1]), [1, x, []] == x] }])
 }
 pub fn case_594(vars: &Vars) -> InferredGoal<DU, DE, Goal<DU, DE>> {
-    let q = vars.v[0].clone();
-    let x = vars.v[1].clone();
-    proto_vulcan!([|h| { [[h] == q], q == [true | h], conde { h != [3, q], matche x { [[1], [t, false], [y] | _] | [y, y, [1]] => , } } }, true])
+    let x = vars.v[0].clone();
+    proto_vulcan!([x != [1, x, x], x == [x, x, x], |tz| { [3, 1, 3] != [3 | tz], tz == [1, 3] }])
 }
 pub fn case_595(vars: &Vars) -> InferredGoal<DU, DE, Goal<DU, DE>> {
-    let q = vars.v[0].clone();
-    let x = vars.v[1].clone();
-    proto_vulcan!([|fresh_name_9| { [[fresh_name_9] == q], q == [true | fresh_name_9], conde { fresh_name_9 != [3, q], matche x { [[1], [t, false], [y] | _] | [y, y, [1]] => , } } }, true])
+    let x = vars.v[0].clone();
+    proto_vulcan!([x != [1, x, x], x == [x, x, x], |fresh_name_9| { [3, 1, 3] != [3 | fresh_name_9], fresh_name_9 == [1, 3] }])
 }
 pub fn case_596(vars: &Vars) -> InferredGoal<DU, DE, Goal<DU, DE>> {
     let x = vars.v[0].clone();
-    proto_vulcan!([match x { [[1]] => [|t, x| { x == [x, t], [_ == x, [x] != x, [[], _, 1 | t] == [[x], [3], [x, x]]] }, |t, x| { conde { true, x != x, [[x, _] == [[t, []] | t], [1, 1] == x] }, conde { x != x, _ == x } }], [[[], z] | x] => [[x == [z, z, _ | x], |t, y| { x == [], t == [[y] | x], x == [x] }, [[] != x, true, append(z, x, [])]], match x { [[_ | _], [x | z], [_, _ | t]] => [x == [], conde { append(t, z, [1, 3]), |tz| { [1 | tz] != [1, 1], tz == [1] }, t == x }], h => 1 == h, [] | [y] => [x != x, [2, 2] != x], }], y => [false, y == [x, 1, 1]], }, x == x])
+    proto_vulcan!([|h, y| { [_, x] == y }, [[[], x, x] | x] == [_, 2, x]])
 }
 pub fn case_597(vars: &Vars) -> InferredGoal<DU, DE, Goal<DU, DE>> {
     let x = vars.v[0].clone();
-    proto_vulcan!([match x { [[1]] => [|t, x| { x == [x, t], [_ == x, [x] != x, [[], _, 1 | t] == [[x], [3], [x, x]]] }, |t, x| { conde { true, x != x, [[x, _] == [[t, []] | t], [1, 1] == x] }, conde { x != x, _ == x } }], [[[], z] | x] => [[x == [z, z, _ | x], |t, y| { x == [], t == [[y] | x], x == [x] }, [[] != x, true, append(z, x, [])]], match x { [[_ | _], [x | fresh_name_9], [_, _ | t]] => [x == [], conde { append(t, fresh_name_9, [1, 3]), |tz| { [1 | tz] != [1, 1], tz == [1] }, t == x }], h => 1 == h, [] | [y] => [x != x, [2, 2] != x], }], y => [false, y == [x, 1, 1]], }, x == x])
+    proto_vulcan!([|h, fresh_name_9| { [_, x] == fresh_name_9 }, [[[], x, x] | x] == [_, 2, x]])
 }
 pub fn case_598(vars: &Vars) -> InferredGoal<DU, DE, Goal<DU, DE>> {
     let x = vars.v[0].clone();
-    proto_vulcan!([x != [x, x, 'a'], |h, x| { |h, t| { h == x } }, closure { conde { member(x, [1]), [[[x | x] == x, [x, 2] == x], member(x, [3, 1])] } }])
+    let y = vars.v[1].clone();
+    proto_vulcan!([|h| { [[2, 1, _ | h], x, 2] != x, |tz| { [3, 1 | tz] != [3, 1, 3], tz == [3] } }, true, match [[], [] | x] { [[z, h], h, 1] => { match y { 1 => { [[y, h | x] == x, z == y, x == [h, 'b' | x]] }, _ | [t] => , _ => [h == 7, h == 8], } }, 2 => { conde { 'b' != y }, match x { [2] => , } }, [[h, [], []], [x, 1, "a" | h]] => { _ == x, append(x, x, [1]) }, }])
 }
 pub fn case_599(vars: &Vars) -> InferredGoal<DU, DE, Goal<DU, DE>> {
     let x = vars.v[0].clone();
-    proto_vulcan!([x != [x, x, 'a'], |h, x| { |fresh_name_9, t| { fresh_name_9 == x } }, closure { conde { member(x, [1]), [[[x | x] == x, [x, 2] == x], member(x, [3, 1])] } }])
+    let y = vars.v[1].clone();
+    proto_vulcan!([|h| { [[2, 1, _ | h], x, 2] != x, |tz| { [3, 1 | tz] != [3, 1, 3], tz == [3] } }, true, match [[], [] | x] { [[z, h], h, 1] => { match y { 1 => { [[y, h | x] == x, z == y, x == [h, 'b' | x]] }, _ | [t] => , _ => [h == 7, h == 8], } }, 2 => { conde { 'b' != y }, match x { [2] => , } }, [[fresh_name_9, [], []], [x, 1, "a" | fresh_name_9]] => { _ == x, append(x, x, [1]) }, }])
 }
 pub fn case_600(vars: &Vars) -> InferredGoal<DU, DE, Goal<DU, DE>> {
-    let x = vars.v[0].clone();
-    proto_vulcan!(['a' != x, |y| { |t, h| { [[x, _, x]] == x, conde { x == h, x != [2 | 3], [t == y, false] } }, |x, t| { |tz| { [2 | tz] != [2, 1, 1], tz == [1, 1] }, conde { [x == [t], true], x == 1 }, member(x, [2]) } }])
+    let q = vars.v[0].clone();
+    let x = vars.v[1].clone();
+    proto_vulcan!([|t, z| { t == [] }, [3 | 2] != x])
 }
 pub fn case_601(vars: &Vars) -> InferredGoal<DU, DE, Goal<DU, DE>> {
-    let x = vars.v[0].clone();
-    proto_vulcan!(['a' != x, |y| { |t, h| { [[x, _, x]] == x, conde { x == h, x != [2 | 3], [t == y, false] } }, |x, t| { |fresh_name_9| { [2 | fresh_name_9] != [2, 1, 1], fresh_name_9 == [1, 1] }, conde { [x == [t], true], x == 1 }, member(x, [2]) } }])
+    let q = vars.v[0].clone();
+    let x = vars.v[1].clone();
+    proto_vulcan!([|t, fresh_name_9| { t == [] }, [3 | 2] != x])
 }
 pub fn case_602(vars: &Vars) -> InferredGoal<DU, DE, Goal<DU, DE>> {
     let q = vars.v[0].clone();
     let x = vars.v[1].clone();
-    proto_vulcan!([|x, y| { matche y { [[_] | z] => { |x, t| { z == 1 } }, [[_, 1, 1]] | [h | _] => , }, |t| { append(x, t, [1, 3]), |x, t| { x == x, [_, [x, 3], [t, x]] == x } }, y != q }, x == [[], x | "a"], closure { [1, true, []] != q }])
+    proto_vulcan!([true, closure { [[matche q { [[2], 1] | [[], [[], 3, h], [_, y, [] | t]] => [true, [q, [[], _, x]] == x], [["a", 1, 1], [], 'b'] | _ => { q == x }, }, matche 1 { [3 | _] => [[x, x | q] == x, true], }], match [_] { h => { member(x, [2]), h != x }, [[h, 'a'], [h, z | y] | 1] | [[y, t]] => { [x, y] == q, [[1, 3]] == x }, }] }])
 }
 pub fn case_603(vars: &Vars) -> InferredGoal<DU, DE, Goal<DU, DE>> {
     let q = vars.v[0].clone();
     let x = vars.v[1].clone();
-    proto_vulcan!([|x, y| { matche y { [[_] | z] => { |x, t| { z == 1 } }, [[_, 1, 1]] | [h | _] => , }, |t| { append(x, t, [1, 3]), |x, fresh_name_9| { x == x, [_, [x, 3], [fresh_name_9, x]] == x } }, y != q }, x == [[], x | "a"], closure { [1, true, []] != q }])
+    proto_vulcan!([true, closure { [[matche q { [[2], 1] | [[], [[], 3, h], [_, y, [] | t]] => [true, [q, [[], _, x]] == x], [["a", 1, 1], [], 'b'] | _ => { q == x }, }, matche 1 { [3 | _] => [[x, x | q] == x, true], }], match [_] { fresh_name_9 => { member(x, [2]), fresh_name_9 != x }, [[h, 'a'], [h, z | y] | 1] | [[y, t]] => { [x, y] == q, [[1, 3]] == x }, }] }])
 }
 pub fn case_604(vars: &Vars) -> InferredGoal<DU, DE, Goal<DU, DE>> {
-    let x = vars.v[0].clone();
-    proto_vulcan!([matche x { x => , [[1, []], t, [2, 'b']] | [3, [_ | _]] => x == x, h => [|h, z| { h == 1, [[], 1, x | _] == z, h != h }, ['b', x] == x], }, closure { [[[] | x] == x, conde { x == [x | x], [x == [[x, 2 | 2], 3], x == [2]], [true, |tz| { tz == [2], [3, 1, 2] != [3, 1 | tz] }, true] }] }])
+    let q = vars.v[0].clone();
+    let x = vars.v[1].clone();
+    proto_vulcan!([[[match q { _ => [|tz| { [1, 3 | tz] != [1, 3, 2, 3], tz == [2, 3] }, [true | q] == [_]], }], q == q]])
 }
 pub fn case_605(vars: &Vars) -> InferredGoal<DU, DE, Goal<DU, DE>> {
-    let x = vars.v[0].clone();
-    proto_vulcan!([matche x { fresh_name_9 => , [[1, []], t, [2, 'b']] | [3, [_ | _]] => x == x, h => [|h, z| { h == 1, [[], 1, x | _] == z, h != h }, ['b', x] == x], }, closure { [[[] | x] == x, conde { x == [x | x], [x == [[x, 2 | 2], 3], x == [2]], [true, |tz| { tz == [2], [3, 1, 2] != [3, 1 | tz] }, true] }] }])
+    let q = vars.v[0].clone();
+    let x = vars.v[1].clone();
+    proto_vulcan!([[[match q { _ => [|fresh_name_9| { [1, 3 | fresh_name_9] != [1, 3, 2, 3], fresh_name_9 == [2, 3] }, [true | q] == [_]], }], q == q]])
 }
 pub fn case_606(vars: &Vars) -> InferredGoal<DU, DE, Goal<DU, DE>> {
     let x = vars.v[0].clone();
-    proto_vulcan!([x != [1, x, x], x == [x, x, x], |tz| { [3, 1, 3] != [3 | tz], tz == [1, 3] }])
+    proto_vulcan!([|t| { |t| { |x| {  } }, [_, 3] == t, |h, x| { ['b', [_, _, t]] == 2 } }, |y| {  }, closure { [x, 1 | x] == x }])
 }
 pub fn case_607(vars: &Vars) -> InferredGoal<DU, DE, Goal<DU, DE>> {
     let x = vars.v[0].clone();
-    proto_vulcan!([x != [1, x, x], x == [x, x, x], |fresh_name_9| { [3, 1, 3] != [3 | fresh_name_9], fresh_name_9 == [1, 3] }])
+    proto_vulcan!([|t| { |fresh_name_9| { |x| {  } }, [_, 3] == t, |h, x| { ['b', [_, _, t]] == 2 } }, |y| {  }, closure { [x, 1 | x] == x }])
 }
 pub fn case_608(vars: &Vars) -> InferredGoal<DU, DE, Goal<DU, DE>> {
     let x = vars.v[0].clone();
-    proto_vulcan!([|h, y| { x == [2], matche x { [[3 | h], t | y] => , }, [2 != x, x == 1] }, conde { append(x, x, []), true != x }, closure { [x, 1, _] == x }])
+    let y = vars.v[1].clone();
+    proto_vulcan!([|x| { conde { [[|tz| { tz == [1], [2, 1, 1] != [2, 1 | tz] }, 1 != x, |tz| { [3 | tz] != [3, 3, 2], tz == [3, 2] }], matche y { 1 => [[2, 1, x | 2] == y, |tz| { [1 | tz] != [1, 1, 2], tz == [1, 2] }], _ | t => { [x] == y, [[x], [[] | false], [x, 2, 2] | y] == y }, 2 => , }], [match y { _ | _ => { y == 7, y == 8 }, [[[], t, h], x, [] | _] => { _ == y }, [y, 2, [3, 3] | y] => [|tz| { tz == [3, 2], [2, 1, 3, 2] != [2, 1 | tz] }, x == [[], 3, []]], }, matche x { [[_]] | _ => , }], [[x, 1, []] == y, x == [2, []]] } }, |y| { conde { [], y == 3, [conde { y != x, [2 == [x, _ | x], y == [y]] }, |y, x| { y == [_, [2, 'b' | y] | x] }] }, true, |z| { |tz| { [2, 3, 2] != [2 | tz], tz == [3, 2] }, z == [2, x | y] } }, |tz| { [1, 2 | tz] != [1, 2, 3], tz == [3] }])
 }
 pub fn case_609(vars: &Vars) -> InferredGoal<DU, DE, Goal<DU, DE>> {
     let x = vars.v[0].clone();
-    proto_vulcan!([|h, fresh_name_9| { x == [2], matche x { [[3 | h], t | y] => , }, [2 != x, x == 1] }, conde { append(x, x, []), true != x }, closure { [x, 1, _] == x }])
+    let y = vars.v[1].clone();
+    proto_vulcan!([|x| { conde { [[|tz| { tz == [1], [2, 1, 1] != [2, 1 | tz] }, 1 != x, |tz| { [3 | tz] != [3, 3, 2], tz == [3, 2] }], matche y { 1 => [[2, 1, x | 2] == y, |tz| { [1 | tz] != [1, 1, 2], tz == [1, 2] }], _ | t => { [x] == y, [[x], [[] | false], [x, 2, 2] | y] == y }, 2 => , }], [match y { _ | _ => { y == 7, y == 8 }, [[[], t, h], x, [] | _] => { _ == y }, [y, 2, [3, 3] | y] => [|tz| { tz == [3, 2], [2, 1, 3, 2] != [2, 1 | tz] }, x == [[], 3, []]], }, matche x { [[_]] | _ => , }], [[x, 1, []] == y, x == [2, []]] } }, |y| { conde { [], y == 3, [conde { y != x, [2 == [x, _ | x], y == [y]] }, |y, x| { y == [_, [2, 'b' | y] | x] }] }, true, |fresh_name_9| { |tz| { [2, 3, 2] != [2 | tz], tz == [3, 2] }, fresh_name_9 == [2, x | y] } }, |tz| { [1, 2 | tz] != [1, 2, 3], tz == [3] }])
 }
 pub fn case_610(vars: &Vars) -> InferredGoal<DU, DE, Goal<DU, DE>> {
     let x = vars.v[0].clone();
     let y = vars.v[1].clone();
-    proto_vulcan!([|h| { matche [h] { [[_ | x], []] => [matche x { [[t, 'b'], [z, [], z], [_, x]] => [1 == ['b', ["bc", _, 3]], false], [false, x, [z] | _] => [x == _, true], [3, [[], []]] => , }, conde { [[x, 1, 'b' | 'b'] == y, h != y], [] != y }], [[t], [2, _ | t]] | [[h, [], []], [x, 1, "a" | h]] => { _ == y, append(y, y, [1]) }, }, |y| { [false, h == [2, 1, 2 | y]], match y { [[2, h, x], [1, z, y], h] => , }, [[x, 1 | h] == h] } }, [x == y], append(x, y, [3, 1]), closure { [x != x, |h| { [1, [y, 2 | h], x] == [[2, y], [y], h] }] }])
+    proto_vulcan!([|y| { [], append(y, x, [1, 1]) }, |y, t| { |y| { y != [], conde { [y != _, 1 != x] }, match t { [1, y, h | _] => { true }, } } }])
 }
 pub fn case_611(vars: &Vars) -> InferredGoal<DU, DE, Goal<DU, DE>> {
     let x = vars.v[0].clone();
     let y = vars.v[1].clone();
-    proto_vulcan!([|h| { matche [h] { [[_ | x], []] => [matche x { [[t, 'b'], [z, [], z], [_, x]] => [1 == ['b', ["bc", _, 3]], false], [false, x, [z] | _] => [x == _, true], [3, [[], []]] => , }, conde { [[x, 1, 'b' | 'b'] == y, h != y], [] != y }], [[t], [2, _ | t]] | [[h, [], []], [x, 1, "a" | h]] => { _ == y, append(y, y, [1]) }, }, |y| { [false, h == [2, 1, 2 | y]], match y { [[2, h, x], [1, z, y], h] => , }, [[x, 1 | h] == h] } }, [x == y], append(x, y, [3, 1]), closure { [x != x, |fresh_name_9| { [1, [y, 2 | fresh_name_9], x] == [[2, y], [y], fresh_name_9] }] }])
+    proto_vulcan!([|y| { [], append(y, x, [1, 1]) }, |y, t| { |fresh_name_9| { fresh_name_9 != [], conde { [fresh_name_9 != _, 1 != x] }, match t { [1, y, h | _] => { true }, } } }])
 }
 pub fn case_612(vars: &Vars) -> InferredGoal<DU, DE, Goal<DU, DE>> {
-    let q = vars.v[0].clone();
-    let x = vars.v[1].clone();
-    proto_vulcan!([|t, z| { t != [[], q, 1], member(t, [3]), true }, q == [3, q]])
+    let x = vars.v[0].clone();
+    proto_vulcan!([[] == x, |y| { y == _ }, closure { [x == x, [1, [], []] == x] }])
 }
 pub fn case_613(vars: &Vars) -> InferredGoal<DU, DE, Goal<DU, DE>> {
-    let q = vars.v[0].clone();
-    let x = vars.v[1].clone();
-    proto_vulcan!([|t, fresh_name_9| { t != [[], q, 1], member(t, [3]), true }, q == [3, q]])
+    let x = vars.v[0].clone();
+    proto_vulcan!([[] == x, |fresh_name_9| { fresh_name_9 == _ }, closure { [x == x, [1, [], []] == x] }])
 }
 pub fn case_614(vars: &Vars) -> InferredGoal<DU, DE, Goal<DU, DE>> {
-    let q = vars.v[0].clone();
-    let x = vars.v[1].clone();
-    proto_vulcan!([true, closure { [[[false, q == [[], x]]], conde { match [[], 3, q] { y => { ["bc", _, x] == [x, [3]], x == [_, "a"] }, [] => { x == x }, }, [|x| { |tz| { tz == [2, 1], [1, 3, 2, 1] != [1, 3 | tz] } }, [] == q], [[1, q] == [[1, 1, 2]], member(x, [3, 1, 2])] }] }])
+    let x = vars.v[0].clone();
+    let y = vars.v[1].clone();
+    proto_vulcan!([conde { conde { [x == y, x != _], y != [y, 3], [y == [3, 3, []], 2 == x] }, [], [[2, y] != [[y], x], |y| { y != y, y == y }] }, closure { x != 3 }])
 }
 pub fn case_615(vars: &Vars) -> InferredGoal<DU, DE, Goal<DU, DE>> {
-    let q = vars.v[0].clone();
-    let x = vars.v[1].clone();
-    proto_vulcan!([true, closure { [[[false, q == [[], x]]], conde { match [[], 3, q] { y => { ["bc", _, x] == [x, [3]], x == [_, "a"] }, [] => { x == x }, }, [|fresh_name_9| { |tz| { tz == [2, 1], [1, 3, 2, 1] != [1, 3 | tz] } }, [] == q], [[1, q] == [[1, 1, 2]], member(x, [3, 1, 2])] }] }])
-}
-pub fn case_616(vars: &Vars) -> InferredGoal<DU, DE, Goal<DU, DE>> {
-    let x = vars.v[0].clone();
-    proto_vulcan!([|t| { [[3], t | x] == ["a", [], 'b'] }, [[3, _, _ | 'b'] == 'a']])
-}
-pub fn case_617(vars: &Vars) -> InferredGoal<DU, DE, Goal<DU, DE>> {
-    let x = vars.v[0].clone();
-    proto_vulcan!([|fresh_name_9| { [[3], fresh_name_9 | x] == ["a", [], 'b'] }, [[3, _, _ | 'b'] == 'a']])
-}
-pub fn case_618(vars: &Vars) -> InferredGoal<DU, DE, Goal<DU, DE>> {
     let x = vars.v[0].clone();
     let y = vars.v[1].clone();
-    proto_vulcan!([|x| { true, [[x], [_, 3], [y | y]] == x }, true, [[] | x] == x, closure { y == x }])
+    proto_vulcan!([conde { conde { [x == y, x != _], y != [y, 3], [y == [3, 3, []], 2 == x] }, [], [[2, y] != [[y], x], |fresh_name_9| { fresh_name_9 != fresh_name_9, fresh_name_9 == fresh_name_9 }] }, closure { x != 3 }])
 }
-pub fn case_619(vars: &Vars) -> InferredGoal<DU, DE, Goal<DU, DE>> {
-    let x = vars.v[0].clone();
-    let y = vars.v[1].clone();
-    proto_vulcan!([|fresh_name_9| { true, [[fresh_name_9], [_, 3], [y | y]] == fresh_name_9 }, true, [[] | x] == x, closure { y == x }])
-}
-pub fn case_620(vars: &Vars) -> InferredGoal<DU, DE, Goal<DU, DE>> {
-    let x = vars.v[0].clone();
-    let y = vars.v[1].clone();
-    proto_vulcan!([|y| { x == [x], conde { [|y| { append(y, x, [1]), |tz| { tz == [1], [1, 1] != [1 | tz] }, true }, [y] == x], [y, [], y | x] == y }, _ == x }, matche y { 1 | [[y, [], h], [[], [], y]] => , [[y, h, 1 | h]] | [[t, x, "a" | t], [t, z] | _] => , y | t => , }])
-}
-pub fn case_621(vars: &Vars) -> InferredGoal<DU, DE, Goal<DU, DE>> {
-    let x = vars.v[0].clone();
-    let y = vars.v[1].clone();
-    proto_vulcan!([|y| { x == [x], conde { [|fresh_name_9| { append(fresh_name_9, x, [1]), |tz| { tz == [1], [1, 1] != [1 | tz] }, true }, [y] == x], [y, [], y | x] == y }, _ == x }, matche y { 1 | [[y, [], h], [[], [], y]] => , [[y, h, 1 | h]] | [[t, x, "a" | t], [t, z] | _] => , y | t => , }])
-}
-pub fn case_622(vars: &Vars) -> InferredGoal<DU, DE, Goal<DU, DE>> {
-    let x = vars.v[0].clone();
-    proto_vulcan!([[] == x, |y| { member(x, [2, 1]), member(x, [1, 1]), matche y { t | [[1, x], 1, [2, _ | true]] => , 3 => { 1 != y }, } }])
-}
-pub fn case_623(vars: &Vars) -> InferredGoal<DU, DE, Goal<DU, DE>> {
-    let x = vars.v[0].clone();
-    proto_vulcan!([[] == x, |fresh_name_9| { member(x, [2, 1]), member(x, [1, 1]), matche fresh_name_9 { t | [[1, x], 1, [2, _ | true]] => , 3 => { 1 != fresh_name_9 }, } }])
-}
-pub fn case_624(vars: &Vars) -> InferredGoal<DU, DE, Goal<DU, DE>> {
-    let x = vars.v[0].clone();
-    let y = vars.v[1].clone();
-    proto_vulcan!([conde { [true, conde { [y == [y], x != _], y == [[1, _, x], [x | y]] }], matche y { [[t], [y, h, _]] => [match y { [2] => { |tz| { tz == [3, 1], [2, 3 | tz] != [2, 3, 3, 1] }, x == y }, t | [] => { [y] == y }, 3 => [y == [x], true], }, _ == t], z => , [h, x, 1 | _] => matche x { 2 | [[[], x, _], [y], [h, y, y | y]] => , 1 | [t] => [1, y] == x, 3 => 2 == y, }, }, false }])
-}
-pub fn case_625(vars: &Vars) -> InferredGoal<DU, DE, Goal<DU, DE>> {
-    let x = vars.v[0].clone();
-    let y = vars.v[1].clone();
-    proto_vulcan!([conde { [true, conde { [y == [y], x != _], y == [[1, _, x], [x | y]] }], matche y { [[t], [y, h, _]] => [match y { [2] => { |tz| { tz == [3, 1], [2, 3 | tz] != [2, 3, 3, 1] }, x == y }, t | [] => { [y] == y }, 3 => [y == [x], true], }, _ == t], z => , [fresh_name_9, x, 1 | _] => matche x { 2 | [[[], x, _], [y], [h, y, y | y]] => , 1 | [t] => [1, y] == x, 3 => 2 == y, }, }, false }])
-}
-pub const NCASES: usize = 626;
+pub const NCASES: usize = 616;
 pub fn case(i: usize, vars: &Vars) -> Goal<DU, DE> {
     match i {
         0 => case_0(vars).goal,
@@ -3730,16 +3684,6 @@ pub fn case(i: usize, vars: &Vars) -> Goal<DU, DE> {
         613 => case_613(vars).goal,
         614 => case_614(vars).goal,
         615 => case_615(vars).goal,
-        616 => case_616(vars).goal,
-        617 => case_617(vars).goal,
-        618 => case_618(vars).goal,
-        619 => case_619(vars).goal,
-        620 => case_620(vars).goal,
-        621 => case_621(vars).goal,
-        622 => case_622(vars).goal,
-        623 => case_623(vars).goal,
-        624 => case_624(vars).goal,
-        625 => case_625(vars).goal,
         _ => unreachable!(),
     }
 }
